@@ -1,842 +1,842 @@
 pub fn case_0(vars: &Vars) -> InferredGoal<DU, DE, Goal<DU, DE>> {
     let qa = vars.v[0].clone();
     let qb = vars.v[1].clone();
-    let coll0: LT = LT::from_vec(vec![lterm!(2), lterm!([2]), lterm!([1])]);
-    proto_vulcan!([for e in &coll0 { |x| { [[3 | qa] | qb] == 3, [true, _] != qb, x == 1 } }])
+    let coll0: LT = LT::from_vec(vec![lterm!([1])]);
+    proto_vulcan!([for e in &coll0 { e == [[1]] }])
 }
 pub fn case_1(vars: &Vars) -> InferredGoal<DU, DE, Goal<DU, DE>> {
     let qa = vars.v[0].clone();
     let qb = vars.v[1].clone();
-    let coll0: Vec<LT> = vec![lterm!([2]), lterm!(2)];
-    proto_vulcan!([|t| { [t, []] == qb, qb == _ }, for e in &coll0 { append(qb, qa, [3, 3]) }])
+    let coll0: Vec<LT> = vec![];
+    proto_vulcan!([for e in &coll0 { e == qa, qb == 2 }])
 }
 pub fn case_2(vars: &Vars) -> InferredGoal<DU, DE, Goal<DU, DE>> {
     let qa = vars.v[0].clone();
     let qb = vars.v[1].clone();
-    let coll0: Vec<LT> = vec![lterm!(3), lterm!(2)];
-    proto_vulcan!([for e in &coll0 { member(qa, [1]), |h| { h == [1, 1, []], _ != [[false, []], [3, e, _], 3] } }])
+    let coll0: Vec<LT> = vec![];
+    proto_vulcan!([for e in &coll0 { [[2, []] != qb, (e, qa) == qb, [] != ([2], e)] }])
 }
 pub fn case_3(vars: &Vars) -> InferredGoal<DU, DE, Goal<DU, DE>> {
     let qa = vars.v[0].clone();
     let qb = vars.v[1].clone();
-    let coll0: LT = LT::from_vec(vec![lterm!(1)]);
-    proto_vulcan!([for e in &coll0 { 3 != [[1], 1, [[], [], 3 | e] | _] }])
+    let coll0: Vec<LT> = vec![lterm!(3), lterm!(2)];
+    proto_vulcan!([for e in &coll0 { qb != _, |h| { |tz| { tz == [1], [1 | tz] != [1, 1] }, [qb, 2, e] == [[[] | qa], [_, true | h], []] } }])
 }
 pub fn case_4(vars: &Vars) -> InferredGoal<DU, DE, Goal<DU, DE>> {
     let qa = vars.v[0].clone();
     let qb = vars.v[1].clone();
     let coll0: Vec<LT> = vec![];
-    proto_vulcan!([qb == [_, 1 | qb], for e in &coll0 { |z| { z == qb, false, qb != qa } }])
+    proto_vulcan!([for e in &coll0 { e == "a", member(qb, [3, 2]) }])
 }
 pub fn case_5(vars: &Vars) -> InferredGoal<DU, DE, Goal<DU, DE>> {
     let qa = vars.v[0].clone();
     let qb = vars.v[1].clone();
-    let coll0: LT = LT::from_vec(vec![lterm!(3)]);
-    proto_vulcan!([for e in &coll0 { |z, x| { false, [2, z] != [[3, qb, [] | qb], qb, [qb, x, 'b']] }, qb == [2, 2] }])
+    let coll0: LT = LT::from_vec(vec![lterm!(2), qb.clone(), lterm!([2])]);
+    proto_vulcan!([for e in &coll0 { conde { [|tz| { [2 | tz] != [2, 3, 3], tz == [3, 3] }, qa == e], [false, qa == qb], [2] == e }, |tz| { [1, 3, 2, 1] != [1, 3 | tz], tz == [2, 1] } }])
 }
 pub fn case_6(vars: &Vars) -> InferredGoal<DU, DE, Goal<DU, DE>> {
     let qa = vars.v[0].clone();
     let qb = vars.v[1].clone();
-    let coll0: Vec<LT> = vec![];
-    proto_vulcan!([|tz| { [2, 2, 2] != [2, 2 | tz], tz == [2] }, for e in &coll0 { qb == [1, 3], _ == [[qb, _, qb], qb, e] }])
+    let coll0: LT = LT::from_vec(vec![lterm!([1]), lterm!(1), lterm!(2)]);
+    proto_vulcan!([P3([], [[]], [1, 2]) == qb, for e in &coll0 { qa == qa, qa == 3 }])
 }
 pub fn case_7(vars: &Vars) -> InferredGoal<DU, DE, Goal<DU, DE>> {
     let qa = vars.v[0].clone();
     let qb = vars.v[1].clone();
     let coll0: LT = LT::from_vec(vec![lterm!(3)]);
-    proto_vulcan!([for e in &coll0 { ["a", e | qa] == [2, [e, [], []]] }])
+    proto_vulcan!([for e in &coll0 { qa != e, member(qb, [3, 2, 2]) }])
 }
 pub fn case_8(vars: &Vars) -> InferredGoal<DU, DE, Goal<DU, DE>> {
     let qa = vars.v[0].clone();
     let qb = vars.v[1].clone();
-    let coll0: LT = LT::from_vec(vec![lterm!(3), lterm!(3), qa.clone()]);
-    proto_vulcan!([for e in &coll0 { member(qa, [3, 1, 1]), [3, false | _] == e }])
+    let coll0: LT = LT::from_vec(vec![lterm!(2)]);
+    proto_vulcan!([for e in &coll0 { |tz| { [1, 3, 3] != [1 | tz], tz == [3, 3] } }])
 }
 pub fn case_9(vars: &Vars) -> InferredGoal<DU, DE, Goal<DU, DE>> {
     let qa = vars.v[0].clone();
     let qb = vars.v[1].clone();
-    let coll0: LT = LT::from_vec(vec![qb.clone(), lterm!(3), lterm!(1)]);
-    proto_vulcan!([[append(qb, qb, [1, 2]), |tz| { tz == [2, 3], [1 | tz] != [1, 2, 3] }, qb == [1, qb, []]], for e in &coll0 { 'b' == [["bc" | _], [e, e] | qb], |t| { [2, [e]] == [3, "a", [] | e], [e, [_, e] | t] == false } }])
+    let coll0: Vec<LT> = vec![qb.clone(), qa.clone()];
+    proto_vulcan!([|h| {  }, for e in &coll0 { [], e == [qb | qa] }])
 }
 pub fn case_10(vars: &Vars) -> InferredGoal<DU, DE, Goal<DU, DE>> {
     let qa = vars.v[0].clone();
     let qb = vars.v[1].clone();
-    let coll0: Vec<LT> = vec![lterm!(3), lterm!(3)];
-    proto_vulcan!([for e in &coll0 { conde { [qa == [2, _, []], e == [[qa, 2, qb], []]], [e == e, qa == [qb, false, 1]] } }])
+    let coll0: LT = LT::from_vec(vec![lterm!(2)]);
+    proto_vulcan!([(1, 2) != [[_, 1], []], for e in &coll0 { e != e, |z| { qb == e, "bc" == [z | e] } }])
 }
 pub fn case_11(vars: &Vars) -> InferredGoal<DU, DE, Goal<DU, DE>> {
     let qa = vars.v[0].clone();
     let qb = vars.v[1].clone();
-    let coll0: LT = LT::from_vec(vec![lterm!(2)]);
-    proto_vulcan!([for e in &coll0 { e == [2, 1, [] | 1] }])
+    let coll0: LT = LT::from_vec(vec![qb.clone()]);
+    proto_vulcan!([for e in &coll0 { conde { [qb == [qb | qb], e == [1, qa]], [], e == [qb, 2, qb] }, [qb, "bc", 2] != e }])
 }
 pub fn case_12(vars: &Vars) -> InferredGoal<DU, DE, Goal<DU, DE>> {
     let qa = vars.v[0].clone();
     let qb = vars.v[1].clone();
-    let coll0: Vec<LT> = vec![lterm!([1]), qb.clone()];
-    proto_vulcan!([conde { [qa == [1], qa == [qb]] }, for e in &coll0 { |t| { [qb | qa] == t, true } }])
+    let coll0: Vec<LT> = vec![];
+    proto_vulcan!([|t, y| { [2, qa, 2 | qb] == t }, for e in &coll0 { member(qa, [3, 2, 2]) }])
 }
 pub fn case_13(vars: &Vars) -> InferredGoal<DU, DE, Goal<DU, DE>> {
     let qa = vars.v[0].clone();
     let qb = vars.v[1].clone();
-    let coll0: Vec<LT> = vec![lterm!(2), lterm!(1)];
-    proto_vulcan!([|y| { append(qb, qa, [2]), [qb] == qb }, for e in &coll0 { qb == qb }])
+    let coll0: LT = LT::from_vec(vec![lterm!([1])]);
+    proto_vulcan!([for e in &coll0 { e == e, e == [[qb], [qb, qa, false]] }])
 }
 pub fn case_14(vars: &Vars) -> InferredGoal<DU, DE, Goal<DU, DE>> {
     let qa = vars.v[0].clone();
     let qb = vars.v[1].clone();
-    let coll0: Vec<LT> = vec![];
-    proto_vulcan!([[], for e in &coll0 { qa == qa }])
+    let coll0: LT = LT::from_vec(vec![qa.clone()]);
+    proto_vulcan!([for e in &coll0 { [|tz| { [1, 3 | tz] != [1, 3, 3, 2], tz == [3, 2] }, e != []], qb == [2, qb] }])
 }
 pub fn case_15(vars: &Vars) -> InferredGoal<DU, DE, Goal<DU, DE>> {
     let qa = vars.v[0].clone();
     let qb = vars.v[1].clone();
-    let coll0: Vec<LT> = vec![lterm!(2), qa.clone()];
-    proto_vulcan!([for e in &coll0 { |y| { [2, []] == qb, y != 'a' } }])
+    let coll0: LT = LT::from_vec(vec![lterm!(3), lterm!(2), lterm!(3)]);
+    proto_vulcan!([for e in &coll0 { [2] == qb, e != e }])
 }
 pub fn case_16(vars: &Vars) -> InferredGoal<DU, DE, Goal<DU, DE>> {
     let qa = vars.v[0].clone();
     let qb = vars.v[1].clone();
-    let coll0: Vec<LT> = vec![];
-    proto_vulcan!([for e in &coll0 { |x, t| { e == [3, t], [[2], [] | x] != t, member(qa, []) } }])
+    let coll0: LT = LT::from_vec(vec![lterm!(1), lterm!(2), qa.clone()]);
+    proto_vulcan!([for e in &coll0 { |tz| { [3, 1 | tz] != [3, 1, 2, 2], tz == [2, 2] } }])
 }
 pub fn case_17(vars: &Vars) -> InferredGoal<DU, DE, Goal<DU, DE>> {
     let qa = vars.v[0].clone();
     let qb = vars.v[1].clone();
-    let coll0: LT = LT::from_vec(vec![qa.clone()]);
-    proto_vulcan!([for e in &coll0 { |z| { [[1], [qb | qb], [e]] == [qa, 2] } }])
+    let coll0: LT = LT::from_vec(vec![lterm!(1), lterm!([2]), qa.clone()]);
+    proto_vulcan!([for e in &coll0 { |t| { qb == [2, 2, _], qb == e, [2, _, [e, qa | qa]] == qb }, conde { [|tz| { tz == [2], [3, 2, 2] != [3, 2 | tz] }, ["a", qa] == qa], [qb == [1], true], false } }])
 }
 pub fn case_18(vars: &Vars) -> InferredGoal<DU, DE, Goal<DU, DE>> {
     let qa = vars.v[0].clone();
     let qb = vars.v[1].clone();
-    let coll0: Vec<LT> = vec![qa.clone(), qb.clone()];
-    proto_vulcan!([for e in &coll0 { qb == [[qa, 2 | qb]] }])
+    let coll0: Vec<LT> = vec![];
+    proto_vulcan!([|t| { false, (_, _) == qa, t == [1, [], qb | qa] }, for e in &coll0 { e == 1, [[1] | e] != qb }])
 }
 pub fn case_19(vars: &Vars) -> InferredGoal<DU, DE, Goal<DU, DE>> {
     let qa = vars.v[0].clone();
     let qb = vars.v[1].clone();
-    let coll0: Vec<LT> = vec![lterm!(2), lterm!(3)];
-    proto_vulcan!([for e in &coll0 { [e == [qa, qb, qb], qb != e, [e, 1] == e] }])
+    let coll0: LT = LT::from_vec(vec![lterm!(2)]);
+    proto_vulcan!([([3, _], [_, qa]) == qa, for e in &coll0 { true, |t| { append(qa, t, [1, 3]) } }])
 }
 pub fn case_20(vars: &Vars) -> InferredGoal<DU, DE, Goal<DU, DE>> {
     let qa = vars.v[0].clone();
     let qb = vars.v[1].clone();
-    let coll0: Vec<LT> = vec![];
-    proto_vulcan!(["bc" == qb, for e in &coll0 { conde { [qb | e] != qb, false } }])
+    let coll0: LT = LT::from_vec(vec![lterm!(3)]);
+    proto_vulcan!([qb == [1, []], for e in &coll0 { conde { qa == (1, [qb]), e == [1], [[false, 3 | e], [2 | qa] | qa] == [qa, "bc" | e] }, |x, h| { [true | h] == [1, _, 1], qb != x } }])
 }
 pub fn case_21(vars: &Vars) -> InferredGoal<DU, DE, Goal<DU, DE>> {
     let qa = vars.v[0].clone();
     let qb = vars.v[1].clone();
-    let coll0: Vec<LT> = vec![lterm!([2]), qa.clone()];
-    proto_vulcan!([for e in &coll0 { qa == [[], e, qa], _ == e }])
+    let coll0: LT = LT::from_vec(vec![lterm!(2)]);
+    proto_vulcan!([[false, ["a", qb, 1] == qb], for e in &coll0 { |z, x| { e == qb, x == ([], 3) }, |z, h| { qa != [2, [h, 2 | z] | 1], |tz| { [2, 1 | tz] != [2, 1, 1, 1], tz == [1, 1] } } }])
 }
 pub fn case_22(vars: &Vars) -> InferredGoal<DU, DE, Goal<DU, DE>> {
     let qa = vars.v[0].clone();
     let qb = vars.v[1].clone();
     let coll0: Vec<LT> = vec![];
-    proto_vulcan!([for e in &coll0 { [_] == qa }])
+    proto_vulcan!([for e in &coll0 { |x, y| { e == 1, |tz| { [2, 1, 3] != [2 | tz], tz == [1, 3] }, qb == [qb | qa] } }])
 }
 pub fn case_23(vars: &Vars) -> InferredGoal<DU, DE, Goal<DU, DE>> {
     let qa = vars.v[0].clone();
     let qb = vars.v[1].clone();
-    let coll0: Vec<LT> = vec![lterm!(3), lterm!(1)];
-    proto_vulcan!([1 != qb, for e in &coll0 { |y| { e != [y] } }])
+    let coll0: Vec<LT> = vec![];
+    proto_vulcan!([[(_, [3]) != qb, qa != qa, qb == [_, 3]], for e in &coll0 { 'b' == [[e | _], [3, e], [e, qa]] }])
 }
 pub fn case_24(vars: &Vars) -> InferredGoal<DU, DE, Goal<DU, DE>> {
     let qa = vars.v[0].clone();
     let qb = vars.v[1].clone();
-    let coll0: LT = LT::from_vec(vec![lterm!(3)]);
-    proto_vulcan!([for e in &coll0 { qa == 2 }])
+    let coll0: LT = LT::from_vec(vec![lterm!([1])]);
+    proto_vulcan!([for e in &coll0 { qa == qb }])
 }
 pub fn case_25(vars: &Vars) -> InferredGoal<DU, DE, Goal<DU, DE>> {
     let qa = vars.v[0].clone();
     let qb = vars.v[1].clone();
-    let coll0: Vec<LT> = vec![lterm!(1), qa.clone()];
-    proto_vulcan!([qa != qa, for e in &coll0 { |h, t| { e == [[], []] }, |y, t| { t == 'a' } }])
+    let coll0: Vec<LT> = vec![];
+    proto_vulcan!([qa == P3([], qb, qb), for e in &coll0 { conde { [], [qa != [[], e, qb | qb], [qb | qa] == e] }, 1 == qb }])
 }
 pub fn case_26(vars: &Vars) -> InferredGoal<DU, DE, Goal<DU, DE>> {
     let qa = vars.v[0].clone();
     let qb = vars.v[1].clone();
-    let coll0: Vec<LT> = vec![lterm!(3), qa.clone()];
-    proto_vulcan!([qa == [qb, _, 1], for e in &coll0 { ["bc" | qa] == qb }])
+    let coll0: LT = LT::from_vec(vec![lterm!(2), lterm!([1]), lterm!(3)]);
+    proto_vulcan!([for e in &coll0 { append(qa, qb, []) }])
 }
 pub fn case_27(vars: &Vars) -> InferredGoal<DU, DE, Goal<DU, DE>> {
     let qa = vars.v[0].clone();
     let qb = vars.v[1].clone();
-    let coll0: LT = LT::from_vec(vec![lterm!([2]), lterm!([1]), lterm!(2)]);
-    proto_vulcan!([[[qa, 1, qa], 1, 2] == qb, for e in &coll0 { qa != [qa, [2, qa, e] | 3], conde { append(qb, qb, [3, 3]) } }])
+    let coll0: LT = LT::from_vec(vec![lterm!(1)]);
+    proto_vulcan!([for e in &coll0 { |x| { append(x, x, [2]) }, e == 1 }])
 }
 pub fn case_28(vars: &Vars) -> InferredGoal<DU, DE, Goal<DU, DE>> {
     let qa = vars.v[0].clone();
     let qb = vars.v[1].clone();
-    let coll0: LT = LT::from_vec(vec![qa.clone(), qa.clone(), qb.clone()]);
-    proto_vulcan!([for e in &coll0 { 1 != e }])
+    let coll0: LT = LT::from_vec(vec![lterm!([1]), lterm!(2), qa.clone()]);
+    proto_vulcan!([qb == qb, for e in &coll0 { conde { [], [[] != qb, qb == []] }, [[], qb, qb] == qa }])
 }
 pub fn case_29(vars: &Vars) -> InferredGoal<DU, DE, Goal<DU, DE>> {
     let qa = vars.v[0].clone();
     let qb = vars.v[1].clone();
-    let coll0: Vec<LT> = vec![lterm!([1]), lterm!(2)];
-    proto_vulcan!([for e in &coll0 { qa == [[2], 3] }])
+    let coll0: Vec<LT> = vec![];
+    proto_vulcan!([[qb, 1, _] == qb, for e in &coll0 { qb == [1, [], e | qa], [true] }])
 }
 pub fn case_30(vars: &Vars) -> InferredGoal<DU, DE, Goal<DU, DE>> {
     let qa = vars.v[0].clone();
     let qb = vars.v[1].clone();
-    let coll0: LT = LT::from_vec(vec![lterm!(1), qb.clone(), lterm!(3)]);
-    proto_vulcan!([[2, qb, qa | qb] == [qa, _, ['a' | qa]], for e in &coll0 { qb != ['b', 2, 1], qb == [[qb]] }])
+    let coll0: Vec<LT> = vec![];
+    proto_vulcan!([[1 == qa, qa == 1], for e in &coll0 { e == qb }])
 }
 pub fn case_31(vars: &Vars) -> InferredGoal<DU, DE, Goal<DU, DE>> {
     let qa = vars.v[0].clone();
     let qb = vars.v[1].clone();
-    let coll0: LT = LT::from_vec(vec![lterm!([1])]);
-    proto_vulcan!([for e in &coll0 { conde { [2, "a", 2] != qa, [[], e] == qb, [_ == qb, member(qa, [1])] }, e != _ }])
+    let coll0: LT = LT::from_vec(vec![lterm!([2])]);
+    proto_vulcan!([|tz| { tz == [1, 3], [2, 1, 3] != [2 | tz] }, for e in &coll0 { |t| { qb == P3(1, [qb], []), false, |tz| { [1, 1 | tz] != [1, 1, 2, 2], tz == [2, 2] } }, |tz| { [1, 2 | tz] != [1, 2, 2], tz == [2] } }])
 }
 pub fn case_32(vars: &Vars) -> InferredGoal<DU, DE, Goal<DU, DE>> {
     let qa = vars.v[0].clone();
     let qb = vars.v[1].clone();
-    let coll0: LT = LT::from_vec(vec![qb.clone(), qb.clone(), lterm!(1)]);
-    proto_vulcan!([qb == qa, for e in &coll0 { conde { qa == qb, |tz| { tz == [1, 2], [2, 1, 2] != [2 | tz] }, [qa == 1, member(e, [2])] } }])
+    let coll0: LT = LT::from_vec(vec![lterm!([2]), lterm!([1]), lterm!(3)]);
+    proto_vulcan!([for e in &coll0 { 1 != [1 | qb] }])
 }
 pub fn case_33(vars: &Vars) -> InferredGoal<DU, DE, Goal<DU, DE>> {
     let qa = vars.v[0].clone();
     let qb = vars.v[1].clone();
-    let coll0: LT = LT::from_vec(vec![lterm!(3), lterm!([2]), qa.clone()]);
-    proto_vulcan!([['b', [qa, 3 | qa], [1, 2 | qa]] == qa, for e in &coll0 { qb == _, false }])
+    let coll0: LT = LT::from_vec(vec![lterm!(1), lterm!([1]), lterm!(2)]);
+    proto_vulcan!([for e in &coll0 { conde { |tz| { [2, 1, 3] != [2 | tz], tz == [1, 3] }, append(e, qa, [3, 3]), [|tz| { tz == [1], [1, 1 | tz] != [1, 1, 1] }, member(qa, [1, 3, 3])] } }])
 }
 pub fn case_34(vars: &Vars) -> InferredGoal<DU, DE, Goal<DU, DE>> {
     let qa = vars.v[0].clone();
     let qb = vars.v[1].clone();
-    let coll0: LT = LT::from_vec(vec![qb.clone()]);
-    proto_vulcan!([for e in &coll0 { qa == [[qb, qa, qa], _], conde { [e, ["bc"], [[] | 'a']] == e, [true, [qb, 2, "a"] == e] } }])
+    let coll0: Vec<LT> = vec![qa.clone(), lterm!([1])];
+    proto_vulcan!([for e in &coll0 { [[[qb, _, 1 | e]] != 2, [1] == qb] }])
 }
 pub fn case_35(vars: &Vars) -> InferredGoal<DU, DE, Goal<DU, DE>> {
     let qa = vars.v[0].clone();
     let qb = vars.v[1].clone();
     let coll0: Vec<LT> = vec![];
-    proto_vulcan!([for e in &coll0 { conde { [[[qa, 3 | qa], [_, qa, qa | e], qb] == e, true], [e != qb, 3 == e], [[[1], 1, [true, qa]] != [qa], qa == [[], _]] }, true }])
+    proto_vulcan!([[qb == ["bc", 1, _], [1, 2, 3] == qb], for e in &coll0 { 2 != qb }])
 }
 pub fn case_36(vars: &Vars) -> InferredGoal<DU, DE, Goal<DU, DE>> {
     let qa = vars.v[0].clone();
     let qb = vars.v[1].clone();
-    let coll0: LT = LT::from_vec(vec![qa.clone(), qb.clone(), lterm!([2])]);
-    proto_vulcan!([[_, _] == qb, for e in &coll0 { 2 == e, [_ == qa, [2 | qa] == qa, [] == e] }])
+    let coll0: LT = LT::from_vec(vec![qa.clone()]);
+    proto_vulcan!([|h| { P3(3, [3], [h, h]) == [3, h, qa | qb], |tz| { tz == [2], [2 | tz] != [2, 2] } }, for e in &coll0 { [], qb == qa }])
 }
 pub fn case_37(vars: &Vars) -> InferredGoal<DU, DE, Goal<DU, DE>> {
     let qa = vars.v[0].clone();
     let qb = vars.v[1].clone();
     let coll0: LT = LT::from_vec(vec![lterm!([1])]);
-    proto_vulcan!([conde { [true, |tz| { [3, 1 | tz] != [3, 1, 3, 2], tz == [3, 2] }], [[qa, 2, 2]] != [1, 2, true], [[qb, qa] != qb, [[]] == qb] }, for e in &coll0 { "a" == qb }])
+    proto_vulcan!([[[3, qb], [true] | qb] != qb, for e in &coll0 { P3([e, _], [e], [3]) == qb, [qa == P3([_, _], [qb], qb), [qa] == e] }])
 }
 pub fn case_38(vars: &Vars) -> InferredGoal<DU, DE, Goal<DU, DE>> {
     let qa = vars.v[0].clone();
     let qb = vars.v[1].clone();
-    let coll0: Vec<LT> = vec![qb.clone(), lterm!([2])];
-    proto_vulcan!([for e in &coll0 { |y, x| { append(x, e, [3]), [[], 1] == e, y == e } }])
+    let coll0: LT = LT::from_vec(vec![qa.clone(), lterm!(1), lterm!(1)]);
+    proto_vulcan!([(_, qb) != qa, for e in &coll0 { |tz| { [2 | tz] != [2, 3], tz == [3] } }])
 }
 pub fn case_39(vars: &Vars) -> InferredGoal<DU, DE, Goal<DU, DE>> {
     let qa = vars.v[0].clone();
     let qb = vars.v[1].clone();
-    let coll0: LT = LT::from_vec(vec![lterm!([2])]);
-    proto_vulcan!([for e in &coll0 { qb != [e, 1, e], qa == 1 }])
+    let coll0: Vec<LT> = vec![];
+    proto_vulcan!([for e in &coll0 { |z, x| { |tz| { [1, 2, 3] != [1 | tz], tz == [2, 3] }, qb == P3([_, 1], e, 3), false } }])
 }
 pub fn case_40(vars: &Vars) -> InferredGoal<DU, DE, Goal<DU, DE>> {
     let qa = vars.v[0].clone();
     let qb = vars.v[1].clone();
-    let coll0: Vec<LT> = vec![];
-    proto_vulcan!([[2, 2] == [[1, 2]], for e in &coll0 { 2 == e, qa != e }])
+    let coll0: Vec<LT> = vec![qa.clone(), lterm!(1)];
+    proto_vulcan!([qa == [qa, _ | qb], for e in &coll0 { |y| { member(y, [1, 1, 1]), [1, _, e] != qa }, e == qa }])
 }
 pub fn case_41(vars: &Vars) -> InferredGoal<DU, DE, Goal<DU, DE>> {
     let qa = vars.v[0].clone();
     let qb = vars.v[1].clone();
-    let coll0: LT = LT::from_vec(vec![qa.clone(), lterm!(3), lterm!([2])]);
-    proto_vulcan!([[[false, qb, qb], _ | qa] == qb, for e in &coll0 { qb == _, [qa, qa | qb] == qb }])
+    let coll0: Vec<LT> = vec![];
+    proto_vulcan!([for e in &coll0 { |x| { |tz| { [2, 1, 1] != [2 | tz], tz == [1, 1] }, member(qa, []), 1 == qa }, |y| { qb != y, append(y, qa, []), qa != ([], y) } }])
 }
 pub fn case_42(vars: &Vars) -> InferredGoal<DU, DE, Goal<DU, DE>> {
     let qa = vars.v[0].clone();
     let qb = vars.v[1].clone();
-    let coll0: LT = LT::from_vec(vec![lterm!([2])]);
-    proto_vulcan!([[2 == [[1]], qb == 2], for e in &coll0 { e == [e, _, 3 | 2], |x| { member(e, [3, 1, 1]), |tz| { [1, 1, 2, 1] != [1, 1 | tz], tz == [2, 1] }, [_] == x } }])
+    let coll0: Vec<LT> = vec![];
+    proto_vulcan!([[[], qa, 1] == qa, for e in &coll0 { conde { [append(qb, qa, [1]), append(qa, qb, [3, 2])], [[e, _, 1] == qb, e == qb] }, qa != [qb | qa] }])
 }
 pub fn case_43(vars: &Vars) -> InferredGoal<DU, DE, Goal<DU, DE>> {
     let qa = vars.v[0].clone();
     let qb = vars.v[1].clone();
-    let coll0: Vec<LT> = vec![];
-    proto_vulcan!([for e in &coll0 { 2 == e }])
+    let coll0: LT = LT::from_vec(vec![lterm!([2]), qa.clone(), lterm!(2)]);
+    proto_vulcan!([for e in &coll0 { [[_ | qa] == qa] }])
 }
 pub fn case_44(vars: &Vars) -> InferredGoal<DU, DE, Goal<DU, DE>> {
     let qa = vars.v[0].clone();
     let qb = vars.v[1].clone();
-    let coll0: Vec<LT> = vec![lterm!(1), lterm!(2)];
-    proto_vulcan!([for e in &coll0 { append(qb, qa, [1]) }])
+    let coll0: LT = LT::from_vec(vec![lterm!([2])]);
+    proto_vulcan!([for e in &coll0 { conde { false }, e != [[e, qb, qa], [[] | e], [qb, _, false]] }])
 }
 pub fn case_45(vars: &Vars) -> InferredGoal<DU, DE, Goal<DU, DE>> {
     let qa = vars.v[0].clone();
     let qb = vars.v[1].clone();
-    let coll0: LT = LT::from_vec(vec![lterm!(3), lterm!(3), lterm!(3)]);
-    proto_vulcan!([2 == qa, for e in &coll0 { [qb == [e, 3], qb == e, qa == e] }])
+    let coll0: Vec<LT> = vec![lterm!([1]), lterm!(2)];
+    proto_vulcan!([qa == [2, qb | qa], for e in &coll0 { [([3], [_]) == e, e == (3, [])], conde { [], [e == qa, 3 != qa], append(e, qb, [2]) } }])
 }
 pub fn case_46(vars: &Vars) -> InferredGoal<DU, DE, Goal<DU, DE>> {
     let qa = vars.v[0].clone();
     let qb = vars.v[1].clone();
-    let coll0: Vec<LT> = vec![];
-    proto_vulcan!([for e in &coll0 { conde { qb == e, [] }, [] }])
+    let coll0: Vec<LT> = vec![qb.clone(), qb.clone()];
+    proto_vulcan!([for e in &coll0 { [] != qb }])
 }
 pub fn case_47(vars: &Vars) -> InferredGoal<DU, DE, Goal<DU, DE>> {
     let qa = vars.v[0].clone();
     let qb = vars.v[1].clone();
-    let coll0: LT = LT::from_vec(vec![lterm!(2)]);
-    proto_vulcan!([for e in &coll0 { qa == [[1, e | qa], [qb, qb | e] | 1] }])
+    let coll0: Vec<LT> = vec![lterm!([1]), qa.clone()];
+    proto_vulcan!([for e in &coll0 { |z, x| { z != x }, |t| { |tz| { [2, 2 | tz] != [2, 2, 2, 1], tz == [2, 1] }, [1 | t] == t } }])
 }
 pub fn case_48(vars: &Vars) -> InferredGoal<DU, DE, Goal<DU, DE>> {
     let qa = vars.v[0].clone();
     let qb = vars.v[1].clone();
-    let coll0: Vec<LT> = vec![qa.clone(), qa.clone()];
-    proto_vulcan!([for e in &coll0 { "a" == [_, [[], 'b']], e == [[2, e, 1], 1, e] }])
+    let coll0: Vec<LT> = vec![lterm!(1), lterm!(1)];
+    proto_vulcan!([qa == qb, for e in &coll0 { |z| { qa != ([], qa) }, ([qa], qa) == qa }])
 }
 pub fn case_49(vars: &Vars) -> InferredGoal<DU, DE, Goal<DU, DE>> {
     let qa = vars.v[0].clone();
     let qb = vars.v[1].clone();
-    let coll0: LT = LT::from_vec(vec![lterm!(3), qa.clone(), qb.clone()]);
-    proto_vulcan!([for e in &coll0 { member(qa, []) }])
+    let coll0: Vec<LT> = vec![];
+    proto_vulcan!([for e in &coll0 { qb == qa }])
 }
 pub fn case_50(vars: &Vars) -> InferredGoal<DU, DE, Goal<DU, DE>> {
     let qa = vars.v[0].clone();
     let qb = vars.v[1].clone();
-    let coll0: LT = LT::from_vec(vec![lterm!(2)]);
-    proto_vulcan!([for e in &coll0 { [3, [], [[], qa] | e] == 'b', |x, t| { [[_], [1], [qb] | qa] == qa, [['a' | qa], 2 | qb] == _ } }])
+    let coll0: Vec<LT> = vec![];
+    proto_vulcan!([[2, 1, qa | 2] == qb, for e in &coll0 { qa == [false, [qb, qb, 3], [_, qa]] }])
 }
 pub fn case_51(vars: &Vars) -> InferredGoal<DU, DE, Goal<DU, DE>> {
     let qa = vars.v[0].clone();
     let qb = vars.v[1].clone();
-    let coll0: Vec<LT> = vec![];
-    proto_vulcan!([for e in &coll0 { [[], 3, 3] != e }])
+    let coll0: LT = LT::from_vec(vec![lterm!([1]), lterm!(2), qa.clone()]);
+    proto_vulcan!([qa == P3([qb, []], 3, qa), for e in &coll0 { |h, t| { false, qa == P3(2, [2, []], [2, 2]) }, [[2, _], [1, qa | qa], e] != [1 | 2] }])
 }
 pub fn case_52(vars: &Vars) -> InferredGoal<DU, DE, Goal<DU, DE>> {
     let qa = vars.v[0].clone();
     let qb = vars.v[1].clone();
-    let coll0: Vec<LT> = vec![];
-    proto_vulcan!([for e in &coll0 { e == [_, 1] }])
+    let coll0: LT = LT::from_vec(vec![qa.clone(), qb.clone(), lterm!(2)]);
+    proto_vulcan!([qb == [qb, 1, qa], for e in &coll0 { false, [append(e, e, [])] }])
 }
 pub fn case_53(vars: &Vars) -> InferredGoal<DU, DE, Goal<DU, DE>> {
     let qa = vars.v[0].clone();
     let qb = vars.v[1].clone();
-    let coll0: Vec<LT> = vec![qa.clone(), qa.clone()];
-    proto_vulcan!([qb == qa, for e in &coll0 { [[false, []]] != [[_, "bc" | qb], [_, qb], [_] | e], [["a", _, qa] != e, [[qa] | qb] != qa, false] }])
+    let coll0: LT = LT::from_vec(vec![lterm!([2]), lterm!(2), lterm!([2])]);
+    proto_vulcan!([|z, x| { [z, _, x] != [qb | x] }, for e in &coll0 { qb != (1, qa), [e, 2] == [e, qa] }])
 }
 pub fn case_54(vars: &Vars) -> InferredGoal<DU, DE, Goal<DU, DE>> {
     let qa = vars.v[0].clone();
     let qb = vars.v[1].clone();
-    let coll0: Vec<LT> = vec![];
-    proto_vulcan!([qb == [qb, [], qb | qb], for e in &coll0 { |t, h| { h == [true, qb, 1 | h], 1 == t }, qa == [[]] }])
+    let coll0: Vec<LT> = vec![lterm!(2), qb.clone()];
+    proto_vulcan!([for e in &coll0 { e == (e, [3]), false }])
 }
 pub fn case_55(vars: &Vars) -> InferredGoal<DU, DE, Goal<DU, DE>> {
     let qa = vars.v[0].clone();
     let qb = vars.v[1].clone();
-    let coll0: Vec<LT> = vec![];
-    proto_vulcan!([for e in &coll0 { 'a' == [qa] }])
+    let coll0: Vec<LT> = vec![qb.clone(), lterm!(1)];
+    proto_vulcan!([qb != qb, for e in &coll0 { qa != 1 }])
 }
 pub fn case_56(vars: &Vars) -> InferredGoal<DU, DE, Goal<DU, DE>> {
     let qa = vars.v[0].clone();
     let qb = vars.v[1].clone();
-    let coll0: Vec<LT> = vec![lterm!([2]), lterm!([1])];
-    proto_vulcan!([[[] | qb] == qb, for e in &coll0 { [1, _] == e, [[1], [qa] | qa] != [1] }])
+    let coll0: Vec<LT> = vec![];
+    proto_vulcan!([[[qa, qa] != qb, "bc" == qb], for e in &coll0 { [] == [2], |x, t| { qa == P3(qa, qb, qb), [["a", x, _] | qb] != qa } }])
 }
 pub fn case_57(vars: &Vars) -> InferredGoal<DU, DE, Goal<DU, DE>> {
     let qa = vars.v[0].clone();
     let qb = vars.v[1].clone();
-    let coll0: Vec<LT> = vec![lterm!(2), qb.clone()];
-    proto_vulcan!([for e in &coll0 { conde { [e != [[], 1, 2], false], qa == [[2]], [[_, qb, qa] == e, [qb, qb | qb] != qa] } }])
+    let coll0: LT = LT::from_vec(vec![lterm!(2), lterm!([2]), lterm!([2])]);
+    proto_vulcan!([true, for e in &coll0 { |y| { y == [[2, [] | e]], member(e, [3, 3, 1]), append(e, qa, [1]) }, conde { append(e, e, []), qb == qb } }])
 }
 pub fn case_58(vars: &Vars) -> InferredGoal<DU, DE, Goal<DU, DE>> {
     let qa = vars.v[0].clone();
     let qb = vars.v[1].clone();
-    let coll0: Vec<LT> = vec![lterm!([1]), qa.clone()];
-    proto_vulcan!([for e in &coll0 { [qa, qb] == e }])
+    let coll0: LT = LT::from_vec(vec![lterm!(3)]);
+    proto_vulcan!([for e in &coll0 { |z| { e == e, member(qb, [3, 2]) } }])
 }
 pub fn case_59(vars: &Vars) -> InferredGoal<DU, DE, Goal<DU, DE>> {
     let qa = vars.v[0].clone();
     let qb = vars.v[1].clone();
-    let coll0: Vec<LT> = vec![];
-    proto_vulcan!([|z| { _ != qa, z == z, [[]] == z }, for e in &coll0 { 3 != e }])
+    let coll0: Vec<LT> = vec![lterm!(2), lterm!([1])];
+    proto_vulcan!([for e in &coll0 { qa != [3, qb], |y, t| { qa == [1, 2, []], y != [[]], y == P3([], 2, _) } }])
 }
 pub fn case_60(vars: &Vars) -> InferredGoal<DU, DE, Goal<DU, DE>> {
     let qa = vars.v[0].clone();
     let qb = vars.v[1].clone();
-    let coll0: LT = LT::from_vec(vec![lterm!([2]), lterm!(1), lterm!(2)]);
-    proto_vulcan!([for e in &coll0 { qb == [[]], [[], 'b', 1] == e }])
+    let coll0: Vec<LT> = vec![];
+    proto_vulcan!([|tz| { tz == [3, 1], [1, 3, 1] != [1 | tz] }, for e in &coll0 { qa != qb }])
 }
 pub fn case_61(vars: &Vars) -> InferredGoal<DU, DE, Goal<DU, DE>> {
     let qa = vars.v[0].clone();
     let qb = vars.v[1].clone();
-    let coll0: LT = LT::from_vec(vec![qa.clone(), qa.clone(), lterm!(2)]);
-    proto_vulcan!([for e in &coll0 { conde { [e == qb, true], [true, e != [2]], true } }])
+    let coll0: Vec<LT> = vec![lterm!(3), lterm!(1)];
+    proto_vulcan!([for e in &coll0 { 2 == qb, conde { qb == [_, []], e == qa, [|tz| { [3 | tz] != [3, 1], tz == [1] }, e == [qb, 'b', []]] } }])
 }
 pub fn case_62(vars: &Vars) -> InferredGoal<DU, DE, Goal<DU, DE>> {
     let qa = vars.v[0].clone();
     let qb = vars.v[1].clone();
-    let coll0: LT = LT::from_vec(vec![lterm!(1), lterm!(3), lterm!([1])]);
-    proto_vulcan!([qa != [2], for e in &coll0 { [], qb != ["bc"] }])
+    let coll0: LT = LT::from_vec(vec![lterm!(1)]);
+    proto_vulcan!([for e in &coll0 { qa == [], conde { P3([1, _], e, [3, qb]) == qa, qb == e, qa == [2, 2, e] } }])
 }
 pub fn case_63(vars: &Vars) -> InferredGoal<DU, DE, Goal<DU, DE>> {
     let qa = vars.v[0].clone();
     let qb = vars.v[1].clone();
-    let coll0: LT = LT::from_vec(vec![lterm!([2])]);
-    proto_vulcan!([for e in &coll0 { [e, 1] == qb, [[e | _], 3] == e }])
+    let coll0: Vec<LT> = vec![];
+    proto_vulcan!([for e in &coll0 { qb == qa }])
 }
 pub fn case_64(vars: &Vars) -> InferredGoal<DU, DE, Goal<DU, DE>> {
     let qa = vars.v[0].clone();
     let qb = vars.v[1].clone();
-    let coll0: LT = LT::from_vec(vec![lterm!([2])]);
-    proto_vulcan!([for e in &coll0 { qa == [e | qa] }])
+    let coll0: Vec<LT> = vec![];
+    proto_vulcan!([qb == qa, for e in &coll0 { append(e, e, [2, 2]), conde { [true, _ == qa] } }])
 }
 pub fn case_65(vars: &Vars) -> InferredGoal<DU, DE, Goal<DU, DE>> {
     let qa = vars.v[0].clone();
     let qb = vars.v[1].clone();
-    let coll0: LT = LT::from_vec(vec![qb.clone()]);
-    proto_vulcan!([for e in &coll0 { [[[]] == e, qb == [qa, [], qb], qb != [2]] }])
+    let coll0: LT = LT::from_vec(vec![qb.clone(), lterm!([2]), qb.clone()]);
+    proto_vulcan!([true, for e in &coll0 { qa == 3 }])
 }
 pub fn case_66(vars: &Vars) -> InferredGoal<DU, DE, Goal<DU, DE>> {
     let qa = vars.v[0].clone();
     let qb = vars.v[1].clone();
-    let coll0: Vec<LT> = vec![lterm!(1), qb.clone()];
-    proto_vulcan!([for e in &coll0 { e == [qa, 2] }])
+    let coll0: LT = LT::from_vec(vec![lterm!([1]), qb.clone(), qa.clone()]);
+    proto_vulcan!([for e in &coll0 { true }])
 }
 pub fn case_67(vars: &Vars) -> InferredGoal<DU, DE, Goal<DU, DE>> {
     let qa = vars.v[0].clone();
     let qb = vars.v[1].clone();
-    let coll0: LT = LT::from_vec(vec![qa.clone()]);
-    proto_vulcan!([for e in &coll0 { |z, t| { true != qb, [e, e, qb] == qb } }])
+    let coll0: LT = LT::from_vec(vec![lterm!(3)]);
+    proto_vulcan!([P3(qa, 2, [1]) == qa, for e in &coll0 { [3] == qa, qb == [_, false] }])
 }
 pub fn case_68(vars: &Vars) -> InferredGoal<DU, DE, Goal<DU, DE>> {
     let qa = vars.v[0].clone();
     let qb = vars.v[1].clone();
-    let coll0: Vec<LT> = vec![qb.clone(), qb.clone()];
-    proto_vulcan!([for e in &coll0 { |h| { false, append(qb, qb, [2, 2]), true } }])
+    let coll0: LT = LT::from_vec(vec![lterm!([1]), lterm!(3), qa.clone()]);
+    proto_vulcan!([qa != (qb, _), for e in &coll0 { [[_, 1], [3, _, qa | qb], [e, 3]] == e, false }])
 }
 pub fn case_69(vars: &Vars) -> InferredGoal<DU, DE, Goal<DU, DE>> {
     let qa = vars.v[0].clone();
     let qb = vars.v[1].clone();
-    let coll0: Vec<LT> = vec![lterm!(1), lterm!([1])];
-    proto_vulcan!([[[qb, 2, _ | 'a'] | 3] != qb, for e in &coll0 { [[qa, qa, 3] != e, [e, e, _] == e] }])
+    let coll0: Vec<LT> = vec![];
+    proto_vulcan!([for e in &coll0 { append(qb, qb, [1, 1]), |y| { qa == 1, |tz| { [2, 1, 1] != [2, 1 | tz], tz == [1] } } }])
 }
 pub fn case_70(vars: &Vars) -> InferredGoal<DU, DE, Goal<DU, DE>> {
     let qa = vars.v[0].clone();
     let qb = vars.v[1].clone();
-    let coll0: LT = LT::from_vec(vec![lterm!([2])]);
-    proto_vulcan!([[[] == _], for e in &coll0 { qa == [false, [1, "bc"], []] }])
+    let coll0: LT = LT::from_vec(vec![qa.clone(), qb.clone(), lterm!(2)]);
+    proto_vulcan!([for e in &coll0 { e == [true | 1], |x, t| { e == qa } }])
 }
 pub fn case_71(vars: &Vars) -> InferredGoal<DU, DE, Goal<DU, DE>> {
     let qa = vars.v[0].clone();
     let qb = vars.v[1].clone();
-    let coll0: Vec<LT> = vec![qb.clone(), lterm!(3)];
-    proto_vulcan!([for e in &coll0 { [_] == e }])
+    let coll0: LT = LT::from_vec(vec![lterm!(2)]);
+    proto_vulcan!([for e in &coll0 { [1 | e] != e, [(1, qa) == qa, [[1, 1] | e] != e, true] }])
 }
 pub fn case_72(vars: &Vars) -> InferredGoal<DU, DE, Goal<DU, DE>> {
     let qa = vars.v[0].clone();
     let qb = vars.v[1].clone();
-    let coll0: LT = LT::from_vec(vec![qb.clone()]);
-    proto_vulcan!([for e in &coll0 { |y, h| { false }, qa == qa }])
+    let coll0: Vec<LT> = vec![];
+    proto_vulcan!([_ == qa, for e in &coll0 { P3([1], 1, e) == qb }])
 }
 pub fn case_73(vars: &Vars) -> InferredGoal<DU, DE, Goal<DU, DE>> {
     let qa = vars.v[0].clone();
     let qb = vars.v[1].clone();
-    let coll0: Vec<LT> = vec![];
-    proto_vulcan!([for e in &coll0 { conde { [[e] == qb, e == _] } }])
+    let coll0: LT = LT::from_vec(vec![qb.clone(), qa.clone(), qa.clone()]);
+    proto_vulcan!([|tz| { tz == [1], [3 | tz] != [3, 1] }, for e in &coll0 { qa == [1, [3, e, "bc" | e] | e] }])
 }
 pub fn case_74(vars: &Vars) -> InferredGoal<DU, DE, Goal<DU, DE>> {
     let qa = vars.v[0].clone();
     let qb = vars.v[1].clone();
-    let coll0: LT = LT::from_vec(vec![lterm!([2])]);
-    proto_vulcan!([[[]] != qb, for e in &coll0 { qb == [qa, [qb | qa], [e, qb | _]], [member(qb, []), false] }])
+    let coll0: LT = LT::from_vec(vec![lterm!([1])]);
+    proto_vulcan!([qa == [[[], qb, qa | qb], [false, qb | qa], [qb, "a", 'a' | qb]], for e in &coll0 { [qa, []] == e }])
 }
 pub fn case_75(vars: &Vars) -> InferredGoal<DU, DE, Goal<DU, DE>> {
     let qa = vars.v[0].clone();
     let qb = vars.v[1].clone();
-    let coll0: Vec<LT> = vec![];
-    proto_vulcan!([false, for e in &coll0 { conde { qa == [[1, qb | 2], [1] | qb], member(qb, [2, 1, 3]) }, true }])
+    let coll0: Vec<LT> = vec![lterm!(1), lterm!(2)];
+    proto_vulcan!([for e in &coll0 { qb == [_], [qa, qb] == e }])
 }
 pub fn case_76(vars: &Vars) -> InferredGoal<DU, DE, Goal<DU, DE>> {
     let qa = vars.v[0].clone();
     let qb = vars.v[1].clone();
-    let coll0: Vec<LT> = vec![lterm!(3), lterm!(2)];
-    proto_vulcan!([for e in &coll0 { e != _ }])
+    let coll0: Vec<LT> = vec![];
+    proto_vulcan!([qa == [2, qa, 3], for e in &coll0 { [e] != qb, false }])
 }
 pub fn case_77(vars: &Vars) -> InferredGoal<DU, DE, Goal<DU, DE>> {
     let qa = vars.v[0].clone();
     let qb = vars.v[1].clone();
-    let coll0: Vec<LT> = vec![];
-    proto_vulcan!([|tz| { [1, 3 | tz] != [1, 3, 2], tz == [2] }, for e in &coll0 { [e, 3] != [_, qb, false | qb], 2 == [qb, e] }])
+    let coll0: LT = LT::from_vec(vec![lterm!(1)]);
+    proto_vulcan!([for e in &coll0 { member(e, [1, 1]) }])
 }
 pub fn case_78(vars: &Vars) -> InferredGoal<DU, DE, Goal<DU, DE>> {
     let qa = vars.v[0].clone();
     let qb = vars.v[1].clone();
-    let coll0: Vec<LT> = vec![lterm!(1), lterm!(3)];
-    proto_vulcan!([for e in &coll0 { conde { qb == e, 2 == [[2, 2, qa], qa] } }])
+    let coll0: LT = LT::from_vec(vec![lterm!([2]), lterm!([2]), lterm!([1])]);
+    proto_vulcan!([for e in &coll0 { e == 1, P3(_, [_, _], 2) == qb }])
 }
 pub fn case_79(vars: &Vars) -> InferredGoal<DU, DE, Goal<DU, DE>> {
     let qa = vars.v[0].clone();
     let qb = vars.v[1].clone();
-    let coll0: LT = LT::from_vec(vec![lterm!(3)]);
-    proto_vulcan!([for e in &coll0 { [e, "bc" | e] == qb, qa != [e, e, qa] }])
+    let coll0: LT = LT::from_vec(vec![lterm!(1), lterm!(1), lterm!(2)]);
+    proto_vulcan!([for e in &coll0 { |z| { z == e } }])
 }
 pub fn case_80(vars: &Vars) -> InferredGoal<DU, DE, Goal<DU, DE>> {
     let qa = vars.v[0].clone();
     let qb = vars.v[1].clone();
-    let coll0: Vec<LT> = vec![];
-    proto_vulcan!([conde { [qa != [_], qb == [[qb, qa], [qa, 2, []]]], [] }, for e in &coll0 { [e == [qa, "a", qb | qb], qb != [2]], [1, 2 | qb] != qb }])
+    let coll0: LT = LT::from_vec(vec![qa.clone(), lterm!(2), qb.clone()]);
+    proto_vulcan!([for e in &coll0 { e == [qa, qb] }])
 }
 pub fn case_81(vars: &Vars) -> InferredGoal<DU, DE, Goal<DU, DE>> {
     let qa = vars.v[0].clone();
     let qb = vars.v[1].clone();
-    let coll0: Vec<LT> = vec![];
-    proto_vulcan!([conde { [[2 | qa] == qb, qa == []], [[2, [[], 1]] == [qb, [qb, "bc", 2 | qb], [qa] | _], [1, _ | qb] == qa] }, for e in &coll0 { conde { [e != 'b', 2 == e], [qa, _] != _ } }])
+    let coll0: LT = LT::from_vec(vec![lterm!([1]), lterm!(1), lterm!([1])]);
+    proto_vulcan!([for e in &coll0 { |tz| { [2, 3] != [2 | tz], tz == [3] } }])
 }
 pub fn case_82(vars: &Vars) -> InferredGoal<DU, DE, Goal<DU, DE>> {
     let qa = vars.v[0].clone();
     let qb = vars.v[1].clone();
     let coll0: Vec<LT> = vec![];
-    proto_vulcan!([for e in &coll0 { [qa | qa] == qa, conde { [member(e, [1, 3, 3]), 1 != e], false } }])
+    proto_vulcan!([for e in &coll0 { qa == [e, [qb, [], []] | qa] }])
 }
 pub fn case_83(vars: &Vars) -> InferredGoal<DU, DE, Goal<DU, DE>> {
     let qa = vars.v[0].clone();
     let qb = vars.v[1].clone();
-    let coll0: LT = LT::from_vec(vec![qa.clone()]);
-    proto_vulcan!([|x| {  }, for e in &coll0 { |t| { ["bc", e] == t }, conde { qa == [['b'], qb], [qa, _, "bc" | qb] != e, [[qa] == [[qa, 2, qb | _], [2, qb, 3 | e]], false] } }])
+    let coll0: Vec<LT> = vec![lterm!(3), lterm!(3)];
+    proto_vulcan!([for e in &coll0 { qb == qb }])
 }
 pub fn case_84(vars: &Vars) -> InferredGoal<DU, DE, Goal<DU, DE>> {
     let qa = vars.v[0].clone();
     let qb = vars.v[1].clone();
-    let coll0: LT = LT::from_vec(vec![lterm!(2), lterm!([1]), qa.clone()]);
-    proto_vulcan!([[2, 2, qa] != qa, for e in &coll0 { [[], e] == qa }])
+    let coll0: LT = LT::from_vec(vec![lterm!(3)]);
+    proto_vulcan!([for e in &coll0 { true }])
 }
 pub fn case_85(vars: &Vars) -> InferredGoal<DU, DE, Goal<DU, DE>> {
     let qa = vars.v[0].clone();
     let qb = vars.v[1].clone();
-    let coll0: Vec<LT> = vec![];
-    proto_vulcan!([for e in &coll0 { [[qb], 3] == true }])
+    let coll0: LT = LT::from_vec(vec![lterm!([2])]);
+    proto_vulcan!([[], for e in &coll0 { conde { [], [[3, 3, qb] == e, qb != (1, 3)], [append(qb, e, []), e == [true, [qa, 1 | qa]]] } }])
 }
 pub fn case_86(vars: &Vars) -> InferredGoal<DU, DE, Goal<DU, DE>> {
     let qa = vars.v[0].clone();
     let qb = vars.v[1].clone();
-    let coll0: Vec<LT> = vec![lterm!(3), lterm!([2])];
-    proto_vulcan!([for e in &coll0 { [[] | qa] == qa }])
+    let coll0: Vec<LT> = vec![lterm!(1), lterm!(1)];
+    proto_vulcan!([for e in &coll0 { [e == [3, 'b' | qa]], |z, y| { [1, y, 1] == qb } }])
 }
 pub fn case_87(vars: &Vars) -> InferredGoal<DU, DE, Goal<DU, DE>> {
     let qa = vars.v[0].clone();
     let qb = vars.v[1].clone();
-    let coll0: LT = LT::from_vec(vec![lterm!(1)]);
-    proto_vulcan!([for e in &coll0 { conde { false, [e] == e, [qa == 3, true] }, [append(qb, e, [2, 1])] }])
+    let coll0: LT = LT::from_vec(vec![lterm!(2)]);
+    proto_vulcan!([for e in &coll0 { append(e, qb, []) }])
 }
 pub fn case_88(vars: &Vars) -> InferredGoal<DU, DE, Goal<DU, DE>> {
     let qa = vars.v[0].clone();
     let qb = vars.v[1].clone();
     let coll0: LT = LT::from_vec(vec![lterm!(3)]);
-    proto_vulcan!([for e in &coll0 { |x| { qa != [qa], e != 2, append(e, e, [3, 3]) } }])
+    proto_vulcan!([for e in &coll0 { qa != [[1 | qa], [qa, e, 'a'] | e], e == [qb, e, 1 | 2] }])
 }
 pub fn case_89(vars: &Vars) -> InferredGoal<DU, DE, Goal<DU, DE>> {
     let qa = vars.v[0].clone();
     let qb = vars.v[1].clone();
-    let coll0: LT = LT::from_vec(vec![qa.clone()]);
-    proto_vulcan!([true != qa, for e in &coll0 { conde { [qa == qa, |tz| { tz == [3, 1], [2, 2 | tz] != [2, 2, 3, 1] }] }, |x| { e == 2 } }])
+    let coll0: LT = LT::from_vec(vec![qa.clone(), qa.clone(), lterm!(2)]);
+    proto_vulcan!([for e in &coll0 { member(qa, [3, 3, 3]), e == qa }])
 }
 pub fn case_90(vars: &Vars) -> InferredGoal<DU, DE, Goal<DU, DE>> {
     let qa = vars.v[0].clone();
     let qb = vars.v[1].clone();
-    let coll0: LT = LT::from_vec(vec![qa.clone(), lterm!(1), lterm!([2])]);
-    proto_vulcan!([for e in &coll0 { qb != 2, [e == [1, true, 3 | qb], [qb] == ["a", ["a"], e]] }])
+    let coll0: Vec<LT> = vec![];
+    proto_vulcan!([for e in &coll0 { qb == e, [qb == [[e, 2], [qb | e], [qb, 2] | "bc"], [[], e, qb | qb] == qb] }])
 }
 pub fn case_91(vars: &Vars) -> InferredGoal<DU, DE, Goal<DU, DE>> {
     let qa = vars.v[0].clone();
     let qb = vars.v[1].clone();
-    let coll0: Vec<LT> = vec![];
-    proto_vulcan!([for e in &coll0 { qb != [e, 3 | e] }])
+    let coll0: LT = LT::from_vec(vec![qb.clone(), qa.clone(), lterm!([1])]);
+    proto_vulcan!([for e in &coll0 { [true, P3([], [_, []], []) == qb], |x| { [e, e, 'a'] != qb, [_] != e } }])
 }
 pub fn case_92(vars: &Vars) -> InferredGoal<DU, DE, Goal<DU, DE>> {
     let qa = vars.v[0].clone();
     let qb = vars.v[1].clone();
-    let coll0: LT = LT::from_vec(vec![lterm!([2])]);
-    proto_vulcan!([qb == [qa | qa], for e in &coll0 { [2] != qb, qa != qa }])
+    let coll0: Vec<LT> = vec![];
+    proto_vulcan!([for e in &coll0 { e == qb }])
 }
 pub fn case_93(vars: &Vars) -> InferredGoal<DU, DE, Goal<DU, DE>> {
     let qa = vars.v[0].clone();
     let qb = vars.v[1].clone();
-    let coll0: Vec<LT> = vec![];
-    proto_vulcan!([for e in &coll0 { true, qb == [qb, 'a' | e] }])
+    let coll0: LT = LT::from_vec(vec![qa.clone(), lterm!([2]), lterm!(1)]);
+    proto_vulcan!([for e in &coll0 { [qa == [3], [3] != qb] }])
 }
 pub fn case_94(vars: &Vars) -> InferredGoal<DU, DE, Goal<DU, DE>> {
     let qa = vars.v[0].clone();
     let qb = vars.v[1].clone();
     let coll0: Vec<LT> = vec![];
-    proto_vulcan!([|x, y| {  }, for e in &coll0 { false, ["a" | qb] == [[_, _]] }])
+    proto_vulcan!([for e in &coll0 { [[2, qa], "bc", [qb | e]] == 3 }])
 }
 pub fn case_95(vars: &Vars) -> InferredGoal<DU, DE, Goal<DU, DE>> {
     let qa = vars.v[0].clone();
     let qb = vars.v[1].clone();
-    let coll0: Vec<LT> = vec![];
-    proto_vulcan!([[qb, qa] == qa, for e in &coll0 { [append(qa, qa, [2])] }])
+    let coll0: Vec<LT> = vec![qa.clone(), lterm!([2])];
+    proto_vulcan!([for e in &coll0 { |x, y| {  }, [qb, [], 2] == qb }])
 }
 pub fn case_96(vars: &Vars) -> InferredGoal<DU, DE, Goal<DU, DE>> {
     let qa = vars.v[0].clone();
     let qb = vars.v[1].clone();
-    let coll0: Vec<LT> = vec![];
-    proto_vulcan!([|h| { h == h }, for e in &coll0 { qb != [[3, 1, 1] | qb], [qa == [['a', _], qb, []]] }])
+    let coll0: Vec<LT> = vec![lterm!([1]), lterm!([2])];
+    proto_vulcan!([for e in &coll0 { qa != [['a', 'a' | qa]] }])
 }
 pub fn case_97(vars: &Vars) -> InferredGoal<DU, DE, Goal<DU, DE>> {
     let qa = vars.v[0].clone();
     let qb = vars.v[1].clone();
-    let coll0: LT = LT::from_vec(vec![lterm!(2), qb.clone(), lterm!(1)]);
-    proto_vulcan!([qb == [qa, qa, 1], for e in &coll0 { |tz| { [3 | tz] != [3, 1], tz == [1] }, [[2, 2, 2 | "a"]] != e }])
+    let coll0: LT = LT::from_vec(vec![lterm!(3)]);
+    proto_vulcan!([for e in &coll0 { |z| { e != z } }])
 }
 pub fn case_98(vars: &Vars) -> InferredGoal<DU, DE, Goal<DU, DE>> {
     let qa = vars.v[0].clone();
     let qb = vars.v[1].clone();
-    let coll0: LT = LT::from_vec(vec![lterm!(2)]);
-    proto_vulcan!([for e in &coll0 { [[e, 2 | _] == qa, qb == [qa]] }])
+    let coll0: LT = LT::from_vec(vec![qa.clone()]);
+    proto_vulcan!([for e in &coll0 { true, true }])
 }
 pub fn case_99(vars: &Vars) -> InferredGoal<DU, DE, Goal<DU, DE>> {
     let qa = vars.v[0].clone();
     let qb = vars.v[1].clone();
-    let coll0: Vec<LT> = vec![];
-    proto_vulcan!([[[1, _, _], [2, true], [3, false, _]] == qa, for e in &coll0 { conde { [_ | e] == qa, [member(qb, []), 2 == e], [[e, "bc" | e] == e, [[e, _]] == qb] } }])
+    let coll0: LT = LT::from_vec(vec![lterm!(1), qa.clone(), qb.clone()]);
+    proto_vulcan!([[[], 1] == qb, for e in &coll0 { |y, z| { e == [qb] } }])
 }
 pub fn case_100(vars: &Vars) -> InferredGoal<DU, DE, Goal<DU, DE>> {
     let qa = vars.v[0].clone();
     let qb = vars.v[1].clone();
-    let coll0: LT = LT::from_vec(vec![lterm!(1)]);
-    proto_vulcan!([for e in &coll0 { [append(qa, qb, [1]), 'b' == qa, 2 == qa] }])
+    let coll0: LT = LT::from_vec(vec![lterm!([2])]);
+    proto_vulcan!([for e in &coll0 { |h| { append(h, h, [3]), h == P3([e], 1, e), [3, qb | qa] == qb } }])
 }
 pub fn case_101(vars: &Vars) -> InferredGoal<DU, DE, Goal<DU, DE>> {
     let qa = vars.v[0].clone();
     let qb = vars.v[1].clone();
-    let coll0: LT = LT::from_vec(vec![lterm!([1]), lterm!(2), lterm!(3)]);
-    proto_vulcan!([[] == qa, for e in &coll0 { e == [], [2, 3, e] == e }])
+    let coll0: LT = LT::from_vec(vec![lterm!(2), qa.clone(), lterm!(2)]);
+    proto_vulcan!([[qa, qa, [] | qa] == qb, for e in &coll0 { [[1, qb, e | qb] == qb], |tz| { tz == [3], [1, 3 | tz] != [1, 3, 3] } }])
 }
 pub fn case_102(vars: &Vars) -> InferredGoal<DU, DE, Goal<DU, DE>> {
     let qa = vars.v[0].clone();
     let qb = vars.v[1].clone();
-    let coll0: Vec<LT> = vec![];
-    proto_vulcan!([|z| {  }, for e in &coll0 { |x| { x == qb, |tz| { [1, 1 | tz] != [1, 1, 1, 1], tz == [1, 1] }, [_, qb, 2] != e } }])
+    let coll0: LT = LT::from_vec(vec![lterm!(2)]);
+    proto_vulcan!([for e in &coll0 { qa != qb, 2 != qa }])
 }
 pub fn case_103(vars: &Vars) -> InferredGoal<DU, DE, Goal<DU, DE>> {
     let qa = vars.v[0].clone();
     let qb = vars.v[1].clone();
-    let coll0: LT = LT::from_vec(vec![qb.clone(), lterm!(1), qb.clone()]);
-    proto_vulcan!([for e in &coll0 { 3 == qa }])
+    let coll0: LT = LT::from_vec(vec![lterm!([1])]);
+    proto_vulcan!([conde { [3 == qa, true], [false, |tz| { tz == [2], [2, 1 | tz] != [2, 1, 2] }], |tz| { tz == [2, 1], [1 | tz] != [1, 2, 1] } }, for e in &coll0 { conde { [[qa | qb] == [[qb, [], 2], e | true], qa == [qa, e]], [append(qa, qb, [2]), e == qa] }, qa != e }])
 }
 pub fn case_104(vars: &Vars) -> InferredGoal<DU, DE, Goal<DU, DE>> {
     let qa = vars.v[0].clone();
     let qb = vars.v[1].clone();
-    let coll0: Vec<LT> = vec![lterm!([1]), lterm!(2)];
-    proto_vulcan!([for e in &coll0 { |z| { qa == [e, z], qa == [] }, member(e, [3, 3]) }])
+    let coll0: Vec<LT> = vec![];
+    proto_vulcan!([for e in &coll0 { 1 != qa, [P3(2, qb, e) == e, P3([], [], []) == qa] }])
 }
 pub fn case_105(vars: &Vars) -> InferredGoal<DU, DE, Goal<DU, DE>> {
     let qa = vars.v[0].clone();
     let qb = vars.v[1].clone();
-    let coll0: LT = LT::from_vec(vec![lterm!(2), lterm!(3), qb.clone()]);
-    proto_vulcan!([qa == [2], for e in &coll0 { qb != qa, |h| { [1, "a", 2 | qa] == h } }])
+    let coll0: LT = LT::from_vec(vec![lterm!(1), lterm!(2), qa.clone()]);
+    proto_vulcan!([|tz| { [1 | tz] != [1, 2, 2], tz == [2, 2] }, for e in &coll0 { qb == ['a' | qa] }])
 }
 pub fn case_106(vars: &Vars) -> InferredGoal<DU, DE, Goal<DU, DE>> {
     let qa = vars.v[0].clone();
     let qb = vars.v[1].clone();
-    let coll0: LT = LT::from_vec(vec![lterm!(3), lterm!(1), lterm!([2])]);
-    proto_vulcan!([qa == [qb, qa], for e in &coll0 { qa == [[3], [1 | e] | e], [qb] == qa }])
+    let coll0: Vec<LT> = vec![lterm!(2), lterm!([1])];
+    proto_vulcan!([for e in &coll0 { (qa, [3]) == e }])
 }
 pub fn case_107(vars: &Vars) -> InferredGoal<DU, DE, Goal<DU, DE>> {
     let qa = vars.v[0].clone();
     let qb = vars.v[1].clone();
-    let coll0: LT = LT::from_vec(vec![lterm!(2)]);
-    proto_vulcan!([[1, 1, "a"] == qa, for e in &coll0 { member(qa, [1]), [] != e }])
+    let coll0: LT = LT::from_vec(vec![lterm!(1), lterm!(1), lterm!(3)]);
+    proto_vulcan!([|y, h| { qb != 2 }, for e in &coll0 { [e == e, qa == [[], 2], true == qb] }])
 }
 pub fn case_108(vars: &Vars) -> InferredGoal<DU, DE, Goal<DU, DE>> {
     let qa = vars.v[0].clone();
     let qb = vars.v[1].clone();
-    let coll0: Vec<LT> = vec![];
-    proto_vulcan!([for e in &coll0 { false }])
+    let coll0: LT = LT::from_vec(vec![lterm!(3), qb.clone(), qa.clone()]);
+    proto_vulcan!([|y, z| { [[], [], [_] | qa] == qa }, for e in &coll0 { qa == [qb, qb, 1] }])
 }
 pub fn case_109(vars: &Vars) -> InferredGoal<DU, DE, Goal<DU, DE>> {
     let qa = vars.v[0].clone();
     let qb = vars.v[1].clone();
     let coll0: Vec<LT> = vec![];
-    proto_vulcan!([|y, t| { member(qa, [1, 2, 2]), y == 2 }, for e in &coll0 { qb == [3, [[]], [[], [], 3 | qa]] }])
+    proto_vulcan!([[[[3], _ | _] != P3(qb, [qb, qa], [3])], for e in &coll0 { qb != 1, [qa] == ([_, 2], [e]) }])
 }
 pub fn case_110(vars: &Vars) -> InferredGoal<DU, DE, Goal<DU, DE>> {
     let qa = vars.v[0].clone();
     let qb = vars.v[1].clone();
-    let coll0: Vec<LT> = vec![];
-    proto_vulcan!([for e in &coll0 { qb != e }])
+    let coll0: LT = LT::from_vec(vec![lterm!(1)]);
+    proto_vulcan!([qb == [qa, [], _], for e in &coll0 { e == [["bc", 3, _ | e], false, [true, qb | e]], qa == 2 }])
 }
 pub fn case_111(vars: &Vars) -> InferredGoal<DU, DE, Goal<DU, DE>> {
     let qa = vars.v[0].clone();
     let qb = vars.v[1].clone();
-    let coll0: Vec<LT> = vec![lterm!(3), lterm!(2)];
-    proto_vulcan!([for e in &coll0 { [2, _, [e]] != 3, qb == e }])
+    let coll0: Vec<LT> = vec![];
+    proto_vulcan!([true, for e in &coll0 { |y| { true, qb == [_, 2 | y] }, e == [2, [], qb | e] }])
 }
 pub fn case_112(vars: &Vars) -> InferredGoal<DU, DE, Goal<DU, DE>> {
     let qa = vars.v[0].clone();
     let qb = vars.v[1].clone();
-    let coll0: Vec<LT> = vec![lterm!(1), lterm!(2)];
-    proto_vulcan!([for e in &coll0 { [2, qb, qb] == qb }])
+    let coll0: Vec<LT> = vec![lterm!(3), lterm!(1)];
+    proto_vulcan!([for e in &coll0 { [_, 1, qa] == [e, [false, 2 | e]] }])
 }
 pub fn case_113(vars: &Vars) -> InferredGoal<DU, DE, Goal<DU, DE>> {
     let qa = vars.v[0].clone();
     let qb = vars.v[1].clone();
-    let coll0: LT = LT::from_vec(vec![qa.clone()]);
-    proto_vulcan!([for e in &coll0 { [2, 2 | qb] == e }])
+    let coll0: Vec<LT> = vec![lterm!(2), qb.clone()];
+    proto_vulcan!([for e in &coll0 { [qa == e] }])
 }
 pub fn case_114(vars: &Vars) -> InferredGoal<DU, DE, Goal<DU, DE>> {
     let qa = vars.v[0].clone();
     let qb = vars.v[1].clone();
-    let coll0: LT = LT::from_vec(vec![lterm!([1])]);
-    proto_vulcan!([for e in &coll0 { [[e] | e] == e }])
+    let coll0: Vec<LT> = vec![qa.clone(), qa.clone()];
+    proto_vulcan!([qa == (2, []), for e in &coll0 { qa == [3, 3, qb | qa], |t, h| { h != [_, h, e], t != ['b'] } }])
 }
 pub fn case_115(vars: &Vars) -> InferredGoal<DU, DE, Goal<DU, DE>> {
     let qa = vars.v[0].clone();
     let qb = vars.v[1].clone();
-    let coll0: LT = LT::from_vec(vec![lterm!(3)]);
-    proto_vulcan!([false, for e in &coll0 { [qa, "a"] == e }])
+    let coll0: Vec<LT> = vec![lterm!(3), lterm!(2)];
+    proto_vulcan!([for e in &coll0 { P3(qb, qb, []) == qa }])
 }
 pub fn case_116(vars: &Vars) -> InferredGoal<DU, DE, Goal<DU, DE>> {
     let qa = vars.v[0].clone();
     let qb = vars.v[1].clone();
-    let coll0: Vec<LT> = vec![];
-    proto_vulcan!([for e in &coll0 { |z, x| { x == qb, |tz| { [3, 1 | tz] != [3, 1, 1], tz == [1] }, qb == [] }, [1, e, [] | e] == e }])
+    let coll0: Vec<LT> = vec![qa.clone(), qb.clone()];
+    proto_vulcan!([conde { qb == 2, ["a" == qb, qb == qb], |tz| { tz == [2, 2], [2 | tz] != [2, 2, 2] } }, for e in &coll0 { P3(3, _, [[], qa]) != qa, |h, t| { member(qb, [3, 1]), |tz| { tz == [2, 2], [2 | tz] != [2, 2, 2] } } }])
 }
 pub fn case_117(vars: &Vars) -> InferredGoal<DU, DE, Goal<DU, DE>> {
     let qa = vars.v[0].clone();
     let qb = vars.v[1].clone();
-    let coll0: Vec<LT> = vec![];
-    proto_vulcan!([for e in &coll0 { conde { [], [e, 1] == qa, [qb == 2, [] == qb] }, [1, 1, 1 | 'b'] != qb }])
+    let coll0: LT = LT::from_vec(vec![lterm!([1]), lterm!(3), lterm!([1])]);
+    proto_vulcan!([for e in &coll0 { [[2, e] == qb] }])
 }
 pub fn case_118(vars: &Vars) -> InferredGoal<DU, DE, Goal<DU, DE>> {
     let qa = vars.v[0].clone();
     let qb = vars.v[1].clone();
     let coll0: Vec<LT> = vec![];
-    proto_vulcan!([_ == qb, for e in &coll0 { e == [], conde { [], member(qb, [2, 1, 2]), true } }])
+    proto_vulcan!([true, for e in &coll0 { 2 == _, conde { [_ != qb, e == qa], [append(qb, qa, [1, 3]), [qa, 2 | qa] != qa] } }])
 }
 pub fn case_119(vars: &Vars) -> InferredGoal<DU, DE, Goal<DU, DE>> {
     let qa = vars.v[0].clone();
     let qb = vars.v[1].clone();
-    let coll0: LT = LT::from_vec(vec![lterm!([1])]);
-    proto_vulcan!([for e in &coll0 { qb == [[]] }])
+    let coll0: Vec<LT> = vec![lterm!(1), lterm!([1])];
+    proto_vulcan!([for e in &coll0 { conde { qa == qa, [qa, [2, qa, _], qb | e] == qa, |tz| { tz == [3, 3], [2, 2, 3, 3] != [2, 2 | tz] } }, [1, _ | 1] == qb }])
 }
 pub fn case_120(vars: &Vars) -> InferredGoal<DU, DE, Goal<DU, DE>> {
     let qa = vars.v[0].clone();
     let qb = vars.v[1].clone();
-    let coll0: LT = LT::from_vec(vec![lterm!(3)]);
-    proto_vulcan!([for e in &coll0 { [] == qb, 2 == e }])
+    let coll0: LT = LT::from_vec(vec![qb.clone(), lterm!(1), lterm!(3)]);
+    proto_vulcan!([[1, 2, qa] == qb, for e in &coll0 { [[e | e] == qb, e == qb, e == _] }])
 }
 pub fn case_121(vars: &Vars) -> InferredGoal<DU, DE, Goal<DU, DE>> {
     let qa = vars.v[0].clone();
     let qb = vars.v[1].clone();
-    let coll0: LT = LT::from_vec(vec![lterm!(3)]);
-    proto_vulcan!([for e in &coll0 { _ == [[qa, true | true], [[], 2], []] }])
+    let coll0: LT = LT::from_vec(vec![lterm!([2])]);
+    proto_vulcan!([conde { qb == [qb] }, for e in &coll0 { false }])
 }
 pub fn case_122(vars: &Vars) -> InferredGoal<DU, DE, Goal<DU, DE>> {
     let qa = vars.v[0].clone();
     let qb = vars.v[1].clone();
-    let coll0: LT = LT::from_vec(vec![lterm!(2)]);
-    proto_vulcan!([for e in &coll0 { append(qb, qa, []), [[[], _], qb, [qa, 1, []]] != _ }])
+    let coll0: LT = LT::from_vec(vec![lterm!(3), qa.clone(), lterm!(2)]);
+    proto_vulcan!([for e in &coll0 { e == [qa, e], false == [["a"], [qa | e], [1, qb] | e] }])
 }
 pub fn case_123(vars: &Vars) -> InferredGoal<DU, DE, Goal<DU, DE>> {
     let qa = vars.v[0].clone();
     let qb = vars.v[1].clone();
-    let coll0: LT = LT::from_vec(vec![lterm!([1])]);
-    proto_vulcan!([qb != ["bc", 1, 3 | qb], for e in &coll0 { false == [qb, 1] }])
+    let coll0: LT = LT::from_vec(vec![lterm!(3), qb.clone(), lterm!(1)]);
+    proto_vulcan!([for e in &coll0 { (1, _) == [_, 1, [e] | e], member(qa, [3, 2, 1]) }])
 }
 pub fn case_124(vars: &Vars) -> InferredGoal<DU, DE, Goal<DU, DE>> {
     let qa = vars.v[0].clone();
     let qb = vars.v[1].clone();
-    let coll0: Vec<LT> = vec![lterm!(1), lterm!([2])];
-    proto_vulcan!(['a' == 1, for e in &coll0 { member(e, []), [e == qb, e == qb] }])
+    let coll0: LT = LT::from_vec(vec![lterm!(2), lterm!(1), lterm!(3)]);
+    proto_vulcan!([for e in &coll0 { |tz| { [3 | tz] != [3, 2], tz == [2] }, [|tz| { [3, 1 | tz] != [3, 1, 3, 3], tz == [3, 3] }, |tz| { tz == [3, 1], [1, 2 | tz] != [1, 2, 3, 1] }] }])
 }
 pub fn case_125(vars: &Vars) -> InferredGoal<DU, DE, Goal<DU, DE>> {
     let qa = vars.v[0].clone();
     let qb = vars.v[1].clone();
-    let coll0: Vec<LT> = vec![qa.clone(), qb.clone()];
-    proto_vulcan!([for e in &coll0 { [2, 3, qb] == qb }])
+    let coll0: Vec<LT> = vec![];
+    proto_vulcan!([for e in &coll0 { [[3]] == P3(3, [e, 1], qb) }])
 }
 pub fn case_126(vars: &Vars) -> InferredGoal<DU, DE, Goal<DU, DE>> {
     let qa = vars.v[0].clone();
     let qb = vars.v[1].clone();
-    let coll0: LT = LT::from_vec(vec![lterm!(2)]);
-    proto_vulcan!([[2] != qb, for e in &coll0 { true, qa == [1, e] }])
+    let coll0: Vec<LT> = vec![qa.clone(), lterm!(1)];
+    proto_vulcan!([|z, x| { member(x, [1, 1, 1]), qb == qb, |tz| { [2, 3, 1] != [2 | tz], tz == [3, 1] } }, for e in &coll0 { qb == e }])
 }
 pub fn case_127(vars: &Vars) -> InferredGoal<DU, DE, Goal<DU, DE>> {
     let qa = vars.v[0].clone();
     let qb = vars.v[1].clone();
-    let coll0: LT = LT::from_vec(vec![lterm!(3), qb.clone(), qb.clone()]);
-    proto_vulcan!([for e in &coll0 { conde { [append(e, qb, []), false] } }])
+    let coll0: LT = LT::from_vec(vec![lterm!(1)]);
+    proto_vulcan!([qb != [qa, [_ | qb] | qb], for e in &coll0 { [3, 1, qb] != qb, append(qb, e, [1, 2]) }])
 }
 pub fn case_128(vars: &Vars) -> InferredGoal<DU, DE, Goal<DU, DE>> {
     let qa = vars.v[0].clone();
     let qb = vars.v[1].clone();
-    let coll0: Vec<LT> = vec![];
-    proto_vulcan!([for e in &coll0 { qb == [], conde { [], [[[2, qb | qa], [qb, 'a'], e | qb] == e, [true, []] == qa] } }])
+    let coll0: Vec<LT> = vec![qb.clone(), lterm!(2)];
+    proto_vulcan!([for e in &coll0 { [3] == [], qa == e }])
 }
 pub fn case_129(vars: &Vars) -> InferredGoal<DU, DE, Goal<DU, DE>> {
     let qa = vars.v[0].clone();
     let qb = vars.v[1].clone();
-    let coll0: Vec<LT> = vec![];
-    proto_vulcan!([|t, x| { append(t, qb, [3, 2]), qa != qb }, for e in &coll0 { |h, z| { |tz| { [3, 3 | tz] != [3, 3, 3], tz == [3] }, qa != 2, [[3 | qa], [e]] == [_, qb] }, |tz| { [2, 2] != [2 | tz], tz == [2] } }])
+    let coll0: LT = LT::from_vec(vec![qb.clone(), lterm!(1), lterm!(2)]);
+    proto_vulcan!([[true], for e in &coll0 { P3(2, 1, 1) != [3], append(e, qa, []) }])
 }
 pub fn case_130(vars: &Vars) -> InferredGoal<DU, DE, Goal<DU, DE>> {
     let qa = vars.v[0].clone();
     let qb = vars.v[1].clone();
-    let coll0: LT = LT::from_vec(vec![lterm!(3), lterm!([2]), qa.clone()]);
-    proto_vulcan!([conde { [true, qb == [[3, qa, qb]]], [qa == [_, 'b', qb], [qb, 'a', 3 | _] != qa] }, for e in &coll0 { [], e != [e, 2, 1] }])
+    let coll0: LT = LT::from_vec(vec![qa.clone(), lterm!([2]), lterm!(2)]);
+    proto_vulcan!([for e in &coll0 { |y| { qb == 1 } }])
 }
 pub fn case_131(vars: &Vars) -> InferredGoal<DU, DE, Goal<DU, DE>> {
     let qa = vars.v[0].clone();
     let qb = vars.v[1].clone();
-    let coll0: LT = LT::from_vec(vec![lterm!(3), qb.clone(), lterm!(3)]);
-    proto_vulcan!([qb == qb, for e in &coll0 { conde { [2, 2 | qb] != qb }, |x, h| { qb == [[1, h | x], [2, qa, x]], [] != qa, [] == qa } }])
+    let coll0: LT = LT::from_vec(vec![qb.clone()]);
+    proto_vulcan!([|y, x| { (3, qa) == x }, for e in &coll0 { conde { [[[], qb] == qa, e != P3([], 2, e)], [qa != [e], ["a"] == qb] } }])
 }
 pub fn case_132(vars: &Vars) -> InferredGoal<DU, DE, Goal<DU, DE>> {
     let qa = vars.v[0].clone();
     let qb = vars.v[1].clone();
-    let coll0: Vec<LT> = vec![];
-    proto_vulcan!([qa != [3, qa, 3 | qb], for e in &coll0 { |tz| { tz == [1, 1], [1 | tz] != [1, 1, 1] } }])
+    let coll0: Vec<LT> = vec![lterm!([1]), lterm!(1)];
+    proto_vulcan!([qa == qa, for e in &coll0 { e == [] }])
 }
 pub fn case_133(vars: &Vars) -> InferredGoal<DU, DE, Goal<DU, DE>> {
     let qa = vars.v[0].clone();
     let qb = vars.v[1].clone();
-    let coll0: LT = LT::from_vec(vec![lterm!(3), lterm!(3), lterm!(3)]);
-    proto_vulcan!([for e in &coll0 { [[qa, e | qa] == e, |tz| { [1, 3 | tz] != [1, 3, 2, 2], tz == [2, 2] }], [qa, _, qb] == qa }])
+    let coll0: LT = LT::from_vec(vec![qb.clone(), qa.clone(), lterm!([1])]);
+    proto_vulcan!([qa == qb, for e in &coll0 { P3(2, _, e) == [qb, false, 2] }])
 }
 pub fn case_134(vars: &Vars) -> InferredGoal<DU, DE, Goal<DU, DE>> {
     let qa = vars.v[0].clone();
     let qb = vars.v[1].clone();
-    let coll0: Vec<LT> = vec![];
-    proto_vulcan!([for e in &coll0 { append(qb, qa, []), qb == e }])
+    let coll0: LT = LT::from_vec(vec![lterm!(1)]);
+    proto_vulcan!([|h, z| { qa == [[h, 2, 'a'], [], [qa, 1, qa]], [3, qa] == h, |tz| { tz == [1], [3 | tz] != [3, 1] } }, for e in &coll0 { conde { [P3([e], [3, e], qa) == 1, e == "bc"], |tz| { tz == [2], [1, 3 | tz] != [1, 3, 2] } } }])
 }
 pub fn case_135(vars: &Vars) -> InferredGoal<DU, DE, Goal<DU, DE>> {
     let qa = vars.v[0].clone();
     let qb = vars.v[1].clone();
-    let coll0: LT = LT::from_vec(vec![lterm!(2)]);
-    proto_vulcan!([for e in &coll0 { [[[_], [e, 2]] == [2, [qb, 'b', _]], false] }])
+    let coll0: LT = LT::from_vec(vec![lterm!(1), lterm!([2]), qa.clone()]);
+    proto_vulcan!([for e in &coll0 { qb == [2, qb] }])
 }
 pub fn case_136(vars: &Vars) -> InferredGoal<DU, DE, Goal<DU, DE>> {
     let qa = vars.v[0].clone();
     let qb = vars.v[1].clone();
-    let coll0: LT = LT::from_vec(vec![qa.clone(), lterm!(1), lterm!(3)]);
-    proto_vulcan!([[append(qa, qb, []), [] == qa], for e in &coll0 { qa != "bc" }])
+    let coll0: Vec<LT> = vec![lterm!(3), lterm!(2)];
+    proto_vulcan!([(qa, qb) == [qa, [] | _], for e in &coll0 { [[[_, 2, _ | qb], [_, 1, 3], [qb, [] | e]] != (qb, _), P3(_, _, 3) != P3(_, _, [qb]), qb == qa] }])
 }
 pub fn case_137(vars: &Vars) -> InferredGoal<DU, DE, Goal<DU, DE>> {
     let qa = vars.v[0].clone();
     let qb = vars.v[1].clone();
-    let coll0: LT = LT::from_vec(vec![lterm!([1]), lterm!(1), lterm!([1])]);
-    proto_vulcan!([|tz| { [2 | tz] != [2, 1, 1], tz == [1, 1] }, for e in &coll0 { 'a' == [2], [] }])
+    let coll0: Vec<LT> = vec![];
+    proto_vulcan!([_ != [["a", qb, qa | qb], [2, 1, qb]], for e in &coll0 { [_, qb, e] == [[2 | e], "bc", [qa]], [[_, qb, qb], [qa, _, _], 2] == P3(1, e, qa) }])
 }
 pub fn case_138(vars: &Vars) -> InferredGoal<DU, DE, Goal<DU, DE>> {
     let qa = vars.v[0].clone();
     let qb = vars.v[1].clone();
-    let coll0: LT = LT::from_vec(vec![lterm!([1])]);
-    proto_vulcan!([for e in &coll0 { conde { true, append(e, qb, []) } }])
+    let coll0: Vec<LT> = vec![];
+    proto_vulcan!([for e in &coll0 { qa == [], qa == qb }])
 }
 pub fn case_139(vars: &Vars) -> InferredGoal<DU, DE, Goal<DU, DE>> {
     let qa = vars.v[0].clone();
     let qb = vars.v[1].clone();
-    let coll0: LT = LT::from_vec(vec![lterm!([2])]);
-    proto_vulcan!([for e in &coll0 { |z, y| { false }, [qb, 1 | e] == e }])
+    let coll0: LT = LT::from_vec(vec![lterm!(3), lterm!(2), lterm!(2)]);
+    proto_vulcan!([true, for e in &coll0 { qb == [qb, 'b'], [true] }])
 }
 pub fn case_140(vars: &Vars) -> InferredGoal<DU, DE, Goal<DU, DE>> {
     let x = vars.v[0].clone();
@@ -863,658 +863,655 @@ pub fn case_144(vars: &Vars) -> InferredGoal<DU, DE, Goal<DU, DE>> {
 }
 pub fn case_145(vars: &Vars) -> InferredGoal<DU, DE, Goal<DU, DE>> {
     let x = vars.v[0].clone();
-    proto_vulcan!([matche x { _ | [[[], z, t | h]] => , }])
+    proto_vulcan!([match x { [x, 3, [[], false, 1]] => , _ => [onceo { [x, 1, 2] == x }, x != [x]], [] => [[x == [], [x] == 1, [1, [x, false | _] | _] == x]], }])
 }
 pub fn case_146(vars: &Vars) -> InferredGoal<DU, DE, Goal<DU, DE>> {
-    let q = vars.v[0].clone();
-    let x = vars.v[1].clone();
-    proto_vulcan!([[x == q], match q { [[2 | x], t, [y, z, x | y]] => , [] => [|t| { t == 2 }, 'b' == x], }])
-}
-pub fn case_147(vars: &Vars) -> InferredGoal<DU, DE, Goal<DU, DE>> {
     let x = vars.v[0].clone();
     let y = vars.v[1].clone();
-    proto_vulcan!([matchu x { [[1, _, 3], [[], x, [] | t]] | [1, [2]] => , [2, [2]] => , }])
+    proto_vulcan!([[[3], x, [y]] == x, matcha y { P3([_, z], 1, _) | [y, [h, 1 | _], [1 | _] | t] => [x == [1, x, x | x], 'a' == false], [] => { "a" == [3, y], P3(x, [2], []) != 2 }, Named { a: _, b: [] } => [append(x, y, [3]), [x, 1 | 1] == x], }])
+}
+pub fn case_147(vars: &Vars) -> InferredGoal<DU, DE, Goal<DU, DE>> {
+    let q = vars.v[0].clone();
+    let x = vars.v[1].clone();
+    proto_vulcan!([match x { _ => , x => , }])
 }
 pub fn case_148(vars: &Vars) -> InferredGoal<DU, DE, Goal<DU, DE>> {
     let x = vars.v[0].clone();
-    proto_vulcan!([matcha x { [[t, 2] | _] => , [[t, y | _] | 2] | [[z, h, h] | 2] => , }])
+    let y = vars.v[1].clone();
+    proto_vulcan!([x == [x, y], match x { [y, [z | z]] => { z == [x, 'a' | 2], matcha x { Named { a: [_, _], b: 1 } => [z == [[_, y, x], 2, y], false], [[], x] | h => , } }, [[z, _, x]] => , _ => { |y| { [3, 3] == y, 1 == ([], [2, 3]), _ == x }, matchu [2, 'b'] { 1 | [false, [z, [] | 1], x] => y == _, [[[]], [_, [] | z], 2] => [false, |tz| { [3, 2, 1] != [3, 2 | tz], tz == [1] }], x | _ => { y == _, [_, y, _ | y] == y }, } }, }])
 }
 pub fn case_149(vars: &Vars) -> InferredGoal<DU, DE, Goal<DU, DE>> {
     let x = vars.v[0].clone();
     let y = vars.v[1].clone();
-    proto_vulcan!([[y != 3], match x { _ => { y == 7, y == 8 }, [[[], []], 'b', [t]] => { x == 2, false }, }])
+    proto_vulcan!([match x { h => , }])
 }
 pub fn case_150(vars: &Vars) -> InferredGoal<DU, DE, Goal<DU, DE>> {
-    let q = vars.v[0].clone();
-    let x = vars.v[1].clone();
-    proto_vulcan!([match 3 { _ => [_] == q, }])
+    let x = vars.v[0].clone();
+    proto_vulcan!([[x != x], matcha x { [2, [], [1, h, z] | _] => { onceo { x != P3(_, [2], x) } }, _ => { [] }, }])
 }
 pub fn case_151(vars: &Vars) -> InferredGoal<DU, DE, Goal<DU, DE>> {
     let x = vars.v[0].clone();
-    proto_vulcan!([match x { [[false, t | y]] | 1 => [[], conda { [[2] == [[3, []], [[] | x]], member(x, [1, 2])] }], [t, [y, z, 1], [t]] => [["bc", 1] == t, conde { _ != x }], [_, [1, y, 1 | 2]] => , }])
+    let y = vars.v[1].clone();
+    proto_vulcan!([matche y { [[y, x] | 2] => [|z, h| { z == 1 }, conda { [x == P3(2, _, 2), [] == y], [false, true] }], [[z | y], ['a', 3, true | t], ['b', y, 1 | _]] | _ => { x == [2, x, x | x] }, }])
 }
 pub fn case_152(vars: &Vars) -> InferredGoal<DU, DE, Goal<DU, DE>> {
     let x = vars.v[0].clone();
     let y = vars.v[1].clone();
-    proto_vulcan!([|t, h| { t == [[[], false, _], 1], member(t, []) }, match y { x => { x == [x | _] }, }])
+    proto_vulcan!([matchu x { Named { a: 3, b: [x, _] } | [1] => { |x| { member(x, [1]), [[], y] == x }, conde { append(y, y, []), y == y } }, }])
 }
 pub fn case_153(vars: &Vars) -> InferredGoal<DU, DE, Goal<DU, DE>> {
     let x = vars.v[0].clone();
     let y = vars.v[1].clone();
-    proto_vulcan!([y == [], match x { [] => matchu y { [2 | z] => { [2, []] == [['a', x], [x, 3]], [_, 3] == z }, }, 2 | _ => conde { y == 2, 2 == _ }, }])
+    proto_vulcan!([match x { [] => , }])
 }
 pub fn case_154(vars: &Vars) -> InferredGoal<DU, DE, Goal<DU, DE>> {
-    let x = vars.v[0].clone();
-    let y = vars.v[1].clone();
-    proto_vulcan!([matcha y { _ => [x == [['b', y, 1 | y] | y], |y| { x != y, [1 | y] == [[x, []], 2, y] }], [[h], [h, true | _]] => [matchu y { [1] => [x != [h, y | x], x == [[]]], }, |x| { [x, 1 | x] == h, y == [], x == [x, x | _] }], }])
+    let q = vars.v[0].clone();
+    let x = vars.v[1].clone();
+    proto_vulcan!([matcha x { h => { x != _ }, }])
 }
 pub fn case_155(vars: &Vars) -> InferredGoal<DU, DE, Goal<DU, DE>> {
     let x = vars.v[0].clone();
-    proto_vulcan!([|tz| { tz == [3], [1 | tz] != [1, 3] }, matcha [2, _, x] { ["bc"] | [h, [_, 1], 3] => , [x] | ["a" | 3] => , }])
+    proto_vulcan!([|tz| { tz == [2, 3], [2 | tz] != [2, 2, 3] }, matchu x { h => { h == false, matche x { 2 => [append(x, h, []), member(x, [2])], } }, P3(x, 1, z) => [x == (x, x), |z, y| { P3(_, x, y) != z, x == P3(_, x, []) }], }])
 }
 pub fn case_156(vars: &Vars) -> InferredGoal<DU, DE, Goal<DU, DE>> {
     let x = vars.v[0].clone();
-    proto_vulcan!([condu { [[x, x, 3 | x] == x, x == 1], member(x, []), member(x, [3, 2, 2]) }, matche x { z | x => , }])
+    let y = vars.v[1].clone();
+    proto_vulcan!([matche ['b'] { [h] => [false, matcha h { 3 => { 3 == [[]], false }, 1 | _ => { h == [3, x, x] }, x | P3(x, [2, h], [[]]) => , }], _ => [y == 7, y == 8], }])
 }
 pub fn case_157(vars: &Vars) -> InferredGoal<DU, DE, Goal<DU, DE>> {
     let x = vars.v[0].clone();
-    proto_vulcan!([matchu x { y => { [1 | x] == x, match 3 { [2, [1, 1, true] | t] => |tz| { [1, 2] != [1 | tz], tz == [2] }, [[3, x, z | _], [1, 2, _], [t]] => , } }, [[], [t, _, y]] => { t == [t | 1], conde { [member(y, [1, 1]), |tz| { tz == [3, 2], [2, 3, 2] != [2 | tz] }], false } }, }])
+    proto_vulcan!([|z, y| { true }, matchu [3, x, 1] { _ => { member(x, [1, 2, 3]) }, P3([_], 2, 3) => { [x, 1 | x] == x, x != (2, 1) }, }])
 }
 pub fn case_158(vars: &Vars) -> InferredGoal<DU, DE, Goal<DU, DE>> {
-    let q = vars.v[0].clone();
-    let x = vars.v[1].clone();
-    proto_vulcan!([|t| { q == t, x != _, 3 != q }, matche x { t => , _ => onceo { [q, [], x] == q }, }])
+    let x = vars.v[0].clone();
+    let y = vars.v[1].clone();
+    proto_vulcan!([onceo { [2, y | x] == x }, matcha y { z => matcha z { [2, 'a', [2, 2, 1] | x] => , }, _ => onceo { [x, y | x] == y }, [[1, 2, 1], [x, 2], [x, x, []] | 'b'] | [[_, 1 | _], [[]], [h, t, _ | x]] => { y == [1, 3], conde { 'b' != y } }, }])
 }
 pub fn case_159(vars: &Vars) -> InferredGoal<DU, DE, Goal<DU, DE>> {
     let x = vars.v[0].clone();
-    proto_vulcan!([match x { 'a' => { |tz| { tz == [2], [1, 2] != [1 | tz] }, x == 1 }, [[t], [2, _], [3, t, x] | y] => , [3 | _] => [onceo { |tz| { tz == [1, 1], [3, 1, 1, 1] != [3, 1 | tz] } }, x == [_]], }])
+    proto_vulcan!([[_] == x, match x { [[_, [], 1]] => { match x { Named { a: x, b: y } => { y == y }, x => , _ => { member(x, [1, 2, 3]) }, }, |z| { x == [2, x, 1], x != P3([2], x, _), x == z } }, z => , [[false, _], h, [3, 3 | z]] | _ => [|x, h| { h != x, h == x }, conde { (x, _) == x, false == (3, 3) }], }])
 }
 pub fn case_160(vars: &Vars) -> InferredGoal<DU, DE, Goal<DU, DE>> {
-    let q = vars.v[0].clone();
-    let x = vars.v[1].clone();
-    proto_vulcan!([matcha q { _ => { x == 7, x == 8 }, [[_], [_, _, h], _] => , }])
+    let x = vars.v[0].clone();
+    proto_vulcan!([match x { 1 => x == [x, true, _], }])
 }
 pub fn case_161(vars: &Vars) -> InferredGoal<DU, DE, Goal<DU, DE>> {
     let x = vars.v[0].clone();
     let y = vars.v[1].clone();
-    proto_vulcan!([matcha x { _ => member(y, [1, 2, 3]), _ => , }])
+    proto_vulcan!([matcha y { _ => { match y { y => , [t | _] => y == ([[], y], 2), "bc" => , }, match x { [3, [2, 2], 1] => { y != "a", member(y, [2, 1, 2]) }, [[t, [], true]] => ["bc"] != x, } }, [[h], z, t] => [matcha x { P3([], [_, []], [z, y]) | "a" => h == t, }, []], }])
 }
 pub fn case_162(vars: &Vars) -> InferredGoal<DU, DE, Goal<DU, DE>> {
-    let q = vars.v[0].clone();
-    let x = vars.v[1].clone();
-    proto_vulcan!([matcha q { _ => { q == 7, q == 8 }, y | [h, [], 2] => 2 == x, [[t, x | _]] => , }])
+    let x = vars.v[0].clone();
+    let y = vars.v[1].clone();
+    proto_vulcan!([x == [_, [] | y], match y { [[1, 2]] => { [[x, 3] | x] != y }, _ | [z, [2], [3, 2, 3 | _] | y] => [|y, x| { member(x, [2, 1, 1]), x == [_, 1, 1 | x] }, matchu x { P3([3, x], t, x) => [[x, 1, 3 | x] == t, |tz| { [3 | tz] != [3, 1], tz == [1] }], [t] => { [["bc"]] != t, P3(_, x, t) == x }, }], }])
 }
 pub fn case_163(vars: &Vars) -> InferredGoal<DU, DE, Goal<DU, DE>> {
     let x = vars.v[0].clone();
-    let y = vars.v[1].clone();
-    proto_vulcan!([conde { [x == [1, x, 1 | "a"], x == [[]]], [y != x, [3] == x] }, matche 3 { [[h, x, 2], [[], z, 1 | h], 2] => , [[1, y, z], [_, 'b', 3]] => , [2] => 1 == x, }])
+    proto_vulcan!([|y| { append(y, x, [1, 3]), y == [y] }, matchu [] { Named { a: [], b: 2 } | [[z], z] => , _ => , P3(x, _, 2) => { [_] == x, conde { x == [[], x, 1] } }, }])
 }
 pub fn case_164(vars: &Vars) -> InferredGoal<DU, DE, Goal<DU, DE>> {
-    let q = vars.v[0].clone();
-    let x = vars.v[1].clone();
-    proto_vulcan!([match [q, 3] { [[y | _] | z] | _ => { matchu x { [[t], x, [1]] | 'a' => [[1 | q] == q, false], _ => [q == 7, q == 8], [] | 2 => { [] == x }, } }, [2, [_, z]] => , y | [_] => [q == _, [|tz| { tz == [3], [3 | tz] != [3, 3] }, [_ | x] == q]], }])
+    let x = vars.v[0].clone();
+    let y = vars.v[1].clone();
+    proto_vulcan!([|x, z| { P3([_, y], x, [x]) == z, |tz| { tz == [1, 2], [3, 1 | tz] != [3, 1, 1, 2] } }, match y { [[y | _], x, [3]] => { |z, h| { false, member(y, [3]), x == 1 } }, }])
 }
 pub fn case_165(vars: &Vars) -> InferredGoal<DU, DE, Goal<DU, DE>> {
-    let q = vars.v[0].clone();
-    let x = vars.v[1].clone();
-    proto_vulcan!([[['a'] != x, q == x], matcha x { t => , [[y, 2 | y], [z, 2, 3 | _], y | x] => { x == z, conde { [[[z, 1], _, [[], 3 | x]] == _, x != z], q != x, [z == 'a', y == [3, x]] } }, }])
+    let x = vars.v[0].clone();
+    let y = vars.v[1].clone();
+    proto_vulcan!([[x, [y, _, 1 | x], [1, y, y | x]] != (2, [y]), match y { _ => [true == [y, y, 2], ['b'] != [[y, y], ['b', y, 'a']]], false => { |h, x| { [_, x] == y, x == x } }, _ => { member(x, [1, 2, 3]) }, }])
 }
 pub fn case_166(vars: &Vars) -> InferredGoal<DU, DE, Goal<DU, DE>> {
     let q = vars.v[0].clone();
     let x = vars.v[1].clone();
-    proto_vulcan!([matche x { [[z | h], [t | _], [t, t]] => , ["a", [_, _ | x]] => , _ => { q == 7, q == 8 }, }])
+    proto_vulcan!([matche q { P3(y, z, [1]) => [matche z { [z, [t, 2, z], h] | [["a", []]] => [|tz| { tz == [2], [3 | tz] != [3, 2] }, [_, x | x] == q], _ | P3(_, z, z) => , }, [q, z, y] == y], }])
 }
 pub fn case_167(vars: &Vars) -> InferredGoal<DU, DE, Goal<DU, DE>> {
     let x = vars.v[0].clone();
-    proto_vulcan!([[x | x] != x, matchu x { _ => [x == 7, x == 8], t => [matcha [3, t, t | t] { 2 => , }, ['b'] == x], _ => { member(x, [1, 2, 3]) }, }])
+    proto_vulcan!([x == [x, x], matchu x { Named { a: h, b: [] } => , }])
 }
 pub fn case_168(vars: &Vars) -> InferredGoal<DU, DE, Goal<DU, DE>> {
-    let q = vars.v[0].clone();
-    let x = vars.v[1].clone();
-    proto_vulcan!([matchu x { [[false]] | [z] => append(q, q, [1]), [y] => { false, append(q, x, []) }, }])
+    let x = vars.v[0].clone();
+    proto_vulcan!([matcha x { _ | Named { a: y, b: 1 } => [[x != x, 'a' != x]], [y, [h | y]] => { conde { [|tz| { [1 | tz] != [1, 1], tz == [1] }, h == [_, []]], true }, h != ([1, _], x) }, }])
 }
 pub fn case_169(vars: &Vars) -> InferredGoal<DU, DE, Goal<DU, DE>> {
     let x = vars.v[0].clone();
-    let y = vars.v[1].clone();
-    proto_vulcan!([matche x { 1 => [|h| { h != [[_] | x], member(h, [3]) }, 3 == x], [[x, "a"], [h], [2, y]] => [onceo { false }, matche h { y | [1] => , }], }])
+    proto_vulcan!([matchu x { Named { a: [_], b: [] } => , }])
 }
 pub fn case_170(vars: &Vars) -> InferredGoal<DU, DE, Goal<DU, DE>> {
-    let x = vars.v[0].clone();
-    let y = vars.v[1].clone();
-    proto_vulcan!([conde { x == _, [true != y, _ == y] }, matche [_, true, _] { x => { |h, y| { member(h, [1]), [x | y] == x } }, [[z, h | h]] => [|h| {  }, conde { [h, []] == y, [] }], 2 | [[x, y, _ | true], 'a', [z, 'b', 3 | x]] => , }])
+    let q = vars.v[0].clone();
+    let x = vars.v[1].clone();
+    proto_vulcan!([[member(x, [2]), member(q, [1]), q == [[x, q], [q, _, true] | x]], matche q { Named { a: [], b: z } => { |y, x| { true == y, 1 == z }, onceo { (_, 1) == z } }, }])
 }
 pub fn case_171(vars: &Vars) -> InferredGoal<DU, DE, Goal<DU, DE>> {
     let x = vars.v[0].clone();
-    proto_vulcan!([onceo { x == [x] }, matcha x { [[2 | y]] => { |x| { [[_, x, [] | x], [x, x]] == [_ | 2], y == [2, _, x], [x, x, y] == x } }, 1 => { [member(x, []), [x] == x], [] }, }])
+    let y = vars.v[1].clone();
+    proto_vulcan!([matchu y { _ => { onceo { x != x } }, }])
 }
 pub fn case_172(vars: &Vars) -> InferredGoal<DU, DE, Goal<DU, DE>> {
     let x = vars.v[0].clone();
-    let y = vars.v[1].clone();
-    proto_vulcan!([matchu [2] { [[z, x], 2] => , }])
+    proto_vulcan!([matchu x { [[1, 'b']] => [false, onceo { [x, 1, 1 | x] != x }], 1 | [] => [[x, x, 'b'] == x, [2 == [[x, x | x], [2, "bc", x]]]], }])
 }
 pub fn case_173(vars: &Vars) -> InferredGoal<DU, DE, Goal<DU, DE>> {
-    let q = vars.v[0].clone();
-    let x = vars.v[1].clone();
-    proto_vulcan!([matcha q { _ => member(x, [1, 2, 3]), }])
+    let x = vars.v[0].clone();
+    proto_vulcan!([|y, h| {  }, match _ { 3 | [[[], 'b']] => conde { [], [] }, [[x], [z], [] | z] => { z == x, false }, }])
 }
 pub fn case_174(vars: &Vars) -> InferredGoal<DU, DE, Goal<DU, DE>> {
     let x = vars.v[0].clone();
-    proto_vulcan!([conde { true, [x == [1, x | x], 3 != x] }, matche _ { _ | _ => |h| { x == [2, 2 | h] }, }])
+    proto_vulcan!([|tz| { tz == [1], [3, 1 | tz] != [3, 1, 1] }, matcha x { [3, [1, t | 3], z | z] | _ => |x, z| { z == x, ["bc", 2 | z] == z, [true] != x }, 3 => , }])
 }
 pub fn case_175(vars: &Vars) -> InferredGoal<DU, DE, Goal<DU, DE>> {
     let q = vars.v[0].clone();
     let x = vars.v[1].clone();
-    proto_vulcan!([match q { [h, [2, 3, x | _]] => { |tz| { [1, 1 | tz] != [1, 1, 1, 2], tz == [1, 2] }, |t| { true } }, [z] => conde { q != [['a', "a" | x] | z], [x != [[2], 1, x | q], true], [] }, }])
+    proto_vulcan!([|t| {  }, matcha q { 2 => { [3, q] == q }, P3(_, x, _) | _ => , }])
 }
 pub fn case_176(vars: &Vars) -> InferredGoal<DU, DE, Goal<DU, DE>> {
-    let q = vars.v[0].clone();
-    let x = vars.v[1].clone();
-    proto_vulcan!([|z| { q == z, _ == [q] }, matche x { [[x, _ | y], []] => [onceo { 1 == x }, onceo { [2, y, x | x] != x }], z => , [y, [t, h, []]] => , }])
+    let x = vars.v[0].clone();
+    let y = vars.v[1].clone();
+    proto_vulcan!([member(y, [1, 1]), matche y { P3(y, [_], _) => { member(y, [1, 2, 2]), y != y }, 2 => |z| { append(z, y, [3]), P3(3, _, y) == x }, P3(_, _, _) => , }])
 }
 pub fn case_177(vars: &Vars) -> InferredGoal<DU, DE, Goal<DU, DE>> {
     let q = vars.v[0].clone();
     let x = vars.v[1].clone();
-    proto_vulcan!([[q, 2, [] | q] == q, matchu x { _ | _ => member(x, [1, 2, 3]), _ | 1 => x != [q], }])
+    proto_vulcan!([x != _, matchu [_, x] { Named { a: 3, b: 1 } => [[] == q, onceo { append(x, x, [1, 1]) }], 1 | _ => , }])
 }
 pub fn case_178(vars: &Vars) -> InferredGoal<DU, DE, Goal<DU, DE>> {
-    let q = vars.v[0].clone();
-    let x = vars.v[1].clone();
-    proto_vulcan!([matcha q { [1] => { x == [x, [1, q], [[], q] | q] }, }])
+    let x = vars.v[0].clone();
+    proto_vulcan!([|tz| { [3, 2 | tz] != [3, 2, 2], tz == [2] }, matche x { [['b', 3 | t]] => , P3(_, t, x) => { (x, x) == t }, }])
 }
 pub fn case_179(vars: &Vars) -> InferredGoal<DU, DE, Goal<DU, DE>> {
     let x = vars.v[0].clone();
-    let y = vars.v[1].clone();
-    proto_vulcan!([matchu [2, []] { _ => , [_, 1, [1, t] | x] => , }])
+    proto_vulcan!([[x == [["bc", x, x], x], x == x, |tz| { [1, 1 | tz] != [1, 1, 3], tz == [3] }], matche x { [[t], t, [1, [], y | _] | _] | [[y, y | h], [t, t]] => { matchu t { [[h, x, z], _, y] => , _ | _ => member(t, [1, 2, 3]), [2, [1 | false] | y] => , }, t == x }, P3(_, t, t) => onceo { _ != x }, [[]] => match x { _ => { x == 7, x == 8 }, 1 => , }, }])
 }
 pub fn case_180(vars: &Vars) -> InferredGoal<DU, DE, Goal<DU, DE>> {
     let x = vars.v[0].clone();
-    let y = vars.v[1].clone();
-    proto_vulcan!([[[2, x] == x], match x { _ | [[]] => [true, x == [y, [y, 2, 3], [3, x]]], _ => { x == 7, x == 8 }, _ => { y == ['b', 1, 2], false }, }])
+    proto_vulcan!([x == 2, matche x { _ => { member(x, [1, 2, 3]) }, _ => member(x, [1, 2, 3]), [[1, 2, _ | z], [[], []]] => |x, z| { member(z, [1, 3, 1]), ["bc"] == z, ['b', z] == 'a' }, }])
 }
 pub fn case_181(vars: &Vars) -> InferredGoal<DU, DE, Goal<DU, DE>> {
     let x = vars.v[0].clone();
     let y = vars.v[1].clone();
-    proto_vulcan!([matche x { h => , [[h], [y]] => [y, y, 1] == y, [[_, 2 | y], _] => { |h| { [_, 3, y] == x }, matchu [y, [], y] { [3, [x], [_, 2] | _] => , [[], [_, 2, 2]] => , _ => , } }, }])
+    proto_vulcan!([onceo { [[x]] == 'b' }, matcha [3, 1] { 'b' | [[x, true, _ | x], y, t | z] => , t => { [t] == y, 1 != [1, y, 2 | t] }, 3 => { [member(x, [3, 2, 3])], true == y }, }])
 }
 pub fn case_182(vars: &Vars) -> InferredGoal<DU, DE, Goal<DU, DE>> {
     let q = vars.v[0].clone();
     let x = vars.v[1].clone();
-    proto_vulcan!([q == q, match [3, 2] { _ => [[q, [] | q] == [[[], _, _]], |t, x| { 2 == t, q == [3], "bc" == q }], [[3 | _] | 2] => , }])
+    proto_vulcan!([match x { [[1, 1 | _], ['b', h, 3]] => { matchu q { _ => [x == ["bc", 2, false], true], } }, }])
 }
 pub fn case_183(vars: &Vars) -> InferredGoal<DU, DE, Goal<DU, DE>> {
     let x = vars.v[0].clone();
-    proto_vulcan!([x == x, matcha ["a", x] { 2 => [conde { [x == ["a", 1], x == [1, x]], [] }, x == "bc"], z => { [|tz| { tz == [3], [1, 3 | tz] != [1, 3, 3] }, [] == z], conde { [], false } }, [["a", 2, []] | _] => [matche x { [[h, [], y | z]] => [[x, []], [y, _], "a"] == z, [2, []] | _ => { append(x, x, [1, 2]), append(x, x, [3, 2]) }, }, true], }])
+    let y = vars.v[1].clone();
+    proto_vulcan!([matcha ["bc", 2 | x] { [[true, "bc"] | y] => { y == y, [x] != ['a' | y] }, }])
 }
 pub fn case_184(vars: &Vars) -> InferredGoal<DU, DE, Goal<DU, DE>> {
-    let x = vars.v[0].clone();
-    let y = vars.v[1].clone();
-    proto_vulcan!([matcha y { [[h, t, 3], 1 | h] => , }])
+    let q = vars.v[0].clone();
+    let x = vars.v[1].clone();
+    proto_vulcan!([matcha q { [[[], h, t]] => { [x] != t, condu { false, t == h, member(h, [3, 2]) } }, [[t, "a" | _], z, 3 | h] | Named { a: y, b: [] } => { append(q, q, [3]) }, [x | _] => , }])
 }
 pub fn case_185(vars: &Vars) -> InferredGoal<DU, DE, Goal<DU, DE>> {
     let x = vars.v[0].clone();
     let y = vars.v[1].clone();
-    proto_vulcan!([matche x { [h, [1, z | t]] => [onceo { t != t }, matche t { _ | _ => , }], [[3, 1, z | t], ['a', t, t], [3, 2, false] | _] => , }])
+    proto_vulcan!([match y { [[t, z, 2], [2, 2 | y], [y]] => { y == y }, x => { conde { 1 == x, [[], [], _] == [false, [3], x | x], [x == [y, 2, 2], [[2, _, 1], 3] != [1, false | x]] } }, [[z, h | z]] => , }])
 }
 pub fn case_186(vars: &Vars) -> InferredGoal<DU, DE, Goal<DU, DE>> {
     let x = vars.v[0].clone();
-    let y = vars.v[1].clone();
-    proto_vulcan!([match y { [1, [t, t | _], [z]] => { [], conde { [append(z, y, [1, 3]), x == t], y == 2, append(x, x, [1, 2]) } }, }])
+    proto_vulcan!([matche x { y => , }])
 }
 pub fn case_187(vars: &Vars) -> InferredGoal<DU, DE, Goal<DU, DE>> {
     let x = vars.v[0].clone();
     let y = vars.v[1].clone();
-    proto_vulcan!([condu { [["bc"] == y, x == [[], 'b', y]] }, match x { [[2], _, [t, y | h]] => , _ | x => , }])
+    proto_vulcan!([matche y { _ => { member(x, [1, 2, 3]) }, [] | [[x, 2], _] => , _ => { |y| { P3(x, 1, []) != 1, true } }, }])
 }
 pub fn case_188(vars: &Vars) -> InferredGoal<DU, DE, Goal<DU, DE>> {
-    let x = vars.v[0].clone();
-    proto_vulcan!([[x == [[], _], |tz| { [2, 1, 3, 1] != [2, 1 | tz], tz == [3, 1] }], matchu [x | x] { [[[], h], [_ | x], true] => { append(x, h, []) }, _ => { x == 7, x == 8 }, _ | 3 => [[append(x, x, []), [x | x] != x, append(x, x, [])], match x { _ => [["a", 1, 1] == [], member(x, [2, 2])], }], }])
+    let q = vars.v[0].clone();
+    let x = vars.v[1].clone();
+    proto_vulcan!([|x, z| { |tz| { tz == [3, 3], [2, 3, 3] != [2 | tz] }, q == [2, [], z], member(q, [1, 1, 1]) }, match q { [[1], ['a', 2]] => { [[2], [q, 2, false]] == x }, z => [|x| { x == x, true }, [2, _, _] == z], [2 | _] => , }])
 }
 pub fn case_189(vars: &Vars) -> InferredGoal<DU, DE, Goal<DU, DE>> {
     let x = vars.v[0].clone();
-    proto_vulcan!([|h| { x != [2, x], h == [x, h] }, matcha x { _ => , }])
+    proto_vulcan!([|y, x| { P3(y, y, 1) != y }, matche x { _ => member(x, [1, 2, 3]), _ => { member(x, [1, 2, 3]) }, }])
 }
 pub fn case_190(vars: &Vars) -> InferredGoal<DU, DE, Goal<DU, DE>> {
-    let x = vars.v[0].clone();
-    let y = vars.v[1].clone();
-    proto_vulcan!([matchu y { [["bc", x, _ | _], [x, 3 | _]] => { matchu y { _ => { |tz| { tz == [2, 1], [1, 2, 1] != [1 | tz] }, [[x], ["a", y] | x] != y }, [y, [2], 2 | _] => x != [], }, x == x }, _ => , _ => { member(y, [1, 2, 3]) }, }])
+    let q = vars.v[0].clone();
+    let x = vars.v[1].clone();
+    proto_vulcan!([onceo { 3 == [[2, x, []], [q], [q, q] | x] }, matcha q { _ => [x == 7, x == 8], _ => { append(q, x, []) }, [[[]], [t, [], 3]] | _ => , }])
 }
 pub fn case_191(vars: &Vars) -> InferredGoal<DU, DE, Goal<DU, DE>> {
     let x = vars.v[0].clone();
     let y = vars.v[1].clone();
-    proto_vulcan!([matchu y { [_, z | z] => [[[3 | x]] == x, |tz| { tz == [3], [2, 3] != [2 | tz] }], z => { |tz| { tz == [1], [3, 2 | tz] != [3, 2, 1] } }, _ | [[z, h, 1], [[], h], [2, 3, []]] => [matchu x { _ => { member(y, [1, 2, 3]) }, }, |x, z| { x == [y, true, x], z != [[z, 2, 2], ["bc", x, 3], [y, 2, x | x]], [y, _] != [[y, _, z], [false, false, x], [2]] }], }])
+    proto_vulcan!([[y == 1, true], matcha x { _ => { x == 7, x == 8 }, }])
 }
 pub fn case_192(vars: &Vars) -> InferredGoal<DU, DE, Goal<DU, DE>> {
     let x = vars.v[0].clone();
-    proto_vulcan!([matche [x] { _ => [|h, y| { h == _ }, [append(x, x, [2])]], _ => { member(x, [1, 2, 3]) }, _ => [|t| { true == x, [1 | t] == [1, t], |tz| { tz == [2], [1 | tz] != [1, 2] } }, |h| { x == [[], [3, h | x], 3 | h], false }], }])
+    proto_vulcan!([true, matche x { [[3, h, 'b'], 2] | _ => { [P3(3, [_, []], 2) != x] }, [[y, y, y], [false], [false]] => { |z| { member(y, [1]), true } }, }])
 }
 pub fn case_193(vars: &Vars) -> InferredGoal<DU, DE, Goal<DU, DE>> {
     let x = vars.v[0].clone();
-    proto_vulcan!([onceo { |tz| { [3, 3 | tz] != [3, 3, 1], tz == [1] } }, match [[]] { [[y, [], x | _], [t, y | y]] => { conde { x == [x, 'b', x | 1], x == y }, |tz| { [3, 1, 1] != [3 | tz], tz == [1, 1] } }, }])
+    proto_vulcan!([matcha x { P3(h, [[], []], [2, t]) => , }])
 }
 pub fn case_194(vars: &Vars) -> InferredGoal<DU, DE, Goal<DU, DE>> {
     let q = vars.v[0].clone();
     let x = vars.v[1].clone();
-    proto_vulcan!([matcha x { [[x, 1, h] | x] => { |t, y| { q == t, q != 2, member(x, [2, 2, 1]) } }, }])
+    proto_vulcan!([matcha q { _ => { member(x, [1, 2, 3]) }, }])
 }
 pub fn case_195(vars: &Vars) -> InferredGoal<DU, DE, Goal<DU, DE>> {
-    let x = vars.v[0].clone();
-    proto_vulcan!([match x { [[h, 2], [3, []]] | [[], x | _] => , 2 => { match [3 | 2] { _ => , [[3, h | y]] => { |tz| { [3, 3 | tz] != [3, 3, 2], tz == [2] }, [false, y, 2] == x }, y => , }, |z, t| { [1] == [], [['a']] == x } }, }])
+    let q = vars.v[0].clone();
+    let x = vars.v[1].clone();
+    proto_vulcan!([q != [3, _], match q { _ => [x == 7, x == 8], }])
 }
 pub fn case_196(vars: &Vars) -> InferredGoal<DU, DE, Goal<DU, DE>> {
     let x = vars.v[0].clone();
-    proto_vulcan!([matche x { 2 => , }])
+    let y = vars.v[1].clone();
+    proto_vulcan!([x == 2, matchu x { [[x, _, t | t], h, [[]]] | [[[], 3, 2], z, z] => true, [[t, t, y] | z] => { [1, t] == x }, [[[], h, _ | z]] | _ => onceo { 2 != x }, }])
 }
 pub fn case_197(vars: &Vars) -> InferredGoal<DU, DE, Goal<DU, DE>> {
-    let q = vars.v[0].clone();
-    let x = vars.v[1].clone();
-    proto_vulcan!([|x, t| {  }, matche [2, q] { [] => , }])
+    let x = vars.v[0].clone();
+    proto_vulcan!([x == [x, [x, x, []]], matche x { Named { a: [[]], b: [1] } => [[x | x] == x, onceo { (_, 3) != [x, [x, x, x], 'a'] }], [[y, _], [_, _]] | Named { a: [t, 1], b: [3, y] } => [|tz| { [1, 3 | tz] != [1, 3, 2, 2], tz == [2, 2] }, y != y], _ => { member(x, [1, 2, 3]) }, }])
 }
 pub fn case_198(vars: &Vars) -> InferredGoal<DU, DE, Goal<DU, DE>> {
     let x = vars.v[0].clone();
     let y = vars.v[1].clone();
-    proto_vulcan!([y == y, match y { h => { y == 1, [y] != y }, 1 => , }])
+    proto_vulcan!([conda { P3(_, _, 3) != y, [x == y, x == [3, 2]] }, matche x { "a" => , }])
 }
 pub fn case_199(vars: &Vars) -> InferredGoal<DU, DE, Goal<DU, DE>> {
-    let q = vars.v[0].clone();
-    let x = vars.v[1].clone();
-    proto_vulcan!([matchu q { _ | 3 => { conda { [q == 3, q == [3]] } }, z => x == [[x, _, _], [q], [q, 3, q | q]], }])
+    let x = vars.v[0].clone();
+    let y = vars.v[1].clone();
+    proto_vulcan!([matche y { [_] => [condu { [(2, 1) == [y, [x, true]], x != x], [y == false, y == (y, 3)] }, y != P3([_], 3, [_])], }])
 }
 pub fn case_200(vars: &Vars) -> InferredGoal<DU, DE, Goal<DU, DE>> {
     let q = vars.v[0].clone();
     let x = vars.v[1].clone();
-    proto_vulcan!([q == [1, q | q], matche q { [_] => { x == [[1, q, [] | q], x] }, }])
+    proto_vulcan!([matcha [2, _, x | x] { P3(2, 1, _) => , y | [[], [1, [], t], x | h] => conde { true, [([_], []) == [], q == [1, [], q]] }, }])
 }
 pub fn case_201(vars: &Vars) -> InferredGoal<DU, DE, Goal<DU, DE>> {
     let x = vars.v[0].clone();
-    proto_vulcan!([matchu x { [[t, _, x], true] => , }])
+    proto_vulcan!([matchu x { [2, 2, [h, t, 1 | t]] => { [t == h] }, t => , }])
 }
 pub fn case_202(vars: &Vars) -> InferredGoal<DU, DE, Goal<DU, DE>> {
     let x = vars.v[0].clone();
-    let y = vars.v[1].clone();
-    proto_vulcan!([[2, []] == x, matcha y { _ | _ => { y == 7, y == 8 }, }])
+    proto_vulcan!([matchu x { 3 | 1 => , }])
 }
 pub fn case_203(vars: &Vars) -> InferredGoal<DU, DE, Goal<DU, DE>> {
     let x = vars.v[0].clone();
     let y = vars.v[1].clone();
-    proto_vulcan!([matchu x { y | x => , _ => { x == 7, x == 8 }, [[3, z, [] | _], 3, t | z] | [[2, 1], _ | _] => { [2] == y }, }])
+    proto_vulcan!([match y { P3(h, 2, 2) => { [false, h == P3([_], x, [_, []]), h == 2] }, }])
 }
 pub fn case_204(vars: &Vars) -> InferredGoal<DU, DE, Goal<DU, DE>> {
-    let q = vars.v[0].clone();
-    let x = vars.v[1].clone();
-    proto_vulcan!([|h| { h != [[], 2, 2], 1 != q, 1 != x }, matchu [[], _, x | 1] { "a" => { conde { x != q, [1 != x, ['a', x, x] != [[false], [x, q], [x]]] }, false }, 2 | [true, [x, h, 1]] => , z => , }])
+    let x = vars.v[0].clone();
+    proto_vulcan!([match x { x => { append(x, x, [2, 3]), [[x, [1, x, true]] != x, [3, 1, _] != x] }, _ => [x == 7, x == 8], }])
 }
 pub fn case_205(vars: &Vars) -> InferredGoal<DU, DE, Goal<DU, DE>> {
-    let q = vars.v[0].clone();
-    let x = vars.v[1].clone();
-    proto_vulcan!([matchu [true, 'b' | q] { [2 | 2] => , 'b' => , [[y], x | x] | [[[], 3, 'b'], y, [1, 1]] => { |y| { false, y == y }, y == [y, q] }, }])
+    let x = vars.v[0].clone();
+    proto_vulcan!([x == P3([1, 3], [3, 3], x), matchu x { P3([2, 2], [h], [3, z]) => , _ | 2 => { x == _ }, [[2, []]] => { append(x, x, [2]) }, }])
 }
 pub fn case_206(vars: &Vars) -> InferredGoal<DU, DE, Goal<DU, DE>> {
     let x = vars.v[0].clone();
-    proto_vulcan!([onceo { x == x }, matcha x { z | [[z | h]] => , }])
+    let y = vars.v[1].clone();
+    proto_vulcan!([onceo { P3([_], x, 1) == y }, matcha y { [[t, t], y, [2, _, 2 | x] | _] | P3(y, 2, [[], 3]) => , P3(1, 2, [[], t]) | [[x], [3, 2 | z] | y] => , }])
 }
 pub fn case_207(vars: &Vars) -> InferredGoal<DU, DE, Goal<DU, DE>> {
-    let q = vars.v[0].clone();
-    let x = vars.v[1].clone();
-    proto_vulcan!([matchu q { [h] => append(q, h, [2, 1]), [x, [x, t, [] | h]] => { _ == [x, t, h], conde { [[2, t] == h, x != [x, _, "a"]] } }, }])
+    let x = vars.v[0].clone();
+    proto_vulcan!([matche x { _ => match x { [[t | 1], [t, [], 2], y] => , [[x, 2], [_, [], 2 | x]] => , }, _ => , z => , }])
 }
 pub fn case_208(vars: &Vars) -> InferredGoal<DU, DE, Goal<DU, DE>> {
     let x = vars.v[0].clone();
-    proto_vulcan!([false, matchu x { [x] => { matche x { [["a" | t], [2, y], [1 | y] | y] => , [x, [_, h | h] | 1] => { false, member(x, [2]) }, } }, [[1, [] | _], [2 | h], t | y] => { [[y] == t, append(t, y, []), false], |y| { y == t, member(t, [2, 2]), append(x, y, []) } }, }])
+    proto_vulcan!([true, match x { [[[]], [1, z, y | _], [[], 3, [] | _]] => , Named { a: [], b: z } => { true }, }])
 }
 pub fn case_209(vars: &Vars) -> InferredGoal<DU, DE, Goal<DU, DE>> {
-    let q = vars.v[0].clone();
-    let x = vars.v[1].clone();
-    proto_vulcan!([|y, t| {  }, match [3, x | 3] { x => { |z, x| { append(z, x, [1]), [2, 2 | x] == x, x == [2, 1, _ | z] }, false }, [[[], 2]] => , _ | [[2, "bc"], [h, 3, h], [x]] => , }])
+    let x = vars.v[0].clone();
+    proto_vulcan!([matchu x { [1, y, 3] | [[], 2, [t | z] | h] => { true }, P3(x, [h, _], []) => { match x { h => , [['b', 3 | y], 3, _ | _] => [['a'] == [[3], [_], [2, x, y]], h != y], [['a', z | z], ["a", _], [[]]] => { ([], x) == 3 }, } }, _ | "a" => { [x == [[false | x]], |tz| { tz == [1], [3 | tz] != [3, 1] }], [member(x, [1]), [2, _, 2] == P3([2, _], 1, [1, 1]), append(x, x, [1])] }, }])
 }
 pub fn case_210(vars: &Vars) -> InferredGoal<DU, DE, Goal<DU, DE>> {
-    let q = vars.v[0].clone();
-    let x = vars.v[1].clone();
-    proto_vulcan!([|y| { q == [y | y], q == 2 }, match q { _ | [[1, 2, x], 'a', [z, "a", 'a'] | x] => |t, y| { [y, q] != y, [t | q] != [y, [_, 1], [q, 3, 2]], |tz| { [3, 1 | tz] != [3, 1, 2], tz == [2] } }, }])
+    let x = vars.v[0].clone();
+    let y = vars.v[1].clone();
+    proto_vulcan!([|y| { "bc" != y, 1 == y, 1 == [_, y | y] }, matche x { Named { a: _, b: z } => , [[2 | _], z] => { |t| { z == P3(_, 1, [z]), y == [_, 1, z], [[_, 2 | x], [y, 3, 2 | x], [z]] == z } }, [true | y] | 2 => { x != [x], conde { [x != [x, x, "a"], true], [x == [x], [true, x, 3 | x] == x] } }, }])
 }
 pub fn case_211(vars: &Vars) -> InferredGoal<DU, DE, Goal<DU, DE>> {
     let q = vars.v[0].clone();
     let x = vars.v[1].clone();
-    proto_vulcan!([[[x, x, q] != x, [[x, q, false], 1 | q] == q, [1, x, [] | x] == [q]], match q { [z, [1, _, "a"], t] => { matche "a" { _ => [z == 7, z == 8], _ => { append(q, z, [1, 3]) }, ["bc", [[], 2, 1] | t] => { member(t, [1, 1]) }, } }, }])
+    proto_vulcan!([[|tz| { [3, 3, 2, 1] != [3, 3 | tz], tz == [2, 1] }, false], matcha x { _ | [[y | h], [t, h, 'a'], [2, t | _]] => [[]], }])
 }
 pub fn case_212(vars: &Vars) -> InferredGoal<DU, DE, Goal<DU, DE>> {
     let x = vars.v[0].clone();
     let y = vars.v[1].clone();
-    proto_vulcan!([x != [2, y], matchu y { _ => , }])
+    proto_vulcan!([P3(_, [2], [_]) == y, matcha x { t => [member(x, []), y == _], _ => { condu { [y == [y, x, 3], true] }, [2 | y] == y }, _ => member(x, [1, 2, 3]), }])
 }
 pub fn case_213(vars: &Vars) -> InferredGoal<DU, DE, Goal<DU, DE>> {
     let x = vars.v[0].clone();
-    let y = vars.v[1].clone();
-    proto_vulcan!([[[y] == y, y != 1], matcha y { [1] => |x, h| { x == x, append(h, h, []) }, }])
+    proto_vulcan!([match x { [[t, x, 2], [1]] => , [y] => , 2 | [[1]] => , }])
 }
 pub fn case_214(vars: &Vars) -> InferredGoal<DU, DE, Goal<DU, DE>> {
     let x = vars.v[0].clone();
-    proto_vulcan!([matcha x { [1, h] => [[[]] == h], [[2], _ | 3] => , }])
+    let y = vars.v[1].clone();
+    proto_vulcan!([matcha [1, y, 'b'] { P3(2, [1, t], 3) => , [[[]]] => , }])
 }
 pub fn case_215(vars: &Vars) -> InferredGoal<DU, DE, Goal<DU, DE>> {
-    let q = vars.v[0].clone();
-    let x = vars.v[1].clone();
-    proto_vulcan!([matche x { [[[], 2], 3, [3, z, 2] | x] => { [2] == x, [q] == x }, }])
+    let x = vars.v[0].clone();
+    let y = vars.v[1].clone();
+    proto_vulcan!([member(y, [3]), match y { z | z => { matchu x { [['a', _]] => [z, x | x] != y, _ => [x == 7, x == 8], } }, _ => { P3([], 2, 3) == ([], 1) }, [['b', _], [t, x, _ | _], [x, x, h | t]] => { |tz| { [1 | tz] != [1, 2], tz == [2] }, conde { x == 3 } }, }])
 }
 pub fn case_216(vars: &Vars) -> InferredGoal<DU, DE, Goal<DU, DE>> {
     let x = vars.v[0].clone();
-    proto_vulcan!([matche x { _ => [x == 7, x == 8], _ | [h, [z, "bc", x | t]] => , [] | [[[]], y] => [condu { x == [[_], x, [x]], x == x, |tz| { [1, 3, 3] != [1, 3 | tz], tz == [3] } }, x == 1], }])
+    let y = vars.v[1].clone();
+    proto_vulcan!([matcha x { _ => { [_ != x], y == [[x, 2]] }, [[3, 2, _], 1, 1 | _] => { onceo { x == [y] } }, Named { a: 1, b: [] } => [member(y, [2, 1, 3]), |y| { [[3, 1, false], [y, y, []] | y] == [[x, y, 2], [2]], |tz| { tz == [1], [1 | tz] != [1, 1] }, false }], }])
 }
 pub fn case_217(vars: &Vars) -> InferredGoal<DU, DE, Goal<DU, DE>> {
     let x = vars.v[0].clone();
     let y = vars.v[1].clone();
-    proto_vulcan!([matcha y { [3 | z] | _ => , }])
+    proto_vulcan!([P3([], [2, 2], []) == x, matchu x { [[true, false] | y] => { [_ != y], |t, z| { P3([], [[]], 1) == y, member(z, [1]), y != [_, x, _] } }, }])
 }
 pub fn case_218(vars: &Vars) -> InferredGoal<DU, DE, Goal<DU, DE>> {
     let q = vars.v[0].clone();
     let x = vars.v[1].clone();
-    proto_vulcan!([true, match x { _ => [append(q, q, [3]), matchu q { [[3, h | h]] => [2, [], []] == q, }], ['a' | y] | 2 => { true, |z| { false } }, [2] => [x] == x, }])
+    proto_vulcan!([onceo { true }, match [q | x] { [[1, []], z] => , 2 => { x != _, [_, x, 3] == x }, [1, x | _] | [t, 1] => , }])
 }
 pub fn case_219(vars: &Vars) -> InferredGoal<DU, DE, Goal<DU, DE>> {
-    let q = vars.v[0].clone();
-    let x = vars.v[1].clone();
-    proto_vulcan!([matche x { [[y, _, t] | x] => , 1 | [h] => { |z| { z != 1, [2, q] == x, x == q }, [] }, [[1, _], h | y] => { 2 != q, [] == q }, }])
+    let x = vars.v[0].clone();
+    let y = vars.v[1].clone();
+    proto_vulcan!([matche x { Named { a: [[]], b: [] } => [2 == x, |y| {  }], [z, 3] | _ => { [] }, }])
 }
 pub fn case_220(vars: &Vars) -> InferredGoal<DU, DE, Goal<DU, DE>> {
     let x = vars.v[0].clone();
     let y = vars.v[1].clone();
-    proto_vulcan!([matche x { [[[], "bc" | t], x, ['b', y, []]] | [[h, t | z]] => , }])
+    proto_vulcan!([matche y { _ | [[z, h, _]] => { matcha y { Named { a: y, b: [] } => { y != [y, x, [] | y] }, [[_, h]] | [[[], h, [] | _]] => h == y, x => , }, conde { |tz| { tz == [1, 3], [1 | tz] != [1, 1, 3] }, P3(_, [[]], y) != y } }, x | y => , [[x, x, [] | h] | _] => h == [1], }])
 }
 pub fn case_221(vars: &Vars) -> InferredGoal<DU, DE, Goal<DU, DE>> {
     let q = vars.v[0].clone();
     let x = vars.v[1].clone();
-    proto_vulcan!([x != "bc", matcha [_, "bc"] { h | [x, [y | y]] => false, y => [true], }])
+    proto_vulcan!([[1, 3 | "bc"] != q, matcha x { P3(_, 3, []) | h => { x == [_, ["bc" | q]], [true] }, }])
 }
 pub fn case_222(vars: &Vars) -> InferredGoal<DU, DE, Goal<DU, DE>> {
-    let q = vars.v[0].clone();
-    let x = vars.v[1].clone();
-    proto_vulcan!([x == q, matcha [3 | x] { [[_, _ | _], h] | _ => |t| { q == [[]], x == t }, x => conde { [_ != x, append(q, x, [3])] }, }])
+    let x = vars.v[0].clone();
+    proto_vulcan!([matcha x { _ | _ => { x == 7, x == 8 }, _ | [[2 | t]] => [|y| { [] == y, x == [[3], [1]], [[1, x, y], _, x] == x }, conde { [false, (3, [[]]) != x], [append(x, x, [2]), x == _] }], }])
 }
 pub fn case_223(vars: &Vars) -> InferredGoal<DU, DE, Goal<DU, DE>> {
     let x = vars.v[0].clone();
-    proto_vulcan!([matchu x { _ => , }])
+    let y = vars.v[1].clone();
+    proto_vulcan!([conde { [_ == ([_], []), y == y], [x == [x, x], y == P3(_, x, _)], x == [1, 2] }, matcha y { [['b', y | 2], z | z] => , }])
 }
 pub fn case_224(vars: &Vars) -> InferredGoal<DU, DE, Goal<DU, DE>> {
-    let q = vars.v[0].clone();
-    let x = vars.v[1].clone();
-    proto_vulcan!([|y, z| { false, x == [x, z, y] }, matche x { _ | 'a' => { condu { append(x, q, [3]), [q != [1, _, x | x], q == [[false | q], 3, x | q]] } }, 1 => { condu { 2 == q }, append(x, q, []) }, _ | [1, [1]] => , }])
+    let x = vars.v[0].clone();
+    let y = vars.v[1].clone();
+    proto_vulcan!([y == [[y, "bc" | x], [x, 2, y] | y], matchu x { [1, [2, [] | z], [2] | y] => { (y, _) != z }, h => |y, x| { (_, y) == [x | y] }, }])
 }
 pub fn case_225(vars: &Vars) -> InferredGoal<DU, DE, Goal<DU, DE>> {
     let x = vars.v[0].clone();
-    proto_vulcan!([matche [2, 'a', _ | x] { [h, [z] | x] | [[3], [y]] => , }])
+    proto_vulcan!([[x, x, 3 | x] == x, match x { [[[], x, _]] => { x == x, x == [[1, false, x | x] | 1] }, [[1]] => [[[2, _]] == x, conde { [], false, [x == [], x == []] }], }])
 }
 pub fn case_226(vars: &Vars) -> InferredGoal<DU, DE, Goal<DU, DE>> {
     let x = vars.v[0].clone();
-    proto_vulcan!([[2, 2, x] == x, matche x { [x, [z] | t] | 2 => , x => [x == [x, [], x], false], [[y, 1, [] | z], t, [[], x, h]] => { |t| { [z, [3, x | 3]] != y, [x, 2] != t } }, }])
+    proto_vulcan!([x == [x], matcha x { _ => conde { [|tz| { [2, 1, 2, 1] != [2, 1 | tz], tz == [2, 1] }, 1 != x], [x == 1, |tz| { [1, 2] != [1 | tz], tz == [2] }], [false, |tz| { [2 | tz] != [2, 3], tz == [3] }] }, }])
 }
 pub fn case_227(vars: &Vars) -> InferredGoal<DU, DE, Goal<DU, DE>> {
     let x = vars.v[0].clone();
-    proto_vulcan!([|x| { x == x, true, x == [] }, matche x { [[t, 2, y], [_ | 1], ["bc", x]] => , }])
+    let y = vars.v[1].clone();
+    proto_vulcan!([matchu y { z => { [x, 2] == z }, [[t, [] | 1], [t | y]] => { condu { [P3(3, 3, t) != x, x == [y, 2 | y]], ['b', t] != t }, true }, [[1, _, 3 | z], [true]] => , }])
 }
 pub fn case_228(vars: &Vars) -> InferredGoal<DU, DE, Goal<DU, DE>> {
-    let x = vars.v[0].clone();
-    proto_vulcan!([match x { y | _ => { onceo { append(x, x, []) } }, [2, [_, t, _], [[], [], _]] => |y, h| { _ == [_], [[y, 2], [1, 1], _] == t }, [[z, 2 | h]] | 2 => , }])
+    let q = vars.v[0].clone();
+    let x = vars.v[1].clone();
+    proto_vulcan!([matchu x { _ => [q == 7, q == 8], _ => member(q, [1, 2, 3]), [[[], 3, "bc"], [x, 'a']] => { x == [_, q], append(q, x, [1, 2]) }, }])
 }
 pub fn case_229(vars: &Vars) -> InferredGoal<DU, DE, Goal<DU, DE>> {
-    let x = vars.v[0].clone();
-    let y = vars.v[1].clone();
-    proto_vulcan!([[], matchu y { [t, 1, 'a' | h] => { [[x, 2] == x], x != [y] }, _ => { member(x, [1, 2, 3]) }, }])
+    let q = vars.v[0].clone();
+    let x = vars.v[1].clone();
+    proto_vulcan!([matchu q { _ => { member(q, [1, 2, 3]) }, }])
 }
 pub fn case_230(vars: &Vars) -> InferredGoal<DU, DE, Goal<DU, DE>> {
     let q = vars.v[0].clone();
     let x = vars.v[1].clone();
-    proto_vulcan!([|x| { 3 == 'a', x == [[], x, _], x == [[x]] }, match [[], x] { [2, _] | [] => [true != [[], [], 1], x != q], }])
+    proto_vulcan!([matche q { _ => , [[_, z | _], "bc"] => , [[_, y], [t, y, 3 | _] | _] => [matchu t { [[t, false], [1, _]] => [[], [2, 1, y | t], 1] == q, [[], [2, h | y], t | y] => [[[2, h | 2], [3, y, _] | h] == [x], _ == y], }, |t| { [y] != t }], }])
 }
 pub fn case_231(vars: &Vars) -> InferredGoal<DU, DE, Goal<DU, DE>> {
     let x = vars.v[0].clone();
-    let y = vars.v[1].clone();
-    proto_vulcan!([append(y, x, []), matche 2 { [_, [[], "bc"], z] => [append(y, x, []), [z, z, [] | x] == y], [t, [], [h, []]] => [member(t, [2, 1]), [[true] == x, t != [x, h, 3], y == 1]], }])
+    proto_vulcan!([[[] == 2, x != [[x, x], [x | x] | x]], matcha x { [true | _] => [x == [x, _], x != 1], }])
 }
 pub fn case_232(vars: &Vars) -> InferredGoal<DU, DE, Goal<DU, DE>> {
     let x = vars.v[0].clone();
-    let y = vars.v[1].clone();
-    proto_vulcan!([matche x { _ => { member(x, [1, 2, 3]) }, _ => [y == 7, y == 8], }])
+    proto_vulcan!([|tz| { [2, 1 | tz] != [2, 1, 2], tz == [2] }, matcha x { [x, [_, x], []] => [[[x, x, [2, _ | 3]] == x, x == ['a']]], _ => { member(x, [1, 2, 3]) }, }])
 }
 pub fn case_233(vars: &Vars) -> InferredGoal<DU, DE, Goal<DU, DE>> {
     let x = vars.v[0].clone();
-    let y = vars.v[1].clone();
-    proto_vulcan!([matchu x { [h, 2] => [|z, t| { false, y == [z], false }, |tz| { tz == [2, 3], [1 | tz] != [1, 2, 3] }], }])
+    proto_vulcan!([append(x, x, []), matcha x { [3, 1, y] => , _ => { member(x, [1, 2, 3]) }, }])
 }
 pub fn case_234(vars: &Vars) -> InferredGoal<DU, DE, Goal<DU, DE>> {
-    let x = vars.v[0].clone();
-    proto_vulcan!([[x, x, 2 | x] == x, match x { h => |h| { true, member(x, [3]), true }, _ | _ => , [[h | y], t] => matcha x { [[z, x, "bc"], ["bc" | y], t] => { 1 == h }, }, }])
+    let q = vars.v[0].clone();
+    let x = vars.v[1].clone();
+    proto_vulcan!([matche x { 3 => [conde { false }, [q == q, 2 == [[x, q]]]], }])
 }
 pub fn case_235(vars: &Vars) -> InferredGoal<DU, DE, Goal<DU, DE>> {
     let x = vars.v[0].clone();
     let y = vars.v[1].clone();
-    proto_vulcan!([[x | x] == y, match [2 | y] { x => , [x, h, [t, 1, x]] => [match h { [2, [_, z]] => { h != _, false }, }, matche [[] | y] { [3, t, t | x] => _ == [], [3, [z, h, _ | _], [1]] => [t == [_, [], 3], y != t], }], }])
+    proto_vulcan!([match y { _ => { |h| { true, [x, h, y | x] == y } }, y => [[x != [_, _]]], }])
 }
 pub fn case_236(vars: &Vars) -> InferredGoal<DU, DE, Goal<DU, DE>> {
     let x = vars.v[0].clone();
     let y = vars.v[1].clone();
-    proto_vulcan!([matchu [y] { [3, y, []] | _ => [] == x, [[z, z, y] | _] => , [[[], _, _ | _], 2, 2] => { |x| { true, 'a' == x, |tz| { [2, 1 | tz] != [2, 1, 3, 3], tz == [3, 3] } } }, }])
+    proto_vulcan!([matchu x { [['a', t] | _] => [true, x != [y, [y, t, 'b' | x], [[] | y]]], }])
 }
 pub fn case_237(vars: &Vars) -> InferredGoal<DU, DE, Goal<DU, DE>> {
     let x = vars.v[0].clone();
-    let y = vars.v[1].clone();
-    proto_vulcan!([matchu x { [] => { matchu y { [[[], _], t] => { [1, x] == x }, _ => { [[], x, 2 | x] == x }, }, _ == y }, [] => { |y, x| { |tz| { [3, 1, 1, 1] != [3, 1 | tz], tz == [1, 1] }, [_, []] == y, y == [[3, _ | x]] } }, t => onceo { [t] != t }, }])
+    proto_vulcan!([matche x { 2 => { |h, z| { z == x, z == [x], false }, x == (1, _) }, [[] | _] => [[[x, x, "a"], ["a"], x | x] == [3, x], x == x], }])
 }
 pub fn case_238(vars: &Vars) -> InferredGoal<DU, DE, Goal<DU, DE>> {
-    let x = vars.v[0].clone();
-    proto_vulcan!([member(x, [3, 2, 3]), match x { _ | [[3], [[]]] => [onceo { x == [x, x, _ | x] }, x != [[], 'a', x | x]], 2 => { matchu x { [[h, 2, [] | _], [1, _ | x], [1, 1] | _] | 1 => , [] => { x != x }, } }, _ => { x == [1] }, }])
+    let q = vars.v[0].clone();
+    let x = vars.v[1].clone();
+    proto_vulcan!([[|tz| { [3, 1] != [3 | tz], tz == [1] }, true], match x { [[h, 1, []], [1, [] | h], [t, [] | z]] | [1, t, [[] | z] | z] => [[[[] | z] == [_], append(z, t, [3])]], [] => matche [3] { [[false, x], [2, 'b', z | 2] | _] => , [[2, 1 | z] | t] => , [3, [z, true], "bc" | 3] => [false, append(q, x, [2, 3])], }, y => { |z| { x == y, y == z, append(z, x, [2]) }, matcha x { [_, ["bc"]] => [y == [_, 'b', 'b'], q == y], Named { a: [y, 3], b: [_] } => { y != [['b', q | y]], "bc" == y }, } }, }])
 }
 pub fn case_239(vars: &Vars) -> InferredGoal<DU, DE, Goal<DU, DE>> {
     let q = vars.v[0].clone();
     let x = vars.v[1].clone();
-    proto_vulcan!([match x { "a" | _ => [_ == x, [[q] != x]], [] => { q == "bc" }, _ => [[], q != x], }])
+    proto_vulcan!([x == [2 | x], match q { [[t, t], h] => { |h| { t == h }, 3 == [x, 3 | h] }, [3, [] | _] | [1] => { true }, }])
 }
 pub fn case_240(vars: &Vars) -> InferredGoal<DU, DE, Goal<DU, DE>> {
-    let q = vars.v[0].clone();
-    let x = vars.v[1].clone();
-    proto_vulcan!([matchu x { x | _ => { member(q, []), member(q, [3, 2]) }, [[[]], [1, t, []], h | h] | _ => , _ => [conda { q != [[] | q], [[2, _ | x] == x, q == [q]] }, condu { true, [q == x, false] }], }])
+    let x = vars.v[0].clone();
+    proto_vulcan!([[1, 3 | x] == x, matche x { [2, [y, t | 'a']] => , }])
 }
 pub fn case_241(vars: &Vars) -> InferredGoal<DU, DE, Goal<DU, DE>> {
     let q = vars.v[0].clone();
     let x = vars.v[1].clone();
-    proto_vulcan!([matcha x { _ => [q == 7, q == 8], [1, [y, _, []], [1]] => [x, y, 3] == q, y | _ => , }])
+    proto_vulcan!([match q { Named { a: 2, b: [3, 1] } => , [3] | [[], [1, 2 | _]] => , }])
 }
 pub fn case_242(vars: &Vars) -> InferredGoal<DU, DE, Goal<DU, DE>> {
     let x = vars.v[0].clone();
-    let y = vars.v[1].clone();
-    proto_vulcan!([y == [2, x | 'a'], match x { [[z | y], _] | [x] => , }])
+    proto_vulcan!([conde { [[true] != x, false], [], |tz| { tz == [2, 1], [3 | tz] != [3, 2, 1] } }, matche x { _ | 2 => , [h, h | _] | [h | x] => , }])
 }
 pub fn case_243(vars: &Vars) -> InferredGoal<DU, DE, Goal<DU, DE>> {
     let x = vars.v[0].clone();
     let y = vars.v[1].clone();
-    proto_vulcan!([|z| { true }, matcha [1, _] { 2 => [match false { z => , y => , }, conde { y == [x], append(y, x, [2]), y == [[], x, _ | y] }], 3 => , }])
+    proto_vulcan!([matcha x { P3(3, [y], _) | y => { |z| { true, z == ['a'], z == [3, 2, []] }, |x| { [x, _, []] == y, |tz| { [1, 2, 1, 1] != [1, 2 | tz], tz == [1, 1] }, append(y, y, [2]) } }, }])
 }
 pub fn case_244(vars: &Vars) -> InferredGoal<DU, DE, Goal<DU, DE>> {
     let q = vars.v[0].clone();
     let x = vars.v[1].clone();
-    proto_vulcan!([matchu x { [[3], 3] | _ => { [[1 | q], [x, 1, []], x] == [[1, 2, 'b'], [x], x] }, }])
+    proto_vulcan!([[[2, 3] != x], matcha x { [[2, x, [] | _]] => [q == ['a', _, 1 | x], conde { [], x == ([_], x), [x] == x }], h => , }])
 }
 pub fn case_245(vars: &Vars) -> InferredGoal<DU, DE, Goal<DU, DE>> {
-    let x = vars.v[0].clone();
-    let y = vars.v[1].clone();
-    proto_vulcan!([matcha x { [2, [[], [], 2]] => [x, [], x] == y, _ => [y == 7, y == 8], }])
+    let q = vars.v[0].clone();
+    let x = vars.v[1].clone();
+    proto_vulcan!([matche [q, 1, []] { [[t, _], [1, 3], [x] | x] => { [member(t, []), 1 == q, [x, t, 2] == x] }, }])
 }
 pub fn case_246(vars: &Vars) -> InferredGoal<DU, DE, Goal<DU, DE>> {
     let x = vars.v[0].clone();
-    let y = vars.v[1].clone();
-    proto_vulcan!([x == [x, x], match x { [["bc", _, x]] => { matche [true, 1, 'b'] { [[1, h] | _] | y => { true }, _ | [z, [h | _], 2] => { true }, [[y, 1, x | t], false] | _ => , }, false }, y | y => { |t| { y == t, |tz| { [3 | tz] != [3, 3, 3], tz == [3, 3] } } }, [[2] | false] => [matcha x { 1 => { false }, }, x == [y, y, x]], }])
+    proto_vulcan!([matcha x { 2 => [conde { [x == [x | x], x != x], [P3(x, [], [_]) == x, x == [x, x]] }, |tz| { tz == [2], [3, 1 | tz] != [3, 1, 2] }], _ => member(x, [1, 2, 3]), _ => { conde { [x != x, |tz| { [1, 3 | tz] != [1, 3, 2], tz == [2] }], [false, member(x, [1, 1])], false } }, }])
 }
 pub fn case_247(vars: &Vars) -> InferredGoal<DU, DE, Goal<DU, DE>> {
-    let x = vars.v[0].clone();
-    let y = vars.v[1].clone();
-    proto_vulcan!([matche y { h => { |x, h| { true, x != [2, 2 | x], h == [y] } }, 2 => x == 3, [2, 1, [t | 1] | _] => [x == [], y == [2, [x, y], [y]]], }])
+    let q = vars.v[0].clone();
+    let x = vars.v[1].clone();
+    proto_vulcan!([conde { q == _, |tz| { tz == [2, 2], [1, 2, 2] != [1 | tz] } }, matcha q { [[1 | 1], [h, 1, z]] => , Named { a: t, b: 1 } => member(t, [3, 3]), "a" => , }])
 }
 pub fn case_248(vars: &Vars) -> InferredGoal<DU, DE, Goal<DU, DE>> {
-    let x = vars.v[0].clone();
-    let y = vars.v[1].clone();
-    proto_vulcan!([matcha x { y => { matche x { [1, 1, [t]] => , _ | [[x], x] => { 'b' == y }, } }, }])
+    let q = vars.v[0].clone();
+    let x = vars.v[1].clone();
+    proto_vulcan!([[append(x, q, [])], matche q { y => |t, z| { append(t, z, []), [_] == q, [y, "a", "a" | q] == z }, 2 | [["bc"]] => { x == x, [[] == 1] }, }])
 }
 pub fn case_249(vars: &Vars) -> InferredGoal<DU, DE, Goal<DU, DE>> {
     let x = vars.v[0].clone();
-    let y = vars.v[1].clone();
-    proto_vulcan!([match [x] { [] => , [[_, t, 2], [[], 3, 1 | z]] => , }])
+    proto_vulcan!([x == (2, 3), matcha [] { [[y], [1, z, x | _], 1] => , }])
 }
 pub fn case_250(vars: &Vars) -> InferredGoal<DU, DE, Goal<DU, DE>> {
     let x = vars.v[0].clone();
-    proto_vulcan!([matcha x { [[z | 2], true] | 3 => { |tz| { [3, 1, 1] != [3, 1 | tz], tz == [1] }, conda { x == x } }, }])
+    let y = vars.v[1].clone();
+    proto_vulcan!([|x| { true }, matche y { Named { a: h, b: [1] } => { |t| { false, true, member(x, []) }, matchu y { [[[], false], [h]] => [h == [3], true], [] => , [2, [t, 2] | t] | [[1, y], false] => [[false, 2, [2, x]] == [[], h], h == (x, _)], } }, }])
 }
 pub fn case_251(vars: &Vars) -> InferredGoal<DU, DE, Goal<DU, DE>> {
-    let x = vars.v[0].clone();
-    proto_vulcan!([x == [x], match x { _ => { false }, 2 => { matchu x { [1, [y], [false | "bc"]] => , } }, _ => { x == [1, [], 'b' | x], 1 == x }, }])
+    let q = vars.v[0].clone();
+    let x = vars.v[1].clone();
+    proto_vulcan!([match x { [[2 | 2] | _] => , _ => member(q, [1, 2, 3]), }])
 }
 pub fn case_252(vars: &Vars) -> InferredGoal<DU, DE, Goal<DU, DE>> {
-    let x = vars.v[0].clone();
-    let y = vars.v[1].clone();
-    proto_vulcan!([conde { [1 == x, y == [y]] }, matcha [true, [], y] { t => conda { |tz| { [3, 3, 3, 3] != [3, 3 | tz], tz == [3, 3] }, |tz| { tz == [2], [3, 1, 2] != [3, 1 | tz] } }, 1 => { true, |h, x| { y == [2], [2, 2 | x] == x, false } }, }])
+    let q = vars.v[0].clone();
+    let x = vars.v[1].clone();
+    proto_vulcan!([[x, x] != q, matche q { P3(z, [[]], z) | _ => , [_, [x | y], [h, z] | h] | 'a' => { false }, }])
 }
 pub fn case_253(vars: &Vars) -> InferredGoal<DU, DE, Goal<DU, DE>> {
-    let x = vars.v[0].clone();
-    proto_vulcan!([matcha x { 3 | _ => { 2 == [[x, x, x], [x, 'a', x], [[], _] | x], x != [x, x, 2] }, [[3 | 1] | y] | [[_, "bc"]] => conde { [], [x == x, append(x, x, [3, 3])], [append(x, x, [1, 3]), x == [[1, true], 2, [x, [], x] | _]] }, [[[], 3, t]] => , }])
+    let q = vars.v[0].clone();
+    let x = vars.v[1].clone();
+    proto_vulcan!([matche _ { 3 => [q == 1, |h| { [1, q | q] == [[2, h, 1]] }], t => |tz| { tz == [1], [1, 3 | tz] != [1, 3, 1] }, }])
 }
 pub fn case_254(vars: &Vars) -> InferredGoal<DU, DE, Goal<DU, DE>> {
     let q = vars.v[0].clone();
     let x = vars.v[1].clone();
-    proto_vulcan!([conde { true, [q == [[q, q, []], [q, 3 | x]], true] }, matche x { ["a", [_, y, t | _], h] => , _ => member(x, [1, 2, 3]), }])
+    proto_vulcan!([onceo { member(q, []) }, matcha x { [[3, 2, 1], [[] | 3], [false | t]] => , }])
 }
 pub fn case_255(vars: &Vars) -> InferredGoal<DU, DE, Goal<DU, DE>> {
     let x = vars.v[0].clone();
-    proto_vulcan!([matcha _ { [[x, 2, y]] => { [[] == y] }, }])
+    proto_vulcan!([|h| { false, 3 == h }, matche x { [[x | x], [2]] => { [|tz| { tz == [1, 1], [3 | tz] != [3, 1, 1] }] }, }])
 }
 pub fn case_256(vars: &Vars) -> InferredGoal<DU, DE, Goal<DU, DE>> {
-    let x = vars.v[0].clone();
-    let y = vars.v[1].clone();
-    proto_vulcan!([match x { 3 => , }])
+    let q = vars.v[0].clone();
+    let x = vars.v[1].clone();
+    proto_vulcan!([[[x, 3, [[]] | q] == q, q == ([_], x), x == P3([1], [q, 1], [2])], matcha q { _ => , [2, [1, _, x | 1], h | t] | Named { a: 3, b: 3 } => [onceo { [q] == q }, (q, _) == (3, 2)], _ | [[] | x] => { condu { ['a', 1] != q } }, }])
 }
 pub fn case_257(vars: &Vars) -> InferredGoal<DU, DE, Goal<DU, DE>> {
     let x = vars.v[0].clone();
-    proto_vulcan!([[member(x, [3, 1, 1]), x == [x]], matchu [2, 2, 1] { [[x, []], z, []] | [2, 3, [h]] => , }])
+    proto_vulcan!([onceo { x == [[x]] }, match x { P3(1, 1, []) => , y | ['a' | _] => [[[x | x]] == [[], x | x], conde { member(x, [2]), true, [['b', "bc" | x] == x, x == [_, 2, 1]] }], P3(_, z, [_]) => , }])
 }
 pub fn case_258(vars: &Vars) -> InferredGoal<DU, DE, Goal<DU, DE>> {
     let x = vars.v[0].clone();
-    let y = vars.v[1].clone();
-    proto_vulcan!([|tz| { tz == [3, 2], [2, 1, 3, 2] != [2, 1 | tz] }, matche y { [[_], _, [] | t] => { t == [], |h| { append(t, x, [2]), [] != 2 } }, }])
+    proto_vulcan!([matche x { x => , _ => member(x, [1, 2, 3]), }])
 }
 pub fn case_259(vars: &Vars) -> InferredGoal<DU, DE, Goal<DU, DE>> {
-    let q = vars.v[0].clone();
-    let x = vars.v[1].clone();
-    proto_vulcan!([matchu x { [x, [[], 1, 2]] => { [x == [[1, 3] | x]], |x| { [1, "bc"] == x, x == [[]] } }, }])
+    let x = vars.v[0].clone();
+    let y = vars.v[1].clone();
+    proto_vulcan!([x == [], matche y { [[h] | _] | t => { |h, x| { P3([], 2, []) == h } }, }])
 }
 pub fn case_260(vars: &Vars) -> InferredGoal<DU, DE, Goal<DU, DE>> {
-    let q = vars.v[0].clone();
-    let x = vars.v[1].clone();
-    proto_vulcan!([matche x { [[2, y | y], h] => , [[h, x], [y, z]] => [condu { append(x, x, [3]) }, [[x]] == q], [[z], 1, y] | [[x, "bc"], 3] => { match q { [[t, _, y]] => [3 == y, y == q], z | [[], x, [y]] => append(q, q, []), _ | _ => { false }, } }, }])
+    let x = vars.v[0].clone();
+    let y = vars.v[1].clone();
+    proto_vulcan!([append(x, x, []), matcha y { Named { a: h, b: [] } => { match x { Named { a: 2, b: 2 } | 2 => [true, [1] == h], [[y | z]] => { x == [[h, z, []], [], [2, _, z]], true }, }, conda { [y == "bc", x == P3(h, [x], [])], ['b' == h, true == h] } }, _ => { conde { append(y, y, []), [append(y, x, [1]), append(x, x, [])] } }, [] => , }])
 }
 pub fn case_261(vars: &Vars) -> InferredGoal<DU, DE, Goal<DU, DE>> {
     let x = vars.v[0].clone();
     let y = vars.v[1].clone();
-    proto_vulcan!([x == x, matchu y { [_, [t, 1, y | _], [true, t] | t] => { conda { t == true } }, }])
+    proto_vulcan!([[1, y | x] == P3(_, _, []), matche x { 2 => { [[[], y] != _], conde { [true, y == [_]], P3([x, 1], 3, 3) != y } }, }])
 }
 pub fn case_262(vars: &Vars) -> InferredGoal<DU, DE, Goal<DU, DE>> {
     let x = vars.v[0].clone();
-    let y = vars.v[1].clone();
-    proto_vulcan!([matche y { [] => |tz| { tz == [2], [2, 3, 2] != [2, 3 | tz] }, "a" => [matchu x { [[], y, [x, y, _]] => { append(x, y, [3]) }, }, true != 1], _ => [x == 7, x == 8], }])
+    proto_vulcan!([x != P3(x, x, []), matcha x { _ | 3 => , _ => conde { [x == (2, _), x == true], x != [[] | x] }, }])
 }
 pub fn case_263(vars: &Vars) -> InferredGoal<DU, DE, Goal<DU, DE>> {
-    let q = vars.v[0].clone();
-    let x = vars.v[1].clone();
-    proto_vulcan!([|x, z| { |tz| { tz == [3], [1 | tz] != [1, 3] }, true }, matchu q { _ => { matchu [1, "a" | q] { [[false, 2 | _]] | [[[], 2, 1], z] => [[1] != q, true], [[x, 2, 2] | h] | [[], 1 | h] => { h == h }, [[t, _, true], [3], [_, true]] | _ => { true }, } }, }])
+    let x = vars.v[0].clone();
+    let y = vars.v[1].clone();
+    proto_vulcan!([(2, [[]]) == y, matche x { _ => { y != ([_], [_, []]) }, [[h, 3 | y] | 1] => [conde { false, [append(x, h, []), (2, [3, y]) != h] }, |y| { append(x, y, [3]), append(y, x, [2, 2]) }], P3(h, _, [2, h]) => conde { h == P3(x, _, [x, 2]), [], [] }, }])
 }
 pub fn case_264(vars: &Vars) -> InferredGoal<DU, DE, Goal<DU, DE>> {
-    let q = vars.v[0].clone();
-    let x = vars.v[1].clone();
-    proto_vulcan!([[x] != q, matchu q { _ => , }])
+    let x = vars.v[0].clone();
+    proto_vulcan!([[(x, []) == x, x == (_, 3)], match x { _ => { x == 7, x == 8 }, [[y, _], [h, x, 1]] => [member(h, [3, 1, 1]), x == [["bc", h], [_], [_, x]]], }])
 }
 pub fn case_265(vars: &Vars) -> InferredGoal<DU, DE, Goal<DU, DE>> {
     let x = vars.v[0].clone();
-    proto_vulcan!([matcha x { [['a', []], [_, 1, h] | z] => { h == [x, h | z], [[1] == h, x == 'b', z == []] }, }])
+    let y = vars.v[1].clone();
+    proto_vulcan!([x != _, match x { Named { a: 3, b: 1 } => false, [z, 2 | x] => match x { P3(_, t, z) => , t => z == [z, _, "bc"], }, }])
 }
 pub fn case_266(vars: &Vars) -> InferredGoal<DU, DE, Goal<DU, DE>> {
     let x = vars.v[0].clone();
-    proto_vulcan!([true, matcha x { [_, [h, h], [[], t] | h] => { matche [t] { [] => member(h, [3]), [2, []] | 3 => { [_, [], "a" | x] == x, member(x, [2]) }, [[t, 1, false], y] | 1 => [append(h, x, [1, 2]), x != [2, x, []]], }, conda { h == [2, [], h | t] } }, [_, [z, h], y] => { conde { x == h, [[_, x | h] != x, y == [1, ['a', []], _]], [h == y, z != [[x]]] } }, t => { conde { [[x, [], t | t] == t, [[] | t] == t], [_, x] != t } }, }])
+    proto_vulcan!([onceo { |tz| { tz == [3], [1, 1 | tz] != [1, 1, 3] } }, matche x { [[3, z | z], h] | _ => , [[]] => , }])
 }
 pub fn case_267(vars: &Vars) -> InferredGoal<DU, DE, Goal<DU, DE>> {
-    let q = vars.v[0].clone();
-    let x = vars.v[1].clone();
-    proto_vulcan!([q == x, matchu q { [[2, [], x], [t]] => , _ | [t, [_, false, z]] => , }])
+    let x = vars.v[0].clone();
+    proto_vulcan!([x == 'a', matchu x { 'a' => { conde { [[], []] == ([], []), [_] != x } }, [] => [|t| { t != t, [[1, 2, [] | t], t, [x]] != x, x == x }, |z, y| { append(x, x, [2]), [[]] == x, x == x }], P3(1, 2, t) => , }])
 }
 pub fn case_268(vars: &Vars) -> InferredGoal<DU, DE, Goal<DU, DE>> {
     let x = vars.v[0].clone();
     let y = vars.v[1].clone();
-    proto_vulcan!([|tz| { tz == [3, 2], [2, 3, 2] != [2 | tz] }, match y { [x, 2] | _ => , [h | x] | z => { condu { [append(y, y, [2]), member(y, [2, 2])], y == y, [true, y == [y, 3, []]] } }, [[h]] => { |x| { |tz| { tz == [3, 2], [1, 2 | tz] != [1, 2, 3, 2] } } }, }])
+    proto_vulcan!([conde { ([], y) == x, [[x] == 2, member(x, [2, 2])] }, matchu [] { [[_ | y] | z] => matche y { [[t, h, []]] => [y == P3(2, x, []), false], }, P3(3, h, []) => { matcha [x, 3, h | h] { z | _ => false, P3(t, [[]], [y, z]) => { |tz| { [2 | tz] != [2, 3, 1], tz == [3, 1] }, [3 | y] == z }, [[y], [] | t] | "bc" => , }, matchu x { 'b' => { x == 1 }, _ => x == h, z => h != P3([[], 1], 3, 1), } }, [[1, 'b', false]] => , }])
 }
 pub fn case_269(vars: &Vars) -> InferredGoal<DU, DE, Goal<DU, DE>> {
-    let x = vars.v[0].clone();
-    proto_vulcan!([matchu x { _ => { |t| { x == [_, ["a" | t]], 'b' != x, [x | x] != t } }, }])
+    let q = vars.v[0].clone();
+    let x = vars.v[1].clone();
+    proto_vulcan!([[[[] | q]] == q, matche q { _ => |h, t| { x != false, t == [h] }, 3 | P3([], _, _) => , [[2, [], z | y]] => , }])
 }
 pub fn case_270(vars: &Vars) -> InferredGoal<DU, DE, Goal<DU, DE>> {
     let x = vars.v[0].clone();
     let y = vars.v[1].clone();
-    proto_vulcan!([match x { [2] => , }])
+    proto_vulcan!([onceo { [x, y, _ | x] == y }, matche y { [h, [[], [], 3], 2] => |h| { y == [], [h, y | x] == h }, [[_, 2], [z, [], [] | y]] => { conde { [member(x, [3]), append(z, x, [3])] } }, }])
 }
 pub fn case_271(vars: &Vars) -> InferredGoal<DU, DE, Goal<DU, DE>> {
-    let q = vars.v[0].clone();
-    let x = vars.v[1].clone();
-    proto_vulcan!([matchu x { [] | 2 => { _ == q, conde { [member(x, [3, 2, 1]), q != 3], 'a' == [[1, 'b' | x], [q] | x], [[q, x, x | x]] != 2 } }, [] | y => , }])
+    let x = vars.v[0].clone();
+    proto_vulcan!([false, matchu x { t | _ => , }])
 }
 pub fn case_272(vars: &Vars) -> InferredGoal<DU, DE, Goal<DU, DE>> {
-    let x = vars.v[0].clone();
-    let y = vars.v[1].clone();
-    proto_vulcan!([matche x { t | x => , [[[], [], _], [x, _, 3 | x], z] => [|tz| { [1, 1] != [1 | tz], tz == [1] }, [3] == true], z => [true, [[3 | z], [1, 3]] == x], }])
+    let q = vars.v[0].clone();
+    let x = vars.v[1].clone();
+    proto_vulcan!([match [q, _, _] { _ => member(q, [1, 2, 3]), _ => { member(q, [1, 2, 3]) }, Named { a: t, b: t } => [[t == P3([3], q, [t, 2]), x == 1], conda { false }], }])
 }
 pub fn case_273(vars: &Vars) -> InferredGoal<DU, DE, Goal<DU, DE>> {
-    let x = vars.v[0].clone();
-    proto_vulcan!([|t, z| { [x] == x }, matchu x { [[1], 1] => [x != x, conda { [[x, 1] == x, x == x] }], }])
+    let q = vars.v[0].clone();
+    let x = vars.v[1].clone();
+    proto_vulcan!([match x { 2 => { match [3, "a", 2] { _ => , } }, }])
 }
 pub fn case_274(vars: &Vars) -> InferredGoal<DU, DE, Goal<DU, DE>> {
     let x = vars.v[0].clone();
-    proto_vulcan!([x != [_, x], match 2 { [[y, z, []], [1] | z] | [[2, 1, 3]] => x != x, [_] => |y| { |tz| { tz == [2, 2], [1, 2, 2] != [1 | tz] }, [x, 2 | 1] != x, [y, y, y] == x }, }])
+    let y = vars.v[1].clone();
+    proto_vulcan!([|y, h| { y == [[[], "bc"]], y == (_, y) }, match y { [[t, z] | t] => [match t { [t | _] => { t != z }, [_, z] => { z == [t, 2, y], false }, [[z, h, 1], []] => , }, |z| {  }], }])
 }
 pub fn case_275(vars: &Vars) -> InferredGoal<DU, DE, Goal<DU, DE>> {
     let x = vars.v[0].clone();
     let y = vars.v[1].clone();
-    proto_vulcan!([|t| { [t, [x, 'a' | y]] == [[2, 3, t], 1 | x], append(x, x, [1]) }, matcha x { [[y] | _] => { condu { [[3, 3, _ | y] == y, y == [2, 2, x]] } }, _ => { x == 7, x == 8 }, z => { matcha y { [2] | h => { x == y }, h => , } }, }])
+    proto_vulcan!([[append(y, y, []), x != [false, y, y]], matche x { ["bc", t] => , 3 | [[true, [], z | t], [3, _] | 3] => |y, z| { z != [], y == _, 'b' == x }, }])
 }
 pub fn case_276(vars: &Vars) -> InferredGoal<DU, DE, Goal<DU, DE>> {
     let q = vars.v[0].clone();
     let x = vars.v[1].clone();
-    proto_vulcan!([q == x, matcha [2, 1] { [2] => [[2, q | q] == x, [_, _, 1] == x], [[x], [h, 'b'], [2, t]] | 1 => [q == 1, [3, q] == q], }])
+    proto_vulcan!([[3 | q] == x, matche x { _ => [q == 7, q == 8], ['b', [3], [h, [], z]] | P3(2, y, []) => , }])
 }
 pub fn case_277(vars: &Vars) -> InferredGoal<DU, DE, Goal<DU, DE>> {
-    let x = vars.v[0].clone();
-    proto_vulcan!([x != _, match x { [[z]] => { z == _ }, [2, _] => [[x == x], member(x, [])], [[true, 1, 2], [1, true, x]] => [member(x, [2, 3]), matchu x { ['a'] => { [x, x] != x, false }, [[2, 3], 3] => , _ | [_ | h] => [x == "bc", _ != x], }], }])
-}
-pub fn case_278(vars: &Vars) -> InferredGoal<DU, DE, Goal<DU, DE>> {
     let q = vars.v[0].clone();
     let x = vars.v[1].clone();
-    proto_vulcan!([match 1 { [[3, z | z], [t, x, 3 | h], [2]] => , [] => { x != [q, true, 2] }, }])
+    proto_vulcan!([matche q { [[_, 1], h | y] => "a" != y, }])
+}
+pub fn case_278(vars: &Vars) -> InferredGoal<DU, DE, Goal<DU, DE>> {
+    let x = vars.v[0].clone();
+    let y = vars.v[1].clone();
+    proto_vulcan!([matchu y { [[false], [1, true]] => { P3(2, y, y) == x, y == [[[], _, x], [[], y] | 2] }, "a" => matche x { [x, [z, "bc", _]] => y == [x, [_, x, []] | x], }, }])
 }
 pub fn case_279(vars: &Vars) -> InferredGoal<DU, DE, Goal<DU, DE>> {
     let x = vars.v[0].clone();
-    proto_vulcan!([matche x { [[3 | h]] => [h == x, onceo { 1 == x }], }])
+    let y = vars.v[1].clone();
+    proto_vulcan!([matche y { [1 | _] => , P3(3, y, 3) => { y == y, matchu y { [true] => , P3(t, [t, 3], [3, 1]) => , } }, [[_, _ | y], 2, 2] => , }])
 }
 pub fn case_280(vars: &Vars) -> InferredGoal<DU, DE, Goal<DU, DE>> {
     let q = vars.v[0].clone();
     let x = vars.v[1].clone();
-    proto_vulcan!([false, match [2, 1, 2] { [3, [t, 1] | _] | 1 => , }])
+    proto_vulcan!([q == [q | q], matcha q { [[3, false] | y] => { |tz| { tz == [3, 3], [1, 1 | tz] != [1, 1, 3, 3] }, matchu x { y => [true, q == 3], } }, [_, []] => { |x, y| { q != y, y == (y, 1) }, conde { [|tz| { [2, 2 | tz] != [2, 2, 2], tz == [2] }, q == [q]], [([q, q], _) == [[2, x] | x], [q | q] == x] } }, _ => [|x| { q == [x, q, 1], [x, x] != q }, [q == (x, q), 'b' == x]], }])
 }
 pub fn case_281(vars: &Vars) -> InferredGoal<DU, DE, Goal<DU, DE>> {
-    let x = vars.v[0].clone();
-    proto_vulcan!([|tz| { [1, 2, 2] != [1 | tz], tz == [2, 2] }, matchu [x, 2, 2] { [[z, _], 2, [t | _] | _] | [z] => , [[[]], [2], t] => , 2 => { matcha x { _ => , [x] => [x == [x, 1, [[], 2, x] | x], false], 'b' => { false, 2 == x }, }, x == 3 }, }])
+    let q = vars.v[0].clone();
+    let x = vars.v[1].clone();
+    proto_vulcan!([[x, "bc", _] == q, matcha x { t => , }])
 }
 pub fn case_282(vars: &Vars) -> InferredGoal<DU, DE, Goal<DU, DE>> {
-    let x = vars.v[0].clone();
-    proto_vulcan!([x == x, matcha x { 2 => , }])
+    let q = vars.v[0].clone();
+    let x = vars.v[1].clone();
+    proto_vulcan!([match x { [[z, 2 | _] | h] => , }])
 }
 pub fn case_283(vars: &Vars) -> InferredGoal<DU, DE, Goal<DU, DE>> {
-    let x = vars.v[0].clone();
-    proto_vulcan!([true, match x { [[_, y, 'b']] => { matchu x { [] | [["bc"], _, []] => , _ | [[[], 1 | h] | 1] => { x == y }, [2] | [[t, 1, 2], [_, 2], [_, y, 'b'] | z] => true, } }, }])
+    let q = vars.v[0].clone();
+    let x = vars.v[1].clone();
+    proto_vulcan!([q == ([], 3), matchu q { [[_, z, 1 | z], [_, _] | h] => [[1 != [[1, x], 'a', [_] | "a"]]], }])
 }
 pub fn case_284(vars: &Vars) -> InferredGoal<DU, DE, Goal<DU, DE>> {
-    let x = vars.v[0].clone();
-    proto_vulcan!([x != _, matche [1 | x] { 1 => , [3, [[], t | _], x | h] => , }])
+    let q = vars.v[0].clone();
+    let x = vars.v[1].clone();
+    proto_vulcan!([|t, y| { t != t }, matchu [2, 3, []] { [[3], [2, h, "a" | x]] | Named { a: [_], b: h } => , _ => , ['b', [_ | _], [[], false]] => [true, matchu q { [[z | h], 2, [false, 1]] | _ => { 1 == _ }, _ => [x == 7, x == 8], [2, [3], [h, _]] | [[y, x, _]] => [true, true], }], }])
 }
 pub fn case_285(vars: &Vars) -> InferredGoal<DU, DE, Goal<DU, DE>> {
     let x = vars.v[0].clone();
@@ -1540,1532 +1537,1522 @@ pub fn case_289(vars: &Vars) -> InferredGoal<DU, DE, Goal<DU, DE>> {
     proto_vulcan!([[] == x, y == [[]]])
 }
 pub fn case_290(vars: &Vars) -> InferredGoal<DU, DE, Goal<DU, DE>> {
-    let q = vars.v[0].clone();
-    let x = vars.v[1].clone();
-    proto_vulcan!([member(x, []), [q != 2, x == [q | x]]])
+    let x = vars.v[0].clone();
+    let y = vars.v[1].clone();
+    proto_vulcan!([y == [y, y], closure { [condu { [[append(y, y, []), y == [y | 1], x != [[], 1, "a"]]], conde { [], [x == 'a', false] }, x == [[y, 2]] }, conda { [y != ['b', y, _], conda { [] == y, [P3(2, x, _) == y, x != [3, 1, 2 | x]] }], 3 != x, y == P3([], [x, _], 2) }] }])
 }
 pub fn case_291(vars: &Vars) -> InferredGoal<DU, DE, Goal<DU, DE>> {
-    let q = vars.v[0].clone();
-    let x = vars.v[1].clone();
-    proto_vulcan!([|y| { [2] == y, [q != 3, |y| {  }, conde { x == y }], member(q, [3, 3]) }, x != 2])
+    let x = vars.v[0].clone();
+    let y = vars.v[1].clone();
+    proto_vulcan!([([], []) == P3([2, 2], [], x), closure { [[1 | x] == x, |tz| { [2, 1 | tz] != [2, 1, 2, 3], tz == [2, 3] }] }])
 }
 pub fn case_292(vars: &Vars) -> InferredGoal<DU, DE, Goal<DU, DE>> {
     let q = vars.v[0].clone();
     let x = vars.v[1].clone();
-    proto_vulcan!([conde { [[[], [], q | q] != x, q == [3, 3]], [conde { [q == [[2, 2, 1], [2]], [] == q], onceo { true } }, |y| { conde { member(x, [2]), [x != 2, 3 == y], y == _ }, |t| { [t, y] != y, append(t, y, [3]), member(y, [1, 1, 1]) } }] }, [q, q, 2 | q] == x, |tz| { [1, 1, 1, 3] != [1, 1 | tz], tz == [1, 3] }, closure { condu { [[q, q], x] == 1, [onceo { [] != [x, x] }, |y, x| { member(q, [3]), [[], y, [1, x, 1] | 1] == [[1, q, x], [y, 3, x | 2]], [[x]] == [[_ | x], [x, y, []]] }] } }])
+    proto_vulcan!([[[]] == [[q, 1], [x, 2 | _], [_ | q] | q]])
 }
 pub fn case_293(vars: &Vars) -> InferredGoal<DU, DE, Goal<DU, DE>> {
     let x = vars.v[0].clone();
-    let y = vars.v[1].clone();
-    proto_vulcan!([conda { [1 == 1, |z, x| { [_, z] == _, |tz| { [1, 2, 2] != [1 | tz], tz == [2, 2] } }], |tz| { tz == [1, 3], [2, 2, 1, 3] != [2, 2 | tz] } }])
+    proto_vulcan!([|y, z| { conde { [], [|tz| { [1 | tz] != [1, 1], tz == [1] }, _ == [x, []]] }, conde { conde { member(x, [3]), [z != ([[], 2], 2), true] }, ['b' | y] != y }, true }, true, conda { [|h| { [h == []], [x, 'b'] == x }, condu { [onceo { x == [[[], x, _ | x], [2, "a", x], [1 | x]] }, x != ([], [_])], [x != _, P3([[], _], [2, _], [x, _]) != x] }], conde { [[x] == x, [[x, x] | 3] == x], [], [] }, |h, z| { conde { [false, [_, 'a' | x] != x], [x != z, append(x, h, [])], [h == [[], [], 2], h == [h, [] | z]] }, conda { [x != [h], x == [z]] } } }, closure { [x != [], |tz| { tz == [2], [2 | tz] != [2, 2] }] }])
 }
 pub fn case_294(vars: &Vars) -> InferredGoal<DU, DE, Goal<DU, DE>> {
     let x = vars.v[0].clone();
     let y = vars.v[1].clone();
-    proto_vulcan!([condu { [[x, y, x | y], x] == [y, x] }, condu { y == _ }, [x == [x | y], x == x], closure { [] }])
+    proto_vulcan!([condu { [|tz| { [2, 1 | tz] != [2, 1, 1], tz == [1] }, |t| { conde { [], [[[_]] == y, _ != t], [[3, [], 2] == t, [3, 2, t | y] == y] }, conde { [false, t != [_, [x, 1, y] | x]], x == ([], []) } }], [P3([[]], 1, [2, 2]) != [2], [x, x | y] == (y, [y, _])], conda { member(x, [2]), [|tz| { [2, 3 | tz] != [2, 3, 1, 2], tz == [1, 2] }, conde { [(y, 1) == y, y == "a"], [x == [1, 1, 1], [2, [] | y] == y] }] } }, y == _])
 }
 pub fn case_295(vars: &Vars) -> InferredGoal<DU, DE, Goal<DU, DE>> {
-    let x = vars.v[0].clone();
-    let y = vars.v[1].clone();
-    proto_vulcan!([[_, x, [_ | y]] == [[] | x], conde { ['b', _] == x, [y, 3, 3] != 2, 1 == y }])
-}
-pub fn case_296(vars: &Vars) -> InferredGoal<DU, DE, Goal<DU, DE>> {
     let q = vars.v[0].clone();
     let x = vars.v[1].clone();
-    proto_vulcan!([[1 | q] == [_, 2, q]])
+    proto_vulcan!([x == [[]], (_, 1) != P3([], 2, 2), closure { q == 1 }])
+}
+pub fn case_296(vars: &Vars) -> InferredGoal<DU, DE, Goal<DU, DE>> {
+    let x = vars.v[0].clone();
+    proto_vulcan!([[[[[], 2, x], [3, x], [3, _]] == [2, _, x | x]], false])
 }
 pub fn case_297(vars: &Vars) -> InferredGoal<DU, DE, Goal<DU, DE>> {
     let x = vars.v[0].clone();
-    let y = vars.v[1].clone();
-    proto_vulcan!([|y| { |h| {  } }, closure { [2, x] == x }])
+    proto_vulcan!([|tz| { tz == [3], [3 | tz] != [3, 3] }, [[x, x, 2]] == x, closure { append(x, x, []) }])
 }
 pub fn case_298(vars: &Vars) -> InferredGoal<DU, DE, Goal<DU, DE>> {
     let x = vars.v[0].clone();
-    proto_vulcan!([conda { [append(x, x, [1]), []], [conda { [|tz| { [2, 1 | tz] != [2, 1, 1, 3], tz == [1, 3] }, |tz| { [3 | tz] != [3, 2], tz == [2] }], [conde { [1 == x, member(x, [1, 2])], [x == 1, false] }, [[x, x, x] | x] == x] }, [[1, false | x] == x, x == [[_, x, x | x], [[], 3, 1 | x], [x, 3]]]], x == 3 }, [[x, x, x] | _] == x, closure { x != 2 }])
+    proto_vulcan!([x == (x, x), conde { [|y| { |t, h| {  }, |x| {  }, x == [x, y | x] }, [x] == [2, [x, 1, x], x]] }])
 }
 pub fn case_299(vars: &Vars) -> InferredGoal<DU, DE, Goal<DU, DE>> {
-    let x = vars.v[0].clone();
-    proto_vulcan!([x != x, onceo { [1, 1] == x }, conda { |x, h| { conde { h == 2 }, x == x, x == x } }])
-}
-pub fn case_300(vars: &Vars) -> InferredGoal<DU, DE, Goal<DU, DE>> {
     let q = vars.v[0].clone();
     let x = vars.v[1].clone();
-    proto_vulcan!([[x, _, [[], true]] == x, [false], |z| { |x| { condu { x == [_, z], [[z, false] == [q], x == x], q != [[], _, []] }, [_, "a", 1 | q] == z } }])
+    proto_vulcan!([x == [2 | x], [[3 | x], q | q] == [[x] | q], P3(1, q, q) == P3(x, _, x), closure { [conde { true }, x == [x, x]] }])
+}
+pub fn case_300(vars: &Vars) -> InferredGoal<DU, DE, Goal<DU, DE>> {
+    let x = vars.v[0].clone();
+    proto_vulcan!([x != [x, 'b']])
 }
 pub fn case_301(vars: &Vars) -> InferredGoal<DU, DE, Goal<DU, DE>> {
     let x = vars.v[0].clone();
-    proto_vulcan!([|y| {  }, x == x, closure { conde { [member(x, [2, 3, 1]), x != 1], [[_, 1] | x] == x, |z| { |tz| { [1, 3 | tz] != [1, 3, 3, 3], tz == [3, 3] } } } }])
+    let y = vars.v[1].clone();
+    proto_vulcan!([onceo { |y| { y == 2, x == ["bc" | y], x != x } }, [[y, 3 | x], [x, x]] == x, |tz| { tz == [3, 2], [1 | tz] != [1, 3, 2] }, closure { |y, x| { [], [3, 1, x] != [x, 1 | x], [["bc", 1], [y, 1 | y], [1, y, y]] == x } }])
 }
 pub fn case_302(vars: &Vars) -> InferredGoal<DU, DE, Goal<DU, DE>> {
     let x = vars.v[0].clone();
     let y = vars.v[1].clone();
-    proto_vulcan!([[[1, _], [x, x, x]] != [['a', [], false]], [_ == y], |x| { |h| { [x == 3, [h, true | 3] == h] }, conde { |x| { |tz| { tz == [2], [1 | tz] != [1, 2] } }, member(x, [3, 3, 3]), [x == [y], y == 2] } }, closure { [|t, z| { conde { [append(z, t, [3, 2]), t != y], y == 2 } }, conde { y == [_ | x], [|tz| { tz == [3], [1, 3] != [1 | tz] }, [|tz| { tz == [2, 1], [1 | tz] != [1, 2, 1] }, [2, y] == y, |tz| { [1, 1 | tz] != [1, 1, 2, 1], tz == [2, 1] }]], [y == [2], [2] == x, x != [x, y, 1]] }] }])
+    proto_vulcan!([y == y, x == [[], 2, 3]])
 }
 pub fn case_303(vars: &Vars) -> InferredGoal<DU, DE, Goal<DU, DE>> {
     let x = vars.v[0].clone();
     let y = vars.v[1].clone();
-    proto_vulcan!([x != 'b', y != [y, [x, _]]])
+    proto_vulcan!([|y| { [P3(1, [], [2]) == y, [y, x, []] == y], y == x }, [true] == y, 3 != y])
 }
 pub fn case_304(vars: &Vars) -> InferredGoal<DU, DE, Goal<DU, DE>> {
-    let x = vars.v[0].clone();
-    let y = vars.v[1].clone();
-    proto_vulcan!([x == x, y != y])
-}
-pub fn case_305(vars: &Vars) -> InferredGoal<DU, DE, Goal<DU, DE>> {
-    let x = vars.v[0].clone();
-    let y = vars.v[1].clone();
-    proto_vulcan!([[x] == y, conde { |y| { member(x, []), [[] == y] }, [[[x], [x, _, 2], [[]]] == 3], |z| { [x, [[] | x], [1] | y] == x } }])
-}
-pub fn case_306(vars: &Vars) -> InferredGoal<DU, DE, Goal<DU, DE>> {
     let q = vars.v[0].clone();
     let x = vars.v[1].clone();
-    proto_vulcan!([conda { x != [2, x, _ | 3] }, condu { |y| { conde { [|tz| { tz == [3, 3], [3 | tz] != [3, 3, 3] }, |tz| { tz == [3, 1], [2, 1 | tz] != [2, 1, 3, 1] }], [3 | y] == q, 'b' != [[x | x], [2, 2]] }, q == [3, _, "bc" | y] } }, 1 == q])
+    proto_vulcan!([|tz| { [2 | tz] != [2, 2, 2], tz == [2, 2] }])
+}
+pub fn case_305(vars: &Vars) -> InferredGoal<DU, DE, Goal<DU, DE>> {
+    let q = vars.v[0].clone();
+    let x = vars.v[1].clone();
+    proto_vulcan!([q != ['a', q, "bc" | q], [[], q, x] != x])
+}
+pub fn case_306(vars: &Vars) -> InferredGoal<DU, DE, Goal<DU, DE>> {
+    let x = vars.v[0].clone();
+    let y = vars.v[1].clone();
+    proto_vulcan!([[_ != x, y == [y, [x]], []], 'a' != [[x, 3, y]], closure { [y == ['a', x, y], |tz| { [3, 2 | tz] != [3, 2, 3], tz == [3] }] }])
 }
 pub fn case_307(vars: &Vars) -> InferredGoal<DU, DE, Goal<DU, DE>> {
     let x = vars.v[0].clone();
-    proto_vulcan!([true, |y, t| { _ == [[1, 3, 1], [3, t, t], _ | 2] }, x != [3]])
+    let y = vars.v[1].clone();
+    proto_vulcan!([|t| { y == t }, [y, false, 2] != [x, x, [2, 1]], closure { [y != 2, append(y, y, [])] }])
 }
 pub fn case_308(vars: &Vars) -> InferredGoal<DU, DE, Goal<DU, DE>> {
-    let x = vars.v[0].clone();
-    let y = vars.v[1].clone();
-    proto_vulcan!([|tz| { tz == [3, 1], [3 | tz] != [3, 3, 1] }, [x, [2 | y]] == y, closure { |h| { 3 == h } }])
+    let q = vars.v[0].clone();
+    let x = vars.v[1].clone();
+    proto_vulcan!([[q, x] == q, closure { [[x == 1, member(q, [2, 2, 1])]] }])
 }
 pub fn case_309(vars: &Vars) -> InferredGoal<DU, DE, Goal<DU, DE>> {
-    let x = vars.v[0].clone();
-    proto_vulcan!([2 == x, closure { [|t, h| { [t, [h, "a", h], [t, [] | h] | t] == [[], h] }, |h, z| { 1 == [_, true], conda { [true, z == 1], h == [[1] | h] }, conda { append(h, x, [3, 3]), [] == z, [z == [false, false, false], [h | z] == 2] } }] }])
+    let q = vars.v[0].clone();
+    let x = vars.v[1].clone();
+    proto_vulcan!([conde { condu { [[append(x, x, [1, 2]), [_, 1, x] == q, _ == q], [[2, q, "a" | 3], [_, x]] == [x, 1]] } }])
 }
 pub fn case_310(vars: &Vars) -> InferredGoal<DU, DE, Goal<DU, DE>> {
     let q = vars.v[0].clone();
     let x = vars.v[1].clone();
-    proto_vulcan!([[[[2], [x], [x]] != x, conde { [] == x, [q != x, false], [onceo { [1, q, 1 | x] == x }, x == q] }, 1 == q], x != [[2, x], _], x == x])
+    proto_vulcan!([q == [true, 2 | x], |x| { q == [3, 2, _], |t| { conda { [append(t, x, [3]), t == ["a"]], x != 2 }, |y| { P3(q, 3, 3) == x, [[y | 3] | q] == y, [[], _ | x] == t } }, conde { conde { [3, _] == x, [[2, x, q] == x, 2 == x], [member(q, [3]), [[2, x], [q, 2, []], 2 | x] != [x]] }, [[[q] != x, member(q, [2])]], [[x, [], _ | x] != x, ([x, 3], _) != q] } }])
 }
 pub fn case_311(vars: &Vars) -> InferredGoal<DU, DE, Goal<DU, DE>> {
     let x = vars.v[0].clone();
     let y = vars.v[1].clone();
-    proto_vulcan!([true == 2])
+    proto_vulcan!([[3, 2] == x, conde { [|z, x| {  }, y != [y, 2, 2]], onceo { y != 2 }, [[y == [1]], conde { true != y }] }, condu { [conde { |h| { x == h } }, x == []] }])
 }
 pub fn case_312(vars: &Vars) -> InferredGoal<DU, DE, Goal<DU, DE>> {
     let q = vars.v[0].clone();
     let x = vars.v[1].clone();
-    proto_vulcan!([conde { [], [[2, x | q] == x, onceo { [append(x, x, []), x != [_], x != x] }], [[[q, x, 1], 1] == 3, condu { q != x, [[x] == [[2, x], [_, [] | x]], q == 2] }] }, q == x])
+    proto_vulcan!([conde { [q == (2, [_, _]), false], condu { [conde { [append(q, x, []), true], [append(x, x, []), P3(3, 1, q) == x], [[1, []] == x, (3, 2) == x] }, [q, x, [2, x, 1]] == x] } }, |t| { conda { [[append(q, q, [1, 3]), q == x, [t, _] == t], [[[], q, t], x] != [[], q, []]], t != ["bc" | x], [|x| { member(t, [1, 3]) }, |z, t| {  }] }, [[[], t], [_, 2, 1], [2 | q]] == 'b', q != ["a", []] }])
 }
 pub fn case_313(vars: &Vars) -> InferredGoal<DU, DE, Goal<DU, DE>> {
     let q = vars.v[0].clone();
     let x = vars.v[1].clone();
-    proto_vulcan!([true, conde { conde { q == 2, [true, [1] == [1, 2 | 2]], [[["bc"], [2, 'a', x | x], ['b']] != x, x != q] }, [[true], conde { [[[[q, _]] == q, x == [x, x], [1, 1] == q], |x| { q == [[], x | q], append(x, x, [3]) }], [false, [|tz| { [1 | tz] != [1, 1, 3], tz == [1, 3] }]] }], [_, 3] == x }])
+    proto_vulcan!([[x, x] == 2, x == x, x == x])
 }
 pub fn case_314(vars: &Vars) -> InferredGoal<DU, DE, Goal<DU, DE>> {
-    let q = vars.v[0].clone();
-    let x = vars.v[1].clone();
-    proto_vulcan!([conde { [member(x, [1]), [|tz| { tz == [3], [1, 1 | tz] != [1, 1, 3] }, _ == x], [2, q, 'a' | q] != x], x == q, |z, y| { |t| { [[[], 2], [q] | x] == [[t, 2], [], 2], member(x, [2, 3, 3]), false }, member(x, [1]) } }, x == [x], closure { x == [[x]] }])
+    let x = vars.v[0].clone();
+    proto_vulcan!([[x, _] == x, [|tz| { [2, 2] != [2 | tz], tz == [2] }], closure { x == [1 | x] }])
 }
 pub fn case_315(vars: &Vars) -> InferredGoal<DU, DE, Goal<DU, DE>> {
     let x = vars.v[0].clone();
     let y = vars.v[1].clone();
-    proto_vulcan!([append(x, y, [2]), |z| { append(x, x, []), z == x, |x| { |tz| { [3, 2 | tz] != [3, 2, 3], tz == [3] } } }, conde { x != [1], y == _ }, closure { [1 == x, conde { [[]] == x, conde { x == [3, 3], [y == [2], y == [_, 3, x | x]], x == [false, 2, 'a' | y] } }] }])
+    proto_vulcan!([[conde { ["bc" != y, [(1, x) == ["bc", 1, y], 2 == x]], [|t| {  }, conde { [|tz| { [2, 1, 1] != [2, 1 | tz], tz == [1] }, ["bc", x, y | 1] == x], [[[y, x, 2 | y], [x, y], [2, []]] == 1, y == [[], 1, 2]] }], [2] == y }, (x, y) == _, y == [[y, y, 2], x]], closure { P3(2, [], [x, _]) != y }])
 }
 pub fn case_316(vars: &Vars) -> InferredGoal<DU, DE, Goal<DU, DE>> {
     let q = vars.v[0].clone();
     let x = vars.v[1].clone();
-    proto_vulcan!([|x| { [x == _, x == x, 3 == [[q, 2, _], [1, 2, _], [1, []] | q]], [q == x, q == [2, x], x == 2], x == [] }, condu { |x| { |y| { [y, ["a"]] == q, q != q } }, [[conde { x == _ }, [[[1, "a"] | q] == 2]], |z| { q == ["a", []], [[[_, []], [q, 1, 3], [z | x]] == z, [[]] != [z]] }] }, closure { conde { |t, z| { member(x, []) }, true } }])
+    proto_vulcan!([([], x) == q, |y| { q == (2, []), onceo { |h| { [[], [], q] == [2, [] | 2], (2, [_, []]) != h } }, y != [q, "a"] }, [q == [[], [], x | x], P3(x, [], _) == x, member(q, [2, 2])]])
 }
 pub fn case_317(vars: &Vars) -> InferredGoal<DU, DE, Goal<DU, DE>> {
-    let x = vars.v[0].clone();
-    proto_vulcan!([|h| { [|y, z| { [y | x] == y, [y] == h, [] != h }, [[2, [], 2 | 2], [_, 1, "bc"], _] == h], [conde { x == [x, [], [h, [], x]] }, [[]] == x] }, closure { [|z| { x == 3, z == z, |t, z| { |tz| { [1, 2 | tz] != [1, 2, 1], tz == [1] }, x == z, |tz| { tz == [1, 2], [2, 1, 2] != [2 | tz] } } }, [2, 1, _ | x] == x] }])
+    let q = vars.v[0].clone();
+    let x = vars.v[1].clone();
+    proto_vulcan!([(q, q) == q, closure { [x, q] == q }])
 }
 pub fn case_318(vars: &Vars) -> InferredGoal<DU, DE, Goal<DU, DE>> {
     let x = vars.v[0].clone();
     let y = vars.v[1].clone();
-    proto_vulcan!([|tz| { [1, 1, 3] != [1 | tz], tz == [1, 3] }])
+    proto_vulcan!([[2, _] == y])
 }
 pub fn case_319(vars: &Vars) -> InferredGoal<DU, DE, Goal<DU, DE>> {
-    let q = vars.v[0].clone();
-    let x = vars.v[1].clone();
-    proto_vulcan!([conde { |t| { append(q, q, [2, 2]) }, [member(q, []), conde { |tz| { [2, 1, 3, 3] != [2, 1 | tz], tz == [3, 3] }, [condu { x != [] }, [3, q, 1 | _] == x] }] }, |tz| { tz == [1], [3, 3 | tz] != [3, 3, 1] }, |x| { [x, q, _ | x] == x, [1] == x, x == 1 }])
+    let x = vars.v[0].clone();
+    proto_vulcan!([_ == x])
 }
 pub fn case_320(vars: &Vars) -> InferredGoal<DU, DE, Goal<DU, DE>> {
-    let x = vars.v[0].clone();
-    let y = vars.v[1].clone();
-    proto_vulcan!([x == true, y == y, [['a'], [x, 1, 2], 1] == y])
+    let q = vars.v[0].clone();
+    let x = vars.v[1].clone();
+    proto_vulcan!([conda { [[], [x, x, true] == q], [x == q, |z| { x == [2], conda { [q == P3([], [q], 3), q != [2, q, z | z]], [[[], []] != q, z == [z, x]] } }] }, q == [[[]], "a"], [false] == [[q, x]], closure { q == (3, []) }])
 }
 pub fn case_321(vars: &Vars) -> InferredGoal<DU, DE, Goal<DU, DE>> {
     let x = vars.v[0].clone();
-    let y = vars.v[1].clone();
-    proto_vulcan!([true, conde { |z, t| { t == [], y == [[_, 1, 1], [t, 1 | 2] | "bc"] }, false }, |t| { [conde { [], [y, _, x] == y }, t != x, onceo { |tz| { tz == [2, 1], [3, 2, 1] != [3 | tz] } }] }, closure { [[x != x, true], y == x] }])
+    proto_vulcan!([|t, h| { append(h, h, [2, 2]), [[1 | x] == t, onceo { P3(1, _, [x, []]) == h }, [[t, t], [x, [] | 3]] != []] }, [x, x] == x, [x, 2, x] == x])
 }
 pub fn case_322(vars: &Vars) -> InferredGoal<DU, DE, Goal<DU, DE>> {
-    let q = vars.v[0].clone();
-    let x = vars.v[1].clone();
-    proto_vulcan!([conde { |t, z| { z != [_, [1, 2]], conde { [[1] == t, t == [[], t, q]], [t == t, t == [_, 1, _ | z]] } }, [|t| { t == [_] }, conda { [x == 2, true] }] }])
+    let x = vars.v[0].clone();
+    proto_vulcan!([(2, x) == (1, 2), |t| { conde { |tz| { tz == [3], [2, 1, 3] != [2, 1 | tz] } }, |t| { [] == x, append(t, t, [1, 1]), [2 == x, x == [[_, 2, _]]] } }, x != _, closure { x == [2 | x] }])
 }
 pub fn case_323(vars: &Vars) -> InferredGoal<DU, DE, Goal<DU, DE>> {
     let x = vars.v[0].clone();
     let y = vars.v[1].clone();
-    proto_vulcan!([[|tz| { tz == [1, 1], [1, 2, 1, 1] != [1, 2 | tz] }, conde { |tz| { [1 | tz] != [1, 3, 3], tz == [3, 3] }, [|tz| { [2 | tz] != [2, 2, 1], tz == [2, 1] }, y != x] }, [[[y, x, x | y] == x, [[1, "a", y], y, 1 | 1] == y, |tz| { tz == [1, 2], [1, 1 | tz] != [1, 1, 1, 2] }], x != y, member(x, [2, 1])]], onceo { [conde { append(x, x, [3]), [[2], [1, 1, y]] == x }, [2 | y] == x, |y| { member(x, [3]) }] }])
+    proto_vulcan!([x != [1, _ | y]])
 }
 pub fn case_324(vars: &Vars) -> InferredGoal<DU, DE, Goal<DU, DE>> {
     let x = vars.v[0].clone();
-    proto_vulcan!([conde { [false, x == 'b'], [[x == [2, _ | x], x == 2], |z| { [_ | x] == z, [x, _, "a" | x] == x }], [[x] == x, conde { [x != _, conde { 2 == x, [|tz| { [1, 1] != [1 | tz], tz == [1] }, [2] == x], false }], [x != x, |tz| { [1, 1 | tz] != [1, 1, 2, 2], tz == [2, 2] }], [true] }] }, [2, x] == x, closure { conde { [conda { [false, [x, [2, x, x | x] | x] == [[x, x, _], [[] | x]]], x == [[1, x], [x, 3, x], [x, [] | 2]], [] == x }, [x == 1, |tz| { [2, 3, 3, 3] != [2, 3 | tz], tz == [3, 3] }]], [|z, x| { [2, []] == z }, |z| { z == 1, x == [_, false] }], [x, [], x] != x } }])
+    let y = vars.v[1].clone();
+    proto_vulcan!([_ == y, |x, y| { _ == y, |x| { conde { [x != [x, y, y | x], x == P3(_, [], [[]])] }, conda { x == (x, []), [[[], y] == y, (x, _) == 'b'], [[["bc"], x] == y, [] == y] }, false } }, closure { [|x, t| { false, x == P3([1], [3, x], 1), conde { member(y, [1, 2, 2]), [t == [t, x, "bc"], [_ | t] != t] } }, append(y, x, [])] }])
 }
 pub fn case_325(vars: &Vars) -> InferredGoal<DU, DE, Goal<DU, DE>> {
-    let q = vars.v[0].clone();
-    let x = vars.v[1].clone();
-    proto_vulcan!([q == q, [[[[x, 1] == q]], conde { [], [false, |h| {  }] }], closure { [member(q, [2, 3]), [|z| { 2 == [false, z, q], q == [q], [3, 3, q | 1] == q }, |h| { x == _, q != [h, 1], [h, 1, 1 | h] != x }]] }])
+    let x = vars.v[0].clone();
+    let y = vars.v[1].clone();
+    proto_vulcan!([|h, x| { |tz| { tz == [3, 2], [3, 3, 2] != [3 | tz] } }])
 }
 pub fn case_326(vars: &Vars) -> InferredGoal<DU, DE, Goal<DU, DE>> {
     let x = vars.v[0].clone();
-    proto_vulcan!([[_, [2, 1 | x], x] == ["bc", x, [[]]], |h, t| { 1 == h, t == t }, [x, 3] == x])
+    proto_vulcan!([|y| { |z| {  }, conde { onceo { |tz| { [3, 2, 3] != [3, 2 | tz], tz == [3] } }, [|h| { h == [[], _, 3 | h], y == 3 }, conda { y == (_, y), x != [y, 'a'] }] } }, conde { [true, [[2, x, _], [x]] == _], _ != x }, _ == x])
 }
 pub fn case_327(vars: &Vars) -> InferredGoal<DU, DE, Goal<DU, DE>> {
     let x = vars.v[0].clone();
     let y = vars.v[1].clone();
-    proto_vulcan!([|h| { append(y, h, []) }, 1 == ["a"], closure { [y == y, [x, 3, 2] == [x]] }])
+    proto_vulcan!([[[_, []]] == "bc"])
 }
 pub fn case_328(vars: &Vars) -> InferredGoal<DU, DE, Goal<DU, DE>> {
     let x = vars.v[0].clone();
-    proto_vulcan!([x != [3, [], x], [[x]] == [2, x | x], |z, h| { h == h, [3, h, _] == z }, closure { [[x == [_, "bc"], x != 1, true], [2, 3, x | x] == x] }])
+    proto_vulcan!([x == [x, x], |z| { conda { |tz| { [1, 2] != [1 | tz], tz == [2] } } }, closure { ([[], []], x) != x }])
 }
 pub fn case_329(vars: &Vars) -> InferredGoal<DU, DE, Goal<DU, DE>> {
     let q = vars.v[0].clone();
     let x = vars.v[1].clone();
-    proto_vulcan!([[[[q != 1], |z| { member(x, []), 1 != q }], true, |h, z| { h == 3, [2, 2, h] == x, z == [3, 'b', 1 | z] }], |tz| { [3 | tz] != [3, 2, 3], tz == [2, 3] }, q == x])
+    proto_vulcan!([x == [q | x], [2, q, x] == q, conde { conde { [], x == [[[] | q], x, 2 | x] }, x == P3(x, q, []) }])
 }
 pub fn case_330(vars: &Vars) -> InferredGoal<DU, DE, Goal<DU, DE>> {
     let x = vars.v[0].clone();
-    proto_vulcan!([[x] == x])
+    proto_vulcan!([conde { [|x, z| { |h, t| { ([_, z], x) != t, z == ([], z), |tz| { [2, 2 | tz] != [2, 2, 1, 2], tz == [1, 2] } }, [["bc", z, _], x] == z }, |t| { |h| { x != [1, false, _], 1 == x, true } }], [[onceo { x == x }, conda { [([2, x], 2) == x, x == [false, 3]] }], conde { |y| { true, [_] == y }, [P3([], [x], [_, x]) != 1, |z| {  }], x != [[], x] }] }, closure { |tz| { [3, 2 | tz] != [3, 2, 3, 3], tz == [3, 3] } }])
 }
 pub fn case_331(vars: &Vars) -> InferredGoal<DU, DE, Goal<DU, DE>> {
     let q = vars.v[0].clone();
     let x = vars.v[1].clone();
-    proto_vulcan!([conda { |tz| { tz == [1], [3, 3 | tz] != [3, 3, 1] }, [[[q, q] == x, condu { [q] == x }, q == [2, [], x]], x == [[x, 1], 2, [x]]] }, |x, t| { onceo { |t, z| { append(q, z, [3]), false, [[t, 2], [_, x | 'b'], 3 | t] == [[_, x, 1], 2 | q] } } }, [x] == [['b', 2], [_], _ | q]])
+    proto_vulcan!([x == P3(x, [[], q], q), member(x, [3, 3]), conda { [|t, z| { x == (t, 2) }, x == [[[], 'a', 'a'], 1, [q, q, q | q] | q]] }])
 }
 pub fn case_332(vars: &Vars) -> InferredGoal<DU, DE, Goal<DU, DE>> {
-    let q = vars.v[0].clone();
-    let x = vars.v[1].clone();
-    proto_vulcan!([|h| { [], 1 == q, x != [1, 'a' | h] }])
+    let x = vars.v[0].clone();
+    proto_vulcan!([|y| { x == [[x], [x, []]] }, conde { [x == [1, 1, 2], false], onceo { [x] == x } }])
 }
 pub fn case_333(vars: &Vars) -> InferredGoal<DU, DE, Goal<DU, DE>> {
     let x = vars.v[0].clone();
-    proto_vulcan!([conde { conde { 1 != _, [true, x == [x, _ | 3]], [|h| { [1, x | h] == x, [x, x, h] == x, x != _ }, true] } }, conda { [append(x, x, [2, 3]), |tz| { [1, 1 | tz] != [1, 1, 2, 3], tz == [2, 3] }] }, [] == x, closure { [1, 2] != [3, [_, 'a' | x], [[], x, x | x]] }])
+    let y = vars.v[1].clone();
+    proto_vulcan!([append(x, x, []), x == 2, closure { [[[false, [3] == ["bc", 2 | y], P3(y, [y, []], [3, 3]) == [[3, 2], x, [x, 3 | x]]]], x == ([x], 3)] }])
 }
 pub fn case_334(vars: &Vars) -> InferredGoal<DU, DE, Goal<DU, DE>> {
     let x = vars.v[0].clone();
-    let y = vars.v[1].clone();
-    proto_vulcan!([conde { [conde { [], [x == x, conde { [], false, [y != [x, x, true], |tz| { [3 | tz] != [3, 2, 3], tz == [2, 3] }] }] }, condu { conde { member(x, [3, 3]), [[], 1, [x, 2, 2] | y] == [_], |tz| { tz == [2], [2, 2] != [2 | tz] } }, |h, t| { [x, 1] == t, [[t], [2 | y]] != h, "a" == h } }] }])
+    proto_vulcan!([conde { [[1, 1]] == [] }])
 }
 pub fn case_335(vars: &Vars) -> InferredGoal<DU, DE, Goal<DU, DE>> {
-    let q = vars.v[0].clone();
-    let x = vars.v[1].clone();
-    proto_vulcan!([|tz| { tz == [3, 3], [3, 1 | tz] != [3, 1, 3, 3] }, conde { [x == 1, conde { [_] != q, |tz| { [1, 3] != [1 | tz], tz == [3] } }], onceo { onceo { member(x, [1]) } } }, |t, x| { conde { |y, x| { q == [[x, 1], [2], [true]], [[], 1, _] == q }, append(x, q, [3, 2]) }, q != [["bc", 3, true | x], ['b', q | q], [1, 1, x]] }, closure { [|tz| { tz == [2], [1, 2] != [1 | tz] }, [q == [[], _, 1]]] }])
+    let x = vars.v[0].clone();
+    proto_vulcan!([|tz| { [2, 1, 2] != [2, 1 | tz], tz == [2] }, append(x, x, [3]), 1 != x])
 }
 pub fn case_336(vars: &Vars) -> InferredGoal<DU, DE, Goal<DU, DE>> {
-    let x = vars.v[0].clone();
-    let y = vars.v[1].clone();
-    proto_vulcan!([|h, t| { h == [[_, _, _], [[], false, 2], [[], 3 | h]], member(y, [1, 1]) }, closure { [x == 2, []] }])
-}
-pub fn case_337(vars: &Vars) -> InferredGoal<DU, DE, Goal<DU, DE>> {
     let q = vars.v[0].clone();
     let x = vars.v[1].clone();
-    proto_vulcan!([[1, 1, 2] != x, onceo { [1, 1 | x] != q }])
+    proto_vulcan!([conde { |y| { false }, [|y| { q != false, [member(x, [])], |t, y| { [1] == x, x != [x], q == [[]] } }, x == [[_], ["bc", x, "bc"]]], [member(q, [2, 1]), |x| { q != [x, 3], [] == x }] }, true == q, |y, h| { |z| { conde { |tz| { tz == [1], [2, 1 | tz] != [2, 1, 1] }, [q | z] == y, false }, z != z, x == [z, [], 2] }, |t, h| { h != [[], h], [append(t, x, []), true, q == [q, 2, x | "a"]], conde { [h == (_, []), [1, x] == h], append(t, t, [3]), [h != ([q], h), (1, _) == [3]] } } }])
+}
+pub fn case_337(vars: &Vars) -> InferredGoal<DU, DE, Goal<DU, DE>> {
+    let x = vars.v[0].clone();
+    proto_vulcan!([[|tz| { [2, 3, 1] != [2, 3 | tz], tz == [1] }, x == 2, P3([[]], [], x) != x], |z| { [z, z, 1] == x, [conde { z != z, [z == z, [[], 3, x | _] == z], member(x, [2, 2, 3]) }], [[2 | x] | z] == z }])
 }
 pub fn case_338(vars: &Vars) -> InferredGoal<DU, DE, Goal<DU, DE>> {
     let x = vars.v[0].clone();
-    proto_vulcan!([|z| { [] }, closure { conde { |tz| { tz == [3], [1 | tz] != [1, 3] }, ["a", [[], 1], [[]]] == x } }])
+    let y = vars.v[1].clone();
+    proto_vulcan!([x == [1 | _], y == [1, x | x], conda { [true, y != P3(3, _, _)] }, closure { [conda { [[false]], [append(x, x, [3, 1]), onceo { ['a', [y, 2]] == [[[], "bc" | y], [_, 1, 1] | y] }] }, x != 1] }])
 }
 pub fn case_339(vars: &Vars) -> InferredGoal<DU, DE, Goal<DU, DE>> {
-    let x = vars.v[0].clone();
-    let y = vars.v[1].clone();
-    proto_vulcan!([|y| { [["bc"], [y | y], [_, y, x] | y] == y, y == 'b' }, y == y, [[x, 2, y], [y, x, 1] | 2] == [x, _, x]])
+    let q = vars.v[0].clone();
+    let x = vars.v[1].clone();
+    proto_vulcan!([[2 | q] == q, |z| { [[q != [[3, 2]], |tz| { [3, 2 | tz] != [3, 2, 2], tz == [2] }, [2, 1] == [[_, 1, x], _]], member(x, [2, 1])], onceo { conde { x != 1, [x != 2, member(q, [2, 3, 2])] } }, member(q, [2, 3, 2]) }, conde { _ == x }, closure { [P3([], _, [3]) == [[1]], true] }])
 }
 pub fn case_340(vars: &Vars) -> InferredGoal<DU, DE, Goal<DU, DE>> {
     let q = vars.v[0].clone();
     let x = vars.v[1].clone();
-    proto_vulcan!([|tz| { tz == [2], [3, 2, 2] != [3, 2 | tz] }])
+    proto_vulcan!([|x| { append(x, q, [3, 2]), |y| { [x, 2, x] != x, conde { |tz| { [1 | tz] != [1, 2, 3], tz == [2, 3] }, [[], y] != x, 2 == q }, onceo { [3, 2, 'b' | 2] != y } }, conde { true, |y, h| { x == [1, x | x], [1, x, 2] == x, [x | h] == x } } }, P3(2, _, q) != [], closure { [q == [2, [_] | x], |t| { conde { 1 == t, x == [x], [] } }] }])
 }
 pub fn case_341(vars: &Vars) -> InferredGoal<DU, DE, Goal<DU, DE>> {
-    let q = vars.v[0].clone();
-    let x = vars.v[1].clone();
-    proto_vulcan!([q != x])
+    let x = vars.v[0].clone();
+    proto_vulcan!([x != [x, x | _], closure { [onceo { |t| { _ == x, x == [3, [], x], member(t, []) } }, [|z, y| { z != [3, y, x | z] }]] }])
 }
 pub fn case_342(vars: &Vars) -> InferredGoal<DU, DE, Goal<DU, DE>> {
     let q = vars.v[0].clone();
     let x = vars.v[1].clone();
-    proto_vulcan!([x == [], q != [2], onceo { onceo { x == [q] } }, closure { q == [false, 2, 3] }])
+    proto_vulcan!([append(x, q, []), (1, [x, 3]) != P3(2, _, 1), closure { conde { [[append(q, q, []), [[x, _] | q] == x, [1] == [[2 | x] | x]], [3, x, "a" | q] == q], q == [_, true], [|x| { |tz| { tz == [3], [1, 1 | tz] != [1, 1, 3] } }, _ != q] } }])
 }
 pub fn case_343(vars: &Vars) -> InferredGoal<DU, DE, Goal<DU, DE>> {
     let x = vars.v[0].clone();
     let y = vars.v[1].clone();
-    proto_vulcan!([[y, [x, 1, 3] | x] == y, append(x, x, []), onceo { [|tz| { [3, 2, 1, 2] != [3, 2 | tz], tz == [1, 2] }, [[y | x]] == x, onceo { y == y }] }])
+    proto_vulcan!([y == (x, _), y == (y, [[]])])
 }
 pub fn case_344(vars: &Vars) -> InferredGoal<DU, DE, Goal<DU, DE>> {
     let x = vars.v[0].clone();
-    let y = vars.v[1].clone();
-    proto_vulcan!([y == _, x != x, x == [x, 1], closure { [y == 2, conda { [y | x] != [[x, y, 1 | y] | y], [['b'] == y, [x, x] == [2, 1, false]], [|h| { ["bc", [y, false, h | x]] == x, y != h, [x | y] == y }, onceo { [x, [], 1 | y] == x }] }] }])
+    proto_vulcan!([x == [x]])
 }
 pub fn case_345(vars: &Vars) -> InferredGoal<DU, DE, Goal<DU, DE>> {
     let x = vars.v[0].clone();
-    proto_vulcan!([true])
+    proto_vulcan!([true, x == x, |y| { y == P3([[], x], x, x), y == (2, 1), (y, x) == P3([[], 1], x, _) }])
 }
 pub fn case_346(vars: &Vars) -> InferredGoal<DU, DE, Goal<DU, DE>> {
     let x = vars.v[0].clone();
-    proto_vulcan!([[[], 1, 2] == x])
+    proto_vulcan!([[[x, x, 1 | 1], [x, x | _]] != x])
 }
 pub fn case_347(vars: &Vars) -> InferredGoal<DU, DE, Goal<DU, DE>> {
-    let x = vars.v[0].clone();
-    let y = vars.v[1].clone();
-    proto_vulcan!([1 == y, |tz| { tz == [2], [3, 2] != [3 | tz] }])
-}
-pub fn case_348(vars: &Vars) -> InferredGoal<DU, DE, Goal<DU, DE>> {
     let q = vars.v[0].clone();
     let x = vars.v[1].clone();
-    proto_vulcan!([|x, z| { z == [[], 1], |y, x| {  } }, [[q, q, q]] == q])
+    proto_vulcan!([|z| { condu { 1 != q, [|x| { true, member(z, [1]), x == [3, [x, 1, x | 2]] }, [z == x, ['a', []] == [x, [2, x]]]], [|tz| { tz == [1, 1], [2 | tz] != [2, 1, 1] }, q == [q | q]] }, [[3, 1 | true] | true] != 3, q != x }, |z| { conde { [q == P3(3, 2, []), q == [["bc", 1, x], [2, _ | q], [[], true, q]]], [[]] }, |tz| { tz == [3, 3], [3, 2 | tz] != [3, 2, 3, 3] }, |y| { [[[y, x, _], x | 2] == x], [], 'b' == [[2 | 2], [] | q] } }])
+}
+pub fn case_348(vars: &Vars) -> InferredGoal<DU, DE, Goal<DU, DE>> {
+    let x = vars.v[0].clone();
+    let y = vars.v[1].clone();
+    proto_vulcan!([3 == P3([], [x], [y, 1]), |t, y| { false, onceo { conde { [[y] == y, [] == y], x == ["bc", 3], [y, 1] == [1] } }, |y| { (3, []) == [[y], [[], y], [y, 2]], y == [t, []] } }, [x, 2] == [3], closure { _ == y }])
 }
 pub fn case_349(vars: &Vars) -> InferredGoal<DU, DE, Goal<DU, DE>> {
     let q = vars.v[0].clone();
     let x = vars.v[1].clone();
-    proto_vulcan!([x != [2], q == 1])
+    proto_vulcan!([q != [x, [[] | q], [q, q, x]], onceo { |tz| { [1 | tz] != [1, 2], tz == [2] } }, q == q])
 }
 pub fn case_350(vars: &Vars) -> InferredGoal<DU, DE, Goal<DU, DE>> {
     let x = vars.v[0].clone();
-    proto_vulcan!([x != x, [x, [x, x, x]] == [1]])
+    let y = vars.v[1].clone();
+    proto_vulcan!([onceo { x == [_] }, [], |x| {  }])
 }
 pub fn case_351(vars: &Vars) -> InferredGoal<DU, DE, Goal<DU, DE>> {
     let x = vars.v[0].clone();
-    proto_vulcan!(['a' == x, x == [_], |z| { |tz| { [1, 3] != [1 | tz], tz == [3] } }, closure { [[x | x] == x, |y, x| { conde { ["a" == x, _ != y], x == x, [false, [[1, 3, []], [_]] != [[3 | x] | x]] } }] }])
+    proto_vulcan!([[[x, []]] == P3(3, [[]], 2), onceo { append(x, x, []) }, |y, h| { |h| { |tz| { [3 | tz] != [3, 2], tz == [2] }, |y| { y == [2, x], 1 == P3([2], [y], 1) } }, [] }, closure { |z| { onceo { "a" != P3(z, _, z) }, z == [z | x], [[1, _ | x]] == (2, _) } }])
 }
 pub fn case_352(vars: &Vars) -> InferredGoal<DU, DE, Goal<DU, DE>> {
-    let q = vars.v[0].clone();
-    let x = vars.v[1].clone();
-    proto_vulcan!([|tz| { [3 | tz] != [3, 1, 1], tz == [1, 1] }, x == [3 | x]])
+    let x = vars.v[0].clone();
+    let y = vars.v[1].clone();
+    proto_vulcan!([|tz| { [3, 2] != [3 | tz], tz == [2] }, y == [x, [] | y]])
 }
 pub fn case_353(vars: &Vars) -> InferredGoal<DU, DE, Goal<DU, DE>> {
     let x = vars.v[0].clone();
-    proto_vulcan!([|x| { |t| { [t, _, 2] == [[2, t, t | t], 1], t != [[x, []]] }, [x == 'b', x != x, x == ["a", x, 2 | x]] }, [[true, false, x | 1], [1, x], [x, x]] == x, |x, z| { x != [[]] }])
+    proto_vulcan!([x == ["a", x, x], [[], x == [1, _], P3(x, x, 3) == x], x == x, closure { [onceo { [["bc" != x]] }, [] == 2] }])
 }
 pub fn case_354(vars: &Vars) -> InferredGoal<DU, DE, Goal<DU, DE>> {
     let x = vars.v[0].clone();
-    proto_vulcan!([x == [[1, x]], conde { [conde { x == [], [|y| { member(x, [2, 2]), |tz| { tz == [2, 2], [3 | tz] != [3, 2, 2] } }, 3 != x], [|h| { 3 == x }, [_, 2] == x] }, [|h| { append(h, h, [3]), [2, 1] == h, h == h }, _ != x]], true }])
+    proto_vulcan!([[2, x] == [[true, _, x], x, []], conda { [P3(2, 3, [3]) == x, conde { [P3(x, [x, 1], 3) == ([_, []], 2), 1 == x], [], [onceo { x == _ }, []] }], [[], member(x, [])], [|t, h| { t != t, h == [[], [], 2 | x] }, conde { ["bc" == [[x, x], x, [_ | x]], [x, x | x] != x] }] }, closure { [|z, t| { conde { [1] != [["a", z]], [x, false, 1] == (3, []) }, onceo { [false | 3] == [[2, _, x]] } }, x == 3] }])
 }
 pub fn case_355(vars: &Vars) -> InferredGoal<DU, DE, Goal<DU, DE>> {
-    let x = vars.v[0].clone();
-    proto_vulcan!([x == x, _ == 1, closure { ["bc" == x, conde { x == [[[], x, x] | x] }] }])
+    let q = vars.v[0].clone();
+    let x = vars.v[1].clone();
+    proto_vulcan!([conde { [2 == 2, x == _], append(q, q, []) }, closure { [x == [q, [q, 3, 3]], x == q] }])
 }
 pub fn case_356(vars: &Vars) -> InferredGoal<DU, DE, Goal<DU, DE>> {
     let x = vars.v[0].clone();
-    let y = vars.v[1].clone();
-    proto_vulcan!([[[], false, 1] == y, [] == x, y == 1, closure { onceo { [y != ["a", x, false | x], append(y, y, [])] } }])
+    proto_vulcan!([conde { x == 2, [] }])
 }
 pub fn case_357(vars: &Vars) -> InferredGoal<DU, DE, Goal<DU, DE>> {
     let x = vars.v[0].clone();
-    proto_vulcan!([conde { [_, 2, []] != x, [2 == x, member(x, [])], x == x }, x == [_, 3, 'b']])
+    let y = vars.v[1].clone();
+    proto_vulcan!([[y, [y]] == y])
 }
 pub fn case_358(vars: &Vars) -> InferredGoal<DU, DE, Goal<DU, DE>> {
     let x = vars.v[0].clone();
     let y = vars.v[1].clone();
-    proto_vulcan!([y == [2, 'b', "a" | x], member(y, [2]), [|tz| { tz == [3, 1], [3 | tz] != [3, 3, 1] }, |t| {  }, [] == y]])
+    proto_vulcan!([[[]] == x, x == x, x == 'b'])
 }
 pub fn case_359(vars: &Vars) -> InferredGoal<DU, DE, Goal<DU, DE>> {
     let x = vars.v[0].clone();
-    proto_vulcan!([x == [3 | x], |x, t| { t != [[1, 1, t] | t], |z| { |x, t| { member(t, [1, 1, 3]) }, x != [x], z == z } }])
+    let y = vars.v[1].clone();
+    proto_vulcan!([false, y != [y], [|tz| { tz == [1], [1, 1, 1] != [1, 1 | tz] }, [false], [[], y] == y]])
 }
 pub fn case_360(vars: &Vars) -> InferredGoal<DU, DE, Goal<DU, DE>> {
     let x = vars.v[0].clone();
-    proto_vulcan!([1 == x])
+    proto_vulcan!([|x, z| { |x| { |x| {  }, x == x, |tz| { tz == [3, 2], [3, 2, 3, 2] != [3, 2 | tz] } } }])
 }
 pub fn case_361(vars: &Vars) -> InferredGoal<DU, DE, Goal<DU, DE>> {
-    let x = vars.v[0].clone();
-    proto_vulcan!([|tz| { tz == [3], [1, 3, 3] != [1, 3 | tz] }, [[], |t| { |z| { true }, [t, "a", x | _] == t }, member(x, [2, 3, 3])]])
+    let q = vars.v[0].clone();
+    let x = vars.v[1].clone();
+    proto_vulcan!([x == [[2, q, 3], 3, [[], _, q] | x]])
 }
 pub fn case_362(vars: &Vars) -> InferredGoal<DU, DE, Goal<DU, DE>> {
     let x = vars.v[0].clone();
     let y = vars.v[1].clone();
-    proto_vulcan!([|t| { |x| { y != y, [[_, 3] == x, append(x, t, [])], onceo { 2 == t } }, [["bc", 1, x | y]] == x }])
+    proto_vulcan!([member(x, []), conde { [[x] == P3([2], [], 3), conde { [], [] }], [x == [y, x], [_ | x] != y] }])
 }
 pub fn case_363(vars: &Vars) -> InferredGoal<DU, DE, Goal<DU, DE>> {
     let q = vars.v[0].clone();
     let x = vars.v[1].clone();
-    proto_vulcan!([|h| { conde { [conda { [h == [_], true], [[true, 3 | h], [1 | x], 3 | h] == x, [false, h == 2] }, [[false] != q, [q, 1] != [q], 1 == q]], [], [false, x == h] } }, append(q, x, [2]), [x] != q])
+    proto_vulcan!([conde { [q != q, onceo { conde { [true, |tz| { tz == [3, 3], [1, 1 | tz] != [1, 1, 3, 3] }] } }] }, onceo { x == x }])
 }
 pub fn case_364(vars: &Vars) -> InferredGoal<DU, DE, Goal<DU, DE>> {
     let q = vars.v[0].clone();
     let x = vars.v[1].clone();
-    proto_vulcan!([|t| { [x == x, |h, y| { t == [t, 1 | h], [q, t | q] == h, t == [y, y] }], |x, h| { x != "bc" }, conde { [], [q == [[x]], [1, true] == q] } }, onceo { x == [q, q, q | 2] }, conde { [x != [q, x, 1 | q], [[[]], [3]] == q], [|t, x| { |h, t| { 1 == h, member(x, [3]) }, condu { [2 == x, q == q], x == [[q, x, _], 1, [x | q] | x], member(q, []) }, [[[], 1] == x] }, [1] == "bc"] }])
+    proto_vulcan!([[x] == x, closure { q != [q | x] }])
 }
 pub fn case_365(vars: &Vars) -> InferredGoal<DU, DE, Goal<DU, DE>> {
-    let q = vars.v[0].clone();
-    let x = vars.v[1].clone();
-    proto_vulcan!([conde { [x == x, |y| { onceo { false }, [1 == x, q != y, [q, y, 2] == x], q == q }], [[['b', 2], x, [q]] == x, [[2, q, q], [], q] == x], [] }, closure { [[["a"], []] == q, x == x] }])
-}
-pub fn case_366(vars: &Vars) -> InferredGoal<DU, DE, Goal<DU, DE>> {
     let x = vars.v[0].clone();
     let y = vars.v[1].clone();
-    proto_vulcan!([[[1, 1, 1 | y], 1, [1, _, 1] | y] == x, |tz| { tz == [2, 1], [3, 2, 1] != [3 | tz] }])
+    proto_vulcan!([conde { [2 == y, [member(x, [2]), []]], [[2, y] != y, ["a"] == x] }])
+}
+pub fn case_366(vars: &Vars) -> InferredGoal<DU, DE, Goal<DU, DE>> {
+    let q = vars.v[0].clone();
+    let x = vars.v[1].clone();
+    proto_vulcan!([[x == [x, _], [(_, 3) == q], conde { condu { x == 3, |tz| { [2, 1 | tz] != [2, 1, 3], tz == [3] }, [x != x, [[1, q, q], [q | x]] == P3(3, [], q)] }, [q, x, _] == P3(q, 3, x), |t, x| { true } }], q != [x, q, x], q == (x, q), closure { [conde { [|tz| { tz == [3], [1, 3] != [1 | tz] }, |tz| { tz == [1], [3, 1 | tz] != [3, 1, 1] }], [conde { [P3(x, 2, q) == [2, [1, x, true] | x], (x, []) == P3(q, [x, []], 1)], true, true }, [false]] }, condu { |t| { P3(_, 1, q) == x, [_] != x, append(x, t, [1]) } }] }])
 }
 pub fn case_367(vars: &Vars) -> InferredGoal<DU, DE, Goal<DU, DE>> {
     let q = vars.v[0].clone();
     let x = vars.v[1].clone();
-    proto_vulcan!([[[condu { q == [[1, 3, x], [2], true], [q == [1, x, [q]], true], [2 != q, append(q, x, [])] }], x != [2, [] | x], |x| { x != [1, q, 3], q == [], conde { [false, q == ["a", [_, [], x] | q]], [], [x] == q } }], [x, x, q] == q])
+    proto_vulcan!([x == [1, q, q], x == q, [[1, q], [x, 2, x]] == [[q, _, x], [[]] | 1]])
 }
 pub fn case_368(vars: &Vars) -> InferredGoal<DU, DE, Goal<DU, DE>> {
     let x = vars.v[0].clone();
-    proto_vulcan!([[] == x, [[x, [], 2], [x, 3, 2] | x] == [[], [], _ | x], x == [_ | _]])
+    let y = vars.v[1].clone();
+    proto_vulcan!([|y, z| {  }, [[2 | x] | x] != x, y != "a", closure { condu { [|t, z| { [3, y, z | t] == [[z, 3], z, [3]], [_] == y, [2] != t }, onceo { x == [[1], x, [2, x]] }], x == x } }])
 }
 pub fn case_369(vars: &Vars) -> InferredGoal<DU, DE, Goal<DU, DE>> {
     let x = vars.v[0].clone();
-    proto_vulcan!([x != true, closure { onceo { conde { append(x, x, [2]) } } }])
+    let y = vars.v[1].clone();
+    proto_vulcan!([|y, x| { |y| { y != y, condu { [x == (1, 3), (2, 1) == x], member(x, [3, 2]), [member(y, [3]), [_ | 2] == x] } } }, true != x, conde { [conda { [[[3]] == y, y == P3([], [], [y, y])], [conda { x != P3([3], [], 3), append(y, y, [2]), [x == 1, 1 == y] }, [x] == x], |x, y| {  } }, |tz| { tz == [3], [2, 3] != [2 | tz] }], [conda { [[3, y, 2] == x, y != P3(_, [1, []], 1)], [append(x, x, []), conde { y == 2, y == x, [false, false] }] }, x == P3(x, [1, 1], [])], [[x, x] == x, |t| {  }] }])
 }
 pub fn case_370(vars: &Vars) -> InferredGoal<DU, DE, Goal<DU, DE>> {
     let x = vars.v[0].clone();
-    proto_vulcan!([false, [conda { 'a' == x, [|t, x| { append(t, t, [2, 1]), false }, 2 == x] }]])
+    let y = vars.v[1].clone();
+    proto_vulcan!([_ == x, |y| { |x| { condu { P3([], [3, 1], y) == [_, "a" | y], [true, y == [1 | 1]] } }, y == ([], y), 2 == P3([y, 3], [], 1) }])
 }
 pub fn case_371(vars: &Vars) -> InferredGoal<DU, DE, Goal<DU, DE>> {
     let q = vars.v[0].clone();
     let x = vars.v[1].clone();
-    proto_vulcan!([[[3, _] == x, conde { [|tz| { tz == [3, 2], [1, 1 | tz] != [1, 1, 3, 2] }, |y| { y != [q | q], q == [[], 2, y | x], [1, 2] != x }], [[q | x] == [1 | x], q == x] }]])
+    proto_vulcan!([x != [x | x], |h, y| { h == h }, |tz| { tz == [3, 3], [2 | tz] != [2, 3, 3] }, closure { q == ([[]], [1, []]) }])
 }
 pub fn case_372(vars: &Vars) -> InferredGoal<DU, DE, Goal<DU, DE>> {
     let x = vars.v[0].clone();
     let y = vars.v[1].clone();
-    proto_vulcan!([[y == [x], [] != 1]])
+    proto_vulcan!([[3, 2, 1] == y, conda { [[], true], [|t| { y == [], |h| { t != P3(_, t, [h]) } }, |x| { false, [_ | x] == P3(_, 2, x) }] }, [|x| { condu { [[y]] == ["a", []], false } }, append(y, y, [1, 1]), y != ([_, x], x)]])
 }
 pub fn case_373(vars: &Vars) -> InferredGoal<DU, DE, Goal<DU, DE>> {
     let x = vars.v[0].clone();
     let y = vars.v[1].clone();
-    proto_vulcan!([x == x, [["a", 2, [] | y], [2, [], x], [y, [], 2]] != x, |tz| { tz == [3], [2 | tz] != [2, 3] }])
+    proto_vulcan!([condu { [y == [[], _], (x, [[]]) == [[x], [], [y, 1, 3 | 1]]], [[3, 'a', x | y] == x, [[y, 2]] == y] }, |tz| { [1, 3, 2, 1] != [1, 3 | tz], tz == [2, 1] }, x == [_ | y]])
 }
 pub fn case_374(vars: &Vars) -> InferredGoal<DU, DE, Goal<DU, DE>> {
     let q = vars.v[0].clone();
     let x = vars.v[1].clone();
-    proto_vulcan!([conda { append(x, x, [2]), [[1, _, x] == q, 1 == q], |z| {  } }, 1 == [q | q], [q, q, q] == x])
+    proto_vulcan!([conde { [[q, [], false | q] == q, member(q, [2])], condu { 1 == q } }, conda { onceo { |t, z| {  } }, [[q != P3(q, x, x), q == [1, q, true], x == 3], q != [x, [] | q]] }, closure { x == false }])
 }
 pub fn case_375(vars: &Vars) -> InferredGoal<DU, DE, Goal<DU, DE>> {
-    let q = vars.v[0].clone();
-    let x = vars.v[1].clone();
-    proto_vulcan!([true, |h, x| { x == x, [[], 3, 1] == h }, [2, 2, 1] == x])
-}
-pub fn case_376(vars: &Vars) -> InferredGoal<DU, DE, Goal<DU, DE>> {
     let x = vars.v[0].clone();
     let y = vars.v[1].clone();
-    proto_vulcan!([1 != y])
+    proto_vulcan!([|z, x| { 1 == z, z == z, y == [[]] }, [append(x, y, [2, 1]), y == x]])
+}
+pub fn case_376(vars: &Vars) -> InferredGoal<DU, DE, Goal<DU, DE>> {
+    let q = vars.v[0].clone();
+    let x = vars.v[1].clone();
+    proto_vulcan!([true, 1 == [_, q, 'b']])
 }
 pub fn case_377(vars: &Vars) -> InferredGoal<DU, DE, Goal<DU, DE>> {
     let x = vars.v[0].clone();
-    proto_vulcan!([[[x, 1, x] == x, |tz| { tz == [1, 3], [3, 1, 3] != [3 | tz] }, [] != x], x == [2, x, _ | x]])
+    let y = vars.v[1].clone();
+    proto_vulcan!([|x, y| { [] }, onceo { y == y }, conde { [|x, y| { false == y, condu { false, [P3(2, y, _) == x, true] }, x == [["a", 1], 3, [] | x] }, [[3, y] | y] == [_, _, [_, 2]]] }])
 }
 pub fn case_378(vars: &Vars) -> InferredGoal<DU, DE, Goal<DU, DE>> {
-    let q = vars.v[0].clone();
-    let x = vars.v[1].clone();
-    proto_vulcan!([['b' | q] == x, [q, 'a' | 1] != q, x == q])
+    let x = vars.v[0].clone();
+    let y = vars.v[1].clone();
+    proto_vulcan!([onceo { x == ([_], 1) }, x != ([], []), y == y])
 }
 pub fn case_379(vars: &Vars) -> InferredGoal<DU, DE, Goal<DU, DE>> {
     let x = vars.v[0].clone();
     let y = vars.v[1].clone();
-    proto_vulcan!([onceo { append(x, y, [3, 3]) }, [y != [], y != x, x == [[1, [], y | x]]]])
+    proto_vulcan!([y == P3([y], [], []), 2 != y])
 }
 pub fn case_380(vars: &Vars) -> InferredGoal<DU, DE, Goal<DU, DE>> {
-    let x = vars.v[0].clone();
-    proto_vulcan!([|h, y| { [] == [[_, h]], [x, [y, 2, _], [x | x] | y] == [1, x, 2] }, conde { [x != _, |y, x| {  }], [[_ | x] != x, conde { [], x == [3, x, x | x] }] }])
+    let q = vars.v[0].clone();
+    let x = vars.v[1].clone();
+    proto_vulcan!([|tz| { tz == [2], [3, 3 | tz] != [3, 3, 2] }, q == [true, q | x], conde { [q == [[], 'a'], true] }])
 }
 pub fn case_381(vars: &Vars) -> InferredGoal<DU, DE, Goal<DU, DE>> {
     let x = vars.v[0].clone();
-    proto_vulcan!([x != x, x == x])
+    let y = vars.v[1].clone();
+    proto_vulcan!([member(y, [1]), conda { [[], y == (_, [[], []])], [member(x, [2]), |z| { |y| { |tz| { [1, 1, 3] != [1 | tz], tz == [1, 3] }, [x, [[], y, y | y]] == [3 | y], member(z, []) }, _ == z }], [true, conde { x != y, |t, y| { x == t, [_, 1, y] == t, ([], 3) == [1] } }] }])
 }
 pub fn case_382(vars: &Vars) -> InferredGoal<DU, DE, Goal<DU, DE>> {
-    let x = vars.v[0].clone();
-    let y = vars.v[1].clone();
-    proto_vulcan!([append(y, x, [2, 3]), [y, y, _] == x, [y != y]])
+    let q = vars.v[0].clone();
+    let x = vars.v[1].clone();
+    proto_vulcan!([conde { [|z| { conde { [q == [x, 1], z == [1, [] | q]], [1, 2, q] == q, |tz| { [3, 1] != [3 | tz], tz == [1] } } }, [] != [_, 3, x]], [conde { [], [conde { [[_, x, _ | q]] == [[_], [_]], [|tz| { [2, 2, 2] != [2 | tz], tz == [2, 2] }, member(q, [])], [[[x]] != q, |tz| { tz == [1, 2], [3, 1, 2] != [3 | tz] }] }, []], [|tz| { [1 | tz] != [1, 3], tz == [3] }, [q != [[], q, 3 | 2]]] }, |h| { [3, q | x] == x, false == h }], [conde { conde { q == [q, 1, 2] }, [[P3([x, []], [], _) == x, q == 1, [_] == (_, q)]], [q == x, onceo { true }] }, |y| { |z, h| { append(y, h, []), append(q, x, [3]), P3(3, q, []) == x } }] }])
 }
 pub fn case_383(vars: &Vars) -> InferredGoal<DU, DE, Goal<DU, DE>> {
     let x = vars.v[0].clone();
-    let y = vars.v[1].clone();
-    proto_vulcan!([false, |t, z| { onceo { conde { |tz| { tz == [1], [2, 1] != [2 | tz] }, [x != 1, [] == x], [[false, ['a', 1]] == t, z == x] } }, [x, y] != t, z == [x, 3] }, ["a", [], true] == x])
+    proto_vulcan!([|tz| { tz == [1, 3], [1, 3 | tz] != [1, 3, 1, 3] }])
 }
 pub fn case_384(vars: &Vars) -> InferredGoal<DU, DE, Goal<DU, DE>> {
-    let x = vars.v[0].clone();
-    proto_vulcan!([x != x])
+    let q = vars.v[0].clone();
+    let x = vars.v[1].clone();
+    proto_vulcan!([conde { [], [q == x, q == [1, 2]] }, 2 == q])
 }
 pub fn case_385(vars: &Vars) -> InferredGoal<DU, DE, Goal<DU, DE>> {
     let x = vars.v[0].clone();
-    proto_vulcan!([conda { [x == [[x, x, x] | 1], onceo { conde { true, x == 1 } }], [1 == 3, [x | x] == [_, x | x]] }, closure { x == 2 }])
+    let y = vars.v[1].clone();
+    proto_vulcan!([1 == x])
 }
 pub fn case_386(vars: &Vars) -> InferredGoal<DU, DE, Goal<DU, DE>> {
-    let q = vars.v[0].clone();
-    let x = vars.v[1].clone();
-    proto_vulcan!([x == [[x], [] | q], conde { [x == [], x != x], [_, x] == x }, x == q])
+    let x = vars.v[0].clone();
+    let y = vars.v[1].clone();
+    proto_vulcan!([conde { false, conde { [conde { [x == y, [] != x], [[3, 3, x | _] == [[x, x], x], y != P3(y, _, y)], 'a' != (x, y) }, conde { y == [x, [true, y | x]], [member(x, [2, 2]), [['a', x | x], [y | x]] == [[3, 1, 3], [3, true, 2] | x]], [x != [y, x], append(y, y, [1])] }], [|tz| { tz == [3], [1, 2 | tz] != [1, 2, 3] }, |h, y| {  }] }, [x == [], onceo { onceo { x == _ } }] }, closure { |h| { [] == [x, x] } }])
 }
 pub fn case_387(vars: &Vars) -> InferredGoal<DU, DE, Goal<DU, DE>> {
-    let x = vars.v[0].clone();
-    proto_vulcan!([member(x, [3, 1]), |tz| { [1, 2 | tz] != [1, 2, 3, 2], tz == [3, 2] }, onceo { conde { conde { [member(x, [3, 2, 1]), |tz| { tz == [1], [3, 1] != [3 | tz] }], [[x, []] == x, |tz| { [2, 2, 1] != [2, 2 | tz], tz == [1] }], [x != [3, x, false], [[3, true], 2, [x, x, x | x] | x] == [_]] }, x == [[[], "bc", true | x], [_ | x]] } }, closure { |h, t| { 3 == h, h == h, |z| { 1 == t } } }])
+    let q = vars.v[0].clone();
+    let x = vars.v[1].clone();
+    proto_vulcan!([2 != q, false, |y| { condu { |tz| { [2 | tz] != [2, 3], tz == [3] }, [|t| { false, [3, 2] == x }, |t| { [y, []] == x }] }, append(x, q, [3]) }])
 }
 pub fn case_388(vars: &Vars) -> InferredGoal<DU, DE, Goal<DU, DE>> {
-    let q = vars.v[0].clone();
-    let x = vars.v[1].clone();
-    proto_vulcan!([q == [2, 3], |h, t| { [|h, x| { q == [x, 1], false }], [1, [] | 1] == x }, |tz| { [3 | tz] != [3, 1, 1], tz == [1, 1] }])
+    let x = vars.v[0].clone();
+    let y = vars.v[1].clone();
+    proto_vulcan!([conda { onceo { conde { P3([x], [1], y) == y, [], |tz| { [3 | tz] != [3, 2], tz == [2] } } }, x == [3, []] }, closure { conde { condu { [[3, _, 1 | x] == x, member(y, [2, 1])], [x == P3([], [], x), ([y], [1, 2]) == x], append(x, y, [2, 2]) }, false } }])
 }
 pub fn case_389(vars: &Vars) -> InferredGoal<DU, DE, Goal<DU, DE>> {
-    let q = vars.v[0].clone();
-    let x = vars.v[1].clone();
-    proto_vulcan!([[[1, true, x]] == [], conde { [] }, q == q])
+    let x = vars.v[0].clone();
+    let y = vars.v[1].clone();
+    proto_vulcan!([onceo { y == [2, x] }, onceo { _ == y }, y == _])
 }
 pub fn case_390(vars: &Vars) -> InferredGoal<DU, DE, Goal<DU, DE>> {
-    let q = vars.v[0].clone();
-    let x = vars.v[1].clone();
-    proto_vulcan!([[_ | q] == x, [q, [[], x, 1 | q], x | q] == ["a" | q], condu { [x != q, 1 == x], [onceo { append(q, q, [3, 2]) }, conde { |x| { [q, q] == [[3, _], [1, []] | x], [q, [q, x | q], [q, 1, x] | q] == [q, 1, []] }, conda { q == 3 } }], [[x, [x, []], q] != x, [[1, false | q] | 1] == [1, 'b']] }, closure { x == 2 }])
+    let x = vars.v[0].clone();
+    let y = vars.v[1].clone();
+    proto_vulcan!([y == P3(1, y, []), onceo { onceo { 'a' != [y, y] } }, [false, x == [1], 1 != x], closure { onceo { |y| { false, append(x, y, [3]) } } }])
 }
 pub fn case_391(vars: &Vars) -> InferredGoal<DU, DE, Goal<DU, DE>> {
     let x = vars.v[0].clone();
-    proto_vulcan!([x != x, x != x, x == [[x, "a"], 3 | x], closure { [[[[], true], [x], [[]] | 1] == x, onceo { 3 == x }] }])
+    proto_vulcan!([x == [[], x], closure { [[3, 3] != x, [x] == x] }])
 }
 pub fn case_392(vars: &Vars) -> InferredGoal<DU, DE, Goal<DU, DE>> {
     let x = vars.v[0].clone();
-    proto_vulcan!([|y| { conde { [x == y, [] == 2, append(y, x, [2, 1])] }, [[2 | x], [x, 1]] == x }, condu { onceo { x == [x] }, [conda { [[[1 | x] == x, x == [3, _ | x]], |y, h| { member(h, [3]) }], [x | x] == x }, [_, 2] == x] }, condu { x == x, [conde { conde { [true, [x | 2] == x], false }, [3 != [[x, x, _ | x] | x], conde { x == [[true, x, 3 | x] | x] }] }, x == []], [|h| { [] == h, [[_, x, 3]] == [[_], [3]] }, |t, y| { [[[], 1], [y], []] != [[t, t, 2], 1], condu { [[[_], ['a', _], [x, y, _ | y]] != [y], member(t, [])], [y != t, [_, false, 1] == x], true } }] }])
+    proto_vulcan!([[false | _] == [[[], 2 | 2]]])
 }
 pub fn case_393(vars: &Vars) -> InferredGoal<DU, DE, Goal<DU, DE>> {
-    let q = vars.v[0].clone();
-    let x = vars.v[1].clone();
-    proto_vulcan!([false, closure { x == [q, [], x] }])
+    let x = vars.v[0].clone();
+    proto_vulcan!([x == x, closure { [conde { conde { x == [x], [false, true == [x, x, 2]], [append(x, x, []), [x, _, 1] == x] }, [[append(x, x, [3, 1])]] }, onceo { conde { x != [[], [1, x, 2 | x]], [|tz| { tz == [2, 1], [2 | tz] != [2, 2, 1] }, P3([_, []], _, x) == 2] } }] }])
 }
 pub fn case_394(vars: &Vars) -> InferredGoal<DU, DE, Goal<DU, DE>> {
-    let q = vars.v[0].clone();
-    let x = vars.v[1].clone();
-    proto_vulcan!([append(x, x, [2]), closure { |h| { conde { [], [], q != [[x, h], 3 | q] } } }])
+    let x = vars.v[0].clone();
+    proto_vulcan!([(x, x) != x])
 }
 pub fn case_395(vars: &Vars) -> InferredGoal<DU, DE, Goal<DU, DE>> {
     let x = vars.v[0].clone();
     let y = vars.v[1].clone();
-    proto_vulcan!([|tz| { [2, 2, 1] != [2, 2 | tz], tz == [1] }, closure { [x == x, false] }])
+    proto_vulcan!([x == x, y != "bc", 3 == x])
 }
 pub fn case_396(vars: &Vars) -> InferredGoal<DU, DE, Goal<DU, DE>> {
     let q = vars.v[0].clone();
     let x = vars.v[1].clone();
-    proto_vulcan!([conde { |x, t| { |z, h| { [t, _, t] != t, [[], x, 'b'] == _, true }, q != [x], [false, append(t, q, []), false] }, 1 == q, |z, h| { conde { [h] != [[1, q] | q], [[[z]] == [[h, x, z], [], q], z == x], _ != q } } }, [false, q, q] == q, closure { append(x, q, [1]) }])
+    proto_vulcan!([q != [2, 2], conde { [[[] | x] != q, onceo { [[[1 | x] == _, 2 != 1, true]] }] }, q == q, closure { [false, [2, "bc"] != x] }])
 }
 pub fn case_397(vars: &Vars) -> InferredGoal<DU, DE, Goal<DU, DE>> {
     let x = vars.v[0].clone();
-    proto_vulcan!([[] != x, [x, [3]] == x])
+    let y = vars.v[1].clone();
+    proto_vulcan!([onceo { y == ["a", 'a'] }, conde { |tz| { [1, 3] != [1 | tz], tz == [3] } }, [2, [y, x, x | x], [y, [], y | y]] != x])
 }
 pub fn case_398(vars: &Vars) -> InferredGoal<DU, DE, Goal<DU, DE>> {
-    let x = vars.v[0].clone();
-    let y = vars.v[1].clone();
-    proto_vulcan!([y == 1, y == [y], ["a"] != x, closure { conde { x == 1, [[[1, "bc"], 1] == x, y == y] } }])
+    let q = vars.v[0].clone();
+    let x = vars.v[1].clone();
+    proto_vulcan!([x == [3, q, x]])
 }
 pub fn case_399(vars: &Vars) -> InferredGoal<DU, DE, Goal<DU, DE>> {
     let q = vars.v[0].clone();
     let x = vars.v[1].clone();
-    proto_vulcan!([[x] == q, |y| { conde { onceo { [] == y }, [|t, h| { t == ['a', 2, _] }, |y, t| { member(y, [1]) }], x == 'b' }, q == [] }, [|z| { onceo { true }, conde { [x == 2, [[q, q, q | q], "bc"] == z], 3 == [z, _ | x], 2 == [[q], [2, 1, []], [[], [], z | 2]] } }], closure { [[[false, 'a'], [_, "a"]] != q, x == 2] }])
+    proto_vulcan!([conde { true, q != (_, 1), (_, [x, _]) == q }, conde { [3 == q, |tz| { [2, 1, 2, 2] != [2, 1 | tz], tz == [2, 2] }] }, P3(q, 1, [x]) == x])
 }
 pub fn case_400(vars: &Vars) -> InferredGoal<DU, DE, Goal<DU, DE>> {
-    let x = vars.v[0].clone();
-    let y = vars.v[1].clone();
-    proto_vulcan!([x == [[3 | y], [_], 3], conde { [|tz| { tz == [1], [1, 2, 1] != [1, 2 | tz] }, y == [[_, [], 'b'] | x]], [[], append(y, y, [1])] }])
+    let q = vars.v[0].clone();
+    let x = vars.v[1].clone();
+    proto_vulcan!([([], []) == ([], 2), |h| { h == P3([_], x, 2), q == [1, [2, false, 1]] }, closure { [2, _] == x }])
 }
 pub fn case_401(vars: &Vars) -> InferredGoal<DU, DE, Goal<DU, DE>> {
     let x = vars.v[0].clone();
-    proto_vulcan!([[1, x, 3] == [x, [_, 'a', 2]]])
+    let y = vars.v[1].clone();
+    proto_vulcan!([[['b' | 1], ["bc" | y]] == y, conda { y == P3([x], [1, 3], [[], _]), [false, |x, z| { (y, y) == x, conde { [], [[[1, 3], [x, 1, y], [x, 2]] != z, x == y], x != [] }, P3(y, [_, []], []) == x }], [|z| { [y, [] | _] == P3([], x, [x, _]), P3(y, [1], []) != z, onceo { member(y, [2]) } }, member(y, [1, 1, 2])] }])
 }
 pub fn case_402(vars: &Vars) -> InferredGoal<DU, DE, Goal<DU, DE>> {
-    let q = vars.v[0].clone();
-    let x = vars.v[1].clone();
-    proto_vulcan!([[[q | x], [[], [] | _], [x, q, [] | x]] != [_, x], q == x, x != 1])
+    let x = vars.v[0].clone();
+    let y = vars.v[1].clone();
+    proto_vulcan!([[y == 2], closure { [y == [y, x | 'a'], x == [x]] }])
 }
 pub fn case_403(vars: &Vars) -> InferredGoal<DU, DE, Goal<DU, DE>> {
     let x = vars.v[0].clone();
-    proto_vulcan!([_ == x, [condu { [1, true] != x, [|t, z| { member(z, [1, 2]), t != [false | x], [] == x }, |x, t| { true, x == x }], [_, x] == 1 }], x == [2, [x, x, 2 | x], x], closure { |tz| { tz == [2], [3 | tz] != [3, 2] } }])
+    proto_vulcan!([["a" == x], x == [x, x | x]])
 }
 pub fn case_404(vars: &Vars) -> InferredGoal<DU, DE, Goal<DU, DE>> {
     let x = vars.v[0].clone();
-    proto_vulcan!([x != [[x, x, 3], _ | x], x == 2, [[], _] == x])
+    let y = vars.v[1].clone();
+    proto_vulcan!([conde { [x == [[y | y] | y], |tz| { tz == [3, 3], [1, 3, 3, 3] != [1, 3 | tz] }], [_ | x] == y }])
 }
 pub fn case_405(vars: &Vars) -> InferredGoal<DU, DE, Goal<DU, DE>> {
     let x = vars.v[0].clone();
-    let y = vars.v[1].clone();
-    proto_vulcan!([x == _, |x, y| { conde { [], conde { |tz| { [1, 2, 2] != [1 | tz], tz == [2, 2] }, [[]] == y } } }])
+    proto_vulcan!([[onceo { x != [_] }], (1, [[]]) != ([x], x)])
 }
 pub fn case_406(vars: &Vars) -> InferredGoal<DU, DE, Goal<DU, DE>> {
-    let x = vars.v[0].clone();
-    proto_vulcan!([conde { [[], append(x, x, [2])], [_ == x, [[1 | x], [2, x | x] | x] == [[x], [x, 2] | x]], conde { [conde { false, x == [1], [[2, x, 2 | x] == x, [[_, 'a'], [], [x, 2] | x] != x] }, |h, y| { 2 == x, member(h, [1, 3]), y != x }], [|t| { t == [[[]]], t == [_, [x, t | t], [t]], [x, 3 | _] == x }, |tz| { [2 | tz] != [2, 2], tz == [2] }] } }, |t| { x != t }, |tz| { [1, 2, 3] != [1 | tz], tz == [2, 3] }])
+    let q = vars.v[0].clone();
+    let x = vars.v[1].clone();
+    proto_vulcan!([x == [[], [] | q], [1, q, q] == q, q == [1], closure { [conde { [] == q }, [x, q, 1] == "bc"] }])
 }
 pub fn case_407(vars: &Vars) -> InferredGoal<DU, DE, Goal<DU, DE>> {
     let q = vars.v[0].clone();
     let x = vars.v[1].clone();
-    proto_vulcan!([conde { [q == 2, [false, [[[x, 3] | 2] == x], [[q] != q]]], [onceo { [1, x] == x }, conda { ['a' == x, |t, z| { _ == x, q == t }], [[|tz| { tz == [1], [2, 1 | tz] != [2, 1, 1] }, q != 3], q == [[x, 2], [3, false] | 2]] }] }, [q, _] == 2, true == x])
+    proto_vulcan!([P3(3, _, 1) != [q], [2, 2] == q, |y| { x == x, q == x }])
 }
 pub fn case_408(vars: &Vars) -> InferredGoal<DU, DE, Goal<DU, DE>> {
-    let x = vars.v[0].clone();
-    let y = vars.v[1].clone();
-    proto_vulcan!([[x, 3, 1 | y] != y])
+    let q = vars.v[0].clone();
+    let x = vars.v[1].clone();
+    proto_vulcan!([q != (2, 3), (x, x) == q, x == q])
 }
 pub fn case_409(vars: &Vars) -> InferredGoal<DU, DE, Goal<DU, DE>> {
     let x = vars.v[0].clone();
-    proto_vulcan!([[["bc", 1, _], _, [x | x] | x] == x, conda { [conde { conde { [] }, [|y| {  }, |t| { t != x }], [conde { x == [3], [[x] == x, [[x, 1], [_, x] | x] == [[[]], 3, [_] | x]] }, conde { ["a" == [x | x], 2 != x], [[x, 1] != x, 2 == x], [[x, x], ['a', [], 1 | x]] == [[true, 1, 1], [], 1] }] }, false], [x == x, member(x, [])], conde { [x == [x, [[] | x], [_]], conde { x == [x, x, 1 | 1], x != x, true }], [[x == [x, x, 3], x == x], [x == x]] } }, conde { false }, closure { [member(x, [2, 2, 3]), x != []] }])
+    let y = vars.v[1].clone();
+    proto_vulcan!([[x, 1] == x, y == [[x, _, false] | x]])
 }
 pub fn case_410(vars: &Vars) -> InferredGoal<DU, DE, Goal<DU, DE>> {
-    let q = vars.v[0].clone();
-    let x = vars.v[1].clone();
-    proto_vulcan!([[[x | x] == x, |tz| { tz == [3], [3, 3] != [3 | tz] }], [] == q])
+    let x = vars.v[0].clone();
+    let y = vars.v[1].clone();
+    proto_vulcan!([true, y == [1], closure { conde { [[[[_, x, []], [x, 3, 1 | x] | x] == y, y == [2, x, 1]]], [|t, h| { false, [h, 2, [2]] != x, member(h, [3]) }, [2, 2, []] == x], |y, t| { y != ([], 3), [2, 2, t] == x } } }])
 }
 pub fn case_411(vars: &Vars) -> InferredGoal<DU, DE, Goal<DU, DE>> {
-    let q = vars.v[0].clone();
-    let x = vars.v[1].clone();
-    proto_vulcan!([member(q, [])])
+    let x = vars.v[0].clone();
+    proto_vulcan!([[[], x, 1] == x, [], closure { [[_ | 2] != [3], |tz| { [3, 3, 1, 2] != [3, 3 | tz], tz == [1, 2] }] }])
 }
 pub fn case_412(vars: &Vars) -> InferredGoal<DU, DE, Goal<DU, DE>> {
     let x = vars.v[0].clone();
-    proto_vulcan!([x == x, [x, x, x] != x, x != [x], closure { 1 == [['a', [], x], 2] }])
+    proto_vulcan!([|t| { onceo { condu { [[1] == [], P3(x, x, _) == x], false, P3(3, t, [t, []]) != 3 } }, false }])
 }
 pub fn case_413(vars: &Vars) -> InferredGoal<DU, DE, Goal<DU, DE>> {
     let x = vars.v[0].clone();
-    let y = vars.v[1].clone();
-    proto_vulcan!([conde { conde { [], [2, x | x] != x, |h, x| { 2 == x, 1 == x } }, [x, y, x | y] == y }, [x, [y, 3, 1]] != x, closure { [y == [[]], x == [[]]] }])
+    proto_vulcan!([member(x, [2, 2]), |h, y| { [true, [y, 1, x], "bc" | x] == y, conde { y == ([], 2), conde { [1 == h, y == 3], |tz| { tz == [2, 1], [2, 2, 1] != [2 | tz] } } } }, |t| { |tz| { [1, 3, 2] != [1 | tz], tz == [3, 2] }, (1, _) == x }])
 }
 pub fn case_414(vars: &Vars) -> InferredGoal<DU, DE, Goal<DU, DE>> {
     let x = vars.v[0].clone();
-    proto_vulcan!([conde { [x | true] != 3 }])
+    proto_vulcan!([condu { [x == P3([_, 3], [_], [[]]), |h| { x == x, conda { [h == (1, []), h == [2, _]], [[[_, h | h] | h] == x, x != [[1, _, []], 'a']] } }] }, P3(_, [1, []], 2) == x, closure { [|z| { condu { [[1] == x, x == x], [append(x, z, [2, 1]), x == 1] }, [] }, |tz| { [1, 3 | tz] != [1, 3, 1], tz == [1] }] }])
 }
 pub fn case_415(vars: &Vars) -> InferredGoal<DU, DE, Goal<DU, DE>> {
     let x = vars.v[0].clone();
     let y = vars.v[1].clone();
-    proto_vulcan!([false, x == x, closure { [conde { [|x| { |tz| { tz == [3], [2, 3 | tz] != [2, 3, 3] } }, [[2, 3], [1, 'a' | x], [_ | y] | x] == x], [member(x, [2, 1]), member(x, [3])] }, [2, y] != x] }])
+    proto_vulcan!([[[[3, y, _], y] == [1], [x | y] == x, conda { [P3([_], [y, _], 3) == x, |tz| { [2, 2, 2, 1] != [2, 2 | tz], tz == [2, 1] }], ['a' == x, conde { member(y, [3, 2, 2]) }], [[[], x] == x, x != x] }], x == ([_, 1], x), [[y, 1, x | x]] == y])
 }
 pub fn case_416(vars: &Vars) -> InferredGoal<DU, DE, Goal<DU, DE>> {
     let x = vars.v[0].clone();
-    proto_vulcan!([[[], x, _ | 'b'] == ["a", [x | x]], [x, false, 1 | x] == x])
+    let y = vars.v[1].clone();
+    proto_vulcan!([[|z| { conde { [member(x, []), y == z], [x == ([[], 1], [_]), |tz| { tz == [1, 3], [2, 2, 1, 3] != [2, 2 | tz] }], x == [y] }, |h, y| { _ == x, |tz| { tz == [1, 2], [1, 1, 1, 2] != [1, 1 | tz] } }, |x| { [3, z, z] != y, P3(3, [x, []], 2) == y } }], closure { |h| { x != y } }])
 }
 pub fn case_417(vars: &Vars) -> InferredGoal<DU, DE, Goal<DU, DE>> {
-    let q = vars.v[0].clone();
-    let x = vars.v[1].clone();
-    proto_vulcan!([|tz| { [1, 3 | tz] != [1, 3, 1], tz == [1] }, onceo { true }, conda { [|h, t| {  }, [2] == x], q == x, false }, closure { [onceo { |z, y| { x == _, |tz| { tz == [3, 3], [3, 3, 3] != [3 | tz] } } }, |x, z| { onceo { [z, false, q] != z }, |tz| { tz == [1, 1], [2, 2, 1, 1] != [2, 2 | tz] }, |y, h| { x != true, false == z, z == h } }] }])
+    let x = vars.v[0].clone();
+    proto_vulcan!([x != 2, closure { false }])
 }
 pub fn case_418(vars: &Vars) -> InferredGoal<DU, DE, Goal<DU, DE>> {
-    let x = vars.v[0].clone();
-    let y = vars.v[1].clone();
-    proto_vulcan!([|h, x| {  }])
+    let q = vars.v[0].clone();
+    let x = vars.v[1].clone();
+    proto_vulcan!([|tz| { [3, 1, 1, 1] != [3, 1 | tz], tz == [1, 1] }, x != x])
 }
 pub fn case_419(vars: &Vars) -> InferredGoal<DU, DE, Goal<DU, DE>> {
-    let x = vars.v[0].clone();
-    proto_vulcan!([|tz| { tz == [1], [2, 3, 1] != [2, 3 | tz] }, [|t| { |y| { t == [3] }, t == _ }, 2 != x]])
+    let q = vars.v[0].clone();
+    let x = vars.v[1].clone();
+    proto_vulcan!([|x| { q != [[x, _, _] | q] }, |x| { q == 2 }, q != [1]])
 }
 pub fn case_420(vars: &Vars) -> InferredGoal<DU, DE, Goal<DU, DE>> {
     let x = vars.v[0].clone();
     let y = vars.v[1].clone();
-    proto_vulcan!([[3, x] == [[y, _ | y]], false, |x, y| { y == x, |tz| { [3, 2, 1] != [3, 2 | tz], tz == [1] } }])
+    proto_vulcan!([y != x, x != [], conde { [y == ([_, y], y), conde { [false, |x, t| { P3(2, [[]], []) == x }], [P3([2], x, [_]) != [[1, x, 2], [y, 1, true | y], [false, y]], y == (x, 1)] }], |h| {  } }])
 }
 pub fn case_421(vars: &Vars) -> InferredGoal<DU, DE, Goal<DU, DE>> {
     let x = vars.v[0].clone();
     let y = vars.v[1].clone();
-    proto_vulcan!([conde { [x == 'a', x != [[], y, x | 2]], y == [] }])
+    proto_vulcan!([|tz| { tz == [3], [3, 1, 3] != [3, 1 | tz] }, closure { conde { [1, 1, y | y] == y, [|h| { append(h, x, [3, 3]) }, (_, y) == [false, _, 'b']], [3 == x, |z, y| { y != (_, [_, y]), true }] } }])
 }
 pub fn case_422(vars: &Vars) -> InferredGoal<DU, DE, Goal<DU, DE>> {
     let x = vars.v[0].clone();
-    proto_vulcan!([|y| { true }, [1 | x] == [[_, [], 2], 2]])
+    proto_vulcan!([[], x == [[]], false])
 }
 pub fn case_423(vars: &Vars) -> InferredGoal<DU, DE, Goal<DU, DE>> {
     let x = vars.v[0].clone();
-    proto_vulcan!([[[['b', 2, 1]] == x]])
+    proto_vulcan!([[[3, 2, 2] | x] == x, conde { [], [x != P3([], [1, []], 3), 'a' != x] }, closure { (x, x) != [[], [3] | x] }])
 }
 pub fn case_424(vars: &Vars) -> InferredGoal<DU, DE, Goal<DU, DE>> {
     let x = vars.v[0].clone();
-    let y = vars.v[1].clone();
-    proto_vulcan!([true, x == [[y, []]], x == [2, y | 2], closure { [conde { [condu { |tz| { [3, 3] != [3 | tz], tz == [3] }, [[_, [], x], 3, [2, [], x | x]] == [3] }, [[2]] == y], [_, _, y] == y, [y == [x], 1 != y] }, x == ['b']] }])
+    proto_vulcan!([x == ([1], 1), closure { |h| { [] != h, [[h, 1, h | 1], [h]] == [[2, 2, h]] } }])
 }
 pub fn case_425(vars: &Vars) -> InferredGoal<DU, DE, Goal<DU, DE>> {
-    let q = vars.v[0].clone();
-    let x = vars.v[1].clone();
-    proto_vulcan!([conde { [|tz| { tz == [1], [2, 1, 1] != [2, 1 | tz] }, |tz| { tz == [2], [2, 2 | tz] != [2, 2, 2] }] }, |x, t| { onceo { |x, h| { true, false } }, q == 3, [q != q, [[[], x, x], [x, 3], [q] | x] != x, t != [[2, q, x]]] }, [1, q, 3] == q])
+    let x = vars.v[0].clone();
+    let y = vars.v[1].clone();
+    proto_vulcan!([onceo { |z, y| { [z != [3, z | y], [3, 3, false] == z], append(z, x, [3]), 3 != y } }, [[y, 'a' | x], [y | 'a']] == (x, [x]), closure { [[append(y, x, [2, 3])]] }])
 }
 pub fn case_426(vars: &Vars) -> InferredGoal<DU, DE, Goal<DU, DE>> {
-    let q = vars.v[0].clone();
-    let x = vars.v[1].clone();
-    proto_vulcan!([conde { [q == q, [q, 3, 'b'] == x], [|z| { 3 != q, |x| { [] == x, false, [[2, [], q | z] | x] != [2] } }, true] }, onceo { [] == x }])
+    let x = vars.v[0].clone();
+    let y = vars.v[1].clone();
+    proto_vulcan!([onceo { [y, y | 'a'] == y }])
 }
 pub fn case_427(vars: &Vars) -> InferredGoal<DU, DE, Goal<DU, DE>> {
     let x = vars.v[0].clone();
-    let y = vars.v[1].clone();
-    proto_vulcan!([|z| { [2, x, x] == x }, [|x, t| { conda { [[1, t, x | t] == y, _ != t], 1 != x, [t == [t, [], x], [3, [1 | x], 1] == [2, 1, x]] }, x != x, conda { [member(t, [2, 3, 1]), member(y, [])], false, [[y, [], y] == y, t != [[]]] } }, [[x != [3 | x], append(x, x, [1]), |tz| { tz == [1], [3 | tz] != [3, 1] }]]], y == [y, _], closure { [|h| { x == h, ['a' | x] != x, [x == x, x != [1], append(h, x, [1, 2])] }, y != _] }])
+    proto_vulcan!([|y, t| { conde { [] }, [[2, t, y], [t] | x] != t }])
 }
 pub fn case_428(vars: &Vars) -> InferredGoal<DU, DE, Goal<DU, DE>> {
-    let q = vars.v[0].clone();
-    let x = vars.v[1].clone();
-    proto_vulcan!([|x| { |tz| { tz == [1, 2], [1, 1, 2] != [1 | tz] }, x == q, x == [[x, x], [x | q] | x] }, conda { [[[], x, []] == [3], q == 'a'] }, _ != q, closure { ["bc" == [x, 2], true] }])
+    let x = vars.v[0].clone();
+    proto_vulcan!([conde { [[[[], x, 3 | x], x | x] == x, [x] == 1], |y| { conde { [true, y == [y, x, 1]], [] }, |t, h| { append(t, h, []) } }, [conde { x == [], 2 != [2 | x] }, x == ([], x)] }])
 }
 pub fn case_429(vars: &Vars) -> InferredGoal<DU, DE, Goal<DU, DE>> {
     let x = vars.v[0].clone();
     let y = vars.v[1].clone();
-    proto_vulcan!([conda { [[[y, x | y], "a"] == [], condu { member(y, []), conda { [true, y == [3]] } }], [|y| { conde { [], [y != y, y == 'a'] } }, 3 != x] }, y == [x, "a", 3 | y]])
+    proto_vulcan!([(x, x) == x])
 }
 pub fn case_430(vars: &Vars) -> InferredGoal<DU, DE, Goal<DU, DE>> {
-    let x = vars.v[0].clone();
-    let y = vars.v[1].clone();
-    proto_vulcan!([true, [[[], 2], 'a'] != y, matche y { [[t | _], [t | h], x] => , [[x, 3, z | _], 'a'] | [[2, 2], [[], 3, t | _] | z] => [[y == y], z == y], [2, [2, 1], [] | _] => , }])
+    let q = vars.v[0].clone();
+    let x = vars.v[1].clone();
+    proto_vulcan!([|h| { |y, z| { [1, x | h] == x, match x { [[_], 1, [2, z, _ | _]] => { [[1, "a" | x], []] == z }, [[3, z, 1] | h] => [x == [[h, 2, _], [h, _, 3]], |tz| { tz == [3, 3], [1, 3, 3] != [1 | tz] }], } }, |z, h| { 1 == ([_], z), match z { [[t | _], [2, z | "bc"], "bc" | x] => , } }, h != h }, [|t| { [[x | x]] != q }, |y| { |h, z| { [] == h, [z | x] == q }, |h, t| { [_, [false, q | 'a'], 1 | h] == x } }, matche q { [x, [_, z]] => { x == x, [[1, 1, q] | q] == [[1, x] | 2] }, 1 => { |tz| { [3 | tz] != [3, 2, 3], tz == [2, 3] }, |t, x| { [[], 1, x] != x, append(q, x, [1]), x != _ } }, }], closure { [1 != [_], match [1, [], 1] { _ => { true }, [2 | x] => , t | y => , }] }])
 }
 pub fn case_431(vars: &Vars) -> InferredGoal<DU, DE, Goal<DU, DE>> {
-    let x = vars.v[0].clone();
-    let y = vars.v[1].clone();
-    proto_vulcan!([true, [[[], 2], 'a'] != y, matche y { [[fresh_name_9 | _], [fresh_name_9 | h], x] => , [[x, 3, z | _], 'a'] | [[2, 2], [[], 3, t | _] | z] => [[y == y], z == y], [2, [2, 1], [] | _] => , }])
+    let q = vars.v[0].clone();
+    let x = vars.v[1].clone();
+    proto_vulcan!([|h| { |y, z| { [1, x | h] == x, match x { [[_], 1, [2, z, _ | _]] => { [[1, "a" | x], []] == z }, [[3, z, 1] | h] => [x == [[h, 2, _], [h, _, 3]], |tz| { tz == [3, 3], [1, 3, 3] != [1 | tz] }], } }, |fresh_name_9, h| { 1 == ([_], fresh_name_9), match fresh_name_9 { [[t | _], [2, z | "bc"], "bc" | x] => , } }, h != h }, [|t| { [[x | x]] != q }, |y| { |h, z| { [] == h, [z | x] == q }, |h, t| { [_, [false, q | 'a'], 1 | h] == x } }, matche q { [x, [_, z]] => { x == x, [[1, 1, q] | q] == [[1, x] | 2] }, 1 => { |tz| { [3 | tz] != [3, 2, 3], tz == [2, 3] }, |t, x| { [[], 1, x] != x, append(q, x, [1]), x != _ } }, }], closure { [1 != [_], match [1, [], 1] { _ => { true }, [2 | x] => , t | y => , }] }])
 }
 pub fn case_432(vars: &Vars) -> InferredGoal<DU, DE, Goal<DU, DE>> {
-    let x = vars.v[0].clone();
-    let y = vars.v[1].clone();
-    proto_vulcan!([matche [3, "a" | y] { [] | y => , t | [[1 | _]] => , _ => { x == 7, x == 8 }, }, matche [3, x, x | y] { [[], [t, x]] | z => [true, match y { [[[], _], [z]] => , [[_ | t], [2 | _]] | _ => { append(y, y, []) }, }], [h, 1] => , }, matche y { [[[], x], [2 | 3], [_, h, t] | z] | [_, [t, 1, t], [y, z, []]] => [] != z, [[false | 1], [], y | _] | h => { conde { [conde { append(x, x, [3]) }, |tz| { [3, 3, 2, 2] != [3, 3 | tz], tz == [2, 2] }], matche x { [[3, x | true]] => , [[3], false] => , }, matche x { [y, [2], h] => [y != [], ['b', 2, []] == y], _ => [2] != x, _ => { x == 7, x == 8 }, } }, member(x, []) }, [_] => match y { [[h, 3, h | _] | 1] => [x == [], [_, 2 | 2] == x], [[_, x | _], [2, z], [] | _] => { [y != [[], x, _]], |z| { 1 == z } }, [[2, [], h | _]] | _ => , }, }, closure { [true, |z| { match x { _ => z == x, 2 => , } }] }])
+    let q = vars.v[0].clone();
+    let x = vars.v[1].clone();
+    proto_vulcan!([match q { 1 => { matche x { x => match x { [[_ | _], 1] | P3(1, [[], h], _) => [|tz| { tz == [2, 2], [2, 2, 2] != [2 | tz] }, [2, [1, x, false], [q] | x] == q], }, } }, x => , }, [_, q, 3] != x])
 }
 pub fn case_433(vars: &Vars) -> InferredGoal<DU, DE, Goal<DU, DE>> {
-    let x = vars.v[0].clone();
-    let y = vars.v[1].clone();
-    proto_vulcan!([matche [3, "a" | y] { [] | y => , t | [[1 | _]] => , _ => { x == 7, x == 8 }, }, matche [3, x, x | y] { [[], [t, x]] | z => [true, match y { [[[], _], [z]] => , [[_ | t], [2 | _]] | _ => { append(y, y, []) }, }], [h, 1] => , }, matche y { [[[], x], [2 | 3], [_, h, t] | z] | [_, [t, 1, t], [y, z, []]] => [] != z, [[false | 1], [], y | _] | h => { conde { [conde { append(x, x, [3]) }, |tz| { [3, 3, 2, 2] != [3, 3 | tz], tz == [2, 2] }], matche x { [[3, fresh_name_9 | true]] => , [[3], false] => , }, matche x { [y, [2], h] => [y != [], ['b', 2, []] == y], _ => [2] != x, _ => { x == 7, x == 8 }, } }, member(x, []) }, [_] => match y { [[h, 3, h | _] | 1] => [x == [], [_, 2 | 2] == x], [[_, x | _], [2, z], [] | _] => { [y != [[], x, _]], |z| { 1 == z } }, [[2, [], h | _]] | _ => , }, }, closure { [true, |z| { match x { _ => z == x, 2 => , } }] }])
+    let q = vars.v[0].clone();
+    let x = vars.v[1].clone();
+    proto_vulcan!([match q { 1 => { matche x { fresh_name_9 => match fresh_name_9 { [[_ | _], 1] | P3(1, [[], h], _) => [|tz| { tz == [2, 2], [2, 2, 2] != [2 | tz] }, [2, [1, fresh_name_9, false], [q] | fresh_name_9] == q], }, } }, x => , }, [_, q, 3] != x])
 }
 pub fn case_434(vars: &Vars) -> InferredGoal<DU, DE, Goal<DU, DE>> {
-    let x = vars.v[0].clone();
-    proto_vulcan!([match x { h => , 1 | [h, [y, 2], [] | 1] => , }, match x { _ => [conde { [x == [x], x != x], member(x, [3, 1, 2]) }, match x { x => , h => x == [x, 1], }, [2, 1] == x], }])
+    let q = vars.v[0].clone();
+    let x = vars.v[1].clone();
+    proto_vulcan!([conde { [conde { [x] == x, [x == (_, _), x != P3([3, []], x, 3)] }, [1, "a"] == x], 2 == P3(x, 3, 3) }, { let c__: InferredGoal<DU, DE, Goal<DU, DE>> = proto_vulcan_closure!(|yy| { conde { [q == [yy | _], yy == 1], [q == [_, yy | _], yy == 2] } }); let g__: Goal<DU, DE> = ::proto_vulcan::GoalCast::cast_into(c__); let r__: InferredGoal<DU, DE, Goal<DU, DE>> = proto_vulcan!([g__.clone(), g__]); r__ }])
 }
 pub fn case_435(vars: &Vars) -> InferredGoal<DU, DE, Goal<DU, DE>> {
-    let x = vars.v[0].clone();
-    proto_vulcan!([match x { h => , 1 | [h, [y, 2], [] | 1] => , }, match x { _ => [conde { [x == [x], x != x], member(x, [3, 1, 2]) }, match x { fresh_name_9 => , h => x == [x, 1], }, [2, 1] == x], }])
+    let q = vars.v[0].clone();
+    let x = vars.v[1].clone();
+    proto_vulcan!([conde { [conde { [x] == x, [x == (_, _), x != P3([3, []], x, 3)] }, [1, "a"] == x], 2 == P3(x, 3, 3) }, { let c__: InferredGoal<DU, DE, Goal<DU, DE>> = proto_vulcan_closure!(|fresh_name_9| { conde { [q == [fresh_name_9 | _], fresh_name_9 == 1], [q == [_, fresh_name_9 | _], fresh_name_9 == 2] } }); let g__: Goal<DU, DE> = ::proto_vulcan::GoalCast::cast_into(c__); let r__: InferredGoal<DU, DE, Goal<DU, DE>> = proto_vulcan!([g__.clone(), g__]); r__ }])
 }
 pub fn case_436(vars: &Vars) -> InferredGoal<DU, DE, Goal<DU, DE>> {
-    let q = vars.v[0].clone();
-    let x = vars.v[1].clone();
-    proto_vulcan!([1 == q, |t, y| { matche y { [["a", y, 2] | 2] => y != [[2 | y], [[]]], _ => [y == 7, y == 8], }, matche q { [[] | t] | [true | h] => [q == [2, []], 2 == x], } }, [[x] | _] != q])
+    let x = vars.v[0].clone();
+    proto_vulcan!([false, match x { [[y, 2 | _], [[]], []] => [|t, z| { y == y }, |y| { match y { [_] => , [x, [2, h], ['a', z]] | x => member(x, [3, 1]), }, x == [[]] }], Named { a: z, b: [x, t] } | [[x, 2], 1, x] => { |z, t| { [t != 2, true] }, P3([2], 2, []) != x }, t => [1 == 3, 2 != 3], }])
 }
 pub fn case_437(vars: &Vars) -> InferredGoal<DU, DE, Goal<DU, DE>> {
-    let q = vars.v[0].clone();
-    let x = vars.v[1].clone();
-    proto_vulcan!([1 == q, |t, fresh_name_9| { matche fresh_name_9 { [["a", y, 2] | 2] => y != [[2 | y], [[]]], _ => [fresh_name_9 == 7, fresh_name_9 == 8], }, matche q { [[] | t] | [true | h] => [q == [2, []], 2 == x], } }, [[x] | _] != q])
+    let x = vars.v[0].clone();
+    proto_vulcan!([false, match x { [[y, 2 | _], [[]], []] => [|t, z| { y == y }, |y| { match y { [_] => , [x, [2, h], ['a', z]] | x => member(x, [3, 1]), }, x == [[]] }], Named { a: z, b: [x, t] } | [[x, 2], 1, x] => { |fresh_name_9, t| { [t != 2, true] }, P3([2], 2, []) != x }, t => [1 == 3, 2 != 3], }])
 }
 pub fn case_438(vars: &Vars) -> InferredGoal<DU, DE, Goal<DU, DE>> {
     let x = vars.v[0].clone();
-    proto_vulcan!([|h| { |t| { t == h, x == [] }, |x| { member(h, [3]) }, conde { [x != x, h == [3, h, 1 | x]], |t| { x == 3, x == 2 } } }, [2] == x, closure { [x == _, ['b', 1, 3] == x] }])
+    proto_vulcan!([|y| { [true, [], false | 1] == y, y != [[] | x] }, |z| { match x { P3(y, [], [3, t]) => , [[], y, [_ | 1] | z] => , } }, matche x { Named { a: [2], b: [[]] } => match x { [[y | y], h] => { match y { [[_], [3, h, 2 | 1], [x, h]] => [h, x | x] == y, 1 | P3(_, [3], _) => [|tz| { [1 | tz] != [1, 3, 1], tz == [3, 1] }, P3(y, [], y) == [2, []]], [[t, [] | "bc"]] => , } }, }, [2] => , }, closure { x == 1 }])
 }
 pub fn case_439(vars: &Vars) -> InferredGoal<DU, DE, Goal<DU, DE>> {
     let x = vars.v[0].clone();
-    proto_vulcan!([|h| { |t| { t == h, x == [] }, |fresh_name_9| { member(h, [3]) }, conde { [x != x, h == [3, h, 1 | x]], |t| { x == 3, x == 2 } } }, [2] == x, closure { [x == _, ['b', 1, 3] == x] }])
+    proto_vulcan!([|y| { [true, [], false | 1] == y, y != [[] | x] }, |fresh_name_9| { match x { P3(y, [], [3, t]) => , [[], y, [_ | 1] | z] => , } }, matche x { Named { a: [2], b: [[]] } => match x { [[y | y], h] => { match y { [[_], [3, h, 2 | 1], [x, h]] => [h, x | x] == y, 1 | P3(_, [3], _) => [|tz| { [1 | tz] != [1, 3, 1], tz == [3, 1] }, P3(y, [], y) == [2, []]], [[t, [] | "bc"]] => , } }, }, [2] => , }, closure { x == 1 }])
 }
 pub fn case_440(vars: &Vars) -> InferredGoal<DU, DE, Goal<DU, DE>> {
     let x = vars.v[0].clone();
-    let y = vars.v[1].clone();
-    proto_vulcan!([match x { 1 => { |y| { [[y, ['a', _, 2]] != 3, [y, x] == y], [x != [y], |tz| { [1, 2, 3] != [1 | tz], tz == [2, 3] }, [_ | x] == y] } }, }, match [3, []] { t => , [[h, _, 2 | z] | _] => { [matche x { _ => { [[], h] == y, h == 2 }, [[false, 1, false | 1], [[]]] | [[1, 'b' | 2], [y]] => , }, match h { [[[], 2, [] | _]] | _ => , }, h == [h, 2, 'b']], x != [h, [3, 'b' | y], h] }, [y, [], [2, 3, _]] => { ['a'] == y, y == [x] }, }])
+    proto_vulcan!([|t| {  }, matche [x | 2] { [1, h, 1] => { conde { [|y, h| { h == [x, _, h] }, |x| {  }], [|y| { _ == x }, P3(3, 2, h) == x] }, [] == x }, [[false, t], [_], _] => { x != [x, [], t] }, h => , }, x == [3, _, x]])
 }
 pub fn case_441(vars: &Vars) -> InferredGoal<DU, DE, Goal<DU, DE>> {
     let x = vars.v[0].clone();
-    let y = vars.v[1].clone();
-    proto_vulcan!([match x { 1 => { |y| { [[y, ['a', _, 2]] != 3, [y, x] == y], [x != [y], |tz| { [1, 2, 3] != [1 | tz], tz == [2, 3] }, [_ | x] == y] } }, }, match [3, []] { t => , [[fresh_name_9, _, 2 | z] | _] => { [matche x { _ => { [[], fresh_name_9] == y, fresh_name_9 == 2 }, [[false, 1, false | 1], [[]]] | [[1, 'b' | 2], [y]] => , }, match fresh_name_9 { [[[], 2, [] | _]] | _ => , }, fresh_name_9 == [fresh_name_9, 2, 'b']], x != [fresh_name_9, [3, 'b' | y], fresh_name_9] }, [y, [], [2, 3, _]] => { ['a'] == y, y == [x] }, }])
+    proto_vulcan!([|t| {  }, matche [x | 2] { [1, fresh_name_9, 1] => { conde { [|y, h| { h == [x, _, h] }, |x| {  }], [|y| { _ == x }, P3(3, 2, fresh_name_9) == x] }, [] == x }, [[false, t], [_], _] => { x != [x, [], t] }, h => , }, x == [3, _, x]])
 }
 pub fn case_442(vars: &Vars) -> InferredGoal<DU, DE, Goal<DU, DE>> {
-    let q = vars.v[0].clone();
-    let x = vars.v[1].clone();
-    proto_vulcan!([match x { [1, [3]] => { |tz| { [3, 2 | tz] != [3, 2, 3], tz == [3] }, [q, _] == q }, }])
+    let x = vars.v[0].clone();
+    proto_vulcan!([matche x { _ => { x == 7, x == 8 }, Named { a: [z, _], b: y } => { [_, [x] | z] != z, append(x, x, []) }, [1] | [_] => x == [x, 2], }, x != P3(x, _, _), |tz| { [3 | tz] != [3, 2], tz == [2] }])
 }
 pub fn case_443(vars: &Vars) -> InferredGoal<DU, DE, Goal<DU, DE>> {
-    let q = vars.v[0].clone();
-    let x = vars.v[1].clone();
-    proto_vulcan!([match x { [1, [3]] => { |fresh_name_9| { [3, 2 | fresh_name_9] != [3, 2, 3], fresh_name_9 == [3] }, [q, _] == q }, }])
+    let x = vars.v[0].clone();
+    proto_vulcan!([matche x { _ => { x == 7, x == 8 }, Named { a: [z, _], b: y } => { [_, [x] | z] != z, append(x, x, []) }, [1] | [_] => x == [x, 2], }, x != P3(x, _, _), |fresh_name_9| { [3 | fresh_name_9] != [3, 2], fresh_name_9 == [2] }])
 }
 pub fn case_444(vars: &Vars) -> InferredGoal<DU, DE, Goal<DU, DE>> {
-    let q = vars.v[0].clone();
-    let x = vars.v[1].clone();
-    proto_vulcan!([conde { [|y| { [[q], 3] != [] }, []], [[x, q, 3] == 2, x == [2, []]] }, [1, 3, 2] == x, closure { [|t| { t == [3] }] }])
+    let x = vars.v[0].clone();
+    let y = vars.v[1].clone();
+    proto_vulcan!([[[conde { [] }, [true], [] == y]], |y| { |x| {  }, append(y, y, []), 1 == x }])
 }
 pub fn case_445(vars: &Vars) -> InferredGoal<DU, DE, Goal<DU, DE>> {
-    let q = vars.v[0].clone();
-    let x = vars.v[1].clone();
-    proto_vulcan!([conde { [|fresh_name_9| { [[q], 3] != [] }, []], [[x, q, 3] == 2, x == [2, []]] }, [1, 3, 2] == x, closure { [|t| { t == [3] }] }])
+    let x = vars.v[0].clone();
+    let y = vars.v[1].clone();
+    proto_vulcan!([[[conde { [] }, [true], [] == y]], |y| { |fresh_name_9| {  }, append(y, y, []), 1 == x }])
 }
 pub fn case_446(vars: &Vars) -> InferredGoal<DU, DE, Goal<DU, DE>> {
-    let q = vars.v[0].clone();
-    let x = vars.v[1].clone();
-    proto_vulcan!([matche q { 1 => { member(x, [3, 2, 1]), |x, t| { conde { false, false, false } } }, [_] | ['a'] => , }, conde { |tz| { tz == [3], [3, 2, 3] != [3, 2 | tz] }, append(q, x, [2]), x == [_, [] | x] }])
+    let x = vars.v[0].clone();
+    let y = vars.v[1].clone();
+    proto_vulcan!([[y] != x, { let c__: InferredGoal<DU, DE, Goal<DU, DE>> = proto_vulcan_closure!([|yy| { conde { [x == [yy | _], yy == 1], [x == [_, yy | _], yy == 2] } }, |t| { x == y, [y, []] != y, [[]] != P3(_, 1, y) }]); let g__: Goal<DU, DE> = ::proto_vulcan::GoalCast::cast_into(c__); let r__: InferredGoal<DU, DE, Goal<DU, DE>> = proto_vulcan!([g__.clone(), g__]); r__ }])
 }
 pub fn case_447(vars: &Vars) -> InferredGoal<DU, DE, Goal<DU, DE>> {
-    let q = vars.v[0].clone();
-    let x = vars.v[1].clone();
-    proto_vulcan!([matche q { 1 => { member(x, [3, 2, 1]), |x, t| { conde { false, false, false } } }, [_] | ['a'] => , }, conde { |fresh_name_9| { fresh_name_9 == [3], [3, 2, 3] != [3, 2 | fresh_name_9] }, append(q, x, [2]), x == [_, [] | x] }])
+    let x = vars.v[0].clone();
+    let y = vars.v[1].clone();
+    proto_vulcan!([[y] != x, { let c__: InferredGoal<DU, DE, Goal<DU, DE>> = proto_vulcan_closure!([|yy| { conde { [x == [yy | _], yy == 1], [x == [_, yy | _], yy == 2] } }, |fresh_name_9| { x == y, [y, []] != y, [[]] != P3(_, 1, y) }]); let g__: Goal<DU, DE> = ::proto_vulcan::GoalCast::cast_into(c__); let r__: InferredGoal<DU, DE, Goal<DU, DE>> = proto_vulcan!([g__.clone(), g__]); r__ }])
 }
 pub fn case_448(vars: &Vars) -> InferredGoal<DU, DE, Goal<DU, DE>> {
     let x = vars.v[0].clone();
-    proto_vulcan!([match [[], 2] { y => { append(y, x, [2]), conde { [[y != x], x == x], y == [_] } }, [[h, y, 2], [], x] | _ => , }])
+    proto_vulcan!([x == [[], 1, x], match x { 'b' => [matche x { [z, [_, z | _]] => conde { [z, _ | x] == x, [] }, [[x, t, 2], h] => match x { Named { a: [_, []], b: [x] } => [1, x, 'a'] != x, P3(2, _, y) | _ => [append(h, x, [1, 2]), [1 | x] != P3([3, 3], [x, h], x)], 2 => { t == [x, _, [1, 1]] }, }, _ => { |t| { x == 1, x == _ } }, }, x != x], [[1, []] | x] | _ => , }, [matche x { [[]] => [x == x, false], h | [[z, h, 2] | y] => [conde { false, append(x, h, [3, 2]), true }, match x { P3(h, [2], 3) => { (3, [h, _]) == [_, [h, x], [[], h] | h] }, }], [[2, y, _ | _]] => [y == x, match [] { _ => { x == 7, x == 8 }, [[z, 1, h] | _] => member(h, []), }], }, P3([3, []], 1, [[]]) == x, |y| { matche x { [[t], true, [y] | z] => y != [y], } }]])
 }
 pub fn case_449(vars: &Vars) -> InferredGoal<DU, DE, Goal<DU, DE>> {
     let x = vars.v[0].clone();
-    proto_vulcan!([match [[], 2] { fresh_name_9 => { append(fresh_name_9, x, [2]), conde { [[fresh_name_9 != x], x == x], fresh_name_9 == [_] } }, [[h, y, 2], [], x] | _ => , }])
+    proto_vulcan!([x == [[], 1, x], match x { 'b' => [matche x { [z, [_, z | _]] => conde { [z, _ | x] == x, [] }, [[x, t, 2], h] => match x { Named { a: [_, []], b: [x] } => [1, x, 'a'] != x, P3(2, _, y) | _ => [append(h, x, [1, 2]), [1 | x] != P3([3, 3], [x, h], x)], 2 => { t == [x, _, [1, 1]] }, }, _ => { |t| { x == 1, x == _ } }, }, x != x], [[1, []] | x] | _ => , }, [matche x { [[]] => [x == x, false], h | [[z, h, 2] | y] => [conde { false, append(x, h, [3, 2]), true }, match x { P3(h, [2], 3) => { (3, [h, _]) == [_, [h, x], [[], h] | h] }, }], [[2, fresh_name_9, _ | _]] => [fresh_name_9 == x, match [] { _ => { x == 7, x == 8 }, [[z, 1, h] | _] => member(h, []), }], }, P3([3, []], 1, [[]]) == x, |y| { matche x { [[t], true, [y] | z] => y != [y], } }]])
 }
 pub fn case_450(vars: &Vars) -> InferredGoal<DU, DE, Goal<DU, DE>> {
-    let q = vars.v[0].clone();
-    let x = vars.v[1].clone();
-    proto_vulcan!([x == [[_, q]], _ == q, conde { |y| { q != q, append(x, q, [3, 3]) }, [], conde { [|z| { q == x, |tz| { [2 | tz] != [2, 3, 2], tz == [3, 2] } }, |h| { append(h, q, []) }], |x, y| { y == q } } }, closure { x == [q, q, [] | q] }])
+    let x = vars.v[0].clone();
+    proto_vulcan!([match [] { P3(_, _, y) => [[[member(x, [1, 3, 1])], conde { |tz| { tz == [2, 3], [1, 3 | tz] != [1, 3, 2, 3] }, [y] == y, true }]], [[2]] => { (x, _) == x }, }, [[|t| { x != x }, |t, x| { [true, x, 'b'] == x }, [x != x, [[2, [], x], [x, 2 | 'b'], [[], _, 1]] == (_, []), member(x, [2, 2])]], |y| { |x| { false } }, matche x { _ => { (x, []) == [x] }, [["a", "a"], [t, t, 2]] | _ => , }]])
 }
 pub fn case_451(vars: &Vars) -> InferredGoal<DU, DE, Goal<DU, DE>> {
-    let q = vars.v[0].clone();
-    let x = vars.v[1].clone();
-    proto_vulcan!([x == [[_, q]], _ == q, conde { |y| { q != q, append(x, q, [3, 3]) }, [], conde { [|z| { q == x, |tz| { [2 | tz] != [2, 3, 2], tz == [3, 2] } }, |h| { append(h, q, []) }], |fresh_name_9, y| { y == q } } }, closure { x == [q, q, [] | q] }])
+    let x = vars.v[0].clone();
+    proto_vulcan!([match [] { P3(_, _, y) => [[[member(x, [1, 3, 1])], conde { |fresh_name_9| { fresh_name_9 == [2, 3], [1, 3 | fresh_name_9] != [1, 3, 2, 3] }, [y] == y, true }]], [[2]] => { (x, _) == x }, }, [[|t| { x != x }, |t, x| { [true, x, 'b'] == x }, [x != x, [[2, [], x], [x, 2 | 'b'], [[], _, 1]] == (_, []), member(x, [2, 2])]], |y| { |x| { false } }, matche x { _ => { (x, []) == [x] }, [["a", "a"], [t, t, 2]] | _ => , }]])
 }
 pub fn case_452(vars: &Vars) -> InferredGoal<DU, DE, Goal<DU, DE>> {
     let q = vars.v[0].clone();
     let x = vars.v[1].clone();
-    proto_vulcan!([member(x, [2, 1, 2]), |t, z| { [_ | x] == [[3], [2]], match t { [true, [1, z | _]] => , [z, [1, 1, 2], [h] | t] => { [1] != z }, }, match x { 2 => , [[h]] => , [1, h] | _ => t == t, } }])
+    proto_vulcan!([P3([q, x], [_, q], q) == x, |y| { q == 'a', |t, h| { conde { y == [y, x, 3 | t], [[3] == h, [1] == y], [] } } }])
 }
 pub fn case_453(vars: &Vars) -> InferredGoal<DU, DE, Goal<DU, DE>> {
     let q = vars.v[0].clone();
     let x = vars.v[1].clone();
-    proto_vulcan!([member(x, [2, 1, 2]), |fresh_name_9, z| { [_ | x] == [[3], [2]], match fresh_name_9 { [true, [1, z | _]] => , [z, [1, 1, 2], [h] | t] => { [1] != z }, }, match x { 2 => , [[h]] => , [1, h] | _ => fresh_name_9 == fresh_name_9, } }])
+    proto_vulcan!([P3([q, x], [_, q], q) == x, |y| { q == 'a', |t, fresh_name_9| { conde { y == [y, x, 3 | t], [[3] == fresh_name_9, [1] == y], [] } } }])
 }
 pub fn case_454(vars: &Vars) -> InferredGoal<DU, DE, Goal<DU, DE>> {
     let x = vars.v[0].clone();
-    proto_vulcan!([conde { [matche x { [[3, [] | z]] => { [[z] == z, [[z, z, 'a'], [[], 3, x]] == [x]], |x, h| { 1 == [z], _ == [z], [['b', x | z], []] != z } }, _ => matche x { [3, y, z | z] | t => { member(x, [2, 2, 1]), x == [x, x, _] }, [x, 1 | y] => [append(x, x, [3, 3]), [3, y, _] == y], [1, _, [z, [], h | y]] => { z == [2 | z] }, }, [[3, 1], x | x] => { |t, h| { x == x, false } }, }, [[2, 1, []], [x, x], [x, 3 | x]] != x], [x == ["bc"], |tz| { tz == [1], [3, 1] != [3 | tz] }] }, |t| { |t, x| { matche x { t | [[t], 1, [1, _, h] | h] => [[3, t] == t, false], }, t == x }, x == "bc" }])
+    let y = vars.v[1].clone();
+    proto_vulcan!([match [3, x] { [[x]] => [[[], []] == x, [2, 1 | x] != x], }, [[3 | y], x] == y, ['b', [x, y, x | y], 2] == 1])
 }
 pub fn case_455(vars: &Vars) -> InferredGoal<DU, DE, Goal<DU, DE>> {
     let x = vars.v[0].clone();
-    proto_vulcan!([conde { [matche x { [[3, [] | z]] => { [[z] == z, [[z, z, 'a'], [[], 3, x]] == [x]], |x, h| { 1 == [z], _ == [z], [['b', x | z], []] != z } }, _ => matche x { [3, y, z | z] | t => { member(x, [2, 2, 1]), x == [x, x, _] }, [x, 1 | y] => [append(x, x, [3, 3]), [3, y, _] == y], [1, _, [z, [], h | fresh_name_9]] => { z == [2 | z] }, }, [[3, 1], x | x] => { |t, h| { x == x, false } }, }, [[2, 1, []], [x, x], [x, 3 | x]] != x], [x == ["bc"], |tz| { tz == [1], [3, 1] != [3 | tz] }] }, |t| { |t, x| { matche x { t | [[t], 1, [1, _, h] | h] => [[3, t] == t, false], }, t == x }, x == "bc" }])
+    let y = vars.v[1].clone();
+    proto_vulcan!([match [3, x] { [[fresh_name_9]] => [[[], []] == fresh_name_9, [2, 1 | fresh_name_9] != fresh_name_9], }, [[3 | y], x] == y, ['b', [x, y, x | y], 2] == 1])
 }
 pub fn case_456(vars: &Vars) -> InferredGoal<DU, DE, Goal<DU, DE>> {
-    let q = vars.v[0].clone();
-    let x = vars.v[1].clone();
-    proto_vulcan!([|t| { matche x { _ => { member(x, [1, 2, 3]) }, _ => { member(t, [1, 2, 3]) }, }, |t| { _ != t, [true], x != [["a", [], _] | 'a'] }, _ == "a" }, [_, q] == x, |tz| { tz == [3], [2 | tz] != [2, 3] }])
+    let x = vars.v[0].clone();
+    proto_vulcan!([|y| { x == ([[], _], 2), matche y { P3(x, [z], [1, 3]) => [[3] == x, matche z { y => { append(y, x, []), [1, y] == [[_], [y, 2, z | x], [3, 2 | y] | z] }, [[z, "bc" | _], [t] | _] => z == P3([t], y, [[], t]), h => , }], Named { a: [2], b: _ } | _ => { conde { y == [[], y, false], [true, [false, x, []] == x], [[1, 1, "a"] == y, y == [y, x, y]] }, |z| { "a" == y } }, [1, [2], [1, 2, z]] => , } }, x == P3(3, 2, [_, []]), _ != 'a'])
 }
 pub fn case_457(vars: &Vars) -> InferredGoal<DU, DE, Goal<DU, DE>> {
-    let q = vars.v[0].clone();
-    let x = vars.v[1].clone();
-    proto_vulcan!([|t| { matche x { _ => { member(x, [1, 2, 3]) }, _ => { member(t, [1, 2, 3]) }, }, |fresh_name_9| { _ != fresh_name_9, [true], x != [["a", [], _] | 'a'] }, _ == "a" }, [_, q] == x, |tz| { tz == [3], [2 | tz] != [2, 3] }])
+    let x = vars.v[0].clone();
+    proto_vulcan!([|y| { x == ([[], _], 2), matche y { P3(x, [z], [1, 3]) => [[3] == x, matche z { y => { append(y, x, []), [1, y] == [[_], [y, 2, z | x], [3, 2 | y] | z] }, [[z, "bc" | _], [t] | _] => z == P3([t], y, [[], t]), fresh_name_9 => , }], Named { a: [2], b: _ } | _ => { conde { y == [[], y, false], [true, [false, x, []] == x], [[1, 1, "a"] == y, y == [y, x, y]] }, |z| { "a" == y } }, [1, [2], [1, 2, z]] => , } }, x == P3(3, 2, [_, []]), _ != 'a'])
 }
 pub fn case_458(vars: &Vars) -> InferredGoal<DU, DE, Goal<DU, DE>> {
     let x = vars.v[0].clone();
-    proto_vulcan!([x == [_], |tz| { [1 | tz] != [1, 3], tz == [3] }, closure { match x { [false, [z, [], 3 | h], [[], 2]] | [["bc" | _], true | h] => , [y, h] => { |h| { false, false } }, [[]] => { conde { [x != x, x == []] }, [append(x, x, [1]), false] }, } }])
+    let y = vars.v[1].clone();
+    proto_vulcan!([match [[], 2, 1] { 3 => { [[1, _, x], x, [x, false, 2] | x] == y }, }, { let c__: InferredGoal<DU, DE, Goal<DU, DE>> = proto_vulcan_closure!(|yy| { conde { [x == [yy | _], yy == 1], [x == [_, yy | _], yy == 2] } }); let g__: Goal<DU, DE> = ::proto_vulcan::GoalCast::cast_into(c__); let r__: InferredGoal<DU, DE, Goal<DU, DE>> = proto_vulcan!([g__.clone(), g__]); r__ }])
 }
 pub fn case_459(vars: &Vars) -> InferredGoal<DU, DE, Goal<DU, DE>> {
     let x = vars.v[0].clone();
-    proto_vulcan!([x == [_], |tz| { [1 | tz] != [1, 3], tz == [3] }, closure { match x { [false, [z, [], 3 | h], [[], 2]] | [["bc" | _], true | h] => , [fresh_name_9, h] => { |h| { false, false } }, [[]] => { conde { [x != x, x == []] }, [append(x, x, [1]), false] }, } }])
+    let y = vars.v[1].clone();
+    proto_vulcan!([match [[], 2, 1] { 3 => { [[1, _, x], x, [x, false, 2] | x] == y }, }, { let c__: InferredGoal<DU, DE, Goal<DU, DE>> = proto_vulcan_closure!(|fresh_name_9| { conde { [x == [fresh_name_9 | _], fresh_name_9 == 1], [x == [_, fresh_name_9 | _], fresh_name_9 == 2] } }); let g__: Goal<DU, DE> = ::proto_vulcan::GoalCast::cast_into(c__); let r__: InferredGoal<DU, DE, Goal<DU, DE>> = proto_vulcan!([g__.clone(), g__]); r__ }])
 }
 pub fn case_460(vars: &Vars) -> InferredGoal<DU, DE, Goal<DU, DE>> {
-    let q = vars.v[0].clone();
-    let x = vars.v[1].clone();
-    proto_vulcan!([|t, y| { [matche t { [[t, h, z], [[]], 3] => { y == t, member(x, [2, 2]) }, [[y, _, 3 | _]] | y => { x == "bc", append(y, t, []) }, [3 | 3] => [[[y, y]] == t, true == t], }], matche q { _ | _ => , [z, [h, x], [[], z, x]] | [[[], y], [1, 1], [h, h]] => , }, [] }, [[x], 3] == x, x == q])
+    let x = vars.v[0].clone();
+    let y = vars.v[1].clone();
+    proto_vulcan!([matche y { z => [3 == z, z == [2]], [z, 2] => { x != z }, }, [[|x, t| {  }, true, y == [y, y]], y != P3(_, 2, [1])], |t| { x == [y, x] }, { let c__: InferredGoal<DU, DE, Goal<DU, DE>> = proto_vulcan_closure!([|yy| { conde { [x == [yy | _], yy == 1], [x == [_, yy | _], yy == 2] } }, [y, x, 1] != y]); let g__: Goal<DU, DE> = ::proto_vulcan::GoalCast::cast_into(c__); let r__: InferredGoal<DU, DE, Goal<DU, DE>> = proto_vulcan!([g__.clone(), g__]); r__ }])
 }
 pub fn case_461(vars: &Vars) -> InferredGoal<DU, DE, Goal<DU, DE>> {
-    let q = vars.v[0].clone();
-    let x = vars.v[1].clone();
-    proto_vulcan!([|t, y| { [matche t { [[t, fresh_name_9, z], [[]], 3] => { y == t, member(x, [2, 2]) }, [[y, _, 3 | _]] | y => { x == "bc", append(y, t, []) }, [3 | 3] => [[[y, y]] == t, true == t], }], matche q { _ | _ => , [z, [h, x], [[], z, x]] | [[[], y], [1, 1], [h, h]] => , }, [] }, [[x], 3] == x, x == q])
+    let x = vars.v[0].clone();
+    let y = vars.v[1].clone();
+    proto_vulcan!([matche y { z => [3 == z, z == [2]], [z, 2] => { x != z }, }, [[|x, t| {  }, true, y == [y, y]], y != P3(_, 2, [1])], |fresh_name_9| { x == [y, x] }, { let c__: InferredGoal<DU, DE, Goal<DU, DE>> = proto_vulcan_closure!([|yy| { conde { [x == [yy | _], yy == 1], [x == [_, yy | _], yy == 2] } }, [y, x, 1] != y]); let g__: Goal<DU, DE> = ::proto_vulcan::GoalCast::cast_into(c__); let r__: InferredGoal<DU, DE, Goal<DU, DE>> = proto_vulcan!([g__.clone(), g__]); r__ }])
 }
 pub fn case_462(vars: &Vars) -> InferredGoal<DU, DE, Goal<DU, DE>> {
-    let x = vars.v[0].clone();
-    let y = vars.v[1].clone();
-    proto_vulcan!([_ == y, |y| { conde { x != y, conde { [[x, []]] == 3, [y != y, x == [y | y]] }, y == [y, y, []] }, [false, [[_, y, x], x] != []], |h, y| {  } }, [y == x, |z| { |h| { z == [[3, _, []], ['b'], [y | z]], z == x, h == y } }]])
+    let q = vars.v[0].clone();
+    let x = vars.v[1].clone();
+    proto_vulcan!([true, |x| { conde { match x { 3 | [[3, "a"]] => [1 != x, x == P3(x, [], [x, 3])], [["bc", t, z | y], [t, h, 'a' | h]] => , [] => , }, [|t| { q == [[[] | 2], x, [3, 1, []] | 3], q == [[3], [x], [_] | x], append(x, q, []) }, matche q { 2 => { |tz| { tz == [1], [1, 1, 1] != [1, 1 | tz] } }, _ | [[_, y | t], ['b'], [x, "a", _]] => { q == (_, _) }, }] }, match q { t => , }, |t| { P3([t, q], [], _) == x, |tz| { tz == [1, 3], [1, 3, 1, 3] != [1, 3 | tz] } } }, x == P3(q, 3, [3, 3])])
 }
 pub fn case_463(vars: &Vars) -> InferredGoal<DU, DE, Goal<DU, DE>> {
-    let x = vars.v[0].clone();
-    let y = vars.v[1].clone();
-    proto_vulcan!([_ == y, |y| { conde { x != y, conde { [[x, []]] == 3, [y != y, x == [y | y]] }, y == [y, y, []] }, [false, [[_, y, x], x] != []], |h, y| {  } }, [y == x, |z| { |fresh_name_9| { z == [[3, _, []], ['b'], [y | z]], z == x, fresh_name_9 == y } }]])
+    let q = vars.v[0].clone();
+    let x = vars.v[1].clone();
+    proto_vulcan!([true, |x| { conde { match x { 3 | [[3, "a"]] => [1 != x, x == P3(x, [], [x, 3])], [["bc", t, z | y], [t, h, 'a' | h]] => , [] => , }, [|t| { q == [[[] | 2], x, [3, 1, []] | 3], q == [[3], [x], [_] | x], append(x, q, []) }, matche q { 2 => { |tz| { tz == [1], [1, 1, 1] != [1, 1 | tz] } }, _ | [[_, y | t], ['b'], [x, "a", _]] => { q == (_, _) }, }] }, match q { fresh_name_9 => , }, |t| { P3([t, q], [], _) == x, |tz| { tz == [1, 3], [1, 3, 1, 3] != [1, 3 | tz] } } }, x == P3(q, 3, [3, 3])])
 }
 pub fn case_464(vars: &Vars) -> InferredGoal<DU, DE, Goal<DU, DE>> {
-    let x = vars.v[0].clone();
-    proto_vulcan!([[[2], [_, x, 2], [2]] == [x, 3, []], append(x, x, [2, 1]), |tz| { [2, 3 | tz] != [2, 3, 3, 3], tz == [3, 3] }, closure { true }])
+    let q = vars.v[0].clone();
+    let x = vars.v[1].clone();
+    proto_vulcan!([q == 2, { let c__: InferredGoal<DU, DE, Goal<DU, DE>> = proto_vulcan_closure!(|yy| { conde { [q == [yy | _], yy == 1], [q == [_, yy | _], yy == 2] } }); let g__: Goal<DU, DE> = ::proto_vulcan::GoalCast::cast_into(c__); let r__: InferredGoal<DU, DE, Goal<DU, DE>> = proto_vulcan!([g__.clone(), g__]); r__ }])
 }
 pub fn case_465(vars: &Vars) -> InferredGoal<DU, DE, Goal<DU, DE>> {
-    let x = vars.v[0].clone();
-    proto_vulcan!([[[2], [_, x, 2], [2]] == [x, 3, []], append(x, x, [2, 1]), |fresh_name_9| { [2, 3 | fresh_name_9] != [2, 3, 3, 3], fresh_name_9 == [3, 3] }, closure { true }])
+    let q = vars.v[0].clone();
+    let x = vars.v[1].clone();
+    proto_vulcan!([q == 2, { let c__: InferredGoal<DU, DE, Goal<DU, DE>> = proto_vulcan_closure!(|fresh_name_9| { conde { [q == [fresh_name_9 | _], fresh_name_9 == 1], [q == [_, fresh_name_9 | _], fresh_name_9 == 2] } }); let g__: Goal<DU, DE> = ::proto_vulcan::GoalCast::cast_into(c__); let r__: InferredGoal<DU, DE, Goal<DU, DE>> = proto_vulcan!([g__.clone(), g__]); r__ }])
 }
 pub fn case_466(vars: &Vars) -> InferredGoal<DU, DE, Goal<DU, DE>> {
-    let q = vars.v[0].clone();
-    let x = vars.v[1].clone();
-    proto_vulcan!([match q { _ | [[1, h, 2 | h], [t, 1]] => |z| { _ != q }, }])
+    let x = vars.v[0].clone();
+    proto_vulcan!([conde { [[match x { _ | [[false | y], [z, y, z]] => , 1 => , }, x == [[1, x, _ | x] | x]], |tz| { [3, 3 | tz] != [3, 3, 2], tz == [2] }], [[[1 | x] == x]], x == x }, P3(_, 3, x) == x, [[matche x { h | [t, [2, y, "bc"], z] => { P3(1, _, x) == (x, 2), member(x, [1, 1, 1]) }, [1, [x, h, false | 2]] => , }, match x { [[t, [], true], [[], x, h]] => { false, [[]] == t }, }], conde { [1 == x, x == (x, [])], x == (3, 3), [|y, h| { false }, P3(1, _, _) == x] }]])
 }
 pub fn case_467(vars: &Vars) -> InferredGoal<DU, DE, Goal<DU, DE>> {
-    let q = vars.v[0].clone();
-    let x = vars.v[1].clone();
-    proto_vulcan!([match q { _ | [[1, h, 2 | h], [t, 1]] => |fresh_name_9| { _ != q }, }])
+    let x = vars.v[0].clone();
+    proto_vulcan!([conde { [[match x { _ | [[false | y], [z, y, z]] => , 1 => , }, x == [[1, x, _ | x] | x]], |tz| { [3, 3 | tz] != [3, 3, 2], tz == [2] }], [[[1 | x] == x]], x == x }, P3(_, 3, x) == x, [[matche x { h | [t, [2, y, "bc"], z] => { P3(1, _, x) == (x, 2), member(x, [1, 1, 1]) }, [1, [x, h, false | 2]] => , }, match x { [[t, [], true], [[], fresh_name_9, h]] => { false, [[]] == t }, }], conde { [1 == x, x == (x, [])], x == (3, 3), [|y, h| { false }, P3(1, _, _) == x] }]])
 }
 pub fn case_468(vars: &Vars) -> InferredGoal<DU, DE, Goal<DU, DE>> {
-    let x = vars.v[0].clone();
-    proto_vulcan!([match [x, 2] { _ | [x, y | h] => , [2, [_], [t, 2, z]] | _ => [[["bc", 1 | x]] == x, |y| { |z| { x == [z, y, 2] }, [true] }], [[x], 1, [t]] => x == [[x, _, 3], "bc"], }, [_ | x] != x, closure { [matche ["bc"] { 1 => [[1] | x] == x, [[], z | t] => , [[3, 2, z], [[], x, _]] | x => , }, matche [x, x, 2] { "bc" => { conde { [member(x, [1]), [2] == x], x == [x, 1, 1 | x], [] }, x == x }, }] }])
+    let q = vars.v[0].clone();
+    let x = vars.v[1].clone();
+    proto_vulcan!([|z, h| { [false, 2 == x], true, x == 1 }, closure { [x == q, [matche x { _ => , [[] | 1] => { |tz| { tz == [1], [1, 3 | tz] != [1, 3, 1] } }, z => { [2, q, q] == z, z == [[2, q, x], ['b', q, _] | z] }, }, x == [q, 'a']]] }])
 }
 pub fn case_469(vars: &Vars) -> InferredGoal<DU, DE, Goal<DU, DE>> {
-    let x = vars.v[0].clone();
-    proto_vulcan!([match [x, 2] { _ | [x, y | h] => , [2, [_], [t, 2, z]] | _ => [[["bc", 1 | x]] == x, |y| { |z| { x == [z, y, 2] }, [true] }], [[fresh_name_9], 1, [t]] => fresh_name_9 == [[fresh_name_9, _, 3], "bc"], }, [_ | x] != x, closure { [matche ["bc"] { 1 => [[1] | x] == x, [[], z | t] => , [[3, 2, z], [[], x, _]] | x => , }, matche [x, x, 2] { "bc" => { conde { [member(x, [1]), [2] == x], x == [x, 1, 1 | x], [] }, x == x }, }] }])
+    let q = vars.v[0].clone();
+    let x = vars.v[1].clone();
+    proto_vulcan!([|z, h| { [false, 2 == x], true, x == 1 }, closure { [x == q, [matche x { _ => , [[] | 1] => { |tz| { tz == [1], [1, 3 | tz] != [1, 3, 1] } }, fresh_name_9 => { [2, q, q] == fresh_name_9, fresh_name_9 == [[2, q, x], ['b', q, _] | fresh_name_9] }, }, x == [q, 'a']]] }])
 }
 pub fn case_470(vars: &Vars) -> InferredGoal<DU, DE, Goal<DU, DE>> {
     let q = vars.v[0].clone();
     let x = vars.v[1].clone();
-    proto_vulcan!([conde { q == x, [matche q { _ => , [[x] | _] | _ => , }, |t, h| { x == [t, x], matche [_, h | x] { [_, [t, 1], [x, 3, z]] => { member(t, [3, 1, 3]), 1 != 2 }, ['a', [true, y, []], _ | z] => [[2, [1, 'b', _ | h], [3 | q] | y] == 1, [] == z], }, 3 == t }] }, closure { matche x { [[[] | _]] => , } }])
+    proto_vulcan!([[match x { [[y, false | h]] => , _ => { |h, y| { |tz| { [2, 3] != [2 | tz], tz == [3] }, q == [_, _, q], true }, |z, y| { false } }, }, q == [q], conde { [conde { "a" == P3([_], [2, q], q), (x, []) == q, |tz| { tz == [3], [2 | tz] != [2, 3] } }, q == [x | q]], [[P3(3, [[], q], q) != x, x == [q | x], x == [[_], [3, q | q], [q, true, 1] | x]]] }], closure { [match x { [[y], ['a'], [z]] => [conde { true }, member(y, [1, 3])], _ => { |z| { |tz| { tz == [2], [2, 2, 2] != [2, 2 | tz] } }, match [1, x] { [1, [h, x | y]] | [[1], []] => , [1] => { q != 1, x == q }, } }, }, |y| { 2 == q }] }])
 }
 pub fn case_471(vars: &Vars) -> InferredGoal<DU, DE, Goal<DU, DE>> {
     let q = vars.v[0].clone();
     let x = vars.v[1].clone();
-    proto_vulcan!([conde { q == x, [matche q { _ => , [[x] | _] | _ => , }, |t, fresh_name_9| { x == [t, x], matche [_, fresh_name_9 | x] { [_, [t, 1], [x, 3, z]] => { member(t, [3, 1, 3]), 1 != 2 }, ['a', [true, y, []], _ | z] => [[2, [1, 'b', _ | fresh_name_9], [3 | q] | y] == 1, [] == z], }, 3 == t }] }, closure { matche x { [[[] | _]] => , } }])
+    proto_vulcan!([[match x { [[y, false | h]] => , _ => { |h, y| { |tz| { [2, 3] != [2 | tz], tz == [3] }, q == [_, _, q], true }, |z, y| { false } }, }, q == [q], conde { [conde { "a" == P3([_], [2, q], q), (x, []) == q, |tz| { tz == [3], [2 | tz] != [2, 3] } }, q == [x | q]], [[P3(3, [[], q], q) != x, x == [q | x], x == [[_], [3, q | q], [q, true, 1] | x]]] }], closure { [match x { [[fresh_name_9], ['a'], [z]] => [conde { true }, member(fresh_name_9, [1, 3])], _ => { |z| { |tz| { tz == [2], [2, 2, 2] != [2, 2 | tz] } }, match [1, x] { [1, [h, x | y]] | [[1], []] => , [1] => { q != 1, x == q }, } }, }, |y| { 2 == q }] }])
 }
 pub fn case_472(vars: &Vars) -> InferredGoal<DU, DE, Goal<DU, DE>> {
-    let q = vars.v[0].clone();
-    let x = vars.v[1].clone();
-    proto_vulcan!([1 == q, append(q, q, [2]), closure { |x| {  } }])
+    let x = vars.v[0].clone();
+    let y = vars.v[1].clone();
+    proto_vulcan!([matche y { [[3, y], [2, true, 2 | z], [_]] => { |tz| { tz == [2], [1, 2] != [1 | tz] } }, [[2, y], h, [t, _, _ | t]] => [[[true], conde { [2, y, 2] != t, true, [] }, h == []], y == [[t, 1], [y, 3], y]], [3, ["a" | _], _] | [[x, 3, 2], false] => , }])
 }
 pub fn case_473(vars: &Vars) -> InferredGoal<DU, DE, Goal<DU, DE>> {
-    let q = vars.v[0].clone();
-    let x = vars.v[1].clone();
-    proto_vulcan!([1 == q, append(q, q, [2]), closure { |fresh_name_9| {  } }])
+    let x = vars.v[0].clone();
+    let y = vars.v[1].clone();
+    proto_vulcan!([matche y { [[3, fresh_name_9], [2, true, 2 | z], [_]] => { |tz| { tz == [2], [1, 2] != [1 | tz] } }, [[2, y], h, [t, _, _ | t]] => [[[true], conde { [2, y, 2] != t, true, [] }, h == []], y == [[t, 1], [y, 3], y]], [3, ["a" | _], _] | [[x, 3, 2], false] => , }])
 }
 pub fn case_474(vars: &Vars) -> InferredGoal<DU, DE, Goal<DU, DE>> {
-    let q = vars.v[0].clone();
-    let x = vars.v[1].clone();
-    proto_vulcan!([|x, z| { ["a"] == x, |z, x| { [[1], ['a' | x], []] == x, match z { 2 | [[y, 3, _] | t] => { x == [1 | x], q != [true, q] }, [["a", _], z | 1] | _ => , }, match [x, _] { x | [[1 | t], 2] => [[z, q | q] == z, z == [z, 3]], } } }, [q] == q, q == [q | q]])
+    let x = vars.v[0].clone();
+    proto_vulcan!([|t, z| { [2, []] != x }, { let c__: InferredGoal<DU, DE, Goal<DU, DE>> = proto_vulcan_closure!([|yy| { conde { [x == [yy | _], yy == 1], [x == [_, yy | _], yy == 2] } }, [x, 1 | x] == x]); let g__: Goal<DU, DE> = ::proto_vulcan::GoalCast::cast_into(c__); let r__: InferredGoal<DU, DE, Goal<DU, DE>> = proto_vulcan!([g__.clone(), g__]); r__ }])
 }
 pub fn case_475(vars: &Vars) -> InferredGoal<DU, DE, Goal<DU, DE>> {
-    let q = vars.v[0].clone();
-    let x = vars.v[1].clone();
-    proto_vulcan!([|x, fresh_name_9| { ["a"] == x, |z, x| { [[1], ['a' | x], []] == x, match z { 2 | [[y, 3, _] | t] => { x == [1 | x], q != [true, q] }, [["a", _], z | 1] | _ => , }, match [x, _] { x | [[1 | t], 2] => [[z, q | q] == z, z == [z, 3]], } } }, [q] == q, q == [q | q]])
+    let x = vars.v[0].clone();
+    proto_vulcan!([|fresh_name_9, z| { [2, []] != x }, { let c__: InferredGoal<DU, DE, Goal<DU, DE>> = proto_vulcan_closure!([|yy| { conde { [x == [yy | _], yy == 1], [x == [_, yy | _], yy == 2] } }, [x, 1 | x] == x]); let g__: Goal<DU, DE> = ::proto_vulcan::GoalCast::cast_into(c__); let r__: InferredGoal<DU, DE, Goal<DU, DE>> = proto_vulcan!([g__.clone(), g__]); r__ }])
 }
 pub fn case_476(vars: &Vars) -> InferredGoal<DU, DE, Goal<DU, DE>> {
     let q = vars.v[0].clone();
     let x = vars.v[1].clone();
-    proto_vulcan!([[x == q, |t, x| { |t, h| { true, x == [[1 | t]], |tz| { tz == [1], [2 | tz] != [2, 1] } }, [member(t, [3, 1, 1]), t == 1], matche x { _ => { q == 7, q == 8 }, [[], [] | y] => { x == 2, 1 != [[[], _, t | x] | x] }, [y, [1, true | 1], false] => [[3] == y, [[2, x, 1], y] == t], } }, false], x == 'b'])
+    proto_vulcan!([|h| { h != ["bc", x, "a"] }, P3(1, x, _) == q, x == q, closure { [[2, [_, 1, 2 | x], 3] != x, matche q { "bc" => , _ => x != [2, x], [x, [3, 2], [[], 2] | x] => [[_ == q, 1 == x, false]], }] }])
 }
 pub fn case_477(vars: &Vars) -> InferredGoal<DU, DE, Goal<DU, DE>> {
     let q = vars.v[0].clone();
     let x = vars.v[1].clone();
-    proto_vulcan!([[x == q, |t, x| { |t, h| { true, x == [[1 | t]], |tz| { tz == [1], [2 | tz] != [2, 1] } }, [member(t, [3, 1, 1]), t == 1], matche x { _ => { q == 7, q == 8 }, [[], [] | y] => { x == 2, 1 != [[[], _, t | x] | x] }, [fresh_name_9, [1, true | 1], false] => [[3] == fresh_name_9, [[2, x, 1], fresh_name_9] == t], } }, false], x == 'b'])
+    proto_vulcan!([|h| { h != ["bc", x, "a"] }, P3(1, x, _) == q, x == q, closure { [[2, [_, 1, 2 | x], 3] != x, matche q { "bc" => , _ => x != [2, x], [fresh_name_9, [3, 2], [[], 2] | fresh_name_9] => [[_ == q, 1 == fresh_name_9, false]], }] }])
 }
 pub fn case_478(vars: &Vars) -> InferredGoal<DU, DE, Goal<DU, DE>> {
     let x = vars.v[0].clone();
-    proto_vulcan!([x == [_, x, x], |z, x| { z == 3, [x] == x }, |x| { [x, []] != x, [[x, 2], _] == x, x == 1 }])
+    proto_vulcan!([x != [[x, x, 3], [2, true, 3]], matche x { [[3], [[], [], h | _] | 2] => { [2 | h] != x }, [[z, h, y], [t, 3 | _]] => { match y { P3(3, 1, 2) | [[z, x, _], 1] => { [2, h, []] != t }, 2 => , }, [matche t { _ => ([2], _) == P3(3, [h], _), [[3 | t], [z], [2, 2 | y]] => [[[3, [], h | x]] == [z, [[], 'b'] | z], [2 | t] == t], P3(2, 3, []) => { z == [_ | x] }, }] }, }])
 }
 pub fn case_479(vars: &Vars) -> InferredGoal<DU, DE, Goal<DU, DE>> {
     let x = vars.v[0].clone();
-    proto_vulcan!([x == [_, x, x], |fresh_name_9, x| { fresh_name_9 == 3, [x] == x }, |x| { [x, []] != x, [[x, 2], _] == x, x == 1 }])
+    proto_vulcan!([x != [[x, x, 3], [2, true, 3]], matche x { [[3], [[], [], h | _] | 2] => { [2 | h] != x }, [[z, h, y], [t, 3 | _]] => { match y { P3(3, 1, 2) | [[z, x, _], 1] => { [2, h, []] != t }, 2 => , }, [matche t { _ => ([2], _) == P3(3, [h], _), [[3 | fresh_name_9], [z], [2, 2 | y]] => [[[3, [], h | x]] == [z, [[], 'b'] | z], [2 | fresh_name_9] == fresh_name_9], P3(2, 3, []) => { z == [_ | x] }, }] }, }])
 }
 pub fn case_480(vars: &Vars) -> InferredGoal<DU, DE, Goal<DU, DE>> {
     let x = vars.v[0].clone();
-    let y = vars.v[1].clone();
-    proto_vulcan!([conde { [], |x| { [y == [[]]], [x] == x, [y == [_, _, x | x]] }, x == 2 }, conde { [x == 1, |h, t| {  }], x == x }, x == [x, true | x]])
+    proto_vulcan!([P3(x, 3, []) == x, { let c__: InferredGoal<DU, DE, Goal<DU, DE>> = proto_vulcan_closure!([|yy| { conde { [x == [yy | _], yy == 1], [x == [_, yy | _], yy == 2] } }, |t| { t != t, member(x, [1, 1, 2]), [x, [1, t, []], ["a", "a" | x]] != t }]); let g__: Goal<DU, DE> = ::proto_vulcan::GoalCast::cast_into(c__); let r__: InferredGoal<DU, DE, Goal<DU, DE>> = proto_vulcan!([g__.clone(), g__]); r__ }])
 }
 pub fn case_481(vars: &Vars) -> InferredGoal<DU, DE, Goal<DU, DE>> {
     let x = vars.v[0].clone();
-    let y = vars.v[1].clone();
-    proto_vulcan!([conde { [], |x| { [y == [[]]], [x] == x, [y == [_, _, x | x]] }, x == 2 }, conde { [x == 1, |fresh_name_9, t| {  }], x == x }, x == [x, true | x]])
+    proto_vulcan!([P3(x, 3, []) == x, { let c__: InferredGoal<DU, DE, Goal<DU, DE>> = proto_vulcan_closure!([|yy| { conde { [x == [yy | _], yy == 1], [x == [_, yy | _], yy == 2] } }, |fresh_name_9| { fresh_name_9 != fresh_name_9, member(x, [1, 1, 2]), [x, [1, fresh_name_9, []], ["a", "a" | x]] != fresh_name_9 }]); let g__: Goal<DU, DE> = ::proto_vulcan::GoalCast::cast_into(c__); let r__: InferredGoal<DU, DE, Goal<DU, DE>> = proto_vulcan!([g__.clone(), g__]); r__ }])
 }
 pub fn case_482(vars: &Vars) -> InferredGoal<DU, DE, Goal<DU, DE>> {
-    let q = vars.v[0].clone();
-    let x = vars.v[1].clone();
-    proto_vulcan!([x != 1, x == q, closure { conde { |x, z| { member(x, []) }, match [_, x] { h => q == x, [h, [y, t, 1], ['b']] => [x == true, member(h, [3, 2])], _ => { append(x, q, []), [3, [q] | q] == [[[]], x] }, } } }])
+    let x = vars.v[0].clone();
+    proto_vulcan!([[3, 1] != x, conde { (x, []) != x, |x| { [x == P3([3], [], [3, []]), true] }, [x == [2, 'b' | x], conde { [([x, []], x) == x, [["bc", 1 | x]] != 1], [[x != (x, []), x != [1 | x]]] }] }, matche x { _ => , _ => , }])
 }
 pub fn case_483(vars: &Vars) -> InferredGoal<DU, DE, Goal<DU, DE>> {
-    let q = vars.v[0].clone();
-    let x = vars.v[1].clone();
-    proto_vulcan!([x != 1, x == q, closure { conde { |x, z| { member(x, []) }, match [_, x] { h => q == x, [fresh_name_9, [y, t, 1], ['b']] => [x == true, member(fresh_name_9, [3, 2])], _ => { append(x, q, []), [3, [q] | q] == [[[]], x] }, } } }])
+    let x = vars.v[0].clone();
+    proto_vulcan!([[3, 1] != x, conde { (x, []) != x, |fresh_name_9| { [fresh_name_9 == P3([3], [], [3, []]), true] }, [x == [2, 'b' | x], conde { [([x, []], x) == x, [["bc", 1 | x]] != 1], [[x != (x, []), x != [1 | x]]] }] }, matche x { _ => , _ => , }])
 }
 pub fn case_484(vars: &Vars) -> InferredGoal<DU, DE, Goal<DU, DE>> {
     let x = vars.v[0].clone();
-    proto_vulcan!([x == x, matche x { [[2, z, z], [2, 2, 2 | _], y] => { true }, _ => { member(x, [1, 2, 3]) }, [3] => , }])
+    proto_vulcan!([|x| { member(x, [1]), [[[], x, x | x]] != x, |x| { [x == ([_], _), 1 == x] } }, x == _, { let c__: InferredGoal<DU, DE, Goal<DU, DE>> = proto_vulcan_closure!(|yy| { conde { [x == [yy | _], yy == 1], [x == [_, yy | _], yy == 2] } }); let g__: Goal<DU, DE> = ::proto_vulcan::GoalCast::cast_into(c__); let r__: InferredGoal<DU, DE, Goal<DU, DE>> = proto_vulcan!([g__.clone(), g__]); r__ }])
 }
 pub fn case_485(vars: &Vars) -> InferredGoal<DU, DE, Goal<DU, DE>> {
     let x = vars.v[0].clone();
-    proto_vulcan!([x == x, matche x { [[2, fresh_name_9, fresh_name_9], [2, 2, 2 | _], y] => { true }, _ => { member(x, [1, 2, 3]) }, [3] => , }])
+    proto_vulcan!([|fresh_name_9| { member(fresh_name_9, [1]), [[[], fresh_name_9, fresh_name_9 | fresh_name_9]] != fresh_name_9, |x| { [x == ([_], _), 1 == x] } }, x == _, { let c__: InferredGoal<DU, DE, Goal<DU, DE>> = proto_vulcan_closure!(|yy| { conde { [x == [yy | _], yy == 1], [x == [_, yy | _], yy == 2] } }); let g__: Goal<DU, DE> = ::proto_vulcan::GoalCast::cast_into(c__); let r__: InferredGoal<DU, DE, Goal<DU, DE>> = proto_vulcan!([g__.clone(), g__]); r__ }])
 }
 pub fn case_486(vars: &Vars) -> InferredGoal<DU, DE, Goal<DU, DE>> {
-    let x = vars.v[0].clone();
-    let y = vars.v[1].clone();
-    proto_vulcan!([[[[], y | x]] == [1, 'a'], matche y { [false, [t, z], [1] | h] => [matche [1] { [[3, t]] => append(x, y, [3]), }, |t| { member(z, []) }], [[z, _, y | x] | _] => { [y, x | 3] == y }, _ => { member(y, [1, 2, 3]) }, }, [[y | x]] == y])
+    let q = vars.v[0].clone();
+    let x = vars.v[1].clone();
+    proto_vulcan!([|y, x| { |tz| { [1, 2 | tz] != [1, 2, 2], tz == [2] } }, [[[]]] == [[], 1]])
 }
 pub fn case_487(vars: &Vars) -> InferredGoal<DU, DE, Goal<DU, DE>> {
-    let x = vars.v[0].clone();
-    let y = vars.v[1].clone();
-    proto_vulcan!([[[[], y | x]] == [1, 'a'], matche y { [false, [t, z], [1] | h] => [matche [1] { [[3, t]] => append(x, y, [3]), }, |fresh_name_9| { member(z, []) }], [[z, _, y | x] | _] => { [y, x | 3] == y }, _ => { member(y, [1, 2, 3]) }, }, [[y | x]] == y])
+    let q = vars.v[0].clone();
+    let x = vars.v[1].clone();
+    proto_vulcan!([|fresh_name_9, x| { |tz| { [1, 2 | tz] != [1, 2, 2], tz == [2] } }, [[[]]] == [[], 1]])
 }
 pub fn case_488(vars: &Vars) -> InferredGoal<DU, DE, Goal<DU, DE>> {
-    let q = vars.v[0].clone();
-    let x = vars.v[1].clone();
-    proto_vulcan!([matche q { h => [[_, 2] == x, x == [h, ["bc", q], [h, h | x]]], [[1, 3, h]] => , }])
+    let x = vars.v[0].clone();
+    proto_vulcan!([|x, y| {  }, matche x { [x] => , }, matche x { h => [h == ([h], 2), |h, y| { |x| { h != 1 }, match h { Named { a: [], b: 2 } | _ => { true }, 2 | [[2, t], [y | _] | false] => , }, [y == []] }], [[x]] => , Named { a: 2, b: [2] } => , }, closure { [[|t| { t != [[x, x, t]] }, false]] }])
 }
 pub fn case_489(vars: &Vars) -> InferredGoal<DU, DE, Goal<DU, DE>> {
-    let q = vars.v[0].clone();
-    let x = vars.v[1].clone();
-    proto_vulcan!([matche q { h => [[_, 2] == x, x == [h, ["bc", q], [h, h | x]]], [[1, 3, fresh_name_9]] => , }])
+    let x = vars.v[0].clone();
+    proto_vulcan!([|x, y| {  }, matche x { [fresh_name_9] => , }, matche x { h => [h == ([h], 2), |h, y| { |x| { h != 1 }, match h { Named { a: [], b: 2 } | _ => { true }, 2 | [[2, t], [y | _] | false] => , }, [y == []] }], [[x]] => , Named { a: 2, b: [2] } => , }, closure { [[|t| { t != [[x, x, t]] }, false]] }])
 }
 pub fn case_490(vars: &Vars) -> InferredGoal<DU, DE, Goal<DU, DE>> {
-    let x = vars.v[0].clone();
-    let y = vars.v[1].clone();
-    proto_vulcan!([x != [y, y, y | 3], x == x, closure { [x == [], [matche x { [y, "a", [1, h]] => { h != x }, }]] }])
+    let q = vars.v[0].clone();
+    let x = vars.v[1].clone();
+    proto_vulcan!([true, append(x, x, [2]), conde { [matche [q, true, q] { y | h => , [h] => match q { P3(y, [1], t) => |tz| { [3 | tz] != [3, 2], tz == [2] }, }, }, true], [q != (x, _), _ == x], [] }])
 }
 pub fn case_491(vars: &Vars) -> InferredGoal<DU, DE, Goal<DU, DE>> {
-    let x = vars.v[0].clone();
-    let y = vars.v[1].clone();
-    proto_vulcan!([x != [y, y, y | 3], x == x, closure { [x == [], [matche x { [fresh_name_9, "a", [1, h]] => { h != x }, }]] }])
+    let q = vars.v[0].clone();
+    let x = vars.v[1].clone();
+    proto_vulcan!([true, append(x, x, [2]), conde { [matche [q, true, q] { y | h => , [h] => match q { P3(y, [1], t) => |fresh_name_9| { [3 | fresh_name_9] != [3, 2], fresh_name_9 == [2] }, }, }, true], [q != (x, _), _ == x], [] }])
 }
 pub fn case_492(vars: &Vars) -> InferredGoal<DU, DE, Goal<DU, DE>> {
     let x = vars.v[0].clone();
-    let y = vars.v[1].clone();
-    proto_vulcan!([|h, t| { h == [1 | x], [t == [], |t| { [[h, 1]] != [[_, y], [1, 1, 1], [3, y, "a" | h] | h], y == t }, |y| { 1 != h }] }, y != [[], 1, 3 | x], y != [[x] | x], closure { [[['b', "a", "bc" | x]] == _, matche y { [y, z] => , }, append(y, x, [3])] }])
+    proto_vulcan!([matche x { _ => [x == 7, x == 8], [y, [_]] | [[h], [x, [], []], true | _] => , }, closure { [x == (_, 3), [|y, x| { P3([_], 2, [3]) != [false, [1 | x], x], member(y, [2, 1]), P3(2, 2, x) == x }, match [x, true] { true => , [[_, t] | _] => { [[x, 3, x | x] | t] == ["a", [[] | t], 'b'] }, }]] }])
 }
 pub fn case_493(vars: &Vars) -> InferredGoal<DU, DE, Goal<DU, DE>> {
     let x = vars.v[0].clone();
-    let y = vars.v[1].clone();
-    proto_vulcan!([|fresh_name_9, t| { fresh_name_9 == [1 | x], [t == [], |t| { [[fresh_name_9, 1]] != [[_, y], [1, 1, 1], [3, y, "a" | fresh_name_9] | fresh_name_9], y == t }, |y| { 1 != fresh_name_9 }] }, y != [[], 1, 3 | x], y != [[x] | x], closure { [[['b', "a", "bc" | x]] == _, matche y { [y, z] => , }, append(y, x, [3])] }])
+    proto_vulcan!([matche x { _ => [x == 7, x == 8], [y, [_]] | [[h], [x, [], []], true | _] => , }, closure { [x == (_, 3), [|y, fresh_name_9| { P3([_], 2, [3]) != [false, [1 | fresh_name_9], fresh_name_9], member(y, [2, 1]), P3(2, 2, fresh_name_9) == fresh_name_9 }, match [x, true] { true => , [[_, t] | _] => { [[x, 3, x | x] | t] == ["a", [[] | t], 'b'] }, }]] }])
 }
 pub fn case_494(vars: &Vars) -> InferredGoal<DU, DE, Goal<DU, DE>> {
-    let x = vars.v[0].clone();
-    let y = vars.v[1].clone();
-    proto_vulcan!([|tz| { tz == [1], [2, 3, 1] != [2, 3 | tz] }, conde { [], [y == [y, 3, 2], match x { [[_, 1, [] | t]] => , 2 => , _ => matche y { [[[], []], [[], 3, []]] => [y == [y, x], [[2, 2], [2, 2 | x] | x] != y], y | [[z, 2, "a"] | z] => { "bc" == x, x != [2] }, }, }] }, [y != ["a"], |h| { |h, z| { h == [y, 1], h != h, h == [[_, 2], [z | h], [[] | z] | z] }, matche h { true => [y == [[x, [], 2], [[], 2 | 1]], h != [[]]], _ => member(h, [1, 2, 3]), } }]])
+    let q = vars.v[0].clone();
+    let x = vars.v[1].clone();
+    proto_vulcan!([matche "bc" { _ => [|tz| { [2, 3 | tz] != [2, 3, 3], tz == [3] }, |tz| { tz == [3], [2, 3] != [2 | tz] }], [[3, t], []] => member(x, [1, 3]), _ | Named { a: 3, b: 3 } => { [], match q { 'a' | 3 => [x == [[x, 1, _]], x == x], [[2, 2, 2 | 'b'] | h] => , } }, }, match [2, "bc" | _] { P3([], _, 3) => , y => [_ != x, P3(_, 3, q) == x], [[3, []]] | [y] => , }, |tz| { tz == [3], [3, 3] != [3 | tz] }, closure { match [2] { [[2] | y] => , "a" | [] => , } }])
 }
 pub fn case_495(vars: &Vars) -> InferredGoal<DU, DE, Goal<DU, DE>> {
-    let x = vars.v[0].clone();
-    let y = vars.v[1].clone();
-    proto_vulcan!([|fresh_name_9| { fresh_name_9 == [1], [2, 3, 1] != [2, 3 | fresh_name_9] }, conde { [], [y == [y, 3, 2], match x { [[_, 1, [] | t]] => , 2 => , _ => matche y { [[[], []], [[], 3, []]] => [y == [y, x], [[2, 2], [2, 2 | x] | x] != y], y | [[z, 2, "a"] | z] => { "bc" == x, x != [2] }, }, }] }, [y != ["a"], |h| { |h, z| { h == [y, 1], h != h, h == [[_, 2], [z | h], [[] | z] | z] }, matche h { true => [y == [[x, [], 2], [[], 2 | 1]], h != [[]]], _ => member(h, [1, 2, 3]), } }]])
+    let q = vars.v[0].clone();
+    let x = vars.v[1].clone();
+    proto_vulcan!([matche "bc" { _ => [|tz| { [2, 3 | tz] != [2, 3, 3], tz == [3] }, |tz| { tz == [3], [2, 3] != [2 | tz] }], [[3, t], []] => member(x, [1, 3]), _ | Named { a: 3, b: 3 } => { [], match q { 'a' | 3 => [x == [[x, 1, _]], x == x], [[2, 2, 2 | 'b'] | h] => , } }, }, match [2, "bc" | _] { P3([], _, 3) => , fresh_name_9 => [_ != x, P3(_, 3, q) == x], [[3, []]] | [y] => , }, |tz| { tz == [3], [3, 3] != [3 | tz] }, closure { match [2] { [[2] | y] => , "a" | [] => , } }])
 }
 pub fn case_496(vars: &Vars) -> InferredGoal<DU, DE, Goal<DU, DE>> {
     let x = vars.v[0].clone();
     let y = vars.v[1].clone();
-    proto_vulcan!([[true, x | y] == y, conde { [[member(y, [3, 2, 3])], y == x], conde { [x == [[x | x]], x == _], |z, y| { |tz| { tz == [3], [1, 1 | tz] != [1, 1, 3] }, [_, 'b'] == x }, x == [y, [], x | x] } }, [2 == y, match x { [[t, false, _ | _], 2 | y] => [matche x { _ => { x == 7, x == 8 }, ["a"] => { y != [true | t] }, [z, 2] => , }, matche y { [[x], [2, x] | x] => x == [1, x], }], }], closure { match x { [z] | [[y | 2] | h] => { member(x, [2, 1]), matche 2 { [y, [h, t, 2]] => , [["a"], [y]] => , [[3, 1], [2] | t] | [[z | _], h, 3 | x] => , } }, [x, z, [h, _]] => { [false, y == ['b', z | x]], [member(h, [1, 3]), z == [z, [z, x | x]], true != [[x], [_], [3]]] }, _ => { y == [_, [], y | y], append(y, y, [2]) }, } }])
+    proto_vulcan!([y != [_, y, x], |h| { (_, y) == h, matche 3 { _ => , } }, y == [1, [], 1]])
 }
 pub fn case_497(vars: &Vars) -> InferredGoal<DU, DE, Goal<DU, DE>> {
     let x = vars.v[0].clone();
     let y = vars.v[1].clone();
-    proto_vulcan!([[true, x | y] == y, conde { [[member(y, [3, 2, 3])], y == x], conde { [x == [[x | x]], x == _], |z, y| { |tz| { tz == [3], [1, 1 | tz] != [1, 1, 3] }, [_, 'b'] == x }, x == [y, [], x | x] } }, [2 == y, match x { [[t, false, _ | _], 2 | y] => [matche x { _ => { x == 7, x == 8 }, ["a"] => { y != [true | t] }, [z, 2] => , }, matche y { [[x], [2, x] | x] => x == [1, x], }], }], closure { match x { [z] | [[y | 2] | h] => { member(x, [2, 1]), matche 2 { [fresh_name_9, [h, t, 2]] => , [["a"], [y]] => , [[3, 1], [2] | t] | [[z | _], h, 3 | x] => , } }, [x, z, [h, _]] => { [false, y == ['b', z | x]], [member(h, [1, 3]), z == [z, [z, x | x]], true != [[x], [_], [3]]] }, _ => { y == [_, [], y | y], append(y, y, [2]) }, } }])
+    proto_vulcan!([y != [_, y, x], |fresh_name_9| { (_, y) == fresh_name_9, matche 3 { _ => , } }, y == [1, [], 1]])
 }
 pub fn case_498(vars: &Vars) -> InferredGoal<DU, DE, Goal<DU, DE>> {
-    let q = vars.v[0].clone();
-    let x = vars.v[1].clone();
-    proto_vulcan!([matche q { _ => { |z| { x == [3, z] } }, [[1 | x]] => { x == [2, []] }, [[2, [] | z], t | _] => { x == [z, 2, q | z] }, }])
+    let x = vars.v[0].clone();
+    let y = vars.v[1].clone();
+    proto_vulcan!([conde { [], |tz| { [2, 3, 3] != [2 | tz], tz == [3, 3] }, [|z, h| { x == [2, z | y], z == _, z == [_, y | _] }, x == y] }])
 }
 pub fn case_499(vars: &Vars) -> InferredGoal<DU, DE, Goal<DU, DE>> {
-    let q = vars.v[0].clone();
-    let x = vars.v[1].clone();
-    proto_vulcan!([matche q { _ => { |z| { x == [3, z] } }, [[1 | x]] => { x == [2, []] }, [[2, [] | fresh_name_9], t | _] => { x == [fresh_name_9, 2, q | fresh_name_9] }, }])
+    let x = vars.v[0].clone();
+    let y = vars.v[1].clone();
+    proto_vulcan!([conde { [], |tz| { [2, 3, 3] != [2 | tz], tz == [3, 3] }, [|z, fresh_name_9| { x == [2, z | y], z == _, z == [_, y | _] }, x == y] }])
 }
 pub fn case_500(vars: &Vars) -> InferredGoal<DU, DE, Goal<DU, DE>> {
     let x = vars.v[0].clone();
-    let y = vars.v[1].clone();
-    proto_vulcan!([x == y, |z| { append(y, x, [3]) }, |tz| { [2, 1, 2] != [2, 1 | tz], tz == [2] }])
+    proto_vulcan!([|x| { [_, x | x] == [[[], x], [_, 1], ['a', x] | x] }, |t| { conde { [_ == x, |z, y| { (_, _) == P3(t, 3, []), [x] == y, y == ([1], [1]) }] }, x == 2 }, { let c__: InferredGoal<DU, DE, Goal<DU, DE>> = proto_vulcan_closure!(|yy| { conde { [x == [yy | _], yy == 1], [x == [_, yy | _], yy == 2] } }); let g__: Goal<DU, DE> = ::proto_vulcan::GoalCast::cast_into(c__); let r__: InferredGoal<DU, DE, Goal<DU, DE>> = proto_vulcan!([g__.clone(), g__]); r__ }])
 }
 pub fn case_501(vars: &Vars) -> InferredGoal<DU, DE, Goal<DU, DE>> {
     let x = vars.v[0].clone();
-    let y = vars.v[1].clone();
-    proto_vulcan!([x == y, |fresh_name_9| { append(y, x, [3]) }, |tz| { [2, 1, 2] != [2, 1 | tz], tz == [2] }])
+    proto_vulcan!([|x| { [_, x | x] == [[[], x], [_, 1], ['a', x] | x] }, |t| { conde { [_ == x, |z, fresh_name_9| { (_, _) == P3(t, 3, []), [x] == fresh_name_9, fresh_name_9 == ([1], [1]) }] }, x == 2 }, { let c__: InferredGoal<DU, DE, Goal<DU, DE>> = proto_vulcan_closure!(|yy| { conde { [x == [yy | _], yy == 1], [x == [_, yy | _], yy == 2] } }); let g__: Goal<DU, DE> = ::proto_vulcan::GoalCast::cast_into(c__); let r__: InferredGoal<DU, DE, Goal<DU, DE>> = proto_vulcan!([g__.clone(), g__]); r__ }])
 }
 pub fn case_502(vars: &Vars) -> InferredGoal<DU, DE, Goal<DU, DE>> {
-    let q = vars.v[0].clone();
-    let x = vars.v[1].clone();
-    proto_vulcan!([conde { |x| { q == 'b', 3 == q, conde { [[1, 3, x] == q, member(x, [])], [x, 2, 2] == q, [[[], x | x], true, 1] == [2, false] } }, [member(q, [2])], x == [x | x] }, matche q { [[_, []]] => [q == [1], x == 2], t => { x == 3 }, 'b' => { [[true != [q, 'a' | _], [1, [[], _, x] | true] == x], member(x, [1, 2]), q != [true, q, q]] }, }, [[q] == x, q == q, [] != _]])
+    let x = vars.v[0].clone();
+    proto_vulcan!([x == [[2, x], x, 3], 3 == x, _ == (1, []), { let c__: InferredGoal<DU, DE, Goal<DU, DE>> = proto_vulcan_closure!(|yy| { conde { [x == [yy | _], yy == 1], [x == [_, yy | _], yy == 2] } }); let g__: Goal<DU, DE> = ::proto_vulcan::GoalCast::cast_into(c__); let r__: InferredGoal<DU, DE, Goal<DU, DE>> = proto_vulcan!([g__.clone(), g__]); r__ }])
 }
 pub fn case_503(vars: &Vars) -> InferredGoal<DU, DE, Goal<DU, DE>> {
-    let q = vars.v[0].clone();
-    let x = vars.v[1].clone();
-    proto_vulcan!([conde { |fresh_name_9| { q == 'b', 3 == q, conde { [[1, 3, fresh_name_9] == q, member(fresh_name_9, [])], [fresh_name_9, 2, 2] == q, [[[], fresh_name_9 | fresh_name_9], true, 1] == [2, false] } }, [member(q, [2])], x == [x | x] }, matche q { [[_, []]] => [q == [1], x == 2], t => { x == 3 }, 'b' => { [[true != [q, 'a' | _], [1, [[], _, x] | true] == x], member(x, [1, 2]), q != [true, q, q]] }, }, [[q] == x, q == q, [] != _]])
+    let x = vars.v[0].clone();
+    proto_vulcan!([x == [[2, x], x, 3], 3 == x, _ == (1, []), { let c__: InferredGoal<DU, DE, Goal<DU, DE>> = proto_vulcan_closure!(|fresh_name_9| { conde { [x == [fresh_name_9 | _], fresh_name_9 == 1], [x == [_, fresh_name_9 | _], fresh_name_9 == 2] } }); let g__: Goal<DU, DE> = ::proto_vulcan::GoalCast::cast_into(c__); let r__: InferredGoal<DU, DE, Goal<DU, DE>> = proto_vulcan!([g__.clone(), g__]); r__ }])
 }
 pub fn case_504(vars: &Vars) -> InferredGoal<DU, DE, Goal<DU, DE>> {
     let x = vars.v[0].clone();
-    proto_vulcan!([|tz| { tz == [3, 3], [3 | tz] != [3, 3, 3] }, [[], 1] != x])
+    let y = vars.v[1].clone();
+    proto_vulcan!([x == 2, x == _, { let c__: InferredGoal<DU, DE, Goal<DU, DE>> = proto_vulcan_closure!([|yy| { conde { [x == [yy | _], yy == 1], [x == [_, yy | _], yy == 2] } }, |z, t| { 1 == [z, [], [x, _, z]], t != [z, 2, []] }]); let g__: Goal<DU, DE> = ::proto_vulcan::GoalCast::cast_into(c__); let r__: InferredGoal<DU, DE, Goal<DU, DE>> = proto_vulcan!([g__.clone(), g__]); r__ }])
 }
 pub fn case_505(vars: &Vars) -> InferredGoal<DU, DE, Goal<DU, DE>> {
     let x = vars.v[0].clone();
-    proto_vulcan!([|fresh_name_9| { fresh_name_9 == [3, 3], [3 | fresh_name_9] != [3, 3, 3] }, [[], 1] != x])
+    let y = vars.v[1].clone();
+    proto_vulcan!([x == 2, x == _, { let c__: InferredGoal<DU, DE, Goal<DU, DE>> = proto_vulcan_closure!([|fresh_name_9| { conde { [x == [fresh_name_9 | _], fresh_name_9 == 1], [x == [_, fresh_name_9 | _], fresh_name_9 == 2] } }, |z, t| { 1 == [z, [], [x, _, z]], t != [z, 2, []] }]); let g__: Goal<DU, DE> = ::proto_vulcan::GoalCast::cast_into(c__); let r__: InferredGoal<DU, DE, Goal<DU, DE>> = proto_vulcan!([g__.clone(), g__]); r__ }])
 }
 pub fn case_506(vars: &Vars) -> InferredGoal<DU, DE, Goal<DU, DE>> {
     let x = vars.v[0].clone();
-    proto_vulcan!([x == [[x, x, []], x, x | x], x == [x, _], x == [x], closure { [[|z, h| {  }], |t| { [_, 1] == t, [_, _] == t, [[t, x] == x, t == [2, x]] }] }])
+    proto_vulcan!([[x, 'a', 1] == x, true, { let c__: InferredGoal<DU, DE, Goal<DU, DE>> = proto_vulcan_closure!(|yy| { conde { [x == [yy | _], yy == 1], [x == [_, yy | _], yy == 2] } }); let g__: Goal<DU, DE> = ::proto_vulcan::GoalCast::cast_into(c__); let r__: InferredGoal<DU, DE, Goal<DU, DE>> = proto_vulcan!([g__.clone(), g__]); r__ }])
 }
 pub fn case_507(vars: &Vars) -> InferredGoal<DU, DE, Goal<DU, DE>> {
     let x = vars.v[0].clone();
-    proto_vulcan!([x == [[x, x, []], x, x | x], x == [x, _], x == [x], closure { [[|fresh_name_9, h| {  }], |t| { [_, 1] == t, [_, _] == t, [[t, x] == x, t == [2, x]] }] }])
+    proto_vulcan!([[x, 'a', 1] == x, true, { let c__: InferredGoal<DU, DE, Goal<DU, DE>> = proto_vulcan_closure!(|fresh_name_9| { conde { [x == [fresh_name_9 | _], fresh_name_9 == 1], [x == [_, fresh_name_9 | _], fresh_name_9 == 2] } }); let g__: Goal<DU, DE> = ::proto_vulcan::GoalCast::cast_into(c__); let r__: InferredGoal<DU, DE, Goal<DU, DE>> = proto_vulcan!([g__.clone(), g__]); r__ }])
 }
 pub fn case_508(vars: &Vars) -> InferredGoal<DU, DE, Goal<DU, DE>> {
-    let x = vars.v[0].clone();
-    let y = vars.v[1].clone();
-    proto_vulcan!([match [[], "bc" | x] { _ => { x == 7, x == 8 }, [[[], 2, 2 | 1], [y, 1]] | [z] => , [[_, 2], "bc", [z, y, x]] => { x == [2, 1, 2] }, }, x != [3, x, _ | 2], [false, false]])
+    let q = vars.v[0].clone();
+    let x = vars.v[1].clone();
+    proto_vulcan!([conde { matche x { [false, [_, 1]] => (q, q) == q, [_, 3, x] => { match x { "a" => { [_ | 1] != x, P3([x], x, []) == q }, _ => [x == 7, x == 8], _ => { append(x, q, [1]), x != P3([], [2, 1], 1) }, }, |t| { [x] == [[q, t], x, []] } }, }, |x, t| { match t { [[[]], 2] | _ => { x != [[], 3 | 3] }, [[2, 'b', z | 1], [h | t]] | Named { a: [], b: 1 } => [[x, [x, 3, q], [] | false] != x, false], } }, [x == [1 | q], conde { [conde { [[]] == q, [q != [q | x], [q, [q, false, "a"] | x] == [[] | q]], [q == q, [1, x | q] == q] }, [x == [q | q]]], [[x != true, q == [2], [_, 'b', 'b' | _] == q], |tz| { [3, 3 | tz] != [3, 3, 2], tz == [2] }], [x == x, [x == [true], q == [1, 3, 2]]] }] }, match ['b', x] { [_] | _ => { [|tz| { tz == [1, 3], [2 | tz] != [2, 1, 3] }, x == _, match x { _ => [x == 7, x == 8], }] }, }, q == [[], 3]])
 }
 pub fn case_509(vars: &Vars) -> InferredGoal<DU, DE, Goal<DU, DE>> {
-    let x = vars.v[0].clone();
-    let y = vars.v[1].clone();
-    proto_vulcan!([match [[], "bc" | x] { _ => { x == 7, x == 8 }, [[[], 2, 2 | 1], [y, 1]] | [z] => , [[_, 2], "bc", [z, y, fresh_name_9]] => { fresh_name_9 == [2, 1, 2] }, }, x != [3, x, _ | 2], [false, false]])
+    let q = vars.v[0].clone();
+    let x = vars.v[1].clone();
+    proto_vulcan!([conde { matche x { [false, [_, 1]] => (q, q) == q, [_, 3, x] => { match x { "a" => { [_ | 1] != x, P3([x], x, []) == q }, _ => [x == 7, x == 8], _ => { append(x, q, [1]), x != P3([], [2, 1], 1) }, }, |t| { [x] == [[q, t], x, []] } }, }, |x, fresh_name_9| { match fresh_name_9 { [[[]], 2] | _ => { x != [[], 3 | 3] }, [[2, 'b', z | 1], [h | t]] | Named { a: [], b: 1 } => [[x, [x, 3, q], [] | false] != x, false], } }, [x == [1 | q], conde { [conde { [[]] == q, [q != [q | x], [q, [q, false, "a"] | x] == [[] | q]], [q == q, [1, x | q] == q] }, [x == [q | q]]], [[x != true, q == [2], [_, 'b', 'b' | _] == q], |tz| { [3, 3 | tz] != [3, 3, 2], tz == [2] }], [x == x, [x == [true], q == [1, 3, 2]]] }] }, match ['b', x] { [_] | _ => { [|tz| { tz == [1, 3], [2 | tz] != [2, 1, 3] }, x == _, match x { _ => [x == 7, x == 8], }] }, }, q == [[], 3]])
 }
 pub fn case_510(vars: &Vars) -> InferredGoal<DU, DE, Goal<DU, DE>> {
-    let q = vars.v[0].clone();
-    let x = vars.v[1].clone();
-    proto_vulcan!([[[q | 2], true | x] == [x, 2, 2], member(x, [1, 3]), conde { [conde { matche q { [[[], _, z], t] => [x == _, member(x, [2, 1, 1])], }, [|y| { |tz| { tz == [1, 2], [1 | tz] != [1, 1, 2] }, [2, _] != _, false }, [q == x]] }, [match x { 3 => , z | [3] => member(x, []), }, matche x { _ => { member(x, [1, 2, 3]) }, }]], x == x }, closure { [x == [_, q], q == _] }])
+    let x = vars.v[0].clone();
+    let y = vars.v[1].clone();
+    proto_vulcan!([P3([], x, 1) == y, |z, t| {  }, []])
 }
 pub fn case_511(vars: &Vars) -> InferredGoal<DU, DE, Goal<DU, DE>> {
-    let q = vars.v[0].clone();
-    let x = vars.v[1].clone();
-    proto_vulcan!([[[q | 2], true | x] == [x, 2, 2], member(x, [1, 3]), conde { [conde { matche q { [[[], _, fresh_name_9], t] => [x == _, member(x, [2, 1, 1])], }, [|y| { |tz| { tz == [1, 2], [1 | tz] != [1, 1, 2] }, [2, _] != _, false }, [q == x]] }, [match x { 3 => , z | [3] => member(x, []), }, matche x { _ => { member(x, [1, 2, 3]) }, }]], x == x }, closure { [x == [_, q], q == _] }])
+    let x = vars.v[0].clone();
+    let y = vars.v[1].clone();
+    proto_vulcan!([P3([], x, 1) == y, |fresh_name_9, t| {  }, []])
 }
 pub fn case_512(vars: &Vars) -> InferredGoal<DU, DE, Goal<DU, DE>> {
     let q = vars.v[0].clone();
     let x = vars.v[1].clone();
-    proto_vulcan!([conde { match q { [[1, _, []], [x | x], [1] | t] => { [x, 2] == q }, [[z, _, 3], 3, 2] => , }, [conde { matche 1 { [z] | [[y | _]] => _ != q, [["a", 1], t, y | _] => true, }, [[x] == x, matche x { [h] | y => { x != [1, 3, 2] }, y => , _ => [q == 7, q == 8], }], [|t| {  }, x != [[q]]] }, match x { [[x, 3, 1], [x, 1 | y]] => { match x { [[x, x, y]] => , _ => { q == 7, q == 8 }, } }, 1 => , }] }, match x { [] | [[h, y, true | 'b'], 2, [y, h]] => { x == q, x == 1 }, [[_], y, [1] | z] => , }])
+    proto_vulcan!([matche [q, q, [] | q] { t => , }, [] == x, closure { [[q, 2, 3], _ | x] == q }])
 }
 pub fn case_513(vars: &Vars) -> InferredGoal<DU, DE, Goal<DU, DE>> {
     let q = vars.v[0].clone();
     let x = vars.v[1].clone();
-    proto_vulcan!([conde { match q { [[1, _, []], [fresh_name_9 | fresh_name_9], [1] | t] => { [fresh_name_9, 2] == q }, [[z, _, 3], 3, 2] => , }, [conde { matche 1 { [z] | [[y | _]] => _ != q, [["a", 1], t, y | _] => true, }, [[x] == x, matche x { [h] | y => { x != [1, 3, 2] }, y => , _ => [q == 7, q == 8], }], [|t| {  }, x != [[q]]] }, match x { [[x, 3, 1], [x, 1 | y]] => { match x { [[x, x, y]] => , _ => { q == 7, q == 8 }, } }, 1 => , }] }, match x { [] | [[h, y, true | 'b'], 2, [y, h]] => { x == q, x == 1 }, [[_], y, [1] | z] => , }])
+    proto_vulcan!([matche [q, q, [] | q] { fresh_name_9 => , }, [] == x, closure { [[q, 2, 3], _ | x] == q }])
 }
 pub fn case_514(vars: &Vars) -> InferredGoal<DU, DE, Goal<DU, DE>> {
     let q = vars.v[0].clone();
     let x = vars.v[1].clone();
-    proto_vulcan!([|tz| { tz == [2, 2], [2, 3, 2, 2] != [2, 3 | tz] }, [match q { [[1 | x], 3, h] => |t, x| { x == [], [q, 1] == h }, [] => , }, append(x, x, [1]), [[[], x, x], [] | x] == q], closure { [true, |h| {  }] }])
+    proto_vulcan!([|y, t| { true, t == [2, _] }])
 }
 pub fn case_515(vars: &Vars) -> InferredGoal<DU, DE, Goal<DU, DE>> {
     let q = vars.v[0].clone();
     let x = vars.v[1].clone();
-    proto_vulcan!([|tz| { tz == [2, 2], [2, 3, 2, 2] != [2, 3 | tz] }, [match q { [[1 | x], 3, h] => |t, x| { x == [], [q, 1] == h }, [] => , }, append(x, x, [1]), [[[], x, x], [] | x] == q], closure { [true, |fresh_name_9| {  }] }])
+    proto_vulcan!([|fresh_name_9, t| { true, t == [2, _] }])
 }
 pub fn case_516(vars: &Vars) -> InferredGoal<DU, DE, Goal<DU, DE>> {
     let x = vars.v[0].clone();
     let y = vars.v[1].clone();
-    proto_vulcan!([|z| { conde { |z, t| { [z, 2] == [[], [[]], [[], 2]], [[], t, 3] != y, t == 1 }, 1 != y } }])
+    proto_vulcan!([[[y, 3, x | _], y, ['a', false | y]] != y, x == "bc", |y, z| { [[], 1] == z, y == 3 }])
 }
 pub fn case_517(vars: &Vars) -> InferredGoal<DU, DE, Goal<DU, DE>> {
     let x = vars.v[0].clone();
     let y = vars.v[1].clone();
-    proto_vulcan!([|z| { conde { |z, fresh_name_9| { [z, 2] == [[], [[]], [[], 2]], [[], fresh_name_9, 3] != y, fresh_name_9 == 1 }, 1 != y } }])
+    proto_vulcan!([[[y, 3, x | _], y, ['a', false | y]] != y, x == "bc", |fresh_name_9, z| { [[], 1] == z, fresh_name_9 == 3 }])
 }
 pub fn case_518(vars: &Vars) -> InferredGoal<DU, DE, Goal<DU, DE>> {
     let x = vars.v[0].clone();
-    proto_vulcan!([conde { [[[2], [x], [] | x] == x, match x { x => , }], [matche x { [2, [false, x | 2]] => , y => , }, [x] == x], [x == [x, [], x | x], x != "bc"] }, closure { [matche x { [2, z | _] | [y, 1, [[], 2]] => [x] == x, }, matche [x] { [[2, 1], h, []] => { h == [x | x], |x, t| { member(t, [1, 1]), t == x, [[h | x], 'a', [] | h] == t } }, }] }])
+    proto_vulcan!([|h, x| {  }])
 }
 pub fn case_519(vars: &Vars) -> InferredGoal<DU, DE, Goal<DU, DE>> {
     let x = vars.v[0].clone();
-    proto_vulcan!([conde { [[[2], [x], [] | x] == x, match x { x => , }], [matche x { [2, [false, x | 2]] => , y => , }, [x] == x], [x == [x, [], x | x], x != "bc"] }, closure { [matche x { [2, z | _] | [y, 1, [[], 2]] => [x] == x, }, matche [x] { [[2, 1], fresh_name_9, []] => { fresh_name_9 == [x | x], |x, t| { member(t, [1, 1]), t == x, [[fresh_name_9 | x], 'a', [] | fresh_name_9] == t } }, }] }])
+    proto_vulcan!([|h, fresh_name_9| {  }])
 }
 pub fn case_520(vars: &Vars) -> InferredGoal<DU, DE, Goal<DU, DE>> {
     let q = vars.v[0].clone();
     let x = vars.v[1].clone();
-    proto_vulcan!([[|tz| { [2 | tz] != [2, 2, 3], tz == [2, 3] }], conde { [], [false, [q, ['b', q, 1 | q], [x] | q] != q] }])
+    proto_vulcan!([[|x| { false }, |tz| { [1 | tz] != [1, 3], tz == [3] }, [matche q { [[[], z, x | _], [[]]] => { |tz| { [2, 1] != [2 | tz], tz == [1] } }, [[[]], 3] => append(x, x, [1, 3]), [[x, [], t], [t], [h, x | _]] => true, }]], ['b', 2 | q] == x])
 }
 pub fn case_521(vars: &Vars) -> InferredGoal<DU, DE, Goal<DU, DE>> {
     let q = vars.v[0].clone();
     let x = vars.v[1].clone();
-    proto_vulcan!([[|fresh_name_9| { [2 | fresh_name_9] != [2, 2, 3], fresh_name_9 == [2, 3] }], conde { [], [false, [q, ['b', q, 1 | q], [x] | q] != q] }])
+    proto_vulcan!([[|x| { false }, |tz| { [1 | tz] != [1, 3], tz == [3] }, [matche q { [[[], fresh_name_9, x | _], [[]]] => { |tz| { [2, 1] != [2 | tz], tz == [1] } }, [[[]], 3] => append(x, x, [1, 3]), [[x, [], t], [t], [h, x | _]] => true, }]], ['b', 2 | q] == x])
 }
 pub fn case_522(vars: &Vars) -> InferredGoal<DU, DE, Goal<DU, DE>> {
-    let q = vars.v[0].clone();
-    let x = vars.v[1].clone();
-    proto_vulcan!([|x| { |z, y| { q != x, [[x] == x, true, [x, 2, y] == q], conde { [[2, []], 'b'] == z } }, append(x, x, [3]), 1 == q }, x == q, closure { [[], [1]] == [2, [], x | "a"] }])
+    let x = vars.v[0].clone();
+    let y = vars.v[1].clone();
+    proto_vulcan!([member(y, [3, 1, 3]), matche y { h | [1] => |y, z| { |t| { x == 3 } }, Named { a: 3, b: 3 } => [x == [true, _], member(x, [])], [2, z, [y, 1, _]] | Named { a: [], b: [] } => x == [_, []], }, conde { x != [x], [[match x { [_, [_, x, 2]] => [x == [x, false, 3], [x, true] == y], z => [z != [y, y], (_, 1) == x], }], _ == (_, 1)], [] }, closure { 1 != x }])
 }
 pub fn case_523(vars: &Vars) -> InferredGoal<DU, DE, Goal<DU, DE>> {
-    let q = vars.v[0].clone();
-    let x = vars.v[1].clone();
-    proto_vulcan!([|x| { |fresh_name_9, y| { q != x, [[x] == x, true, [x, 2, y] == q], conde { [[2, []], 'b'] == fresh_name_9 } }, append(x, x, [3]), 1 == q }, x == q, closure { [[], [1]] == [2, [], x | "a"] }])
+    let x = vars.v[0].clone();
+    let y = vars.v[1].clone();
+    proto_vulcan!([member(y, [3, 1, 3]), matche y { h | [1] => |y, fresh_name_9| { |t| { x == 3 } }, Named { a: 3, b: 3 } => [x == [true, _], member(x, [])], [2, z, [y, 1, _]] | Named { a: [], b: [] } => x == [_, []], }, conde { x != [x], [[match x { [_, [_, x, 2]] => [x == [x, false, 3], [x, true] == y], z => [z != [y, y], (_, 1) == x], }], _ == (_, 1)], [] }, closure { 1 != x }])
 }
 pub fn case_524(vars: &Vars) -> InferredGoal<DU, DE, Goal<DU, DE>> {
     let x = vars.v[0].clone();
-    proto_vulcan!([[x, [], _] == x, |t, h| { |t, z| { |z| { append(x, z, [1, 3]) }, |z| { h == t, true, [t | t] == t }, t != [x, [], 1 | z] }, 1 == t }, |h, t| { t == h, h == x, match t { [[_, 3, z], _ | y] => [[[1, _, h], [2, false, 2 | h]] == [[1 | x], [t, x]], [h, y, 'a'] != h], } }, closure { [1, x, []] == x }])
+    let y = vars.v[1].clone();
+    proto_vulcan!([|t| { [2, [y]] == x }, |tz| { tz == [3], [1, 3] != [1 | tz] }, closure { [P3([x, 1], [], 1) == y, [] == x] }])
 }
 pub fn case_525(vars: &Vars) -> InferredGoal<DU, DE, Goal<DU, DE>> {
     let x = vars.v[0].clone();
-    proto_vulcan!([[x, [], _] == x, |t, h| { |t, z| { |z| { append(x, z, [1, 3]) }, |z| { h == t, true, [t | t] == t }, t != [x, [], 1 | z] }, 1 == t }, |h, t| { t == h, h == x, match t { [[_, 3, fresh_name_9], _ | y] => [[[1, _, h], [2, false, 2 | h]] == [[1 | x], [t, x]], [h, y, 'a'] != h], } }, closure { [1, x, []] == x }])
+    let y = vars.v[1].clone();
+    proto_vulcan!([|t| { [2, [y]] == x }, |fresh_name_9| { fresh_name_9 == [3], [1, 3] != [1 | fresh_name_9] }, closure { [P3([x, 1], [], 1) == y, [] == x] }])
 }
 pub fn case_526(vars: &Vars) -> InferredGoal<DU, DE, Goal<DU, DE>> {
     let x = vars.v[0].clone();
     let y = vars.v[1].clone();
-    proto_vulcan!([y != [_, _], conde { |y, z| { true, x == y, y == [y] }, [1, x | y] == [[], [2, 2, []]], _ == x }])
+    proto_vulcan!([|x, t| { 1 == (x, x), [y] == y }, append(y, x, [1, 1]), [|t, h| { [x, _, x] == t, matche h { [[h, 1 | z], [x, _, h]] => { y == 2 }, } }]])
 }
 pub fn case_527(vars: &Vars) -> InferredGoal<DU, DE, Goal<DU, DE>> {
     let x = vars.v[0].clone();
     let y = vars.v[1].clone();
-    proto_vulcan!([y != [_, _], conde { |y, fresh_name_9| { true, x == y, y == [y] }, [1, x | y] == [[], [2, 2, []]], _ == x }])
+    proto_vulcan!([|x, fresh_name_9| { 1 == (x, x), [y] == y }, append(y, x, [1, 1]), [|t, h| { [x, _, x] == t, matche h { [[h, 1 | z], [x, _, h]] => { y == 2 }, } }]])
 }
 pub fn case_528(vars: &Vars) -> InferredGoal<DU, DE, Goal<DU, DE>> {
     let x = vars.v[0].clone();
-    proto_vulcan!([[1] != [[1, x], [_, 1] | x], match x { [[3 | _] | z] => conde { _ == x, |y, x| { append(y, x, [2, 3]), append(x, x, [3, 3]) } }, [[2], z | _] => x == [], [3, [y, 3], [h, t, 2]] => { |x, h| { matche y { [["a", t | x], 2] => , y | 2 => true, [[1], [2, h], [z, 2]] => , }, h == h }, [conde { [[x, x | y], [x], [3, y]] == y, true, [[]] != h }, [h, [y, t, [] | t] | h] == [[2, h] | y]] }, }])
+    proto_vulcan!([[x == x, |t| { [t, 2, t] == t, conde { [1 != P3(3, [], x), false], [2, x] == t } }, [[] == x, [x, [], x] == x]], |z, x| {  }, |t, h| { true }, { let c__: InferredGoal<DU, DE, Goal<DU, DE>> = proto_vulcan_closure!([|yy| { conde { [x == [yy | _], yy == 1], [x == [_, yy | _], yy == 2] } }, matche x { Named { a: [], b: z } => { [2, z] == x, append(z, x, [2]) }, [[z, 1, x], [3], x | _] => false, }]); let g__: Goal<DU, DE> = ::proto_vulcan::GoalCast::cast_into(c__); let r__: InferredGoal<DU, DE, Goal<DU, DE>> = proto_vulcan!([g__.clone(), g__]); r__ }])
 }
 pub fn case_529(vars: &Vars) -> InferredGoal<DU, DE, Goal<DU, DE>> {
     let x = vars.v[0].clone();
-    proto_vulcan!([[1] != [[1, x], [_, 1] | x], match x { [[3 | _] | z] => conde { _ == x, |y, x| { append(y, x, [2, 3]), append(x, x, [3, 3]) } }, [[2], z | _] => x == [], [3, [y, 3], [h, fresh_name_9, 2]] => { |x, h| { matche y { [["a", t | x], 2] => , y | 2 => true, [[1], [2, h], [z, 2]] => , }, h == h }, [conde { [[x, x | y], [x], [3, y]] == y, true, [[]] != h }, [h, [y, fresh_name_9, [] | fresh_name_9] | h] == [[2, h] | y]] }, }])
+    proto_vulcan!([[x == x, |t| { [t, 2, t] == t, conde { [1 != P3(3, [], x), false], [2, x] == t } }, [[] == x, [x, [], x] == x]], |fresh_name_9, x| {  }, |t, h| { true }, { let c__: InferredGoal<DU, DE, Goal<DU, DE>> = proto_vulcan_closure!([|yy| { conde { [x == [yy | _], yy == 1], [x == [_, yy | _], yy == 2] } }, matche x { Named { a: [], b: z } => { [2, z] == x, append(z, x, [2]) }, [[z, 1, x], [3], x | _] => false, }]); let g__: Goal<DU, DE> = ::proto_vulcan::GoalCast::cast_into(c__); let r__: InferredGoal<DU, DE, Goal<DU, DE>> = proto_vulcan!([g__.clone(), g__]); r__ }])
 }
 pub fn case_530(vars: &Vars) -> InferredGoal<DU, DE, Goal<DU, DE>> {
-    let q = vars.v[0].clone();
-    let x = vars.v[1].clone();
-    proto_vulcan!([conde { [[x, false], [1, x, x]] == [false, x | true], [|y| { [[[], [], y | q], 1, [y, x | y]] == y }, q == [[[] | x]]], x == q }])
+    let x = vars.v[0].clone();
+    let y = vars.v[1].clone();
+    proto_vulcan!([_ == x, [[conde { [[y, _, 2] == x, ([], _) != x] }, y == x], conde { [], |h, x| { append(y, h, [3, 1]) } }], y == [x, []]])
 }
 pub fn case_531(vars: &Vars) -> InferredGoal<DU, DE, Goal<DU, DE>> {
-    let q = vars.v[0].clone();
-    let x = vars.v[1].clone();
-    proto_vulcan!([conde { [[x, false], [1, x, x]] == [false, x | true], [|fresh_name_9| { [[[], [], fresh_name_9 | q], 1, [fresh_name_9, x | fresh_name_9]] == fresh_name_9 }, q == [[[] | x]]], x == q }])
+    let x = vars.v[0].clone();
+    let y = vars.v[1].clone();
+    proto_vulcan!([_ == x, [[conde { [[y, _, 2] == x, ([], _) != x] }, y == x], conde { [], |h, fresh_name_9| { append(y, h, [3, 1]) } }], y == [x, []]])
 }
 pub fn case_532(vars: &Vars) -> InferredGoal<DU, DE, Goal<DU, DE>> {
-    let x = vars.v[0].clone();
-    let y = vars.v[1].clone();
-    proto_vulcan!([false, matche y { [[x, "bc" | 1]] | [[3] | x] => [x, x | x] == x, [[t, _], [z, 2 | _], [h | 2] | z] => 2 == h, t => { y == [t] }, }])
+    let q = vars.v[0].clone();
+    let x = vars.v[1].clone();
+    proto_vulcan!([|x, h| { |h, x| { |t| { [[], [_, _ | x]] == [[x | h], [x | x], 'b' | h], x == _ } } }, |t, z| { P3([], _, t) == x, x == (x, x) }])
 }
 pub fn case_533(vars: &Vars) -> InferredGoal<DU, DE, Goal<DU, DE>> {
-    let x = vars.v[0].clone();
-    let y = vars.v[1].clone();
-    proto_vulcan!([false, matche y { [[x, "bc" | 1]] | [[3] | x] => [x, x | x] == x, [[t, _], [z, 2 | _], [h | 2] | z] => 2 == h, fresh_name_9 => { y == [fresh_name_9] }, }])
+    let q = vars.v[0].clone();
+    let x = vars.v[1].clone();
+    proto_vulcan!([|x, h| { |fresh_name_9, x| { |t| { [[], [_, _ | x]] == [[x | fresh_name_9], [x | x], 'b' | fresh_name_9], x == _ } } }, |t, z| { P3([], _, t) == x, x == (x, x) }])
 }
 pub fn case_534(vars: &Vars) -> InferredGoal<DU, DE, Goal<DU, DE>> {
-    let q = vars.v[0].clone();
-    let x = vars.v[1].clone();
-    proto_vulcan!([|y| { x == [x, _], y == x, matche x { 1 => , [h, y] => { matche q { _ | [[_ | y], y, 1] => { true, [_] == h }, _ => { [1] == q }, [x, [true | x]] => , }, y != q }, } }, conde { q == _, [|t| { [[1, false, [_, x]] == t], append(q, q, [3, 2]), match t { _ => { member(t, [1, 2, 3]) }, _ => { [2, q] == t }, true => , } }, ['a' | x] == q], [x == [false, _, q], [1, 1, q] == x] }, [] == _])
+    let x = vars.v[0].clone();
+    proto_vulcan!([true, matche x { Named { a: y, b: z } => [[y, 2] == z, z == y], _ | [[[]], x, 2] => , }, match x { [[2, y, 3 | t], [1], 'a'] | t => false, _ => { |z, t| { |tz| { tz == [3, 3], [3, 1, 3, 3] != [3, 1 | tz] } }, 3 == (x, [x, 3]) }, }])
 }
 pub fn case_535(vars: &Vars) -> InferredGoal<DU, DE, Goal<DU, DE>> {
-    let q = vars.v[0].clone();
-    let x = vars.v[1].clone();
-    proto_vulcan!([|y| { x == [x, _], y == x, matche x { 1 => , [h, y] => { matche q { _ | [[_ | y], y, 1] => { true, [_] == h }, _ => { [1] == q }, [x, [true | x]] => , }, y != q }, } }, conde { q == _, [|fresh_name_9| { [[1, false, [_, x]] == fresh_name_9], append(q, q, [3, 2]), match fresh_name_9 { _ => { member(fresh_name_9, [1, 2, 3]) }, _ => { [2, q] == fresh_name_9 }, true => , } }, ['a' | x] == q], [x == [false, _, q], [1, 1, q] == x] }, [] == _])
+    let x = vars.v[0].clone();
+    proto_vulcan!([true, matche x { Named { a: y, b: z } => [[y, 2] == z, z == y], _ | [[[]], x, 2] => , }, match x { [[2, y, 3 | t], [1], 'a'] | t => false, _ => { |fresh_name_9, t| { |tz| { tz == [3, 3], [3, 1, 3, 3] != [3, 1 | tz] } }, 3 == (x, [x, 3]) }, }])
 }
 pub fn case_536(vars: &Vars) -> InferredGoal<DU, DE, Goal<DU, DE>> {
     let x = vars.v[0].clone();
-    proto_vulcan!([|y| { false, matche x { [[[], 3], [], [2, [] | _] | h] => , ["bc", [x, 1, 1], 3] | _ => , } }, [x != [2, "a"], [member(x, [2, 2, 3]), 3 == x], false], []])
+    proto_vulcan!([[1 != x, conde { conde { [x == 'b', |tz| { tz == [3], [2, 3 | tz] != [2, 3, 3] }], [[x, [], 1] == x, false] }, [], |t| { true, t == t, t != t } }, x != 2], match x { [1 | _] => [x == P3(2, x, _), [[3, x, 1 | x], x, _] == [2, [x] | x]], }, x != [x, 1, 1], closure { [[x == [x], x == [[]]], [member(x, [2]), conde { [], [[x, [], []] != x, [] != x], |tz| { tz == [3], [3 | tz] != [3, 3] } }, x == [x, x]]] }])
 }
 pub fn case_537(vars: &Vars) -> InferredGoal<DU, DE, Goal<DU, DE>> {
     let x = vars.v[0].clone();
-    proto_vulcan!([|fresh_name_9| { false, matche x { [[[], 3], [], [2, [] | _] | h] => , ["bc", [x, 1, 1], 3] | _ => , } }, [x != [2, "a"], [member(x, [2, 2, 3]), 3 == x], false], []])
+    proto_vulcan!([[1 != x, conde { conde { [x == 'b', |tz| { tz == [3], [2, 3 | tz] != [2, 3, 3] }], [[x, [], 1] == x, false] }, [], |fresh_name_9| { true, fresh_name_9 == fresh_name_9, fresh_name_9 != fresh_name_9 } }, x != 2], match x { [1 | _] => [x == P3(2, x, _), [[3, x, 1 | x], x, _] == [2, [x] | x]], }, x != [x, 1, 1], closure { [[x == [x], x == [[]]], [member(x, [2]), conde { [], [[x, [], []] != x, [] != x], |tz| { tz == [3], [3 | tz] != [3, 3] } }, x == [x, x]]] }])
 }
 pub fn case_538(vars: &Vars) -> InferredGoal<DU, DE, Goal<DU, DE>> {
-    let q = vars.v[0].clone();
-    let x = vars.v[1].clone();
-    proto_vulcan!([q != 1, |x| { |tz| { tz == [1], [1, 3 | tz] != [1, 3, 1] }, match x { [2, 1 | t] => match [1, 3, q] { _ => { 2 == q, member(x, []) }, }, 2 => , _ | _ => [[] != [q, []], false], }, |z| { false, [_, z, x] != [[1, 3, x | q], [[], z], [_, 3, 1]], conde { z != x, true, [_ == [x | z], true] } } }, |z| { |h| { [x, 'a', x | 1] == x }, z == [x] }])
+    let x = vars.v[0].clone();
+    let y = vars.v[1].clone();
+    proto_vulcan!([[2, y, []] == y, [y, y, x] == x, |y, z| { y != [] }, { let c__: InferredGoal<DU, DE, Goal<DU, DE>> = proto_vulcan_closure!(|yy| { conde { [y == [yy | _], yy == 1], [y == [_, yy | _], yy == 2] } }); let g__: Goal<DU, DE> = ::proto_vulcan::GoalCast::cast_into(c__); let r__: InferredGoal<DU, DE, Goal<DU, DE>> = proto_vulcan!([g__.clone(), g__]); r__ }])
 }
 pub fn case_539(vars: &Vars) -> InferredGoal<DU, DE, Goal<DU, DE>> {
-    let q = vars.v[0].clone();
-    let x = vars.v[1].clone();
-    proto_vulcan!([q != 1, |x| { |tz| { tz == [1], [1, 3 | tz] != [1, 3, 1] }, match x { [2, 1 | t] => match [1, 3, q] { _ => { 2 == q, member(x, []) }, }, 2 => , _ | _ => [[] != [q, []], false], }, |z| { false, [_, z, x] != [[1, 3, x | q], [[], z], [_, 3, 1]], conde { z != x, true, [_ == [x | z], true] } } }, |fresh_name_9| { |h| { [x, 'a', x | 1] == x }, fresh_name_9 == [x] }])
+    let x = vars.v[0].clone();
+    let y = vars.v[1].clone();
+    proto_vulcan!([[2, y, []] == y, [y, y, x] == x, |y, z| { y != [] }, { let c__: InferredGoal<DU, DE, Goal<DU, DE>> = proto_vulcan_closure!(|fresh_name_9| { conde { [y == [fresh_name_9 | _], fresh_name_9 == 1], [y == [_, fresh_name_9 | _], fresh_name_9 == 2] } }); let g__: Goal<DU, DE> = ::proto_vulcan::GoalCast::cast_into(c__); let r__: InferredGoal<DU, DE, Goal<DU, DE>> = proto_vulcan!([g__.clone(), g__]); r__ }])
 }
 pub fn case_540(vars: &Vars) -> InferredGoal<DU, DE, Goal<DU, DE>> {
-    let q = vars.v[0].clone();
-    let x = vars.v[1].clone();
-    proto_vulcan!([[2, _, 'b'] == [[q, x, []], true, [[], 'a']], closure { [matche q { _ | [[x], [y, 3, []]] => [[[_, 3] | q] == [1], _ == [q, [_, 1] | q]], [[_, h], [_, 3]] => [[2, q, 1] != x, true], [[_, 1, []], [2, [], _]] => { member(q, []) }, }, q != "a", match x { _ => { x == 7, x == 8 }, }] }])
+    let x = vars.v[0].clone();
+    let y = vars.v[1].clone();
+    proto_vulcan!([match y { [h, [y], y | x] => { |x| { conde { append(y, x, [1, 3]), [x == false, y == ([[]], [_])], [2 != x, y == 3] } } }, Named { a: _, b: [] } => , }, false, ([], 3) == x])
 }
 pub fn case_541(vars: &Vars) -> InferredGoal<DU, DE, Goal<DU, DE>> {
-    let q = vars.v[0].clone();
-    let x = vars.v[1].clone();
-    proto_vulcan!([[2, _, 'b'] == [[q, x, []], true, [[], 'a']], closure { [matche q { _ | [[x], [y, 3, []]] => [[[_, 3] | q] == [1], _ == [q, [_, 1] | q]], [[_, fresh_name_9], [_, 3]] => [[2, q, 1] != x, true], [[_, 1, []], [2, [], _]] => { member(q, []) }, }, q != "a", match x { _ => { x == 7, x == 8 }, }] }])
+    let x = vars.v[0].clone();
+    let y = vars.v[1].clone();
+    proto_vulcan!([match y { [h, [fresh_name_9], fresh_name_9 | x] => { |x| { conde { append(fresh_name_9, x, [1, 3]), [x == false, fresh_name_9 == ([[]], [_])], [2 != x, fresh_name_9 == 3] } } }, Named { a: _, b: [] } => , }, false, ([], 3) == x])
 }
 pub fn case_542(vars: &Vars) -> InferredGoal<DU, DE, Goal<DU, DE>> {
     let x = vars.v[0].clone();
-    proto_vulcan!([x == x, closure { [[2] == x, |t| { |tz| { tz == [3, 1], [3, 2, 3, 1] != [3, 2 | tz] } }] }])
+    proto_vulcan!([[1, x, [2 | x]] == x, P3([], 1, x) != [x | _], |h, t| { match [t | t] { [[[], h, 'b'], [3, [], t | t], "a"] => { false, |h, z| {  } }, _ => , }, false }, closure { 2 == x }])
 }
 pub fn case_543(vars: &Vars) -> InferredGoal<DU, DE, Goal<DU, DE>> {
     let x = vars.v[0].clone();
-    proto_vulcan!([x == x, closure { [[2] == x, |t| { |fresh_name_9| { fresh_name_9 == [3, 1], [3, 2, 3, 1] != [3, 2 | fresh_name_9] } }] }])
+    proto_vulcan!([[1, x, [2 | x]] == x, P3([], 1, x) != [x | _], |h, t| { match [t | t] { [[[], h, 'b'], [3, [], t | t], "a"] => { false, |h, fresh_name_9| {  } }, _ => , }, false }, closure { 2 == x }])
 }
 pub fn case_544(vars: &Vars) -> InferredGoal<DU, DE, Goal<DU, DE>> {
     let q = vars.v[0].clone();
     let x = vars.v[1].clone();
-    proto_vulcan!([|z| { false, match x { [[1, 1, 2], 1, [y, 2 | _]] => { |y| { 2 == x, y != y, [q, 2, _ | y] == y }, [] }, _ => { q == 7, q == 8 }, } }, _ == q, [[[]], 1 | q] == x])
+    proto_vulcan!([conde { |t| { match t { [[2] | z] => , P3(2, x, [_, h]) => { [] != x }, } }, (1, 3) == ([2, 3], 1) }, closure { |x| {  } }])
 }
 pub fn case_545(vars: &Vars) -> InferredGoal<DU, DE, Goal<DU, DE>> {
     let q = vars.v[0].clone();
     let x = vars.v[1].clone();
-    proto_vulcan!([|z| { false, match x { [[1, 1, 2], 1, [fresh_name_9, 2 | _]] => { |y| { 2 == x, y != y, [q, 2, _ | y] == y }, [] }, _ => { q == 7, q == 8 }, } }, _ == q, [[[]], 1 | q] == x])
+    proto_vulcan!([conde { |t| { match t { [[2] | fresh_name_9] => , P3(2, x, [_, h]) => { [] != x }, } }, (1, 3) == ([2, 3], 1) }, closure { |x| {  } }])
 }
 pub fn case_546(vars: &Vars) -> InferredGoal<DU, DE, Goal<DU, DE>> {
     let x = vars.v[0].clone();
-    let y = vars.v[1].clone();
-    proto_vulcan!([[1, 1] != x, matche x { 3 => |tz| { tz == [2], [2, 1, 2] != [2, 1 | tz] }, }])
+    proto_vulcan!([false, matche x { _ => { [x == P3([2, 2], 2, 3), |t| { append(t, x, [3]), t == (3, [t, 2]), t == P3([], x, [_, 2]) }, matche x { [_, [1, z, []], [t]] => , Named { a: 2, b: h } => member(x, [3]), }], P3([[], []], x, _) == x }, [z, x] => x == 3, }])
 }
 pub fn case_547(vars: &Vars) -> InferredGoal<DU, DE, Goal<DU, DE>> {
     let x = vars.v[0].clone();
-    let y = vars.v[1].clone();
-    proto_vulcan!([[1, 1] != x, matche x { 3 => |fresh_name_9| { fresh_name_9 == [2], [2, 1, 2] != [2, 1 | fresh_name_9] }, }])
+    proto_vulcan!([false, matche x { _ => { [x == P3([2, 2], 2, 3), |t| { append(t, x, [3]), t == (3, [t, 2]), t == P3([], x, [_, 2]) }, matche x { [_, [1, z, []], [t]] => , Named { a: 2, b: h } => member(x, [3]), }], P3([[], []], x, _) == x }, [fresh_name_9, x] => x == 3, }])
 }
 pub fn case_548(vars: &Vars) -> InferredGoal<DU, DE, Goal<DU, DE>> {
     let x = vars.v[0].clone();
-    proto_vulcan!([matche x { [[[]], [false, 1, 3]] | [z, y, [t | z]] => { |x, h| { conde { 2 == h }, |tz| { [2, 2, 2] != [2 | tz], tz == [2, 2] }, member(x, [3, 2]) } }, 1 | [[2], ["bc", "a", 2]] => , }, |y| { conde { append(y, y, [2, 1]), [[[y], [x, x, y] | y] == x, append(y, y, [2, 2])], |x, t| { x != y } }, |t| { [[] == x, 2 == y], y == [y], x == 3 }, x == [1, x, x | x] }, conde { [3, [], x] != x, [] == x }])
+    proto_vulcan!([|tz| { tz == [1], [2, 1] != [2 | tz] }, false, closure { match [true, 2, x | x] { [[z, y], [], 3] | P3(h, z, h) => { [x, 2 | x] == [x, [_, 3]] }, P3(_, [_, 2], []) => , } }])
 }
 pub fn case_549(vars: &Vars) -> InferredGoal<DU, DE, Goal<DU, DE>> {
     let x = vars.v[0].clone();
-    proto_vulcan!([matche x { [[[]], [false, 1, 3]] | [z, y, [t | z]] => { |x, h| { conde { 2 == h }, |tz| { [2, 2, 2] != [2 | tz], tz == [2, 2] }, member(x, [3, 2]) } }, 1 | [[2], ["bc", "a", 2]] => , }, |y| { conde { append(y, y, [2, 1]), [[[y], [x, x, y] | y] == x, append(y, y, [2, 2])], |x, t| { x != y } }, |fresh_name_9| { [[] == x, 2 == y], y == [y], x == 3 }, x == [1, x, x | x] }, conde { [3, [], x] != x, [] == x }])
+    proto_vulcan!([|fresh_name_9| { fresh_name_9 == [1], [2, 1] != [2 | fresh_name_9] }, false, closure { match [true, 2, x | x] { [[z, y], [], 3] | P3(h, z, h) => { [x, 2 | x] == [x, [_, 3]] }, P3(_, [_, 2], []) => , } }])
 }
 pub fn case_550(vars: &Vars) -> InferredGoal<DU, DE, Goal<DU, DE>> {
     let x = vars.v[0].clone();
-    proto_vulcan!([|h| { x == [false], _ == [_, h] }, conde { [true, x == [x, x, 1]], conde { [|t, x| { [x, t, t] != x, false }, |t| { [true] == t, x != [[2, x]] }], |t, h| { h == [_, h, 'b' | t], h != [[t], [2], x | t], |tz| { [2, 1 | tz] != [2, 1, 2], tz == [2] } }, |x| { _ == x, x == x } }, [[|tz| { tz == [1, 2], [3, 2, 1, 2] != [3, 2 | tz] }], |tz| { tz == [3], [2, 3] != [2 | tz] }] }, conde { [|tz| { tz == [3, 1], [3 | tz] != [3, 3, 1] }, x == true], [false, match 'a' { _ => [x == 7, x == 8], 'a' | _ => { match x { _ => [x == 7, x == 8], [] => [[] == x, x == [3]], [[_, [], "a"], [false, _ | y]] => , }, |t| { 1 == x, append(t, t, [1, 1]) } }, [y, [3]] => , }], [] }])
+    let y = vars.v[1].clone();
+    proto_vulcan!([x == [y, y], |tz| { tz == [3], [3, 3] != [3 | tz] }])
 }
 pub fn case_551(vars: &Vars) -> InferredGoal<DU, DE, Goal<DU, DE>> {
     let x = vars.v[0].clone();
-    proto_vulcan!([|h| { x == [false], _ == [_, h] }, conde { [true, x == [x, x, 1]], conde { [|t, fresh_name_9| { [fresh_name_9, t, t] != fresh_name_9, false }, |t| { [true] == t, x != [[2, x]] }], |t, h| { h == [_, h, 'b' | t], h != [[t], [2], x | t], |tz| { [2, 1 | tz] != [2, 1, 2], tz == [2] } }, |x| { _ == x, x == x } }, [[|tz| { tz == [1, 2], [3, 2, 1, 2] != [3, 2 | tz] }], |tz| { tz == [3], [2, 3] != [2 | tz] }] }, conde { [|tz| { tz == [3, 1], [3 | tz] != [3, 3, 1] }, x == true], [false, match 'a' { _ => [x == 7, x == 8], 'a' | _ => { match x { _ => [x == 7, x == 8], [] => [[] == x, x == [3]], [[_, [], "a"], [false, _ | y]] => , }, |t| { 1 == x, append(t, t, [1, 1]) } }, [y, [3]] => , }], [] }])
+    let y = vars.v[1].clone();
+    proto_vulcan!([x == [y, y], |fresh_name_9| { fresh_name_9 == [3], [3, 3] != [3 | fresh_name_9] }])
 }
 pub fn case_552(vars: &Vars) -> InferredGoal<DU, DE, Goal<DU, DE>> {
     let x = vars.v[0].clone();
-    proto_vulcan!([conde { [1 == x, x == [1, 2, [3, 2 | x] | x]], |tz| { [1, 3, 1] != [1, 3 | tz], tz == [1] }, [["bc", 'a'] != x, true] }, x != x])
+    let y = vars.v[1].clone();
+    proto_vulcan!([[|z| { 3 == z }, conde { [], [[[], x] == _, x != 'a'] }, x == 2], |tz| { tz == [1, 2], [3, 1, 2] != [3 | tz] }, true, closure { [false == x, [2, y] == y] }])
 }
 pub fn case_553(vars: &Vars) -> InferredGoal<DU, DE, Goal<DU, DE>> {
     let x = vars.v[0].clone();
-    proto_vulcan!([conde { [1 == x, x == [1, 2, [3, 2 | x] | x]], |fresh_name_9| { [1, 3, 1] != [1, 3 | fresh_name_9], fresh_name_9 == [1] }, [["bc", 'a'] != x, true] }, x != x])
+    let y = vars.v[1].clone();
+    proto_vulcan!([[|z| { 3 == z }, conde { [], [[[], x] == _, x != 'a'] }, x == 2], |fresh_name_9| { fresh_name_9 == [1, 2], [3, 1, 2] != [3 | fresh_name_9] }, true, closure { [false == x, [2, y] == y] }])
 }
 pub fn case_554(vars: &Vars) -> InferredGoal<DU, DE, Goal<DU, DE>> {
-    let q = vars.v[0].clone();
-    let x = vars.v[1].clone();
-    proto_vulcan!([match x { 'a' => [|y| { q == x, q == [y | x], |h, t| { x == [h, q | 1], true, true } }, q == [q | 1]], _ | _ => [] == [[2, q, q | x]], _ => [[x, [q], [x]] == 1, [] != x], }, x == [_, 2, x], q == 2])
+    let x = vars.v[0].clone();
+    let y = vars.v[1].clone();
+    proto_vulcan!([match x { P3([3], 3, z) => { y == y }, }, |tz| { [1, 3 | tz] != [1, 3, 2], tz == [2] }, conde { true, [matche y { [[x, 1, 3]] | [[h]] => { |y| { (y, _) != y, ([y], 1) == y } }, "a" => { 2 != [], [y] == x }, 2 => , }, matche x { [[h, z | y], [2]] => { true, false }, P3(2, h, [x, x]) => [match x { Named { a: [], b: [] } => , [[y] | 1] | _ => [x == [2, [_, x, h]], true], }, [x, [], x | y] == x], }], [[] | x] == x }])
 }
 pub fn case_555(vars: &Vars) -> InferredGoal<DU, DE, Goal<DU, DE>> {
-    let q = vars.v[0].clone();
-    let x = vars.v[1].clone();
-    proto_vulcan!([match x { 'a' => [|y| { q == x, q == [y | x], |h, fresh_name_9| { x == [h, q | 1], true, true } }, q == [q | 1]], _ | _ => [] == [[2, q, q | x]], _ => [[x, [q], [x]] == 1, [] != x], }, x == [_, 2, x], q == 2])
+    let x = vars.v[0].clone();
+    let y = vars.v[1].clone();
+    proto_vulcan!([match x { P3([3], 3, fresh_name_9) => { y == y }, }, |tz| { [1, 3 | tz] != [1, 3, 2], tz == [2] }, conde { true, [matche y { [[x, 1, 3]] | [[h]] => { |y| { (y, _) != y, ([y], 1) == y } }, "a" => { 2 != [], [y] == x }, 2 => , }, matche x { [[h, z | y], [2]] => { true, false }, P3(2, h, [x, x]) => [match x { Named { a: [], b: [] } => , [[y] | 1] | _ => [x == [2, [_, x, h]], true], }, [x, [], x | y] == x], }], [[] | x] == x }])
 }
 pub fn case_556(vars: &Vars) -> InferredGoal<DU, DE, Goal<DU, DE>> {
     let x = vars.v[0].clone();
-    let y = vars.v[1].clone();
-    proto_vulcan!([match y { [["a", _ | h], [z, t, y], [2, 1 | _]] | x => , [[1 | z]] => [[conde { [1] == y }, match z { _ => , _ | 2 => [z != 1, append(z, z, [2])], }, conde { [false, false], [[x] == z, x != [x, z, y | 1]], member(x, [1, 2, 1]) }], y == [[], _ | 1]], }, closure { match y { y | [[1] | _] => { [[_ | x], [x, x, 1], [x, x] | x] != x, member(x, [3, 2]) }, x => { x == [[3], [2], ["bc", 2 | y]] }, } }])
+    proto_vulcan!([|t| { conde { _ == x, matche t { P3(3, x, _) => [true, ["a", 2, false] == [[_, t, t], [x, _, x | x], [x, x, t]]], }, [match t { [h] | [[1], [false, 'a'], [2, []] | 3] => , }, [3, t, 2 | "bc"] != x] }, conde { [], x == [[], t, 'a'], [] }, t == P3(_, [3], [2]) }])
 }
 pub fn case_557(vars: &Vars) -> InferredGoal<DU, DE, Goal<DU, DE>> {
     let x = vars.v[0].clone();
-    let y = vars.v[1].clone();
-    proto_vulcan!([match y { [["a", _ | h], [z, t, y], [2, 1 | _]] | x => , [[1 | fresh_name_9]] => [[conde { [1] == y }, match fresh_name_9 { _ => , _ | 2 => [fresh_name_9 != 1, append(fresh_name_9, fresh_name_9, [2])], }, conde { [false, false], [[x] == fresh_name_9, x != [x, fresh_name_9, y | 1]], member(x, [1, 2, 1]) }], y == [[], _ | 1]], }, closure { match y { y | [[1] | _] => { [[_ | x], [x, x, 1], [x, x] | x] != x, member(x, [3, 2]) }, x => { x == [[3], [2], ["bc", 2 | y]] }, } }])
+    proto_vulcan!([|t| { conde { _ == x, matche t { P3(3, fresh_name_9, _) => [true, ["a", 2, false] == [[_, t, t], [fresh_name_9, _, fresh_name_9 | fresh_name_9], [fresh_name_9, fresh_name_9, t]]], }, [match t { [h] | [[1], [false, 'a'], [2, []] | 3] => , }, [3, t, 2 | "bc"] != x] }, conde { [], x == [[], t, 'a'], [] }, t == P3(_, [3], [2]) }])
 }
 pub fn case_558(vars: &Vars) -> InferredGoal<DU, DE, Goal<DU, DE>> {
     let x = vars.v[0].clone();
-    let y = vars.v[1].clone();
-    proto_vulcan!([conde { x == ['a', []], [|x, h| { [], matche x { _ => [x != [_, [_], 1 | y], [[h, [], 1], [[], _, _]] == [x | h]], [[x | z]] => { append(x, x, [1, 1]) }, _ => , }, matche y { h => |tz| { tz == [2], [2 | tz] != [2, 2] }, [[[], 1, false], [_, x | t], _] => [[x] == h, t == h], y | t => { member(x, []), 2 == [x, h, false] }, } }, x != y] }, |tz| { [3 | tz] != [3, 3], tz == [3] }, match [y] { [[3], [z, [], _ | _], [z, z | y]] => , }])
+    proto_vulcan!([x == P3([1, x], [], x), [] == x, { let c__: InferredGoal<DU, DE, Goal<DU, DE>> = proto_vulcan_closure!([|yy| { conde { [x == [yy | _], yy == 1], [x == [_, yy | _], yy == 2] } }, true == x]); let g__: Goal<DU, DE> = ::proto_vulcan::GoalCast::cast_into(c__); let r__: InferredGoal<DU, DE, Goal<DU, DE>> = proto_vulcan!([g__.clone(), g__]); r__ }])
 }
 pub fn case_559(vars: &Vars) -> InferredGoal<DU, DE, Goal<DU, DE>> {
     let x = vars.v[0].clone();
-    let y = vars.v[1].clone();
-    proto_vulcan!([conde { x == ['a', []], [|fresh_name_9, h| { [], matche fresh_name_9 { _ => [fresh_name_9 != [_, [_], 1 | y], [[h, [], 1], [[], _, _]] == [fresh_name_9 | h]], [[x | z]] => { append(x, x, [1, 1]) }, _ => , }, matche y { h => |tz| { tz == [2], [2 | tz] != [2, 2] }, [[[], 1, false], [_, x | t], _] => [[x] == h, t == h], y | t => { member(fresh_name_9, []), 2 == [fresh_name_9, h, false] }, } }, x != y] }, |tz| { [3 | tz] != [3, 3], tz == [3] }, match [y] { [[3], [z, [], _ | _], [z, z | y]] => , }])
+    proto_vulcan!([x == P3([1, x], [], x), [] == x, { let c__: InferredGoal<DU, DE, Goal<DU, DE>> = proto_vulcan_closure!([|fresh_name_9| { conde { [x == [fresh_name_9 | _], fresh_name_9 == 1], [x == [_, fresh_name_9 | _], fresh_name_9 == 2] } }, true == x]); let g__: Goal<DU, DE> = ::proto_vulcan::GoalCast::cast_into(c__); let r__: InferredGoal<DU, DE, Goal<DU, DE>> = proto_vulcan!([g__.clone(), g__]); r__ }])
 }
 pub fn case_560(vars: &Vars) -> InferredGoal<DU, DE, Goal<DU, DE>> {
-    let x = vars.v[0].clone();
-    let y = vars.v[1].clone();
-    proto_vulcan!([[x != y, true == y, [[2, 1, y], [x, x, _ | y]] == x], y == x, |y, h| { [h, h] == y }, closure { [[|h, x| { true == _ }, [3, 2, y] == y], |y| {  }] }])
+    let q = vars.v[0].clone();
+    let x = vars.v[1].clone();
+    proto_vulcan!([[(x, x) == x, match q { [_, [h, z, t], 1] | [2] => { [[2 | q]] == x }, _ => { match x { _ => [x == 7, x == 8], } }, [[2, "a"], z, [3]] => [[2 | z] == z, [z] == z], }, _ == x], q == x, closure { match 1 { 2 | [t, [2], 3] => , P3(3, 2, _) | [] => { P3(_, 3, x) == x }, } }])
 }
 pub fn case_561(vars: &Vars) -> InferredGoal<DU, DE, Goal<DU, DE>> {
-    let x = vars.v[0].clone();
-    let y = vars.v[1].clone();
-    proto_vulcan!([[x != y, true == y, [[2, 1, y], [x, x, _ | y]] == x], y == x, |y, h| { [h, h] == y }, closure { [[|h, x| { true == _ }, [3, 2, y] == y], |fresh_name_9| {  }] }])
+    let q = vars.v[0].clone();
+    let x = vars.v[1].clone();
+    proto_vulcan!([[(x, x) == x, match q { [_, [h, z, t], 1] | [2] => { [[2 | q]] == x }, _ => { match x { _ => [x == 7, x == 8], } }, [[2, "a"], fresh_name_9, [3]] => [[2 | fresh_name_9] == fresh_name_9, [fresh_name_9] == fresh_name_9], }, _ == x], q == x, closure { match 1 { 2 | [t, [2], 3] => , P3(3, 2, _) | [] => { P3(_, 3, x) == x }, } }])
 }
 pub fn case_562(vars: &Vars) -> InferredGoal<DU, DE, Goal<DU, DE>> {
     let x = vars.v[0].clone();
     let y = vars.v[1].clone();
-    proto_vulcan!([y == x, [_, x | y] == y, |tz| { [2, 2, 3] != [2, 2 | tz], tz == [3] }])
+    proto_vulcan!([(_, [y, []]) == x, match x { [[2, 'a', y | 1]] => , }, member(y, [])])
 }
 pub fn case_563(vars: &Vars) -> InferredGoal<DU, DE, Goal<DU, DE>> {
     let x = vars.v[0].clone();
     let y = vars.v[1].clone();
-    proto_vulcan!([y == x, [_, x | y] == y, |fresh_name_9| { [2, 2, 3] != [2, 2 | fresh_name_9], fresh_name_9 == [3] }])
+    proto_vulcan!([(_, [y, []]) == x, match x { [[2, 'a', fresh_name_9 | 1]] => , }, member(y, [])])
 }
 pub fn case_564(vars: &Vars) -> InferredGoal<DU, DE, Goal<DU, DE>> {
-    let q = vars.v[0].clone();
-    let x = vars.v[1].clone();
-    proto_vulcan!([["bc"] == q, match q { [1 | _] | [3, [[], h]] => [matche x { _ | _ => { |y| { member(y, [1, 2]), [[_, 1], [], [y]] != y } }, [[1 | _], [], [3, 1]] | [[_, _], [y]] => { [member(x, [3]), append(q, x, [1]), member(x, [])] }, [[t, 1, _], [1, false], _ | t] => |tz| { [3, 1 | tz] != [3, 1, 2, 3], tz == [2, 3] }, }, x == [2, [], x]], [[2 | x], _] => { conde { false, q == 1 } }, }, conde { x == q, conde { [[x, true, 1] == x, conde { 2 == q, false, member(x, [3]) }], [true] == x } }, closure { [matche q { 2 => , [z, [t, h], [true, 3]] => { conde { x == 1, z == z }, false }, }, member(q, [2])] }])
+    let x = vars.v[0].clone();
+    proto_vulcan!([conde { [|y, h| {  }, x != [x | x]], x == P3([_], [x], _), _ == x }, x == [_], conde { |tz| { tz == [3], [3, 3, 3] != [3, 3 | tz] } }])
 }
 pub fn case_565(vars: &Vars) -> InferredGoal<DU, DE, Goal<DU, DE>> {
-    let q = vars.v[0].clone();
-    let x = vars.v[1].clone();
-    proto_vulcan!([["bc"] == q, match q { [1 | _] | [3, [[], h]] => [matche x { _ | _ => { |y| { member(y, [1, 2]), [[_, 1], [], [y]] != y } }, [[1 | _], [], [3, 1]] | [[_, _], [y]] => { [member(x, [3]), append(q, x, [1]), member(x, [])] }, [[t, 1, _], [1, false], _ | t] => |tz| { [3, 1 | tz] != [3, 1, 2, 3], tz == [2, 3] }, }, x == [2, [], x]], [[2 | x], _] => { conde { false, q == 1 } }, }, conde { x == q, conde { [[x, true, 1] == x, conde { 2 == q, false, member(x, [3]) }], [true] == x } }, closure { [matche q { 2 => , [fresh_name_9, [t, h], [true, 3]] => { conde { x == 1, fresh_name_9 == fresh_name_9 }, false }, }, member(q, [2])] }])
+    let x = vars.v[0].clone();
+    proto_vulcan!([conde { [|fresh_name_9, h| {  }, x != [x | x]], x == P3([_], [x], _), _ == x }, x == [_], conde { |tz| { tz == [3], [3, 3, 3] != [3, 3 | tz] } }])
 }
 pub fn case_566(vars: &Vars) -> InferredGoal<DU, DE, Goal<DU, DE>> {
     let x = vars.v[0].clone();
     let y = vars.v[1].clone();
-    proto_vulcan!([conde { [], x != y, [[x, y, y] == x, matche y { [1, ['b'] | x] => , }] }, |tz| { [2 | tz] != [2, 3], tz == [3] }, matche y { y => y != 1, 3 => [[[y, 1, y], 2] == [x, x], x == 2, match y { x | [[x, y, z], [t, 2 | _]] => , [1] | _ => { true }, }], }, closure { [matche 1 { [[1]] => { |x| { x == [y, [_ | 1], [[], 2 | "a"]], y == 2 }, [y == [1 | x]] }, }, |x, t| { [[y, [3, _, x] | y] == [[x, x, "bc" | x]], x == y, [x, 1, y | x] == y] }] }])
+    proto_vulcan!([|h| { matche x { z => { member(y, [2, 1, 1]) }, h | [h] => [true, _ == h], [3, 2, [[], 1 | 1] | x] | 3 => { matche y { P3([3], _, x) => [[3, y | h] != h, |tz| { tz == [1, 3], [2, 3, 1, 3] != [2, 3 | tz] }], }, y == h }, } }, match x { [1, x, y] => { true }, [[2]] => matche x { ['b', [false | _] | y] => , }, Named { a: _, b: 3 } | [] => , }, { let c__: InferredGoal<DU, DE, Goal<DU, DE>> = proto_vulcan_closure!([|yy| { conde { [x == [yy | _], yy == 1], [x == [_, yy | _], yy == 2] } }, [x] == x]); let g__: Goal<DU, DE> = ::proto_vulcan::GoalCast::cast_into(c__); let r__: InferredGoal<DU, DE, Goal<DU, DE>> = proto_vulcan!([g__.clone(), g__]); r__ }])
 }
 pub fn case_567(vars: &Vars) -> InferredGoal<DU, DE, Goal<DU, DE>> {
     let x = vars.v[0].clone();
     let y = vars.v[1].clone();
-    proto_vulcan!([conde { [], x != y, [[x, y, y] == x, matche y { [1, ['b'] | x] => , }] }, |tz| { [2 | tz] != [2, 3], tz == [3] }, matche y { y => y != 1, 3 => [[[y, 1, y], 2] == [x, x], x == 2, match y { x | [[x, y, z], [t, 2 | _]] => , [1] | _ => { true }, }], }, closure { [matche 1 { [[1]] => { |x| { x == [y, [_ | 1], [[], 2 | "a"]], y == 2 }, [y == [1 | x]] }, }, |fresh_name_9, t| { [[y, [3, _, fresh_name_9] | y] == [[fresh_name_9, fresh_name_9, "bc" | fresh_name_9]], fresh_name_9 == y, [fresh_name_9, 1, y | fresh_name_9] == y] }] }])
+    proto_vulcan!([|h| { matche x { z => { member(y, [2, 1, 1]) }, h | [h] => [true, _ == h], [3, 2, [[], 1 | 1] | x] | 3 => { matche y { P3([3], _, x) => [[3, y | h] != h, |tz| { tz == [1, 3], [2, 3, 1, 3] != [2, 3 | tz] }], }, y == h }, } }, match x { [1, x, fresh_name_9] => { true }, [[2]] => matche x { ['b', [false | _] | y] => , }, Named { a: _, b: 3 } | [] => , }, { let c__: InferredGoal<DU, DE, Goal<DU, DE>> = proto_vulcan_closure!([|yy| { conde { [x == [yy | _], yy == 1], [x == [_, yy | _], yy == 2] } }, [x] == x]); let g__: Goal<DU, DE> = ::proto_vulcan::GoalCast::cast_into(c__); let r__: InferredGoal<DU, DE, Goal<DU, DE>> = proto_vulcan!([g__.clone(), g__]); r__ }])
 }
 pub fn case_568(vars: &Vars) -> InferredGoal<DU, DE, Goal<DU, DE>> {
-    let q = vars.v[0].clone();
-    let x = vars.v[1].clone();
-    proto_vulcan!([[match x { _ => [q == 7, q == 8], 2 => [[x, q, 1]] == x, }, q == [q, 2, 1 | q], false == x], closure { [conde { [matche [_, x, "bc" | q] { [[[]], _, _ | _] => , [[_ | _]] | [[_, 2 | _], 2, [2, []] | h] => [append(x, q, [3, 2]), x == x], }, match q { [1 | y] => [[[q], [false, y, [] | q], 1] == y, [2 | 2] == q], [[2 | y], [_ | y] | 2] => { true != x, y == [3] }, }], [_ == q, matche x { [2 | z] | [[y, _, t], [h, 1 | 'b'], [y, x]] => , [_] | 3 => |tz| { tz == [2, 2], [2 | tz] != [2, 2, 2] }, z | [[z], t] => , }] }, conde { q != [[2, 2 | q], [x], [1 | q]], 2 == q }] }])
+    let x = vars.v[0].clone();
+    let y = vars.v[1].clone();
+    proto_vulcan!([match x { [_, [] | _] => { |z, x| { P3([], [1], []) == x, |y| { (2, [_, 1]) != y, x != (y, [[]]) } }, |z| { y == y } }, [2, x] => , [[3, y, 1] | x] => { [y == x] }, }, { let c__: InferredGoal<DU, DE, Goal<DU, DE>> = proto_vulcan_closure!(|yy| { conde { [x == [yy | _], yy == 1], [x == [_, yy | _], yy == 2] } }); let g__: Goal<DU, DE> = ::proto_vulcan::GoalCast::cast_into(c__); let r__: InferredGoal<DU, DE, Goal<DU, DE>> = proto_vulcan!([g__.clone(), g__]); r__ }])
 }
 pub fn case_569(vars: &Vars) -> InferredGoal<DU, DE, Goal<DU, DE>> {
-    let q = vars.v[0].clone();
-    let x = vars.v[1].clone();
-    proto_vulcan!([[match x { _ => [q == 7, q == 8], 2 => [[x, q, 1]] == x, }, q == [q, 2, 1 | q], false == x], closure { [conde { [matche [_, x, "bc" | q] { [[[]], _, _ | _] => , [[_ | _]] | [[_, 2 | _], 2, [2, []] | h] => [append(x, q, [3, 2]), x == x], }, match q { [1 | fresh_name_9] => [[[q], [false, fresh_name_9, [] | q], 1] == fresh_name_9, [2 | 2] == q], [[2 | y], [_ | y] | 2] => { true != x, y == [3] }, }], [_ == q, matche x { [2 | z] | [[y, _, t], [h, 1 | 'b'], [y, x]] => , [_] | 3 => |tz| { tz == [2, 2], [2 | tz] != [2, 2, 2] }, z | [[z], t] => , }] }, conde { q != [[2, 2 | q], [x], [1 | q]], 2 == q }] }])
+    let x = vars.v[0].clone();
+    let y = vars.v[1].clone();
+    proto_vulcan!([match x { [_, [] | _] => { |fresh_name_9, x| { P3([], [1], []) == x, |y| { (2, [_, 1]) != y, x != (y, [[]]) } }, |z| { y == y } }, [2, x] => , [[3, y, 1] | x] => { [y == x] }, }, { let c__: InferredGoal<DU, DE, Goal<DU, DE>> = proto_vulcan_closure!(|yy| { conde { [x == [yy | _], yy == 1], [x == [_, yy | _], yy == 2] } }); let g__: Goal<DU, DE> = ::proto_vulcan::GoalCast::cast_into(c__); let r__: InferredGoal<DU, DE, Goal<DU, DE>> = proto_vulcan!([g__.clone(), g__]); r__ }])
 }
 pub fn case_570(vars: &Vars) -> InferredGoal<DU, DE, Goal<DU, DE>> {
-    let q = vars.v[0].clone();
-    let x = vars.v[1].clone();
-    proto_vulcan!([match x { _ => member(q, [1, 2, 3]), }, closure { [|z, y| {  }, 2 == x] }])
+    let x = vars.v[0].clone();
+    proto_vulcan!([matche x { _ => "bc" == x, x => [x != (x, [1, _]), 2 == x], Named { a: 2, b: 3 } => { match [_, x, "a" | 3] { [[[], h, 1], 2] | _ => [match x { t => [2 == x, x == [[1, 2 | 2] | t]], }, []], }, |y, x| { |y| { (1, y) == 2, [[x, 3, 2]] != y, P3([x, x], y, 2) == y }, _ == 2 } }, }])
 }
 pub fn case_571(vars: &Vars) -> InferredGoal<DU, DE, Goal<DU, DE>> {
-    let q = vars.v[0].clone();
-    let x = vars.v[1].clone();
-    proto_vulcan!([match x { _ => member(q, [1, 2, 3]), }, closure { [|fresh_name_9, y| {  }, 2 == x] }])
+    let x = vars.v[0].clone();
+    proto_vulcan!([matche x { _ => "bc" == x, x => [x != (x, [1, _]), 2 == x], Named { a: 2, b: 3 } => { match [_, x, "a" | 3] { [[[], h, 1], 2] | _ => [match x { t => [2 == x, x == [[1, 2 | 2] | t]], }, []], }, |y, fresh_name_9| { |y| { (1, y) == 2, [[fresh_name_9, 3, 2]] != y, P3([fresh_name_9, fresh_name_9], y, 2) == y }, _ == 2 } }, }])
 }
 pub fn case_572(vars: &Vars) -> InferredGoal<DU, DE, Goal<DU, DE>> {
     let x = vars.v[0].clone();
-    let y = vars.v[1].clone();
-    proto_vulcan!([conde { [y == y, match y { [1 | y] => |t| { true, x == [t | t] }, true => { conde { [x, y] == [_, 1, x], [false, _ == y], [2, y, x] == x }, [2, x] == y }, }], [1, [], 2] != _ }, closure { [|y| { matche y { [[z]] => { [y, y | y] == [[2, 2, "bc" | y], [1, z]] }, }, x != [[], 2, y] }, _ != x] }])
+    proto_vulcan!([[x, 1, [] | x] == x, closure { match x { [[_, t, []], 3, [1, _, _]] => , [[3, 1, _]] | [[_, h, 3], [1 | _] | h] => [match x { [[false, [], "a"] | x] | [[1, x], [t, 2, _] | t] => [x == [[x, "a" | x]], x != [[]]], y => , [2, 2, 3] | _ => { x == x }, }, x == ([[]], _)], } }])
 }
 pub fn case_573(vars: &Vars) -> InferredGoal<DU, DE, Goal<DU, DE>> {
     let x = vars.v[0].clone();
-    let y = vars.v[1].clone();
-    proto_vulcan!([conde { [y == y, match y { [1 | y] => |t| { true, x == [t | t] }, true => { conde { [x, y] == [_, 1, x], [false, _ == y], [2, y, x] == x }, [2, x] == y }, }], [1, [], 2] != _ }, closure { [|fresh_name_9| { matche fresh_name_9 { [[z]] => { [fresh_name_9, fresh_name_9 | fresh_name_9] == [[2, 2, "bc" | fresh_name_9], [1, z]] }, }, x != [[], 2, fresh_name_9] }, _ != x] }])
+    proto_vulcan!([[x, 1, [] | x] == x, closure { match x { [[_, t, []], 3, [1, _, _]] => , [[3, 1, _]] | [[_, h, 3], [1 | _] | h] => [match x { [[false, [], "a"] | x] | [[1, x], [t, 2, _] | t] => [x == [[x, "a" | x]], x != [[]]], fresh_name_9 => , [2, 2, 3] | _ => { x == x }, }, x == ([[]], _)], } }])
 }
 pub fn case_574(vars: &Vars) -> InferredGoal<DU, DE, Goal<DU, DE>> {
     let x = vars.v[0].clone();
-    proto_vulcan!([|t| { false, match x { [t, false] => t == [[t, x], t | t], [[x], x] => { |tz| { [1, 3, 1] != [1, 3 | tz], tz == [1] } }, }, [[3], [3, t, t]] == [x, 1] }, [match x { [h, y] | 2 => , [[h], 1, [_, 'b' | 1]] | [h, [y | z], [_ | _]] => , }, x != x, [1] == x]])
+    let y = vars.v[1].clone();
+    proto_vulcan!([|h| {  }, x == y])
 }
 pub fn case_575(vars: &Vars) -> InferredGoal<DU, DE, Goal<DU, DE>> {
     let x = vars.v[0].clone();
-    proto_vulcan!([|t| { false, match x { [fresh_name_9, false] => fresh_name_9 == [[fresh_name_9, x], fresh_name_9 | fresh_name_9], [[x], x] => { |tz| { [1, 3, 1] != [1, 3 | tz], tz == [1] } }, }, [[3], [3, t, t]] == [x, 1] }, [match x { [h, y] | 2 => , [[h], 1, [_, 'b' | 1]] | [h, [y | z], [_ | _]] => , }, x != x, [1] == x]])
+    let y = vars.v[1].clone();
+    proto_vulcan!([|fresh_name_9| {  }, x == y])
 }
 pub fn case_576(vars: &Vars) -> InferredGoal<DU, DE, Goal<DU, DE>> {
-    let q = vars.v[0].clone();
-    let x = vars.v[1].clone();
-    proto_vulcan!([|z| {  }, true, match q { [[t, _] | _] => |y| { y != [[] | t] }, [[2, h, h | z], [[], 'a', _], x] => , _ => |x| { q != x }, }])
+    let x = vars.v[0].clone();
+    let y = vars.v[1].clone();
+    proto_vulcan!([|tz| { [2 | tz] != [2, 3], tz == [3] }])
 }
 pub fn case_577(vars: &Vars) -> InferredGoal<DU, DE, Goal<DU, DE>> {
-    let q = vars.v[0].clone();
-    let x = vars.v[1].clone();
-    proto_vulcan!([|z| {  }, true, match q { [[t, _] | _] => |y| { y != [[] | t] }, [[2, fresh_name_9, fresh_name_9 | z], [[], 'a', _], x] => , _ => |x| { q != x }, }])
+    let x = vars.v[0].clone();
+    let y = vars.v[1].clone();
+    proto_vulcan!([|fresh_name_9| { [2 | fresh_name_9] != [2, 3], fresh_name_9 == [3] }])
 }
 pub fn case_578(vars: &Vars) -> InferredGoal<DU, DE, Goal<DU, DE>> {
     let x = vars.v[0].clone();
-    let y = vars.v[1].clone();
-    proto_vulcan!([matche [2 | x] { [[3 | z]] => , _ => member(x, [1, 2, 3]), _ | _ => [y == 7, y == 8], }, match x { [[_, _]] => { matche x { _ => conde { 2 == x }, x => , } }, }, false])
+    proto_vulcan!([2 == x, [], [|h| { match x { Named { a: t, b: [] } => , [3, [true | z], [_ | x]] => false, } }, [false], P3(_, x, []) == x]])
 }
 pub fn case_579(vars: &Vars) -> InferredGoal<DU, DE, Goal<DU, DE>> {
     let x = vars.v[0].clone();
-    let y = vars.v[1].clone();
-    proto_vulcan!([matche [2 | x] { [[3 | z]] => , _ => member(x, [1, 2, 3]), _ | _ => [y == 7, y == 8], }, match x { [[_, _]] => { matche x { _ => conde { 2 == x }, fresh_name_9 => , } }, }, false])
+    proto_vulcan!([2 == x, [], [|h| { match x { Named { a: fresh_name_9, b: [] } => , [3, [true | z], [_ | x]] => false, } }, [false], P3(_, x, []) == x]])
 }
 pub fn case_580(vars: &Vars) -> InferredGoal<DU, DE, Goal<DU, DE>> {
-    let x = vars.v[0].clone();
-    proto_vulcan!([false, conde { [match [[], 3 | x] { [[_, h | _], t | y] => [append(x, x, []), t == [h | y]], 1 => { [x, [], 2] == x }, }, matche x { [2, [2 | z], h] => , 2 => { x == _, x == x }, [[t, t, 2]] => , }, match [x, x] { [[2, 1], [t, "bc", 2]] => { t == [1, "bc", 2] }, z => { z != 2 }, }] }])
+    let q = vars.v[0].clone();
+    let x = vars.v[1].clone();
+    proto_vulcan!([matche x { [[1 | x]] => [matche x { h => [[_, 1], [q, _, _ | h]] == h, }, |y, h| { [] }], 2 => { q == 3 }, }, |y| { conde { [], [[]] }, match q { [[[]], 2 | y] | [h] => [|y| { member(q, []), [true, 2, true] == x }, [[1], [q, q | false], [2]] != [[]]], } }, { let c__: InferredGoal<DU, DE, Goal<DU, DE>> = proto_vulcan_closure!([|yy| { conde { [q == [yy | _], yy == 1], [q == [_, yy | _], yy == 2] } }, |z| { false, 1 == [], q != _ }]); let g__: Goal<DU, DE> = ::proto_vulcan::GoalCast::cast_into(c__); let r__: InferredGoal<DU, DE, Goal<DU, DE>> = proto_vulcan!([g__.clone(), g__]); r__ }])
 }
 pub fn case_581(vars: &Vars) -> InferredGoal<DU, DE, Goal<DU, DE>> {
-    let x = vars.v[0].clone();
-    proto_vulcan!([false, conde { [match [[], 3 | x] { [[_, h | _], fresh_name_9 | y] => [append(x, x, []), fresh_name_9 == [h | y]], 1 => { [x, [], 2] == x }, }, matche x { [2, [2 | z], h] => , 2 => { x == _, x == x }, [[t, t, 2]] => , }, match [x, x] { [[2, 1], [t, "bc", 2]] => { t == [1, "bc", 2] }, z => { z != 2 }, }] }])
+    let q = vars.v[0].clone();
+    let x = vars.v[1].clone();
+    proto_vulcan!([matche x { [[1 | fresh_name_9]] => [matche fresh_name_9 { h => [[_, 1], [q, _, _ | h]] == h, }, |y, h| { [] }], 2 => { q == 3 }, }, |y| { conde { [], [[]] }, match q { [[[]], 2 | y] | [h] => [|y| { member(q, []), [true, 2, true] == x }, [[1], [q, q | false], [2]] != [[]]], } }, { let c__: InferredGoal<DU, DE, Goal<DU, DE>> = proto_vulcan_closure!([|yy| { conde { [q == [yy | _], yy == 1], [q == [_, yy | _], yy == 2] } }, |z| { false, 1 == [], q != _ }]); let g__: Goal<DU, DE> = ::proto_vulcan::GoalCast::cast_into(c__); let r__: InferredGoal<DU, DE, Goal<DU, DE>> = proto_vulcan!([g__.clone(), g__]); r__ }])
 }
 pub fn case_582(vars: &Vars) -> InferredGoal<DU, DE, Goal<DU, DE>> {
-    let q = vars.v[0].clone();
-    let x = vars.v[1].clone();
-    proto_vulcan!([|h| { x == [q, h, q], |tz| { [1 | tz] != [1, 1], tz == [1] } }, [3 | q] == q, closure { [conde { [|z| { x == [['b']] }, append(q, x, [])], [matche x { 2 => [member(x, [1, 3, 2]), 2 != q], 1 | t => [false, |tz| { [3, 1, 1] != [3 | tz], tz == [1, 1] }], _ => [q == 7, q == 8], }, |y| { x != 2 }] }, matche x { h => , 2 => { |tz| { [1, 3] != [1 | tz], tz == [3] } }, [_, [h, 'a']] => member(x, [2, 1]), }] }])
+    let x = vars.v[0].clone();
+    proto_vulcan!([append(x, x, []), match x { _ => [|tz| { tz == [3], [1, 3 | tz] != [1, 3, 3] }, []], _ => member(x, [1, 2, 3]), }, { let c__: InferredGoal<DU, DE, Goal<DU, DE>> = proto_vulcan_closure!([|yy| { conde { [x == [yy | _], yy == 1], [x == [_, yy | _], yy == 2] } }, append(x, x, [2, 1])]); let g__: Goal<DU, DE> = ::proto_vulcan::GoalCast::cast_into(c__); let r__: InferredGoal<DU, DE, Goal<DU, DE>> = proto_vulcan!([g__.clone(), g__]); r__ }])
 }
 pub fn case_583(vars: &Vars) -> InferredGoal<DU, DE, Goal<DU, DE>> {
-    let q = vars.v[0].clone();
-    let x = vars.v[1].clone();
-    proto_vulcan!([|fresh_name_9| { x == [q, fresh_name_9, q], |tz| { [1 | tz] != [1, 1], tz == [1] } }, [3 | q] == q, closure { [conde { [|z| { x == [['b']] }, append(q, x, [])], [matche x { 2 => [member(x, [1, 3, 2]), 2 != q], 1 | t => [false, |tz| { [3, 1, 1] != [3 | tz], tz == [1, 1] }], _ => [q == 7, q == 8], }, |y| { x != 2 }] }, matche x { h => , 2 => { |tz| { [1, 3] != [1 | tz], tz == [3] } }, [_, [h, 'a']] => member(x, [2, 1]), }] }])
+    let x = vars.v[0].clone();
+    proto_vulcan!([append(x, x, []), match x { _ => [|fresh_name_9| { fresh_name_9 == [3], [1, 3 | fresh_name_9] != [1, 3, 3] }, []], _ => member(x, [1, 2, 3]), }, { let c__: InferredGoal<DU, DE, Goal<DU, DE>> = proto_vulcan_closure!([|yy| { conde { [x == [yy | _], yy == 1], [x == [_, yy | _], yy == 2] } }, append(x, x, [2, 1])]); let g__: Goal<DU, DE> = ::proto_vulcan::GoalCast::cast_into(c__); let r__: InferredGoal<DU, DE, Goal<DU, DE>> = proto_vulcan!([g__.clone(), g__]); r__ }])
 }
 pub fn case_584(vars: &Vars) -> InferredGoal<DU, DE, Goal<DU, DE>> {
-    let x = vars.v[0].clone();
-    proto_vulcan!([match x { [] => , y => , _ => [x == 7, x == 8], }, match x { [y, [], [h, 2, _]] => { |x, h| { "bc" == x, matche x { z | _ => , [[1, x, h], _, [2, h, z | h]] => , _ => x == [[]], } }, [|z| {  }, conde { [], 1 != y, false }] }, [[x, t, 3]] => , 2 | false => x == x, }, closure { [|z| { z != [2, _, []] }, match x { [['a' | y]] => { |tz| { [3 | tz] != [3, 2, 1], tz == [2, 1] } }, t => , }] }])
+    let q = vars.v[0].clone();
+    let x = vars.v[1].clone();
+    proto_vulcan!([matche x { _ => { |y| { [P3([_], _, 2) != y, append(y, x, [3, 2]), y == [q, y, y | q]], [[false, q], [x, q, _]] == P3(q, 3, x) }, matche q { Named { a: [z, y], b: [] } => , [z, [3]] | P3(1, [t], y) => , 1 => , } }, [[3 | z]] => q == P3(x, [x, x], [3]), [y, ['b']] => , }])
 }
 pub fn case_585(vars: &Vars) -> InferredGoal<DU, DE, Goal<DU, DE>> {
-    let x = vars.v[0].clone();
-    proto_vulcan!([match x { [] => , fresh_name_9 => , _ => [x == 7, x == 8], }, match x { [y, [], [h, 2, _]] => { |x, h| { "bc" == x, matche x { z | _ => , [[1, x, h], _, [2, h, z | h]] => , _ => x == [[]], } }, [|z| {  }, conde { [], 1 != y, false }] }, [[x, t, 3]] => , 2 | false => x == x, }, closure { [|z| { z != [2, _, []] }, match x { [['a' | y]] => { |tz| { [3 | tz] != [3, 2, 1], tz == [2, 1] } }, t => , }] }])
+    let q = vars.v[0].clone();
+    let x = vars.v[1].clone();
+    proto_vulcan!([matche x { _ => { |y| { [P3([_], _, 2) != y, append(y, x, [3, 2]), y == [q, y, y | q]], [[false, q], [x, q, _]] == P3(q, 3, x) }, matche q { Named { a: [z, y], b: [] } => , [z, [3]] | P3(1, [t], y) => , 1 => , } }, [[3 | z]] => q == P3(x, [x, x], [3]), [fresh_name_9, ['b']] => , }])
 }
 pub fn case_586(vars: &Vars) -> InferredGoal<DU, DE, Goal<DU, DE>> {
-    let x = vars.v[0].clone();
-    proto_vulcan!([x != [x, x, 'a'], |h, x| {  }])
+    let q = vars.v[0].clone();
+    let x = vars.v[1].clone();
+    proto_vulcan!([q == [], |tz| { [2, 3, 1] != [2 | tz], tz == [3, 1] }, |x| { x != [2, q], [1, 2] == x }])
 }
 pub fn case_587(vars: &Vars) -> InferredGoal<DU, DE, Goal<DU, DE>> {
-    let x = vars.v[0].clone();
-    proto_vulcan!([x != [x, x, 'a'], |h, fresh_name_9| {  }])
+    let q = vars.v[0].clone();
+    let x = vars.v[1].clone();
+    proto_vulcan!([q == [], |tz| { [2, 3, 1] != [2 | tz], tz == [3, 1] }, |fresh_name_9| { fresh_name_9 != [2, q], [1, 2] == fresh_name_9 }])
 }
 pub fn case_588(vars: &Vars) -> InferredGoal<DU, DE, Goal<DU, DE>> {
-    let x = vars.v[0].clone();
-    proto_vulcan!(['a' != x, |y| { [conde { [x, [y]] == x, [y == [true, x, x], [[y, 2 | y], 'a', [y, x, [] | 'a'] | x] == []] }, x == [y]], y == [1, _] }])
+    let q = vars.v[0].clone();
+    let x = vars.v[1].clone();
+    proto_vulcan!([|z, y| { [true, |z| { [_, [x], [x, x, 2]] != z }], z == ([3, []], _) }, { let c__: InferredGoal<DU, DE, Goal<DU, DE>> = proto_vulcan_closure!([|yy| { conde { [x == [yy | _], yy == 1], [x == [_, yy | _], yy == 2] } }, |z, x| { [] == q, z == P3(2, 2, _) }]); let g__: Goal<DU, DE> = ::proto_vulcan::GoalCast::cast_into(c__); let r__: InferredGoal<DU, DE, Goal<DU, DE>> = proto_vulcan!([g__.clone(), g__]); r__ }])
 }
 pub fn case_589(vars: &Vars) -> InferredGoal<DU, DE, Goal<DU, DE>> {
-    let x = vars.v[0].clone();
-    proto_vulcan!(['a' != x, |fresh_name_9| { [conde { [x, [fresh_name_9]] == x, [fresh_name_9 == [true, x, x], [[fresh_name_9, 2 | fresh_name_9], 'a', [fresh_name_9, x, [] | 'a'] | x] == []] }, x == [fresh_name_9]], fresh_name_9 == [1, _] }])
+    let q = vars.v[0].clone();
+    let x = vars.v[1].clone();
+    proto_vulcan!([|z, y| { [true, |z| { [_, [x], [x, x, 2]] != z }], z == ([3, []], _) }, { let c__: InferredGoal<DU, DE, Goal<DU, DE>> = proto_vulcan_closure!([|yy| { conde { [x == [yy | _], yy == 1], [x == [_, yy | _], yy == 2] } }, |z, fresh_name_9| { [] == q, z == P3(2, 2, _) }]); let g__: Goal<DU, DE> = ::proto_vulcan::GoalCast::cast_into(c__); let r__: InferredGoal<DU, DE, Goal<DU, DE>> = proto_vulcan!([g__.clone(), g__]); r__ }])
 }
 pub fn case_590(vars: &Vars) -> InferredGoal<DU, DE, Goal<DU, DE>> {
-    let q = vars.v[0].clone();
-    let x = vars.v[1].clone();
-    proto_vulcan!([|x, y| { |h, x| { |tz| { tz == [1], [3 | tz] != [3, 1] }, match 1 { 'b' => , t => { [x, x, t | h] != x }, }, |y| { 2 == y, append(x, x, []), member(h, [3]) } }, 1 == x, 1 != [[y | q], [q, 2, 1], [1, _]] }, x == [[] | q]])
+    let x = vars.v[0].clone();
+    proto_vulcan!([[conde { [matche x { Named { a: _, b: [y] } | Named { a: y, b: h } => [y == [[2, _], [1 | x], y], append(x, x, [])], [[], [_ | z] | x] | [x, 1, [3]] => 'a' == x, }, [x, x, x] != x], [false, x != x], [|tz| { [1, 1] != [1 | tz], tz == [1] }, [x == [x | x], x == [x, 2, _], x == []]] }, x != [_, [false, _, 1 | x]], matche x { true => , 2 => { match x { [] | [[1, 2, h] | _] => , y => { y == "bc", _ == y }, }, conde { [true, [x | x] == [[1, 1, x], [x, 1]]] } }, _ => , }], match _ { Named { a: [], b: _ } => [match x { _ | _ => [[1], x | x] == x, [[y, z]] | [[y], [3 | _], [h | 'b']] => { (1, []) == y, conde { [], [3 == x, _ != y] } }, }, x == 3], Named { a: [], b: [] } => , }, [[2, x]] == x])
 }
 pub fn case_591(vars: &Vars) -> InferredGoal<DU, DE, Goal<DU, DE>> {
-    let q = vars.v[0].clone();
-    let x = vars.v[1].clone();
-    proto_vulcan!([|x, y| { |h, x| { |tz| { tz == [1], [3 | tz] != [3, 1] }, match 1 { 'b' => , fresh_name_9 => { [x, x, fresh_name_9 | h] != x }, }, |y| { 2 == y, append(x, x, []), member(h, [3]) } }, 1 == x, 1 != [[y | q], [q, 2, 1], [1, _]] }, x == [[] | q]])
+    let x = vars.v[0].clone();
+    proto_vulcan!([[conde { [matche x { Named { a: _, b: [y] } | Named { a: y, b: h } => [y == [[2, _], [1 | x], y], append(x, x, [])], [[], [_ | z] | x] | [x, 1, [3]] => 'a' == x, }, [x, x, x] != x], [false, x != x], [|fresh_name_9| { [1, 1] != [1 | fresh_name_9], fresh_name_9 == [1] }, [x == [x | x], x == [x, 2, _], x == []]] }, x != [_, [false, _, 1 | x]], matche x { true => , 2 => { match x { [] | [[1, 2, h] | _] => , y => { y == "bc", _ == y }, }, conde { [true, [x | x] == [[1, 1, x], [x, 1]]] } }, _ => , }], match _ { Named { a: [], b: _ } => [match x { _ | _ => [[1], x | x] == x, [[y, z]] | [[y], [3 | _], [h | 'b']] => { (1, []) == y, conde { [], [3 == x, _ != y] } }, }, x == 3], Named { a: [], b: [] } => , }, [[2, x]] == x])
 }
 pub fn case_592(vars: &Vars) -> InferredGoal<DU, DE, Goal<DU, DE>> {
-    let x = vars.v[0].clone();
-    proto_vulcan!([matche x { [[3, z, [] | x], t, [2, 'b']] => { match z { 2 | z => x == [x, [2, 1, []], _], }, [t, _, 1] == x }, _ | [[h], t] => { ['b', x] == x, x == _ }, 3 => { conde { conde { |tz| { tz == [3], [1 | tz] != [1, 3] } }, |y| { member(y, [3]) } }, 1 != x }, }, closure { [member(x, [3, 2, 1]), [1, x, []] == x] }])
+    let q = vars.v[0].clone();
+    let x = vars.v[1].clone();
+    proto_vulcan!([[] == q, |h| { x == [h], match q { 1 => [[1], ["a", "bc", q], []] == [true, 2], [true, [_, 1, z | x]] => , Named { a: 1, b: h } => { |x| {  }, false }, }, [] }, |z| { q == 1 }, closure { x == [_] }])
 }
 pub fn case_593(vars: &Vars) -> InferredGoal<DU, DE, Goal<DU, DE>> {
-    let x = vars.v[0].clone();
-    proto_vulcan!([matche x { [[3, z, [] | x], fresh_name_9, [2, 'b']] => { match z { 2 | z => x == [x, [2, 1, []], _], }, [fresh_name_9, _, 1] == x }, _ | [[h], t] => { ['b', x] == x, x == _ }, 3 => { conde { conde { |tz| { tz == [3], [1 | tz] != [1, 3] } }, |y| { member(y, [3]) } }, 1 != x }, }, closure { [member(x, [3, 2, 1]), [1, x, []] == x] }])
+    let q = vars.v[0].clone();
+    let x = vars.v[1].clone();
+    proto_vulcan!([[] == q, |h| { x == [h], match q { 1 => [[1], ["a", "bc", q], []] == [true, 2], [true, [_, 1, z | x]] => , Named { a: 1, b: h } => { |fresh_name_9| {  }, false }, }, [] }, |z| { q == 1 }, closure { x == [_] }])
 }
 pub fn case_594(vars: &Vars) -> InferredGoal<DU, DE, Goal<DU, DE>> {
     let x = vars.v[0].clone();
-    proto_vulcan!([x != [1, x, x], x == [x, x, x], |tz| { [3, 1, 3] != [3 | tz], tz == [1, 3] }])
+    proto_vulcan!([matche x { 2 => [|x, t| { |t| { [_, 'a' | 1] == x, t == [t, 3 | 1], x == ['a'] }, [[x | x]] == x, |y| { _ == x, x != P3([[]], 1, _) } }, (x, 2) == ([2, 1], [_])], 'b' => [[x, [], "bc" | x] == (2, 3), matche x { t | [[3 | z]] => , _ => member(x, [1, 2, 3]), x => { x == [2, 1, _], [2 == [x, x, _]] }, }], 2 => [|h| { [], x == P3([3, h], [[], 1], []), [h == x] }, |h, t| { false, matche h { Named { a: y, b: x } => , }, |z| {  } }], }, x != [x]])
 }
 pub fn case_595(vars: &Vars) -> InferredGoal<DU, DE, Goal<DU, DE>> {
     let x = vars.v[0].clone();
-    proto_vulcan!([x != [1, x, x], x == [x, x, x], |fresh_name_9| { [3, 1, 3] != [3 | fresh_name_9], fresh_name_9 == [1, 3] }])
+    proto_vulcan!([matche x { 2 => [|fresh_name_9, t| { |t| { [_, 'a' | 1] == fresh_name_9, t == [t, 3 | 1], fresh_name_9 == ['a'] }, [[fresh_name_9 | fresh_name_9]] == fresh_name_9, |y| { _ == fresh_name_9, fresh_name_9 != P3([[]], 1, _) } }, (x, 2) == ([2, 1], [_])], 'b' => [[x, [], "bc" | x] == (2, 3), matche x { t | [[3 | z]] => , _ => member(x, [1, 2, 3]), x => { x == [2, 1, _], [2 == [x, x, _]] }, }], 2 => [|h| { [], x == P3([3, h], [[], 1], []), [h == x] }, |h, t| { false, matche h { Named { a: y, b: x } => , }, |z| {  } }], }, x != [x]])
 }
 pub fn case_596(vars: &Vars) -> InferredGoal<DU, DE, Goal<DU, DE>> {
-    let x = vars.v[0].clone();
-    proto_vulcan!([|h, y| { [_, x] == y }, [[[], x, x] | x] == [_, 2, x]])
+    let q = vars.v[0].clone();
+    let x = vars.v[1].clone();
+    proto_vulcan!([|tz| { [3, 2 | tz] != [3, 2, 3, 3], tz == [3, 3] }, ([[]], [1]) == q, closure { [1, q, x] == 2 }])
 }
 pub fn case_597(vars: &Vars) -> InferredGoal<DU, DE, Goal<DU, DE>> {
-    let x = vars.v[0].clone();
-    proto_vulcan!([|h, fresh_name_9| { [_, x] == fresh_name_9 }, [[[], x, x] | x] == [_, 2, x]])
+    let q = vars.v[0].clone();
+    let x = vars.v[1].clone();
+    proto_vulcan!([|fresh_name_9| { [3, 2 | fresh_name_9] != [3, 2, 3, 3], fresh_name_9 == [3, 3] }, ([[]], [1]) == q, closure { [1, q, x] == 2 }])
 }
 pub fn case_598(vars: &Vars) -> InferredGoal<DU, DE, Goal<DU, DE>> {
     let x = vars.v[0].clone();
-    let y = vars.v[1].clone();
-    proto_vulcan!([|h| { [[2, 1, _ | h], x, 2] != x, |tz| { [3, 1 | tz] != [3, 1, 3], tz == [3] } }, true, match [[], [] | x] { [[z, h], h, 1] => { match y { 1 => { [[y, h | x] == x, z == y, x == [h, 'b' | x]] }, _ | [t] => , _ => [h == 7, h == 8], } }, 2 => { conde { 'b' != y }, match x { [2] => , } }, [[h, [], []], [x, 1, "a" | h]] => { _ == x, append(x, x, [1]) }, }])
+    proto_vulcan!([[[], ["a", "bc", _], [x, [], []]] != x, |z, x| { matche [1 | x] { "bc" => { |z, x| { false, z == [1 | z] }, match x { [[y, 3, x], ['b', y, []] | y] => , } }, z | _ => { |t, y| { P3(x, _, x) == t, x != x } }, } }, _ == [x]])
 }
 pub fn case_599(vars: &Vars) -> InferredGoal<DU, DE, Goal<DU, DE>> {
     let x = vars.v[0].clone();
-    let y = vars.v[1].clone();
-    proto_vulcan!([|h| { [[2, 1, _ | h], x, 2] != x, |tz| { [3, 1 | tz] != [3, 1, 3], tz == [3] } }, true, match [[], [] | x] { [[z, h], h, 1] => { match y { 1 => { [[y, h | x] == x, z == y, x == [h, 'b' | x]] }, _ | [t] => , _ => [h == 7, h == 8], } }, 2 => { conde { 'b' != y }, match x { [2] => , } }, [[fresh_name_9, [], []], [x, 1, "a" | fresh_name_9]] => { _ == x, append(x, x, [1]) }, }])
+    proto_vulcan!([[[], ["a", "bc", _], [x, [], []]] != x, |z, x| { matche [1 | x] { "bc" => { |z, x| { false, z == [1 | z] }, match x { [[y, 3, fresh_name_9], ['b', y, []] | y] => , } }, z | _ => { |t, y| { P3(x, _, x) == t, x != x } }, } }, _ == [x]])
 }
 pub fn case_600(vars: &Vars) -> InferredGoal<DU, DE, Goal<DU, DE>> {
-    let q = vars.v[0].clone();
-    let x = vars.v[1].clone();
-    proto_vulcan!([|t, z| { t == [] }, [3 | 2] != x])
+    let x = vars.v[0].clone();
+    let y = vars.v[1].clone();
+    proto_vulcan!([|z, h| { [matche h { x => , [y, [2, 3, y] | t] | h => [member(z, [1, 2]), [_, x] == z], }, |tz| { [3, 2 | tz] != [3, 2, 3], tz == [3] }], z == z }, [] == x, |y, t| { matche x { [[t] | h] => , P3(z, _, z) => { conde { [true, [1] != z], [(3, [z]) != x, true] }, match x { "bc" => , } }, _ => , } }, closure { |h, x| { x == [[]], [[1], x | _] == 2, false } }])
 }
 pub fn case_601(vars: &Vars) -> InferredGoal<DU, DE, Goal<DU, DE>> {
-    let q = vars.v[0].clone();
-    let x = vars.v[1].clone();
-    proto_vulcan!([|t, fresh_name_9| { t == [] }, [3 | 2] != x])
+    let x = vars.v[0].clone();
+    let y = vars.v[1].clone();
+    proto_vulcan!([|z, h| { [matche h { x => , [y, [2, 3, y] | t] | h => [member(z, [1, 2]), [_, x] == z], }, |tz| { [3, 2 | tz] != [3, 2, 3], tz == [3] }], z == z }, [] == x, |y, t| { matche x { [[t] | h] => , P3(fresh_name_9, _, fresh_name_9) => { conde { [true, [1] != fresh_name_9], [(3, [fresh_name_9]) != x, true] }, match x { "bc" => , } }, _ => , } }, closure { |h, x| { x == [[]], [[1], x | _] == 2, false } }])
 }
 pub fn case_602(vars: &Vars) -> InferredGoal<DU, DE, Goal<DU, DE>> {
-    let q = vars.v[0].clone();
-    let x = vars.v[1].clone();
-    proto_vulcan!([true, closure { [[matche q { [[2], 1] | [[], [[], 3, h], [_, y, [] | t]] => [true, [q, [[], _, x]] == x], [["a", 1, 1], [], 'b'] | _ => { q == x }, }, matche 1 { [3 | _] => [[x, x | q] == x, true], }], match [_] { h => { member(x, [2]), h != x }, [[h, 'a'], [h, z | y] | 1] | [[y, t]] => { [x, y] == q, [[1, 3]] == x }, }] }])
+    let x = vars.v[0].clone();
+    proto_vulcan!([conde { [], [x == 2, [x] == x], true }, P3([], [], 2) == x, { let c__: InferredGoal<DU, DE, Goal<DU, DE>> = proto_vulcan_closure!(|yy| { conde { [x == [yy | _], yy == 1], [x == [_, yy | _], yy == 2] } }); let g__: Goal<DU, DE> = ::proto_vulcan::GoalCast::cast_into(c__); let r__: InferredGoal<DU, DE, Goal<DU, DE>> = proto_vulcan!([g__.clone(), g__]); r__ }])
 }
 pub fn case_603(vars: &Vars) -> InferredGoal<DU, DE, Goal<DU, DE>> {
-    let q = vars.v[0].clone();
-    let x = vars.v[1].clone();
-    proto_vulcan!([true, closure { [[matche q { [[2], 1] | [[], [[], 3, h], [_, y, [] | t]] => [true, [q, [[], _, x]] == x], [["a", 1, 1], [], 'b'] | _ => { q == x }, }, matche 1 { [3 | _] => [[x, x | q] == x, true], }], match [_] { fresh_name_9 => { member(x, [2]), fresh_name_9 != x }, [[h, 'a'], [h, z | y] | 1] | [[y, t]] => { [x, y] == q, [[1, 3]] == x }, }] }])
+    let x = vars.v[0].clone();
+    proto_vulcan!([conde { [], [x == 2, [x] == x], true }, P3([], [], 2) == x, { let c__: InferredGoal<DU, DE, Goal<DU, DE>> = proto_vulcan_closure!(|fresh_name_9| { conde { [x == [fresh_name_9 | _], fresh_name_9 == 1], [x == [_, fresh_name_9 | _], fresh_name_9 == 2] } }); let g__: Goal<DU, DE> = ::proto_vulcan::GoalCast::cast_into(c__); let r__: InferredGoal<DU, DE, Goal<DU, DE>> = proto_vulcan!([g__.clone(), g__]); r__ }])
 }
 pub fn case_604(vars: &Vars) -> InferredGoal<DU, DE, Goal<DU, DE>> {
-    let q = vars.v[0].clone();
-    let x = vars.v[1].clone();
-    proto_vulcan!([[[match q { _ => [|tz| { [1, 3 | tz] != [1, 3, 2, 3], tz == [2, 3] }, [true | q] == [_]], }], q == q]])
+    let x = vars.v[0].clone();
+    let y = vars.v[1].clone();
+    proto_vulcan!([|h| { [[y == [2 | h], true != y]], |h| {  }, matche y { _ => [h == 7, h == 8], } }])
 }
 pub fn case_605(vars: &Vars) -> InferredGoal<DU, DE, Goal<DU, DE>> {
-    let q = vars.v[0].clone();
-    let x = vars.v[1].clone();
-    proto_vulcan!([[[match q { _ => [|fresh_name_9| { [1, 3 | fresh_name_9] != [1, 3, 2, 3], fresh_name_9 == [2, 3] }, [true | q] == [_]], }], q == q]])
+    let x = vars.v[0].clone();
+    let y = vars.v[1].clone();
+    proto_vulcan!([|h| { [[y == [2 | h], true != y]], |fresh_name_9| {  }, matche y { _ => [h == 7, h == 8], } }])
 }
 pub fn case_606(vars: &Vars) -> InferredGoal<DU, DE, Goal<DU, DE>> {
     let x = vars.v[0].clone();
-    proto_vulcan!([|t| { |t| { |x| {  } }, [_, 3] == t, |h, x| { ['b', [_, _, t]] == 2 } }, |y| {  }, closure { [x, 1 | x] == x }])
+    proto_vulcan!([matche "bc" { P3([], h, x) => , [] | _ => { matche x { [[], t] => , [2, [1 | y]] | _ => { match x { [[1, 3 | _], [], [z, _]] | Named { a: 3, b: 3 } => { x != [x, x | 1], x != [[2], [x, x, x]] }, Named { a: _, b: [_, t] } => { [[x], 1] == x, member(t, [2, 3]) }, }, [[x, 2 | x]] != [[x], [x, 3]] }, }, match [x, [] | x] { [t, [x, h] | y] => , [] => { conde { P3(x, 3, [[], 2]) == x, x == [["bc"], [x, x]] } }, } }, }, [x == x, |z| { x == [3, "bc", z | z], append(x, z, [1, 1]), member(x, [3, 3]) }, [|z, h| { _ == [[3, z], 2, [[], "bc"]] }, x == P3(2, 3, 2)]], [2 == x]])
 }
 pub fn case_607(vars: &Vars) -> InferredGoal<DU, DE, Goal<DU, DE>> {
     let x = vars.v[0].clone();
-    proto_vulcan!([|t| { |fresh_name_9| { |x| {  } }, [_, 3] == t, |h, x| { ['b', [_, _, t]] == 2 } }, |y| {  }, closure { [x, 1 | x] == x }])
+    proto_vulcan!([matche "bc" { P3([], h, x) => , [] | _ => { matche x { [[], t] => , [2, [1 | y]] | _ => { match x { [[1, 3 | _], [], [z, _]] | Named { a: 3, b: 3 } => { x != [x, x | 1], x != [[2], [x, x, x]] }, Named { a: _, b: [_, t] } => { [[x], 1] == x, member(t, [2, 3]) }, }, [[x, 2 | x]] != [[x], [x, 3]] }, }, match [x, [] | x] { [t, [x, h] | y] => , [] => { conde { P3(x, 3, [[], 2]) == x, x == [["bc"], [x, x]] } }, } }, }, [x == x, |z| { x == [3, "bc", z | z], append(x, z, [1, 1]), member(x, [3, 3]) }, [|z, fresh_name_9| { _ == [[3, z], 2, [[], "bc"]] }, x == P3(2, 3, 2)]], [2 == x]])
 }
 pub fn case_608(vars: &Vars) -> InferredGoal<DU, DE, Goal<DU, DE>> {
     let x = vars.v[0].clone();
-    let y = vars.v[1].clone();
-    proto_vulcan!([|x| { conde { [[|tz| { tz == [1], [2, 1, 1] != [2, 1 | tz] }, 1 != x, |tz| { [3 | tz] != [3, 3, 2], tz == [3, 2] }], matche y { 1 => [[2, 1, x | 2] == y, |tz| { [1 | tz] != [1, 1, 2], tz == [1, 2] }], _ | t => { [x] == y, [[x], [[] | false], [x, 2, 2] | y] == y }, 2 => , }], [match y { _ | _ => { y == 7, y == 8 }, [[[], t, h], x, [] | _] => { _ == y }, [y, 2, [3, 3] | y] => [|tz| { tz == [3, 2], [2, 1, 3, 2] != [2, 1 | tz] }, x == [[], 3, []]], }, matche x { [[_]] | _ => , }], [[x, 1, []] == y, x == [2, []]] } }, |y| { conde { [], y == 3, [conde { y != x, [2 == [x, _ | x], y == [y]] }, |y, x| { y == [_, [2, 'b' | y] | x] }] }, true, |z| { |tz| { [2, 3, 2] != [2 | tz], tz == [3, 2] }, z == [2, x | y] } }, |tz| { [1, 2 | tz] != [1, 2, 3], tz == [3] }])
+    proto_vulcan!([|h, t| { (t, _) == h }, conde { [([x, x], _) != x, x != [1, 2, 3 | 'b']], [] }, closure { conde { [x] == x, 2 == [2, x], [|y| { member(y, [3, 2]), true }, true] } }])
 }
 pub fn case_609(vars: &Vars) -> InferredGoal<DU, DE, Goal<DU, DE>> {
     let x = vars.v[0].clone();
-    let y = vars.v[1].clone();
-    proto_vulcan!([|x| { conde { [[|tz| { tz == [1], [2, 1, 1] != [2, 1 | tz] }, 1 != x, |tz| { [3 | tz] != [3, 3, 2], tz == [3, 2] }], matche y { 1 => [[2, 1, x | 2] == y, |tz| { [1 | tz] != [1, 1, 2], tz == [1, 2] }], _ | t => { [x] == y, [[x], [[] | false], [x, 2, 2] | y] == y }, 2 => , }], [match y { _ | _ => { y == 7, y == 8 }, [[[], t, h], x, [] | _] => { _ == y }, [y, 2, [3, 3] | y] => [|tz| { tz == [3, 2], [2, 1, 3, 2] != [2, 1 | tz] }, x == [[], 3, []]], }, matche x { [[_]] | _ => , }], [[x, 1, []] == y, x == [2, []]] } }, |y| { conde { [], y == 3, [conde { y != x, [2 == [x, _ | x], y == [y]] }, |y, x| { y == [_, [2, 'b' | y] | x] }] }, true, |fresh_name_9| { |tz| { [2, 3, 2] != [2 | tz], tz == [3, 2] }, fresh_name_9 == [2, x | y] } }, |tz| { [1, 2 | tz] != [1, 2, 3], tz == [3] }])
+    proto_vulcan!([|fresh_name_9, t| { (t, _) == fresh_name_9 }, conde { [([x, x], _) != x, x != [1, 2, 3 | 'b']], [] }, closure { conde { [x] == x, 2 == [2, x], [|y| { member(y, [3, 2]), true }, true] } }])
 }
 pub fn case_610(vars: &Vars) -> InferredGoal<DU, DE, Goal<DU, DE>> {
     let x = vars.v[0].clone();
-    let y = vars.v[1].clone();
-    proto_vulcan!([|y| { [], append(y, x, [1, 1]) }, |y, t| { |y| { y != [], conde { [y != _, 1 != x] }, match t { [1, y, h | _] => { true }, } } }])
+    proto_vulcan!([[3] == x, match x { [["a"], 3, [y, y]] => { member(x, [2, 3]), P3([2, _], y, y) != x }, [t, t, h] => [[t, ['a' | t]] == (1, t), |tz| { [1, 1, 1, 3] != [1, 1 | tz], tz == [1, 3] }], }, |tz| { [1, 2 | tz] != [1, 2, 3, 1], tz == [3, 1] }])
 }
 pub fn case_611(vars: &Vars) -> InferredGoal<DU, DE, Goal<DU, DE>> {
     let x = vars.v[0].clone();
-    let y = vars.v[1].clone();
-    proto_vulcan!([|y| { [], append(y, x, [1, 1]) }, |y, t| { |fresh_name_9| { fresh_name_9 != [], conde { [fresh_name_9 != _, 1 != x] }, match t { [1, y, h | _] => { true }, } } }])
+    proto_vulcan!([[3] == x, match x { [["a"], 3, [y, y]] => { member(x, [2, 3]), P3([2, _], y, y) != x }, [t, t, h] => [[t, ['a' | t]] == (1, t), |fresh_name_9| { [1, 1, 1, 3] != [1, 1 | fresh_name_9], fresh_name_9 == [1, 3] }], }, |tz| { [1, 2 | tz] != [1, 2, 3, 1], tz == [3, 1] }])
 }
 pub fn case_612(vars: &Vars) -> InferredGoal<DU, DE, Goal<DU, DE>> {
     let x = vars.v[0].clone();
-    proto_vulcan!([[] == x, |y| { y == _ }, closure { [x == x, [1, [], []] == x] }])
+    proto_vulcan!([member(x, [1, 1]), 2 != [2], [|tz| { [1, 3 | tz] != [1, 3, 2, 2], tz == [2, 2] }, [x, x | x] == x]])
 }
 pub fn case_613(vars: &Vars) -> InferredGoal<DU, DE, Goal<DU, DE>> {
     let x = vars.v[0].clone();
-    proto_vulcan!([[] == x, |fresh_name_9| { fresh_name_9 == _ }, closure { [x == x, [1, [], []] == x] }])
+    proto_vulcan!([member(x, [1, 1]), 2 != [2], [|fresh_name_9| { [1, 3 | fresh_name_9] != [1, 3, 2, 2], fresh_name_9 == [2, 2] }, [x, x | x] == x]])
 }
 pub fn case_614(vars: &Vars) -> InferredGoal<DU, DE, Goal<DU, DE>> {
     let x = vars.v[0].clone();
     let y = vars.v[1].clone();
-    proto_vulcan!([conde { conde { [x == y, x != _], y != [y, 3], [y == [3, 3, []], 2 == x] }, [], [[2, y] != [[y], x], |y| { y != y, y == y }] }, closure { x != 3 }])
+    proto_vulcan!([|x| { match [x, 1, "bc"] { P3([3, []], _, [_]) | _ => { [|tz| { tz == [1], [1, 1 | tz] != [1, 1, 1] }] }, }, conde { |z| { append(x, x, [2]) }, [true, [] == x] } }])
 }
 pub fn case_615(vars: &Vars) -> InferredGoal<DU, DE, Goal<DU, DE>> {
     let x = vars.v[0].clone();
     let y = vars.v[1].clone();
-    proto_vulcan!([conde { conde { [x == y, x != _], y != [y, 3], [y == [3, 3, []], 2 == x] }, [], [[2, y] != [[y], x], |fresh_name_9| { fresh_name_9 != fresh_name_9, fresh_name_9 == fresh_name_9 }] }, closure { x != 3 }])
+    proto_vulcan!([|x| { match [x, 1, "bc"] { P3([3, []], _, [_]) | _ => { [|fresh_name_9| { fresh_name_9 == [1], [1, 1 | fresh_name_9] != [1, 1, 1] }] }, }, conde { |z| { append(x, x, [2]) }, [true, [] == x] } }])
 }
-pub const NCASES: usize = 616;
+pub fn case_616(vars: &Vars) -> InferredGoal<DU, DE, Goal<DU, DE>> {
+    let x = vars.v[0].clone();
+    proto_vulcan!([[], |h, t| { conde { append(x, t, [3]) }, _ == h, P3([[]], 3, 3) != x }])
+}
+pub fn case_617(vars: &Vars) -> InferredGoal<DU, DE, Goal<DU, DE>> {
+    let x = vars.v[0].clone();
+    proto_vulcan!([[], |h, fresh_name_9| { conde { append(x, fresh_name_9, [3]) }, _ == h, P3([[]], 3, 3) != x }])
+}
+pub const NCASES: usize = 618;
 pub fn case(i: usize, vars: &Vars) -> Goal<DU, DE> {
     match i {
         0 => case_0(vars).goal,
@@ -3684,6 +3671,8 @@ pub fn case(i: usize, vars: &Vars) -> Goal<DU, DE> {
         613 => case_613(vars).goal,
         614 => case_614(vars).goal,
         615 => case_615(vars).goal,
+        616 => case_616(vars).goal,
+        617 => case_617(vars).goal,
         _ => unreachable!(),
     }
 }
